@@ -18,6 +18,7 @@ Qed.
 Lemma is_nl_nlc : is_nl nlc = true.
 Proof. reflexivity. Qed.
 
+
 Definition no_nl (l : list ch) : Prop := forall c, In c l -> is_nl c = false.
 
 Lemma split_nonempty : forall l, split_nl l <> [].
@@ -89,37 +90,12 @@ Proof.
       intros d [Hd|Hd]; [subst; exact E|apply Hh; exact Hd].
 Qed.
 
-(* a rule that rewrites every line on its own *)
-Definition per_line (f : list ch -> list ch) (t : list ch) : list ch := join_nl (map f (split_nl t)).
-
 Lemma map_ne : forall {A B} (f : A -> B) l, l <> [] -> map f l <> [].
 Proof. intros A B f [|x l] H; [contradiction|discriminate]. Qed.
 
-Lemma Forall_map_keep : forall (f : list ch -> list ch) ls,
-  (forall l, no_nl l -> no_nl (f l)) -> Forall no_nl ls -> Forall no_nl (map f ls).
-Proof.
-  intros f ls Hf H. induction H; cbn; constructor; auto.
-Qed.
-
-Lemma split_per_line : forall f t, (forall l, no_nl l -> no_nl (f l)) ->
-  split_nl (per_line f t) = map f (split_nl t).
-Proof.
-  intros f t Hf. unfold per_line. apply split_join.
-  - apply map_ne. apply split_nonempty.
-  - apply Forall_map_keep; [exact Hf|apply split_no_nl].
-Qed.
-
-Lemma per_line_idem : forall f, (forall l, no_nl l -> no_nl (f l)) -> (forall l, no_nl l -> f (f l) = f l) ->
-  forall t, per_line f (per_line f t) = per_line f t.
-Proof.
-  intros f Hk Hi t. unfold per_line at 1. rewrite split_per_line by exact Hk.
-  unfold per_line. f_equal. rewrite map_map.
-  pose proof (split_no_nl t) as H. induction H as [|x r Hx Hr IH]; cbn; [reflexivity|].
-  rewrite Hi by exact Hx. f_equal. exact IH.
-Qed.
 
 (* ------------------------------------------------------------------------------------------------ *)
-(* trimming *)
+(* trimming and list facts *)
 
 Lemma trim_r_nil_iff : forall {A} (p : A -> bool) l, trim_r p l = [] <-> forallb p l = true.
 Proof.
@@ -165,25 +141,6 @@ Proof.
   intros A p. induction l as [|c t IH]; [reflexivity|]. cbn [take_l trim_l].
   destruct (p c); [cbn; f_equal; exact IH|reflexivity].
 Qed.
-
-(* ------------------------------------------------------------------------------------------------ *)
-(* L001 *)
-
-Lemma l001_fix_per_line : forall t, l001_fix t = per_line l001_fix_line t.
-Proof. reflexivity. Qed.
-
-Lemma l001_line_keeps : forall l, no_nl l -> no_nl (l001_fix_line l).
-Proof. intros l H c Hc. apply H. apply (trim_r_incl is_blank). exact Hc. Qed.
-
-Lemma l001_fix_idempotent : forall t, l001_fix (l001_fix t) = l001_fix t.
-Proof.
-  intro t. rewrite !l001_fix_per_line. apply per_line_idem.
-  - exact l001_line_keeps.
-  - intros l _. apply trim_r_idem.
-Qed.
-
-(* ------------------------------------------------------------------------------------------------ *)
-(* more list facts *)
 
 Lemma take_l_all : forall {A} (p : A -> bool) l, forallb p (take_l p l) = true.
 Proof.
@@ -233,9 +190,6 @@ Proof.
   apply trim_l_stop. eapply trim_l_head. exact E.
 Qed.
 
-Lemma forallb_app2 : forall {A} (p : A -> bool) a b, forallb p (a ++ b) = forallb p a && forallb p b.
-Proof. intros. apply forallb_app. Qed.
-
 Lemma forallb_flat_map : forall {A B} (p : B -> bool) (f : A -> list B) l,
   (forall x, In x l -> forallb p (f x) = true) -> forallb p (flat_map f l) = true.
 Proof.
@@ -243,208 +197,1015 @@ Proof.
   rewrite H by (left; reflexivity). apply IH. intros x Hx. apply H. right. exact Hx.
 Qed.
 
+Lemma trim_r_cons : forall {A} (p : A -> bool) c t,
+  trim_r p (c :: t) = match trim_r p t with [] => if p c then [] else [c] | t' => c :: t' end.
+Proof. reflexivity. Qed.
+
+Lemma trim_r_split : forall {A} (p : A -> bool) l, exists b, l = trim_r p l ++ b /\ forallb p b = true.
+Proof.
+  intros A p. induction l as [|c t (b & E & Hb)].
+  - exists []. split; reflexivity.
+  - rewrite trim_r_cons. destruct (trim_r p t) as [|a r] eqn:Et.
+    + destruct (p c) eqn:Ec.
+      * exists (c :: t). split; [reflexivity|]. cbn. rewrite Ec. cbn in E. subst. exact Hb.
+      * exists b. split; [cbn in *; rewrite <- E; reflexivity|exact Hb].
+    + exists b. split; [rewrite E at 1; reflexivity|exact Hb].
+Qed.
+
+Lemma split_incl : forall t l c, In l (split_nl t) -> In c l -> In c t.
+Proof.
+  induction t as [|d t IH]; intros l c Hl Hc.
+  - cbn in Hl. destruct Hl as [Hl|[]]. subst. destruct Hc.
+  - destruct (is_nl d) eqn:E.
+    + cbn [split_nl] in Hl. rewrite E in Hl. destruct Hl as [Hl|Hl]; [subst; destruct Hc|right; eapply IH; eassumption].
+    + destruct (split_cons_other d t E) as (h & r & E1 & E2). rewrite E2 in Hl. destruct Hl as [Hl|Hl].
+      * subst. destruct Hc as [Hc|Hc]; [left; exact Hc|right]. eapply IH; [rewrite E1; left; reflexivity|exact Hc].
+      * right. eapply IH; [rewrite E1; right; exact Hl|exact Hc].
+Qed.
+
+Lemma lastc_cons : forall {A} (c : A) t, t <> [] -> lastc (c :: t) = lastc t.
+Proof. intros A c [|d t] H; [contradiction|reflexivity]. Qed.
+
+Lemma lastc_app : forall {A} (a b : list A), b <> [] -> lastc (a ++ b) = lastc b.
+Proof.
+  intros A. induction a as [|c a IH]; intros b H; [reflexivity|].
+  change ((c :: a) ++ b) with (c :: (a ++ b)). rewrite lastc_cons; [apply IH; exact H|].
+  destruct a; [exact H|discriminate].
+Qed.
+
+Lemma lastc_trim_r : forall {A} (p : A -> bool) l c, lastc (trim_r p l) = Some c -> p c = false.
+Proof.
+  intros A p. induction l as [|d t IH]; intros c H; [discriminate|].
+  cbn [trim_r] in H. destruct (trim_r p t) as [|e t'] eqn:E.
+  - destruct (p d) eqn:Ed; [discriminate|]. inversion H; subst. exact Ed.
+  - rewrite lastc_cons in H by discriminate. apply IH. exact H.
+Qed.
+
+Lemma lastc_in : forall {A} (l : list A) c, lastc l = Some c -> In c l.
+Proof.
+  intros A. induction l as [|d [|e t] IH]; intros c H; [discriminate|inversion H; left; reflexivity|].
+  right. apply IH. exact H.
+Qed.
+
+Lemma lastc_none : forall {A} (l : list A), lastc l = None -> l = [].
+Proof.
+  intros A. induction l as [|c t IH]; intro H; [reflexivity|]. destruct t as [|d t]; [discriminate|].
+  rewrite lastc_cons in H by discriminate. apply IH in H. discriminate.
+Qed.
+
+Lemma blen_cons : forall c t, blen (c :: t) = (width c + blen t)%nat.
+Proof. reflexivity. Qed.
+
+Lemma blen_app : forall a b, blen (a ++ b) = (blen a + blen b)%nat.
+Proof. induction a as [|c a IH]; intro b; [reflexivity|]. cbn [app]. rewrite !blen_cons, IH. lia. Qed.
+
+Lemma assoc_in : forall m x v, assoc m x = Some v -> In (x, v) m.
+Proof.
+  induction m as [|[k w] m IH]; intros x v H; [discriminate|]. cbn [assoc] in H.
+  destruct (k =? x) eqn:E; [apply N.eqb_eq in E; inversion H; subst; left; reflexivity|right; apply IH; exact H].
+Qed.
+
+Lemma forallb_firstn : forall {A} (p : A -> bool) l n, forallb p l = true -> forallb p (firstn n l) = true.
+Proof.
+  intros A p. induction l as [|x l IH]; intros n H; [destruct n; reflexivity|]. destruct n as [|n]; [reflexivity|].
+  cbn in *. apply andb_prop in H. destruct H as [H1 H2]. rewrite H1. cbn. apply IH. exact H2.
+Qed.
+
+Lemma firstn_app_le : forall {A} (a b : list A) n, (n <= length a)%nat -> firstn n (a ++ b) = firstn n a.
+Proof. intros A a b n H. rewrite firstn_app. replace (n - length a)%nat with 0%nat by lia. cbn [firstn]. apply app_nil_r. Qed.
+
+
+Lemma lastc_some_in : forall {A} (l : list A), l <> [] -> exists x, lastc l = Some x.
+Proof.
+  intros A. induction l as [|c t IH]; intro H; [contradiction|]. destruct t as [|d t]; [exists c; reflexivity|].
+  rewrite lastc_cons by discriminate. apply IH. discriminate.
+Qed.
+
+(* ------------------------------------------------------------------------------------------------ *)
+(* the lexical scanner *)
+
+(* the scanner looks one character ahead only to see a second '-', a '*' or a '/' *)
+Definition la_eq (nx nx' : list ch) : Prop :=
+  next_is 45 nx = next_is 45 nx' /\ next_is 42 nx = next_is 42 nx' /\ next_is 47 nx = next_is 47 nx'.
+Definition lan (c : ch) : bool := negb (cp c =? 45) && negb (cp c =? 42) && negb (cp c =? 47).
+
+Lemma la_eq_refl : forall nx, la_eq nx nx.
+Proof. intro nx. repeat split. Qed.
+
+Lemma lstep_nx : forall st c nx nx', la_eq nx nx' -> lstep st c nx = lstep st c nx'.
+Proof.
+  intros st c nx nx' (H1 & H2 & H3). destruct st; cbn [lstep]; rewrite ?H1, ?H2, ?H3; reflexivity.
+Qed.
+
+Lemma la_neutral : forall c r, lan c = true -> la_eq (c :: r) [].
+Proof.
+  intros c r H. unfold lan in H. apply andb_prop in H. destruct H as [H H3]. apply andb_prop in H. destruct H as [H1 H2].
+  apply negb_true_iff in H1. apply negb_true_iff in H2. apply negb_true_iff in H3.
+  unfold la_eq. cbn [next_is]. rewrite H1, H2, H3. repeat split.
+Qed.
+
+Definition hd_neutral (b : list ch) : bool := match b with c :: _ => lan c | [] => true end.
+
+Lemma la_app : forall t b, hd_neutral b = true -> la_eq (t ++ b) t.
+Proof.
+  intros [|d t] b H; cbn [app].
+  - destruct b as [|c b]; [apply la_eq_refl|]. apply la_neutral. exact H.
+  - repeat split.
+Qed.
+
+Lemma lex_app : forall a st b, hd_neutral b = true ->
+  lex st (a ++ b) = lex st a ++ lex (lex_end st a) b /\ lex_end st (a ++ b) = lex_end (lex_end st a) b.
+Proof.
+  induction a as [|c t IH]; intros st b H; [split; reflexivity|].
+  cbn [app lex lex_end]. rewrite (lstep_nx st c (t ++ b) t (la_app t b H)).
+  destruct (IH (snd (lstep st c t)) b H) as [E1 E2]. rewrite E1, E2. split; reflexivity.
+Qed.
+
+Lemma lex_length : forall l st, length (lex st l) = length l.
+Proof. induction l as [|c t IH]; intro st; [reflexivity|]. cbn [lex length]. rewrite IH. reflexivity. Qed.
+
+(* the line break *)
+Definition nl_step (st : lst) : N * lst := lstep st nlc [].
+Lemma lstep_nlc : forall st nx, lstep st nlc nx = nl_step st.
+Proof. intros st nx. unfold nl_step. destruct st; reflexivity. Qed.
+Lemma lan_nlc : lan nlc = true. Proof. reflexivity. Qed.
+
+Lemma lex_app_nl : forall l st r,
+  lex st (l ++ nlc :: r) = lex st l ++ fst (nl_step (lex_end st l)) :: lex (snd (nl_step (lex_end st l))) r /\
+  lex_end st (l ++ nlc :: r) = lex_end (snd (nl_step (lex_end st l))) r.
+Proof.
+  intros l st r. destruct (lex_app l st (nlc :: r) lan_nlc) as [E1 E2]. rewrite E1, E2.
+  cbn [lex lex_end]. rewrite lstep_nlc. split; reflexivity.
+Qed.
+
+(* after a line break of class code the scanner is in code *)
+Lemma nl_step_code : forall st, (fst (nl_step st) =? 0) = true -> snd (nl_step st) = SCode.
+Proof. intros st H. destruct st; cbn in *; try discriminate; reflexivity. Qed.
+
+(* characters that are neither delimiters nor the line break *)
+Lemma nq_other : forall n, (n =? 8216) = false -> (n =? 8217) = false -> (n =? 171) = false -> (n =? 187) = false ->
+  (n =? 8220) = false -> (n =? 8221) = false -> nq n = n.
+Proof. intros n H1 H2 H3 H4 H5 H6. unfold nq. rewrite H1, H2, H3, H4, H5, H6. reflexivity. Qed.
+
+(* white space characters are not delimiters of the scanner *)
+Definition sp_ok (is_space : N -> bool) : Prop :=
+  is_space 39 = false /\ is_space 34 = false /\ is_space 96 = false /\
+  is_space 45 = false /\ is_space 42 = false /\ is_space 47 = false /\
+  is_space 8216 = false /\ is_space 8217 = false /\ is_space 171 = false /\ is_space 187 = false /\
+  is_space 8220 = false /\ is_space 8221 = false.
+
+Definition plainc (c : ch) : bool := negb (is_quote c) && lan c && negb (is_nl c).
+
+Lemma plainc_spec : forall c, plainc c = true ->
+  is_quote c = false /\ (cp c =? 45) = false /\ (cp c =? 42) = false /\ (cp c =? 47) = false /\ is_nl c = false.
+Proof.
+  intros c H. unfold plainc, lan in H. apply andb_prop in H. destruct H as [H H5]. apply andb_prop in H. destruct H as [H1 H].
+  apply andb_prop in H. destruct H as [H H4]. apply andb_prop in H. destruct H as [H2 H3].
+  repeat split; apply negb_true_iff; assumption.
+Qed.
+
+Lemma lstep_plain_code : forall c nx, plainc c = true -> lstep SCode c nx = (0, SCode).
+Proof.
+  intros c nx H. destruct (plainc_spec c H) as (Q & A & _ & B & _). cbn [lstep]. rewrite Q, A, B. reflexivity.
+Qed.
+Lemma lstep_plain_line : forall c nx, plainc c = true -> lstep SLine c nx = (3, SLine).
+Proof.
+  intros c nx H. unfold plainc in H. apply andb_prop in H. destruct H as [_ H]. apply negb_true_iff in H.
+  cbn [lstep]. rewrite H. reflexivity.
+Qed.
+
+(* a character of class 0 (other than the line break) is read in code and leaves the scanner in code;
+   a character of class 3 that is not a '-' is read inside a line comment *)
+Lemma lstep_class0 : forall st c nx, is_nl c = false -> fst (lstep st c nx) = 0 -> st = SCode /\ snd (lstep st c nx) = SCode.
+Proof.
+  intros st c nx Hn H. destruct st; cbn [lstep] in *.
+  - destruct (is_quote c); [discriminate|]. destruct ((cp c =? 45) && next_is 45 nx); [discriminate|].
+    destruct ((cp c =? 47) && next_is 42 nx); [discriminate|]. split; reflexivity.
+  - discriminate.
+  - rewrite Hn in H. discriminate.
+  - discriminate.
+  - destruct ((cp c =? 42) && next_is 47 nx); discriminate.
+  - discriminate.
+Qed.
+Lemma lstep_class3 : forall st c nx, (cp c =? 45) = false -> fst (lstep st c nx) = 3 -> st = SLine /\ snd (lstep st c nx) = SLine.
+Proof.
+  intros st c nx Hd H. destruct st; cbn [lstep] in *.
+  - destruct (is_quote c); [discriminate|]. rewrite Hd in H. cbn [andb] in H.
+    destruct ((cp c =? 47) && next_is 42 nx); discriminate.
+  - discriminate.
+  - destruct (is_nl c); [discriminate|]. split; reflexivity.
+  - discriminate.
+  - destruct ((cp c =? 42) && next_is 47 nx); discriminate.
+  - discriminate.
+Qed.
+
+Lemma blank_plain : forall c, is_blank c = true -> plainc c = true.
+Proof.
+  intros c H. unfold is_blank, is_sp, is_tab in H. unfold plainc, is_quote, lan, is_nl.
+  apply orb_prop in H. destruct H as [H|H]; apply N.eqb_eq in H; rewrite H; reflexivity.
+Qed.
+Lemma blank_not45 : forall c, is_blank c = true -> (cp c =? 45) = false.
+Proof.
+  intros c H. unfold is_blank, is_sp, is_tab in H. apply orb_prop in H. destruct H as [H|H]; apply N.eqb_eq in H; rewrite H; reflexivity.
+Qed.
+Lemma plain_lan : forall c, plainc c = true -> lan c = true.
+Proof. intros c H. unfold plainc in H. apply andb_prop in H. destruct H as [H _]. apply andb_prop in H. tauto. Qed.
+
+(* ------------------------------------------------------------------------------------------------ *)
+(* the classified lines of a text *)
+
+Definition cno_nl (l : list cc) : Prop := forall p, In p l -> is_nl (fst p) = false.
+
+Lemma csplit_nonl : forall l flag, cno_nl l -> csplit flag l = [(flag, l)].
+Proof.
+  induction l as [|p t IH]; intros flag H; [reflexivity|]. cbn [csplit].
+  rewrite (H p (or_introl eq_refl)). rewrite IH by (intros q Hq; apply H; right; exact Hq). reflexivity.
+Qed.
+
+Lemma csplit_app_nl : forall x k y flag, cno_nl x -> csplit flag (x ++ (nlc, k) :: y) = (flag, x) :: csplit (k =? 0) y.
+Proof.
+  induction x as [|p x IH]; intros k y flag H.
+  - reflexivity.
+  - cbn [app csplit]. rewrite (H p (or_introl eq_refl)). rewrite IH by (intros q Hq; apply H; right; exact Hq). reflexivity.
+Qed.
+
+Lemma combine_app : forall {A B} (a1 a2 : list A) (b1 b2 : list B), length a1 = length b1 ->
+  combine (a1 ++ a2) (b1 ++ b2) = combine a1 b1 ++ combine a2 b2.
+Proof.
+  intros A B. induction a1 as [|x a1 IH]; intros a2 b1 b2 H; destruct b1 as [|y b1]; try discriminate; [reflexivity|].
+  cbn. f_equal. apply IH. cbn in H. lia.
+Qed.
+
+Lemma combine_cno : forall l ks, no_nl l -> cno_nl (combine l ks).
+Proof. intros l ks H p Hp. destruct p as [c k]. apply in_combine_l in Hp. apply H. exact Hp. Qed.
+
+(* the scanner, line by line *)
+Fixpoint thread (st : lst) (flag : bool) (ls : list (list ch)) : list (bool * list cc) :=
+  match ls with
+  | [] => []
+  | l :: r => (flag, combine l (lex st l))
+              :: thread (snd (nl_step (lex_end st l))) (fst (nl_step (lex_end st l)) =? 0) r
+  end.
+
+Lemma csplit_thread : forall ls st flag, ls <> [] -> Forall no_nl ls ->
+  csplit flag (combine (join_nl ls) (lex st (join_nl ls))) = thread st flag ls.
+Proof.
+  induction ls as [|l r IH]; intros st flag Hne Hall; [contradiction|]. inversion Hall as [|? ? Hl Hr]; subst.
+  destruct r as [|y r].
+  - cbn [join_nl thread]. apply csplit_nonl. apply combine_cno. exact Hl.
+  - rewrite join_cons2. destruct (lex_app_nl l st (join_nl (y :: r))) as [E _]. rewrite E.
+    change (nlc :: join_nl (y :: r)) with ([nlc] ++ join_nl (y :: r)).
+    rewrite combine_app by (symmetry; apply lex_length). cbn [app combine].
+    rewrite csplit_app_nl by (apply combine_cno; exact Hl).
+    cbn [thread]. f_equal. apply IH; [discriminate|exact Hr].
+Qed.
+
+Lemma clines_thread : forall t, clines t = thread SCode true (split_nl t).
+Proof.
+  intro t. unfold clines, ctext. rewrite <- (join_split t) at 1 2. apply csplit_thread; [apply split_nonempty|apply split_no_nl].
+Qed.
+
+Lemma clines_join : forall ls, ls <> [] -> Forall no_nl ls -> clines (join_nl ls) = thread SCode true ls.
+Proof. intros ls H1 H2. unfold clines, ctext. apply csplit_thread; assumption. Qed.
+
+Lemma combine_fst_snd : forall (l : list cc), combine (map fst l) (map snd l) = l.
+Proof. induction l as [|[c k] l IH]; [reflexivity|]. cbn. f_equal. exact IH. Qed.
+
+Lemma chars_combine : forall l ks, length ks = length l -> chars (combine l ks) = l.
+Proof.
+  unfold chars. induction l as [|c l IH]; intros ks H; destruct ks as [|k ks]; try discriminate; [reflexivity|].
+  cbn. f_equal. apply IH. cbn in H. lia.
+Qed.
+Lemma snd_combine : forall (l : list ch) (ks : list N), length ks = length l -> map snd (combine l ks) = ks.
+Proof.
+  induction l as [|c l IH]; intros ks H; destruct ks as [|k ks]; try discriminate; [reflexivity|].
+  cbn. f_equal. apply IH. cbn in H. lia.
+Qed.
+
+(* a line rewriter that the scanner cannot tell from its input: re-scanning the rewritten line gives the classes the
+   rewriter carried along, and leaves the scanner in the same state *)
+Definition lock (f : list cc -> list cc) : Prop :=
+  forall st l, no_nl l ->
+    lex st (chars (f (combine l (lex st l)))) = map snd (f (combine l (lex st l))) /\
+    lex_end st (chars (f (combine l (lex st l)))) = lex_end st l /\
+    no_nl (chars (f (combine l (lex st l)))).
+
+Definition on_snd {A B} (f : B -> B) (p : A * B) : A * B := (fst p, f (snd p)).
+
+Lemma thread_lock : forall f, lock f -> forall ls st flag, Forall no_nl ls ->
+  thread st flag (map (fun fl => chars (f (snd fl))) (thread st flag ls)) = map (on_snd f) (thread st flag ls).
+Proof.
+  intros f Hf. induction ls as [|l r IH]; intros st flag Hall; [reflexivity|]. inversion Hall as [|? ? Hl Hr]; subst.
+  cbn [thread map snd]. destruct (Hf st l Hl) as (E1 & E2 & _). rewrite E1, E2.
+  unfold on_snd at 1. cbn [fst snd]. unfold chars at 1. rewrite combine_fst_snd. f_equal. apply IH. exact Hr.
+Qed.
+
+Lemma thread_lines_nonl : forall f, lock f -> forall ls st flag, Forall no_nl ls ->
+  Forall no_nl (map (fun fl => chars (f (snd fl))) (thread st flag ls)).
+Proof.
+  intros f Hf. induction ls as [|l r IH]; intros st flag Hall; [constructor|]. inversion Hall as [|? ? Hl Hr]; subst.
+  cbn [thread map snd]. constructor; [apply (Hf st l Hl)|apply IH; exact Hr].
+Qed.
+
+Lemma thread_ne : forall ls st flag, ls <> [] -> thread st flag ls <> [].
+Proof. intros [|l r] st flag H; [contradiction|discriminate]. Qed.
+
+(* re-scanning the output of a per-line rule gives the rewritten classified lines *)
+Theorem relex : forall f t, lock f -> clines (per_cline f t) = map (on_snd f) (clines t).
+Proof.
+  intros f t Hf. unfold per_cline. rewrite (clines_thread t).
+  rewrite clines_join.
+  - apply thread_lock; [exact Hf|apply split_no_nl].
+  - apply map_ne. apply thread_ne. apply split_nonempty.
+  - apply thread_lines_nonl; [exact Hf|apply split_no_nl].
+Qed.
+
+Theorem per_cline_idem : forall f, lock f -> (forall l, f (f l) = f l) -> forall t, per_cline f (per_cline f t) = per_cline f t.
+Proof.
+  intros f Hf Hi t. unfold per_cline at 1. rewrite (relex f t Hf). unfold per_cline. f_equal. rewrite map_map.
+  apply map_ext. intro fl. unfold on_snd. cbn [snd]. rewrite Hi. reflexivity.
+Qed.
+
+(* ------------------------------------------------------------------------------------------------ *)
+(* edits of a classified line that the scanner cannot tell from the original.
+   [edit b l out]: out is obtained from l by keeping characters, deleting plain characters of class 0 / 3 and
+   inserting plain characters of class 0 where the scanner is in code; b = "the scanner is known to be in code here". *)
+
+Lemma lstep_plain_nx : forall st c nx nx', plainc c = true -> lstep st c nx = lstep st c nx'.
+Proof.
+  intros st c nx nx' H. destruct (plainc_spec c H) as (Q & A & B & C & D).
+  destruct st; cbn [lstep]; rewrite ?Q, ?A, ?B, ?C, ?D; reflexivity.
+Qed.
+
+Inductive edit : bool -> list cc -> list cc -> Prop :=
+| e_nil : forall b, edit b [] []
+| e_keep : forall b p t t', edit (code0 p) t t' -> la_eq (chars t) (chars t') -> edit b (p :: t) (p :: t')
+| e_keepp : forall b p t t', plainc (fst p) = true -> edit (code0 p) t t' -> edit b (p :: t) (p :: t')
+| e_del : forall b p t t', plainc (fst p) = true -> (snd p = 0 \/ snd p = 3) -> edit (code0 p) t t' -> edit b (p :: t) t'
+| e_delc : forall p t t', plainc (fst p) = true -> edit true t t' -> edit true (p :: t) t'
+| e_ins : forall c t t', plainc c = true -> edit true t t' -> edit true t ((c, 0) :: t').
+
+Lemma edit_weaken : forall b l out, edit b l out -> edit false l out \/ b = true.
+Proof. intros [|] l out H; [right; reflexivity|left; exact H]. Qed.
+
+Theorem edit_lock : forall b cl out, edit b cl out ->
+  forall st l, no_nl l -> cl = combine l (lex st l) -> (b = true -> st = SCode) ->
+    lex st (chars out) = map snd out /\ lex_end st (chars out) = lex_end st l /\ no_nl (chars out).
+Proof.
+  intros b cl out H. induction H as [b|b p t t' H IH La|b p t t' Hp H IH|b p t t' Hp Hk H IH|p t t' Hp H IH|c t t' Hc H IH];
+    intros st l Hl E Hb.
+  - destruct l as [|c l]; [|discriminate]. repeat split. intros c [].
+  - destruct l as [|c l]; [discriminate|]. cbn [lex combine] in E. injection E as E1 E2. subst p.
+    assert (Hl' : no_nl l) by (intros d Hd; apply Hl; right; exact Hd).
+    assert (Ec : chars t = l) by (rewrite E2; apply chars_combine; apply lex_length).
+    rewrite Ec in La.
+    assert (Es : lstep st c (chars t') = lstep st c l) by (apply lstep_nx; unfold la_eq in *; intuition congruence).
+    destruct (IH (snd (lstep st c l)) l Hl' E2) as (I1 & I2 & I3).
+    { unfold code0. cbn [snd]. intro Hk. apply N.eqb_eq in Hk. apply (lstep_class0 st c l (Hl c (or_introl eq_refl)) Hk). }
+    cbn [chars map lex lex_end fst snd]. fold (chars t'). rewrite Es. rewrite I1, I2. repeat split.
+    intros d [Hd|Hd]; [subst; apply Hl; left; reflexivity|apply I3; exact Hd].
+  - destruct l as [|c l]; [discriminate|]. cbn [lex combine] in E. injection E as E1 E2. subst p. cbn [fst] in Hp.
+    assert (Hl' : no_nl l) by (intros d Hd; apply Hl; right; exact Hd).
+    assert (Es : lstep st c (chars t') = lstep st c l) by (apply lstep_plain_nx; exact Hp).
+    destruct (IH (snd (lstep st c l)) l Hl' E2) as (I1 & I2 & I3).
+    { unfold code0. cbn [snd]. intro Hk. apply N.eqb_eq in Hk. apply (lstep_class0 st c l (Hl c (or_introl eq_refl)) Hk). }
+    cbn [chars map lex lex_end fst snd]. fold (chars t'). rewrite Es. rewrite I1, I2. repeat split.
+    intros d [Hd|Hd]; [subst; apply Hl; left; reflexivity|apply I3; exact Hd].
+  - destruct l as [|c l]; [discriminate|]. cbn [lex combine] in E. injection E as E1 E2. subst p. cbn [fst snd] in *.
+    assert (Hl' : no_nl l) by (intros d Hd; apply Hl; right; exact Hd).
+    destruct (plainc_spec c Hp) as (_ & A & _ & _ & Dn).
+    assert (Est : st = snd (lstep st c l) /\ (fst (lstep st c l) = 0 -> st = SCode)).
+    { destruct Hk as [Hk|Hk].
+      - destruct (lstep_class0 st c l Dn Hk) as [S1 S2]. rewrite S2. split; [exact S1|intros _; exact S1].
+      - destruct (lstep_class3 st c l A Hk) as [S1 S2]. rewrite S2. split; [exact S1|intro Z; rewrite Z in Hk; discriminate]. }
+    destruct Est as [Est Ecode]. rewrite <- Est in E2.
+    destruct (IH st l Hl' E2) as (I1 & I2 & I3).
+    { unfold code0. cbn [snd]. intro Hz. apply N.eqb_eq in Hz. apply Ecode. exact Hz. }
+    cbn [lex_end]. rewrite <- Est. repeat split; assumption.
+  - destruct l as [|c l]; [discriminate|]. cbn [lex combine] in E. injection E as E1 E2. subst p. cbn [fst] in Hp.
+    assert (Hl' : no_nl l) by (intros d Hd; apply Hl; right; exact Hd).
+    rewrite (Hb eq_refl) in *. rewrite (lstep_plain_code c l Hp) in E2. cbn [snd] in E2.
+    destruct (IH SCode l Hl' E2 (fun _ => eq_refl)) as (I1 & I2 & I3).
+    cbn [lex_end]. rewrite (lstep_plain_code c l Hp). cbn [snd]. repeat split; assumption.
+  - rewrite (Hb eq_refl) in *. destruct (IH SCode l Hl E (fun _ => eq_refl)) as (I1 & I2 & I3).
+    cbn [chars map lex lex_end fst snd]. fold (chars t'). rewrite (lstep_plain_code c (chars t') Hc). cbn [fst snd].
+    rewrite I1, I2. repeat split. intros d [Hd|Hd]; [subst; destruct (plainc_spec d Hc) as (_ & _ & _ & _ & Z); exact Z|apply I3; exact Hd].
+Qed.
+
+Lemma edit_is_lock : forall f, (forall cl, cno_nl cl -> edit false cl (f cl)) -> lock f.
+Proof.
+  intros f H st l Hl. apply (edit_lock false _ _ (H _ (combine_cno l (lex st l) Hl)) st l Hl eq_refl). discriminate.
+Qed.
+
+(* look-ahead facts *)
+Lemma la_same_head : forall c t t', la_eq (c :: t) (c :: t').
+Proof. intros. repeat split. Qed.
+Lemma la_plain_heads : forall c d t t', lan c = true -> lan d = true -> la_eq (c :: t) (d :: t').
+Proof.
+  intros c d t t' Hc Hd. pose proof (la_neutral c t Hc) as (A1 & A2 & A3). pose proof (la_neutral d t' Hd) as (B1 & B2 & B3).
+  unfold la_eq. rewrite A1, A2, A3, B1, B2, B3. repeat split.
+Qed.
+Lemma la_sym : forall a b, la_eq a b -> la_eq b a.
+Proof. intros a b (H1 & H2 & H3). repeat split; symmetry; assumption. Qed.
+
+(* ------------------------------------------------------------------------------------------------ *)
+(* the reading of classified lines *)
+
+Section Reading.
+  Variable is_space : N -> bool.
+  Variable upper_ascii : N -> option N.
+  Notation wsc := (wsc is_space).
+  Notation vt := (vt is_space upper_ascii).
+  Notation item := (item is_space upper_ascii).
+  Notation RD := (RD is_space upper_ascii).
+  Notation RDL := (RDL is_space upper_ascii).
+  Notation rest_ws := (rest_ws is_space).
+
+  Lemma scons_W_idem : forall Z, scons VW (scons VW Z) = scons VW Z.
+  Proof. intros [|[|n|c] Z]; reflexivity. Qed.
+  Definition absorbs (Z : list vtok) : Prop := scons VW Z = Z.
+  Lemma absorbs_scons : forall Z, absorbs (scons VW Z).
+  Proof. intro Z. apply scons_W_idem. Qed.
+  Lemma absorbs_nil : absorbs []. Proof. reflexivity. Qed.
+  Lemma strip_lead_scons : forall X, strip_lead (scons VW X) = strip_lead X.
+  Proof. intros [|[|n|c] X]; reflexivity. Qed.
+
+  (* a layout pair: white space that is code or lies in a -- comment *)
+  Definition wsp (p : cc) : bool := wsc (fst p) && ((snd p =? 0) || (snd p =? 3)).
+
+  Lemma rest_ws_app : forall a b, rest_ws (a ++ b) = rest_ws a && rest_ws b.
+  Proof. intros a b. unfold Lint.rest_ws. apply forallb_app. Qed.
+
+  Lemma wsp_rest_ws : forall b, forallb wsp b = true -> rest_ws b = true.
+  Proof.
+    intros b H. unfold Lint.rest_ws. apply forallb_forall. intros p Hp. rewrite forallb_forall in H. specialize (H p Hp).
+    unfold wsp in H. apply andb_prop in H. tauto.
+  Qed.
+
+  Lemma item_app_ws : forall p t b, rest_ws b = true -> item p (t ++ b) = item p t.
+  Proof. intros p t b H. unfold Lint.item. rewrite rest_ws_app, H, andb_true_r. reflexivity. Qed.
+
+  Lemma RD_app_ws : forall a b Z, rest_ws b = true -> RD (a ++ b) Z = RD a (RD b Z).
+  Proof.
+    induction a as [|p a IH]; intros b Z H; [reflexivity|]. cbn [app Lint.RD]. rewrite item_app_ws by exact H. rewrite IH by exact H. reflexivity.
+  Qed.
+
+  Lemma item_wsp : forall p t, wsp p = true -> rest_ws t = true -> item p t = VW.
+  Proof.
+    intros p t H Ht. unfold wsp in H. apply andb_prop in H. destruct H as [Hw Hk]. unfold Lint.item, Lint.vt.
+    destruct (snd p =? 0); [rewrite Hw; reflexivity|]. cbn [orb] in Hk. rewrite Hk, Hw, Ht. reflexivity.
+  Qed.
+
+  Lemma RD_wsp : forall b Z, forallb wsp b = true -> b <> [] -> RD b Z = scons VW Z.
+  Proof.
+    induction b as [|p b IH]; intros Z H Hne; [contradiction|]. cbn in H. apply andb_prop in H. destruct H as [H1 H2].
+    cbn [Lint.RD]. rewrite (item_wsp p b H1 (wsp_rest_ws b H2)). destruct b as [|q b]; [reflexivity|].
+    rewrite IH by (assumption || discriminate). apply scons_W_idem.
+  Qed.
+
+  Lemma RD_wsp_abs : forall b Z, forallb wsp b = true -> absorbs Z -> RD b Z = Z.
+  Proof. intros b Z H HZ. destruct b as [|p b]; [reflexivity|]. rewrite RD_wsp by (assumption || discriminate). exact HZ. Qed.
+
+  Lemma sW_RD_wsp : forall b Z, forallb wsp b = true -> scons VW (RD b Z) = scons VW Z.
+  Proof. intros b Z H. destruct b as [|p b]; [reflexivity|]. rewrite RD_wsp by (assumption || discriminate). apply scons_W_idem. Qed.
+
+  (* code-only prefixes need no look-ahead *)
+  Lemma RD_app_code : forall a b Z, forallb code0 a = true -> RD (a ++ b) Z = RD a (RD b Z).
+  Proof.
+    induction a as [|p a IH]; intros b Z H; [reflexivity|]. cbn in H. apply andb_prop in H. destruct H as [H1 H2].
+    cbn [app Lint.RD]. rewrite IH by exact H2. unfold Lint.item. unfold code0 in H1. rewrite H1. reflexivity.
+  Qed.
+
+  (* the class of the last character of a line *)
+  Definition ends03 (l : list cc) : bool := match lastc l with Some p => (snd p =? 0) || (snd p =? 3) | None => false end.
+
+  (* consecutive lines agree: a line that ends in code or in a -- comment is followed by a line that begins in code *)
+  Fixpoint cons_ok (ls : list (bool * list cc)) : Prop :=
+    match ls with
+    | [] => True
+    | fl :: r => match r with [] => True | fl2 :: _ => (ends03 (snd fl) = true -> fst fl2 = true) /\ cons_ok r end
+    end.
+
+  Lemma RDL_cons2 : forall fl fl2 r, RDL (fl :: fl2 :: r) = RD (snd fl) (scons (if fst fl2 then VW else VL nlc) (RDL (fl2 :: r))).
+  Proof. reflexivity. Qed.
+
+  Lemma RDL_map : forall f ls, cons_ok ls ->
+    (forall cl Z, (ends03 cl = true -> absorbs Z) -> RD (f cl) Z = RD cl Z) ->
+    RDL (map (on_snd f) ls) = RDL ls.
+  Proof.
+    intros f ls Hc Hf. induction ls as [|fl r IH]; [reflexivity|]. destruct r as [|fl2 r].
+    - cbn. apply Hf. intros _. apply absorbs_nil.
+    - destruct Hc as [H1 H2]. cbn [map]. rewrite !RDL_cons2. cbn [map] in IH. rewrite (IH H2).
+      unfold on_snd at 1 2. cbn [fst snd]. apply Hf. intro He. rewrite (H1 He). apply absorbs_scons.
+  Qed.
+End Reading.
+
+(* the lines produced by the scanner agree *)
+Lemma lstep_last : forall st c, is_nl c = false ->
+  (fst (lstep st c []) = 0 \/ fst (lstep st c []) = 3) -> fst (nl_step (snd (lstep st c []))) = 0.
+Proof.
+  intros st c Hn Hk. destruct st; cbn [lstep next_is] in *; rewrite ?andb_false_r in *.
+  - destruct (is_quote c); cbn [fst snd] in *; [destruct Hk; discriminate|reflexivity].
+  - cbn [fst] in Hk. destruct Hk; discriminate.
+  - rewrite Hn in *. reflexivity.
+  - cbn [fst] in Hk. destruct Hk; discriminate.
+  - cbn [fst] in Hk. destruct Hk; discriminate.
+  - cbn [fst] in Hk. destruct Hk; discriminate.
+Qed.
+
+Lemma last_class_nl : forall l st c k, no_nl l -> lastc (combine l (lex st l)) = Some (c, k) -> (k = 0 \/ k = 3) ->
+  fst (nl_step (lex_end st l)) = 0.
+Proof.
+  induction l as [|d t IH]; intros st c k Hl H Hk; [discriminate|].
+  assert (Hd : is_nl d = false) by (apply Hl; left; reflexivity).
+  destruct t as [|e t].
+  - cbn [lex combine lastc] in H. injection H as E1 E2. subst d. cbn [lex_end]. apply lstep_last; [exact Hd|]. rewrite E2. exact Hk.
+  - cbn [lex_end]. apply (IH (snd (lstep st d (e :: t))) c k); [intros x Hx; apply Hl; right; exact Hx| |exact Hk].
+    cbn [lex combine] in H. cbn [lex combine]. rewrite lastc_cons in H by discriminate. exact H.
+Qed.
+
+Lemma thread_cons_ok : forall ls st flag, Forall no_nl ls -> cons_ok (thread st flag ls).
+Proof.
+  induction ls as [|l r IH]; intros st flag Hall; [exact I|]. inversion Hall as [|? ? Hl Hr]; subst.
+  cbn [thread]. destruct r as [|y r]; [exact I|]. cbn [cons_ok]. split; [|apply IH; exact Hr].
+  cbn [thread fst snd]. intro Hk. unfold ends03 in Hk. destruct (@lastc cc (combine l (lex st l))) as [[c k]|] eqn:E; [|discriminate Hk].
+  cbn [snd] in Hk. apply N.eqb_eq. apply (last_class_nl l st c k Hl E).
+  apply orb_prop in Hk. destruct Hk as [Hk|Hk]; apply N.eqb_eq in Hk; auto.
+Qed.
+
+Lemma clines_cons_ok : forall t, cons_ok (clines t).
+Proof. intro t. rewrite clines_thread. apply thread_cons_ok. apply split_no_nl. Qed.
+
+(* ------------------------------------------------------------------------------------------------ *)
+(* L001 *)
+
+Lemma tblank_spec : forall p, tblank p = true -> is_blank (fst p) = true /\ (snd p = 0 \/ snd p = 3).
+Proof.
+  intros p H. unfold tblank in H. apply andb_prop in H. destruct H as [H1 H2]. split; [exact H1|].
+  apply orb_prop in H2. destruct H2 as [H2|H2]; apply N.eqb_eq in H2; auto.
+Qed.
+
+Lemma la_all_plain : forall (t : list cc) (q : cc -> bool), (forall p, q p = true -> plainc (fst p) = true) ->
+  forallb q t = true -> la_eq (chars t) [].
+Proof.
+  intros [|p t] q Hq H; [apply la_eq_refl|]. cbn in H. apply andb_prop in H. destruct H as [H _].
+  cbn [chars map]. apply la_neutral. apply plain_lan. apply Hq. exact H.
+Qed.
+
+Lemma edit_trim_r_tblank : forall cl b, edit b cl (trim_r tblank cl).
+Proof.
+  induction cl as [|p t IH]; intro b; [constructor|]. rewrite trim_r_cons. destruct (trim_r tblank t) as [|a r] eqn:E.
+  - destruct (tblank p) eqn:Ep.
+    + destruct (tblank_spec p Ep) as [B K]. apply e_del; [apply blank_plain; exact B|exact K|]. apply IH.
+    + apply e_keep; [apply IH|]. apply trim_r_nil_iff in E.
+      apply (la_all_plain t tblank); [|exact E]. intros q Hq. apply blank_plain. apply (tblank_spec q Hq).
+  - apply e_keep; [apply IH|]. destruct (trim_r_split tblank t) as (bb & Et & _). rewrite E in Et. rewrite Et.
+    cbn [app chars map]. apply la_same_head.
+Qed.
+
+Lemma l001_lock : lock l001_line.
+Proof. apply edit_is_lock. intros cl _. apply edit_trim_r_tblank. Qed.
+
+Theorem l001_fix_idempotent : forall t, l001_fix (l001_fix t) = l001_fix t.
+Proof. intro t. apply (per_cline_idem l001_line l001_lock). intro l. apply trim_r_idem. Qed.
+
+Lemma on_clines_nil : forall f ls k, (forall n fl, In fl ls -> f n fl = []) -> on_clines f k ls = [].
+Proof.
+  intros f. induction ls as [|l r IH]; intros k H; [reflexivity|]. cbn [on_clines].
+  rewrite H by (left; reflexivity). cbn [app]. apply IH. intros n l' Hl. apply H. right. exact Hl.
+Qed.
+
+Theorem l001_fix_clears : forall t, l001_check (l001_fix t) = [].
+Proof.
+  intro t. unfold l001_check, l001_fix. rewrite (relex l001_line t l001_lock). apply on_clines_nil.
+  intros n fl Hfl. apply in_map_iff in Hfl. destruct Hfl as (fl0 & E & _). subst. unfold l001_check_line, on_snd. cbn [snd].
+  unfold l001_line. rewrite trim_r_idem. rewrite Nat.ltb_irrefl. reflexivity.
+Qed.
+
+Section L001Reading.
+  Variable is_space : N -> bool.
+  Variable upper_ascii : N -> option N.
+
+  Lemma tblank_wsp : forall b, forallb tblank b = true -> forallb (wsp is_space) b = true.
+  Proof.
+    intros b H. apply forallb_forall. intros p Hp. rewrite forallb_forall in H. specialize (H p Hp).
+    unfold tblank in H. apply andb_prop in H. destruct H as [H1 H2]. unfold wsp, Lint.wsc. rewrite H1, H2.
+    rewrite orb_true_r. reflexivity.
+  Qed.
+
+  Lemma lastc_app_last : forall {A} (a b : list A) x, lastc b = Some x -> lastc (a ++ b) = Some x.
+  Proof. intros A a b x H. rewrite lastc_app; [exact H|]. intro E. subst. discriminate. Qed.
+
+  Lemma l001_line_RD : forall cl Z, (ends03 cl = true -> absorbs Z) ->
+    RD is_space upper_ascii (l001_line cl) Z = RD is_space upper_ascii cl Z.
+  Proof.
+    intros cl Z HZ. unfold l001_line. destruct (trim_r_split tblank cl) as (b & E & Hb).
+    rewrite E at 2. rewrite RD_app_ws by (apply wsp_rest_ws; apply tblank_wsp; exact Hb).
+    destruct b as [|p b]; [reflexivity|].
+    rewrite (RD_wsp_abs is_space upper_ascii (p :: b) Z (tblank_wsp _ Hb)); [reflexivity|]. apply HZ.
+    unfold ends03. destruct (lastc_some_in (p :: b)) as (x & Hx); [discriminate|].
+    rewrite E. rewrite (lastc_app_last _ _ x Hx). apply lastc_in in Hx. rewrite forallb_forall in Hb.
+    destruct (tblank_spec x (Hb x Hx)) as [_ [K|K]]; rewrite K; reflexivity.
+  Qed.
+
+  Theorem l001_keeps_reading : forall t, reading is_space upper_ascii (l001_fix t) = reading is_space upper_ascii t.
+  Proof.
+    intro t. unfold reading, l001_fix. rewrite (relex l001_line t l001_lock). f_equal.
+    apply RDL_map; [apply clines_cons_ok|apply l001_line_RD].
+  Qed.
+End L001Reading.
+
 (* ------------------------------------------------------------------------------------------------ *)
 (* L002 *)
 
-Lemma spc_blank : is_blank spc = true. Proof. reflexivity. Qed.
-Lemma spc_not_tab : is_tab spc = false. Proof. reflexivity. Qed.
-Lemma spc_not_nl : is_nl spc = false. Proof. reflexivity. Qed.
+Lemma edit_refl : forall cl b, edit b cl cl.
+Proof. induction cl as [|p t IH]; intro b; [constructor|]. apply e_keep; [apply IH|apply la_eq_refl]. Qed.
 
-Lemma tab4_blank : forall c, is_blank c = true -> forallb is_blank (tab4 c) = true.
-Proof. intros c H. unfold tab4. destruct (is_tab c); cbn; [reflexivity|rewrite H; reflexivity]. Qed.
+Lemma lblank_spec : forall p, lblank p = true -> is_blank (fst p) = true /\ snd p = 0.
+Proof. intros p H. unfold lblank, code0 in H. apply andb_prop in H. destruct H as [H1 H2]. apply N.eqb_eq in H2. split; assumption. Qed.
 
-Lemma tab4_notab : forall c, forallb (fun d => negb (is_tab d)) (tab4 c) = true.
-Proof. intro c. unfold tab4. destruct (is_tab c) eqn:E; cbn; [reflexivity|rewrite E; reflexivity]. Qed.
+Lemma spc_plain : plainc spc = true. Proof. reflexivity. Qed.
 
-Lemma flat_map_tab4_notab : forall l, forallb (fun d => negb (is_tab d)) l = true -> flat_map tab4 l = l.
+Lemma l002_line_cons : forall p t, lblank p = true -> l002_line (p :: t) = tab4 p ++ l002_line t.
+Proof. intros p t H. unfold l002_line, leading_ws. cbn [take_l trim_l]. rewrite H. cbn [flat_map]. rewrite <- app_assoc. reflexivity. Qed.
+Lemma l002_line_stop : forall p t, lblank p = false -> l002_line (p :: t) = p :: t.
+Proof. intros p t H. unfold l002_line, leading_ws. cbn [take_l trim_l]. rewrite H. reflexivity. Qed.
+
+Lemma edit_l002 : forall cl b, edit b cl (l002_line cl).
+Proof.
+  induction cl as [|p t IH]; intro b; [constructor|]. destruct (lblank p) eqn:E.
+  - rewrite l002_line_cons by exact E. destruct (lblank_spec p E) as [B K]. unfold tab4. destruct (is_tab (fst p)).
+    + apply e_del; [apply blank_plain; exact B|left; exact K|]. unfold code0. rewrite K. cbn [N.eqb app].
+      apply e_ins; [exact spc_plain|]. apply e_ins; [exact spc_plain|]. apply e_ins; [exact spc_plain|]. apply e_ins; [exact spc_plain|]. apply IH.
+    + cbn [app]. apply e_keepp; [apply blank_plain; exact B|apply IH].
+  - rewrite l002_line_stop by exact E. apply edit_refl.
+Qed.
+
+Lemma l002_lock : lock l002_line.
+Proof. apply edit_is_lock. intros cl _. apply edit_l002. Qed.
+
+Lemma tab4_lblank : forall p, lblank p = true -> forallb lblank (tab4 p) = true.
+Proof. intros p H. unfold tab4. destruct (is_tab (fst p)); cbn; [reflexivity|rewrite H; reflexivity]. Qed.
+Lemma tab4_notab : forall p, forallb (fun d : cc => negb (is_tab (fst d))) (tab4 p) = true.
+Proof. intro p. unfold tab4. destruct (is_tab (fst p)) eqn:E; cbn; [reflexivity|rewrite E; reflexivity]. Qed.
+Lemma flat_map_tab4_notab : forall l, forallb (fun d : cc => negb (is_tab (fst d))) l = true -> flat_map tab4 l = l.
 Proof.
   induction l as [|c t IH]; intro H; [reflexivity|]. cbn in H. apply andb_prop in H. destruct H as [H1 H2].
-  cbn. unfold tab4 at 1. destruct (is_tab c); [discriminate|]. cbn. f_equal. apply IH. exact H2.
+  cbn. unfold tab4 at 1. destruct (is_tab (fst c)); [discriminate|]. cbn. f_equal. apply IH. exact H2.
 Qed.
 
-Lemma l002_line_shape : forall l, l002_fix_line l = flat_map tab4 (take_l is_blank l) ++ trim_l is_blank l.
+Lemma l002_lead_facts : forall l, forallb lblank (flat_map tab4 (take_l lblank l)) = true /\
+  forallb (fun d : cc => negb (is_tab (fst d))) (flat_map tab4 (take_l lblank l)) = true.
 Proof.
-  intro l. unfold l002_fix_line, leading_ws. destruct (take_l is_blank l) as [|c t] eqn:E; [|reflexivity].
-  cbn. destruct l as [|d r]; [reflexivity|]. cbn [take_l] in E. cbn [trim_l]. destruct (is_blank d); [discriminate|reflexivity].
+  intro l. split.
+  - apply forallb_flat_map. intros x Hx. apply tab4_lblank. pose proof (take_l_all lblank l) as H. rewrite forallb_forall in H. apply H. exact Hx.
+  - apply forallb_flat_map. intros x _. apply tab4_notab.
 Qed.
 
-Lemma l002_line_idem : forall l, l002_fix_line (l002_fix_line l) = l002_fix_line l.
+Lemma l002_line_idem : forall l, l002_line (l002_line l) = l002_line l.
 Proof.
-  intro l. rewrite (l002_line_shape (l002_fix_line l)). rewrite (l002_line_shape l).
-  set (X := flat_map tab4 (take_l is_blank l)). set (R := trim_l is_blank l).
-  assert (HX : forallb is_blank X = true).
-  { apply forallb_flat_map. intros x Hx. apply tab4_blank.
-    pose proof (take_l_all is_blank l) as H. rewrite forallb_forall in H. apply H. exact Hx. }
-  assert (HT : forallb (fun d => negb (is_tab d)) X = true).
-  { apply forallb_flat_map. intros x _. apply tab4_notab. }
+  intro l. unfold l002_line at 1, leading_ws. destruct (l002_lead_facts l) as [HX HT].
+  unfold l002_line, leading_ws. set (X := flat_map tab4 (take_l lblank l)) in *.
   rewrite take_l_app_all by exact HX. rewrite trim_l_app_all by exact HX.
-  unfold R. rewrite take_l_of_trim_l. rewrite trim_l_idem. rewrite app_nil_r.
-  rewrite flat_map_tab4_notab by exact HT. reflexivity.
+  rewrite take_l_of_trim_l. rewrite trim_l_idem. rewrite app_nil_r. rewrite flat_map_tab4_notab by exact HT. reflexivity.
 Qed.
 
-Lemma in_tab4 : forall c x, In x (tab4 c) -> x = spc \/ x = c.
+Theorem l002_fix_idempotent : forall t, l002_fix (l002_fix t) = l002_fix t.
+Proof. intro t. apply (per_cline_idem l002_line l002_lock l002_line_idem). Qed.
+
+Lemma l002_fixed_leading : forall l, existsb (fun p : ch * N => is_tab (fst p)) (leading_ws (l002_line l)) = false.
 Proof.
-  intros c x. unfold tab4. destruct (is_tab c); cbn; intro H.
-  - left. destruct H as [H|[H|[H|[H|[]]]]]; symmetry; exact H.
-  - right. destruct H as [H|[]]. symmetry. exact H.
+  intro l. unfold l002_line, leading_ws. destruct (l002_lead_facts l) as [HX HT].
+  set (X := flat_map tab4 (take_l lblank l)) in *.
+  rewrite take_l_app_all by exact HX. rewrite take_l_of_trim_l. rewrite app_nil_r.
+  clear -HT. induction X as [|c X IH]; [reflexivity|]. cbn in *. apply andb_prop in HT. destruct HT as [H1 H2].
+  apply negb_true_iff in H1. rewrite H1. apply IH. exact H2.
 Qed.
 
-Lemma l002_line_keeps : forall l, no_nl l -> no_nl (l002_fix_line l).
+Lemma l002_check_notab : forall ls first n, (first = 0 \/ first = 2) ->
+  (forall fl, In fl ls -> existsb (fun p : ch * N => is_tab (fst p)) (leading_ws (snd fl)) = false) -> l002_check_lines first n ls = [].
 Proof.
-  intros l H c Hc. rewrite l002_line_shape in Hc. apply in_app_or in Hc. destruct Hc as [Hc|Hc].
-  - apply in_flat_map in Hc. destruct Hc as (d & Hd & Hc). apply in_tab4 in Hc. destruct Hc as [Hc|Hc]; subst.
-    + reflexivity.
-    + apply H. eapply take_l_incl. exact Hd.
-  - apply H. eapply trim_l_incl. exact Hc.
+  induction ls as [|l r IH]; intros first n Hf H; [reflexivity|].
+  cbn [l002_check_lines].
+  assert (Hr : forall l0, In l0 r -> existsb (fun p : ch * N => is_tab (fst p)) (leading_ws (snd l0)) = false) by (intros l0 Hl0; apply H; right; exact Hl0).
+  destruct (leading_ws (snd l)) as [|c lw] eqn:E; [apply IH; assumption|].
+  rewrite <- E. rewrite (H l (or_introl eq_refl)). cbn [andb].
+  destruct Hf as [Hf|Hf]; subst; cbn [N.eqb]; apply IH; auto.
 Qed.
 
-Lemma l002_fix_idempotent : forall t, l002_fix (l002_fix t) = l002_fix t.
+Theorem l002_fix_clears : forall t, l002_check (l002_fix t) = [].
 Proof.
-  intro t. change (per_line l002_fix_line (per_line l002_fix_line t) = per_line l002_fix_line t).
-  apply per_line_idem; [exact l002_line_keeps|intros l _; apply l002_line_idem].
+  intro t. unfold l002_check, l002_fix. rewrite (relex l002_line t l002_lock).
+  apply l002_check_notab; [left; reflexivity|].
+  intros fl Hfl. apply in_map_iff in Hfl. destruct Hfl as (fl0 & E & _). subst. unfold on_snd. cbn [snd]. apply l002_fixed_leading.
 Qed.
+
+Section L002Reading.
+  Variable is_space : N -> bool.
+  Variable upper_ascii : N -> option N.
+
+  Lemma lblank_wsp : forall b, forallb lblank b = true -> forallb (wsp is_space) b = true /\ forallb code0 b = true.
+  Proof.
+    intros b H. split; apply forallb_forall; intros p Hp; rewrite forallb_forall in H; specialize (H p Hp); destruct (lblank_spec p H) as [B K].
+    - unfold wsp, Lint.wsc. rewrite B, K. rewrite orb_true_r. reflexivity.
+    - unfold code0. rewrite K. reflexivity.
+  Qed.
+
+  Lemma RD_lblank_app : forall a b Z, forallb lblank a = true ->
+    RD is_space upper_ascii (a ++ b) Z = match a with [] => RD is_space upper_ascii b Z | _ => scons VW (RD is_space upper_ascii b Z) end.
+  Proof.
+    intros a b Z H. destruct (lblank_wsp a H) as [W C]. rewrite RD_app_code by exact C.
+    destruct a as [|p a]; [reflexivity|]. apply RD_wsp; [exact W|discriminate].
+  Qed.
+
+  Lemma l002_line_RD : forall cl Z, RD is_space upper_ascii (l002_line cl) Z = RD is_space upper_ascii cl Z.
+  Proof.
+    intros cl Z. unfold l002_line, leading_ws. destruct (l002_lead_facts cl) as [HX _].
+    rewrite <- (take_trim_l lblank cl) at 3. rewrite RD_lblank_app by exact HX. rewrite RD_lblank_app by apply take_l_all.
+    destruct (take_l lblank cl) as [|p lw]; [reflexivity|]. cbn [flat_map]. unfold tab4 at 1. destruct (is_tab (fst p)); reflexivity.
+  Qed.
+
+  Theorem l002_keeps_reading : forall t, reading is_space upper_ascii (l002_fix t) = reading is_space upper_ascii t.
+  Proof.
+    intro t. unfold reading, l002_fix. rewrite (relex l002_line t l002_lock). f_equal.
+    apply RDL_map; [apply clines_cons_ok|]. intros cl Z _. apply l002_line_RD.
+  Qed.
+End L002Reading.
 
 (* ------------------------------------------------------------------------------------------------ *)
-(* L010: the fixer *)
+(* L010 *)
 
-Lemma wr_wr : forall c, wr (wr c) = wr c.
-Proof. intro c. unfold wr. destruct (valid c) eqn:E; [rewrite E; reflexivity|reflexivity]. Qed.
-Lemma cp_wr : forall c, cp (wr c) = cp c.
-Proof. intro c. unfold wr. destruct (valid c); reflexivity. Qed.
-Lemma is_quote_wr : forall c, is_quote (wr c) = is_quote c.
-Proof. intro c. unfold is_quote. rewrite cp_wr. reflexivity. Qed.
-Lemma is_sp_wr : forall c, is_sp (wr c) = is_sp c.
-Proof. intro c. unfold is_sp. rewrite cp_wr. reflexivity. Qed.
-Lemma is_tab_wr : forall c, is_tab (wr c) = is_tab c.
-Proof. intro c. unfold is_tab. rewrite cp_wr. reflexivity. Qed.
-Lemma is_blank_wr : forall c, is_blank (wr c) = is_blank c.
-Proof. intro c. unfold is_blank. rewrite is_sp_wr, is_tab_wr. reflexivity. Qed.
-Lemma is_nl_wr : forall c, is_nl c = false -> is_nl (wr c) = false.
+Lemma cspace_spec : forall p, cspace p = true -> is_sp (fst p) = true /\ snd p = 0.
+Proof. intros p H. unfold cspace, code0 in H. apply andb_prop in H. destruct H as [H1 H2]. apply N.eqb_eq in H2. split; assumption. Qed.
+Lemma sp_blank : forall c, is_sp c = true -> is_blank c = true.
+Proof. intros c H. unfold is_blank. rewrite H. reflexivity. Qed.
+
+Lemma l010_scan_head : forall t, chars (l010_scan false t) = [] /\ t = [] \/
+  exists p r r', t = p :: r /\ l010_scan false t = p :: r'.
 Proof.
-  intros c H. unfold wr. destruct (valid c) eqn:E; [exact H|]. unfold is_nl. cbn [cp raw valid].
-  rewrite andb_false_r. reflexivity.
+  intros [|p r]; [left; split; reflexivity|right]. exists p, r. cbn [l010_scan]. destruct (cspace p); eexists; split; reflexivity.
 Qed.
 
-(* line comments *)
-Lemma cstart_wr : forall c t, cstart (wr c) t = cstart c t.
-Proof. intros c t. unfold cstart. rewrite cp_wr. reflexivity. Qed.
-Lemma cstart_next : forall c t' t, next_is 45 t' = next_is 45 t -> cstart c t' = cstart c t.
-Proof. intros c t' t H. unfold cstart. rewrite H. reflexivity. Qed.
-Lemma cstart_ne : forall c t, (cp c =? 45) = false -> cstart c t = false.
-Proof. intros c t H. unfold cstart. rewrite H. reflexivity. Qed.
-Lemma cstart_quote : forall c t, is_quote c = true -> cstart c t = false.
+Lemma la_l010_scan : forall t, la_eq (chars t) (chars (l010_scan false t)).
 Proof.
-  intros c t H. apply cstart_ne. unfold is_quote in H. apply orb_prop in H. destruct H as [H|H]; [apply orb_prop in H; destruct H as [H|H]|];
-    apply N.eqb_eq in H; rewrite H; reflexivity.
-Qed.
-Lemma cstart_sp : forall c t, is_sp c = true -> cstart c t = false.
-Proof. intros c t H. apply cstart_ne. unfold is_sp in H. apply N.eqb_eq in H. rewrite H. reflexivity. Qed.
-Lemma cstart_blank : forall c t, is_blank c = true -> cstart c t = false.
-Proof.
-  intros c t H. apply cstart_ne. unfold is_blank, is_sp, is_tab in H. apply orb_prop in H. destruct H as [H|H]; apply N.eqb_eq in H; rewrite H; reflexivity.
-Qed.
-Lemma next_is_scan10 : forall n t q, next_is n (l010_scan q false t) = next_is n t.
-Proof.
-  intros n [|c t] q; [reflexivity|]. cbn [l010_scan]. destruct q as [k|]; [cbn [next_is]; rewrite cp_wr; reflexivity|].
-  destruct (cstart c t); [reflexivity|]. destruct (is_quote c); [cbn [next_is]; rewrite cp_wr; reflexivity|].
-  destruct (is_sp c); cbn [app next_is]; rewrite cp_wr; reflexivity.
+  intro t. destruct (l010_scan_head t) as [[_ E]|(p & r & r' & E1 & E2)]; [subst; apply la_eq_refl|].
+  rewrite E2, E1. cbn [chars map]. apply la_same_head.
 Qed.
 
-Lemma l010_scan_idem : forall l q ps, l010_scan q ps (l010_scan q ps l) = l010_scan q ps l.
+Lemma edit_l010_scan : forall t ps b, edit b t (l010_scan ps t).
 Proof.
-  induction l as [|c t IH]; intros q ps; [reflexivity|].
-  cbn [l010_scan]. destruct q as [k|].
-  - cbn [l010_scan]. rewrite wr_wr, cp_wr. rewrite IH. reflexivity.
-  - destruct (cstart c t) eqn:Ec; [cbn [l010_scan]; rewrite Ec; reflexivity|].
-    destruct (is_quote c) eqn:Eq.
-    + cbn [l010_scan]. rewrite cstart_wr. rewrite (cstart_quote c _ Eq). rewrite is_quote_wr, Eq, wr_wr, cp_wr, IH. reflexivity.
-    + destruct (is_sp c) eqn:Es.
-      * destruct ps; cbn [app].
-        -- apply IH.
-        -- cbn [l010_scan]. rewrite cstart_wr. rewrite (cstart_sp c _ Es). rewrite is_quote_wr, Eq, is_sp_wr, Es, wr_wr. cbn [app]. rewrite IH. reflexivity.
-      * cbn [l010_scan]. rewrite cstart_wr. rewrite (cstart_next c _ t (next_is_scan10 45 t None)). rewrite Ec.
-        rewrite is_quote_wr, Eq, is_sp_wr, Es, wr_wr, IH. reflexivity.
+  induction t as [|p t IH]; intros ps b; [constructor|]. cbn [l010_scan]. destruct (cspace p) eqn:E.
+  - destruct (cspace_spec p E) as [S K]. destruct ps; cbn [app].
+    + apply e_del; [apply blank_plain; apply sp_blank; exact S|left; exact K|apply IH].
+    + apply e_keepp; [apply blank_plain; apply sp_blank; exact S|apply IH].
+  - apply e_keep; [apply IH|apply la_l010_scan].
 Qed.
 
-Lemma l010_scan_in : forall l q ps x, In x (l010_scan q ps l) -> exists c, In c l /\ (x = wr c \/ x = c).
+Lemma edit_l010 : forall cl b, edit b cl (l010_line cl).
 Proof.
-  induction l as [|c t IH]; intros q ps x H; [destruct H|].
-  cbn [l010_scan] in H.
-  assert (G : forall q' ps', In x (wr c :: l010_scan q' ps' t) -> exists d, In d (c :: t) /\ (x = wr d \/ x = d)).
-  { intros q' ps' [Hx|Hx]; [exists c; split; [left; reflexivity|left; symmetry; exact Hx]|].
-    destruct (IH _ _ _ Hx) as (d & Hd & E). exists d. split; [right; exact Hd|exact E]. }
-  destruct q as [k|]; [eapply G; exact H|].
-  destruct (cstart c t); [exists x; split; [exact H|right; reflexivity]|].
-  destruct (is_quote c); [eapply G; exact H|].
-  destruct (is_sp c).
-  - destruct ps; cbn [app] in H.
-    + destruct (IH _ _ _ H) as (d & Hd & E). exists d. split; [right; exact Hd|exact E].
-    + eapply G; exact H.
-  - eapply G; exact H.
+  unfold l010_line. induction cl as [|p t IH]; intro b; [constructor|]. cbn [take_l trim_l]. destruct (lblank p) eqn:E.
+  - cbn [app]. apply e_keepp; [apply blank_plain; apply (lblank_spec p E)|apply IH].
+  - cbn [app]. apply edit_l010_scan.
 Qed.
 
-Lemma l010_scan_blank : forall l q ps, forallb is_blank l = true -> forallb is_blank (l010_scan q ps l) = true.
+Lemma l010_lock : lock l010_line.
+Proof. apply edit_is_lock. intros cl _. apply edit_l010. Qed.
+
+Lemma l010_scan_idem : forall l ps, l010_scan ps (l010_scan ps l) = l010_scan ps l.
 Proof.
-  intros l q ps H. apply forallb_forall. intros x Hx. apply l010_scan_in in Hx. destruct Hx as (c & Hc & [E|E]); subst.
-  - rewrite is_blank_wr. rewrite forallb_forall in H. apply H. exact Hc.
-  - rewrite forallb_forall in H. apply H. exact Hc.
+  induction l as [|p t IH]; intro ps; [reflexivity|]. cbn [l010_scan]. destruct (cspace p) eqn:E.
+  - destruct ps; cbn [app]; [apply IH|]. cbn [l010_scan]. rewrite E. cbn [app]. rewrite IH. reflexivity.
+  - cbn [l010_scan]. rewrite E. rewrite IH. reflexivity.
 Qed.
 
-(* the scan of a line that starts with a non-blank character starts with that character *)
-Lemma l010_scan_head : forall c t, is_blank c = false ->
-  exists c' r, l010_scan None false (c :: t) = c' :: r /\ is_blank c' = false.
+Lemma cspace_lblank : forall p, cspace p = true -> lblank p = true.
+Proof. intros p H. unfold cspace in H. unfold lblank. apply andb_prop in H. destruct H as [H1 H2]. rewrite (sp_blank _ H1), H2. reflexivity. Qed.
+
+Lemma take_l_all_id : forall {A} (q : A -> bool) X, forallb q X = true -> take_l q X = X /\ trim_l q X = [].
 Proof.
-  intros c t H. cbn [l010_scan]. destruct (cstart c t); [exists c, t; split; [reflexivity|exact H]|].
-  assert (Hw : is_blank (wr c) = false) by (rewrite is_blank_wr; exact H).
-  destruct (is_quote c); [eexists _, _; split; [reflexivity|exact Hw]|].
-  unfold is_blank in H. apply orb_false_elim in H. destruct H as [H _]. rewrite H. eexists _, _; split; [reflexivity|exact Hw].
+  intros A q. induction X as [|x X IH]; intro H; [split; reflexivity|]. cbn in *. apply andb_prop in H. destruct H as [H1 H2].
+  rewrite H1. destruct (IH H2) as [I1 I2]. rewrite I1, I2. split; reflexivity.
 Qed.
 
-Lemma l010_line_idem : forall l, l010_fix_line (l010_fix_line l) = l010_fix_line l.
+Lemma l010_line_idem : forall l, l010_line (l010_line l) = l010_line l.
 Proof.
-  intro l.
-  assert (E0 : l010_fix_line l = match trim_l is_blank l with
-                                 | [] => l010_scan None false l
-                                 | rest => take_l is_blank l ++ l010_scan None false rest end) by reflexivity.
-  destruct (trim_l is_blank l) as [|c r] eqn:E.
-  - apply trim_l_nil_iff in E. pose proof (l010_scan_blank l None false E) as Hb.
-    rewrite E0. unfold l010_fix_line. apply trim_l_nil_iff in Hb. rewrite Hb. apply l010_scan_idem.
-  - pose proof (trim_l_head _ _ _ _ E) as Hc.
-    destruct (l010_scan_head c r Hc) as (c' & s & Hs & Hc').
-    pose proof (take_l_all is_blank l) as Hlead.
-    rewrite E0. unfold l010_fix_line. rewrite Hs.
-    rewrite trim_l_app_all by exact Hlead. rewrite trim_l_stop by exact Hc'.
-    rewrite take_l_app_all by exact Hlead. rewrite take_l_stop by exact Hc'.
-    rewrite app_nil_r. rewrite <- Hs. rewrite l010_scan_idem. reflexivity.
+  intro l. assert (E0 : l010_line l = take_l lblank l ++ l010_scan false (trim_l lblank l)) by reflexivity.
+  rewrite E0. pose proof (take_l_all lblank l) as Hlead.
+  destruct (trim_l lblank l) as [|p r] eqn:E.
+  - cbn [l010_scan]. rewrite app_nil_r. unfold l010_line. destruct (take_l_all_id lblank _ Hlead) as [I1 I2].
+    rewrite I1, I2. cbn [l010_scan]. apply app_nil_r.
+  - pose proof (trim_l_head _ _ _ _ E) as Hp.
+    assert (Hc : cspace p = false) by (destruct (cspace p) eqn:Ec; [rewrite (cspace_lblank p Ec) in Hp; discriminate|reflexivity]).
+    cbn [l010_scan]. rewrite Hc. unfold l010_line.
+    rewrite trim_l_app_all by exact Hlead. rewrite trim_l_stop by exact Hp.
+    rewrite take_l_app_all by exact Hlead. rewrite take_l_stop by exact Hp. rewrite app_nil_r.
+    cbn [l010_scan]. rewrite Hc. rewrite l010_scan_idem. reflexivity.
 Qed.
 
-Lemma l010_line_keeps : forall l, no_nl l -> no_nl (l010_fix_line l).
-Proof.
-  intros l H x Hx. unfold l010_fix_line in Hx.
-  assert (G : forall m, (forall y, In y m -> In y l) -> In x (l010_scan None false m) -> is_nl x = false).
-  { intros m Hm Hin. apply l010_scan_in in Hin. destruct Hin as (c & Hc & [E|E]); subst; [apply is_nl_wr|]; apply H; apply Hm; exact Hc. }
-  destruct (trim_l is_blank l) as [|c r] eqn:E.
-  - eapply G; [|exact Hx]. auto.
-  - apply in_app_or in Hx. destruct Hx as [Hx|Hx].
-    + apply H. eapply take_l_incl. exact Hx.
-    + eapply G; [|exact Hx]. intros y Hy. eapply trim_l_incl. rewrite E. exact Hy.
-Qed.
+Theorem l010_fix_idempotent : forall t, l010_fix (l010_fix t) = l010_fix t.
+Proof. intro t. apply (per_cline_idem l010_line l010_lock l010_line_idem). Qed.
 
-Lemma l010_fix_idempotent : forall t, l010_fix (l010_fix t) = l010_fix t.
-Proof.
-  intro t. change (per_line l010_fix_line (per_line l010_fix_line t) = per_line l010_fix_line t).
-  apply per_line_idem; [exact l010_line_keeps|intros l _; apply l010_line_idem].
-Qed.
+Section L010Reading.
+  Variable is_space : N -> bool.
+  Variable upper_ascii : N -> option N.
+  Notation RD := (RD is_space upper_ascii).
+  Notation item := (item is_space upper_ascii).
+  Notation rest_ws := (rest_ws is_space).
+
+  Definition sif (b : bool) (X : list vtok) : list vtok := if b then scons VW X else X.
+
+  Lemma sp_wsc : forall c, is_sp c = true -> wsc is_space c = true.
+  Proof. intros c H. unfold wsc, is_blank. rewrite H. rewrite orb_true_r. reflexivity. Qed.
+
+  Lemma rest_ws_l010_scan : forall t ps, rest_ws (l010_scan ps t) = rest_ws t.
+  Proof.
+    unfold Lint.rest_ws. induction t as [|p t IH]; intro ps; [reflexivity|]. cbn [l010_scan]. destruct (cspace p) eqn:E.
+    - destruct (cspace_spec p E) as [S _]. cbn [forallb]. rewrite (sp_wsc _ S). cbn [andb]. destruct ps; cbn [app forallb]; rewrite ?(sp_wsc _ S); cbn [andb]; apply IH.
+    - cbn [forallb]. rewrite IH. reflexivity.
+  Qed.
+
+  Lemma item_code_space : forall p t, cspace p = true -> item p t = VW.
+  Proof. intros p t H. destruct (cspace_spec p H) as [S K]. unfold Lint.item, Lint.vt. rewrite K. cbn [N.eqb]. rewrite (sp_wsc _ S). reflexivity. Qed.
+
+  Lemma RD_l010_scan : forall t Z ps, sif ps (RD (l010_scan ps t) Z) = sif ps (RD t Z).
+  Proof.
+    induction t as [|p t IH]; intros Z ps; [reflexivity|]. cbn [l010_scan]. destruct (cspace p) eqn:E.
+    - cbn [Lint.RD]. rewrite (item_code_space p t E). destruct ps; cbn [app sif].
+      + rewrite scons_W_idem. exact (IH Z true).
+      + cbn [Lint.RD]. rewrite (item_code_space p _ E). exact (IH Z true).
+    - cbn [Lint.RD]. f_equal. unfold Lint.item. rewrite rest_ws_l010_scan. rewrite (IH Z false : RD _ _ = RD _ _). reflexivity.
+  Qed.
+
+  Lemma l010_line_RD : forall cl Z, RD (l010_line cl) Z = RD cl Z.
+  Proof.
+    intros cl Z. unfold l010_line. rewrite <- (take_trim_l lblank cl) at 3.
+    destruct (lblank_wsp is_space (take_l lblank cl) (take_l_all lblank cl)) as [_ C].
+    rewrite !RD_app_code by exact C. f_equal. exact (RD_l010_scan (trim_l lblank cl) Z false).
+  Qed.
+
+  Theorem l010_keeps_reading : forall t, reading is_space upper_ascii (l010_fix t) = reading is_space upper_ascii t.
+  Proof.
+    intro t. unfold reading, l010_fix. rewrite (relex l010_line t l010_lock). f_equal.
+    apply RDL_map; [apply clines_cons_ok|]. intros cl Z _. apply l010_line_RD.
+  Qed.
+End L010Reading.
+
+(* ------------------------------------------------------------------------------------------------ *)
+(* L007 *)
+
+Section L007.
+  Variables is_letter is_digit is_space : N -> bool.
+  Variable upper_ascii : N -> option N.
+  Variable keywords : list (list N).
+  (* facts about the tables, decided on the regenerated tables in Inst_C17 *)
+  Definition plainN (n : N) : Prop := nq n <> 39 /\ nq n <> 34 /\ n <> 96 /\ n <> 45 /\ n <> 42 /\ n <> 47 /\ n <> 10.
+  Hypothesis up_plain : forall x u, upper_ascii x = Some u -> plainN x /\ plainN u.
+  Hypothesis up_letter : forall x u, upper_ascii x = Some u -> is_letter u = true.
+  Hypothesis up_idem : forall x u, upper_ascii x = Some u -> upper_ascii u = Some u.
+  Hypothesis up_nows : forall x u, upper_ascii x = Some u -> is_space x = false /\ x <> 32 /\ x <> 9 /\ x <> 10.
+
+  Notation kw_of := (kw_of upper_ascii keywords).
+  Notation conv_word := (conv_word upper_ascii keywords).
+  Notation scan := (l007_scan is_letter is_digit upper_ascii keywords).
+  Notation line7 := (l007_line is_letter is_digit upper_ascii keywords).
+  Notation wordc := (wordc is_letter is_digit).
+
+  Lemma plainN_plainc : forall c, plainN (cp c) -> plainc c = true.
+  Proof.
+    intros c (A & B & C & D & E & F & G). unfold plainc, is_quote, lan, is_nl.
+    apply N.eqb_neq in A. apply N.eqb_neq in B. apply N.eqb_neq in C. apply N.eqb_neq in D. apply N.eqb_neq in E. apply N.eqb_neq in F. apply N.eqb_neq in G.
+    rewrite A, B, C, D, E, F, G. reflexivity.
+  Qed.
+
+  (* the fixed line is related to the line character by character: a character is copied, or a code character with an
+     upper-case ASCII image is replaced by that image *)
+  Definition prel (p p' : cc) : Prop := p' = p \/ (snd p = 0 /\ exists u, upper_ascii (cp (fst p)) = Some u /\ p' = (asc u, 0)).
+
+  Lemma Forall2_refl_prel : forall w, Forall2 prel w w.
+  Proof. induction w as [|p w IH]; constructor; [left; reflexivity|exact IH]. Qed.
+
+  Lemma conv_prel : forall w, (forall p, In p w -> snd p = 0) -> Forall2 prel w (conv_word w).
+  Proof.
+    intros w Hw. unfold Lint.conv_word, Lint.kw_of.
+    destruct (all_some (map (fun c => upper_ascii (cp c)) (chars w))) as [u|] eqn:E; [|apply Forall2_refl_prel].
+    destruct (existsb (list_eqb u) keywords); [|apply Forall2_refl_prel].
+    revert u E. induction w as [|p w IH]; intros u E; cbn in E; [inversion E; constructor|].
+    destruct (upper_ascii (cp (fst p))) as [x|] eqn:Ex; [|discriminate].
+    destruct (all_some (map (fun c0 => upper_ascii (cp c0)) (map fst w))) as [r|] eqn:Er; [|discriminate].
+    inversion E; subst. cbn [map]. constructor.
+    - right. split; [apply Hw; left; reflexivity|]. exists x. split; [exact Ex|reflexivity].
+    - apply IH; [intros q Hq; apply Hw; right; exact Hq|exact Er].
+  Qed.
+
+  Definition curcode (cur : option (list cc)) : Prop := match cur with Some w => forall p, In p w -> snd p = 0 | None => True end.
+  Definition pre (cur : option (list cc)) : list cc := match cur with Some w => rev w | None => [] end.
+
+  Lemma flush_prel : forall cur, curcode cur ->
+    Forall2 prel (pre cur) (match cur with Some w => conv_word (rev w) | None => [] end).
+  Proof. intros [w|] H; [|constructor]. apply conv_prel. intros p Hp. apply H. apply in_rev. exact Hp. Qed.
+
+  Lemma wordc_code : forall inw p, wordc inw p = true -> snd p = 0.
+  Proof. intros inw p H. unfold Lint.wordc, code0 in H. apply andb_prop in H. destruct H as [H _]. apply N.eqb_eq. exact H. Qed.
+
+  Lemma scan7_prel : forall l cur, curcode cur -> Forall2 prel (pre cur ++ l) (scan cur l).
+  Proof.
+    induction l as [|p t IH]; intros cur H.
+    - cbn [l007_scan]. rewrite app_nil_r. apply flush_prel. exact H.
+    - cbn [l007_scan]. destruct (wordc match cur with Some _ => true | None => false end p) eqn:E.
+      + set (cur' := Some (p :: match cur with Some w => w | None => [] end)).
+        assert (Hc' : curcode cur').
+        { unfold cur', curcode. intros x [Hx|Hx]; [subst; eapply wordc_code; exact E|]. destruct cur as [w|]; [apply H; exact Hx|destruct Hx]. }
+        specialize (IH cur' Hc'). unfold cur', pre in IH. cbn [rev] in IH. rewrite <- app_assoc in IH. cbn [app] in IH.
+        destruct cur as [w|]; exact IH.
+      + apply Forall2_app; [apply flush_prel; exact H|]. constructor; [left; reflexivity|apply (IH None I)].
+  Qed.
+
+  Lemma line7_prel : forall l, Forall2 prel l (line7 l).
+  Proof. intro l. unfold l007_line. exact (scan7_prel l None I). Qed.
+
+  Lemma prel_lan : forall p p', prel p p' -> lan (fst p') = lan (fst p).
+  Proof.
+    intros p p' [H|(K & u & H1 & H2)]; subst; [reflexivity|]. destruct (up_plain _ _ H1) as [P1 P2].
+    cbn [fst]. rewrite (plain_lan _ (plainN_plainc (asc u) P2)). rewrite (plain_lan _ (plainN_plainc (fst p) P1)). reflexivity.
+  Qed.
+
+  Lemma prel_la : forall t t', Forall2 prel t t' -> la_eq (chars t) (chars t').
+  Proof.
+    intros t t' H. destruct H as [|p p' t t' Hp _]; [apply la_eq_refl|]. cbn [chars map].
+    destruct Hp as [Hp|(K & u & H1 & H2)]; subst; [apply la_same_head|]. destruct (up_plain _ _ H1) as [P1 P2].
+    apply la_plain_heads; apply plain_lan; apply plainN_plainc; assumption.
+  Qed.
+
+  Lemma prel_edit : forall cl out, Forall2 prel cl out -> forall b, edit b cl out.
+  Proof.
+    intros cl out H. induction H as [|p p' t t' Hp Ht IH]; intro b; [constructor|].
+    destruct Hp as [Hp|(K & u & H1 & H2)]; subst.
+    - apply e_keep; [apply IH|apply prel_la; exact Ht].
+    - destruct (up_plain _ _ H1) as [P1 P2].
+      apply e_del; [apply plainN_plainc; exact P1|left; exact K|]. unfold code0. rewrite K. cbn [N.eqb].
+      apply e_ins; [apply (plainN_plainc (asc u)); exact P2|apply IH].
+  Qed.
+
+  Lemma l007_lock : lock line7.
+  Proof. apply edit_is_lock. intros cl _. apply prel_edit. apply line7_prel. Qed.
+
+  (* ---- reading ---- *)
+  Notation RD := (RD is_space upper_ascii).
+  Notation item := (item is_space upper_ascii).
+  Notation rest_ws := (rest_ws is_space).
+  Notation wsc := (wsc is_space).
+
+  Lemma up_not_wsc : forall c u, upper_ascii (cp c) = Some u -> wsc c = false.
+  Proof.
+    intros c u H. destruct (up_nows _ _ H) as (S1 & S2 & S3 & S4). unfold Lint.wsc, spacec, is_blank, is_sp, is_tab, is_nl.
+    rewrite S1. apply N.eqb_neq in S2. apply N.eqb_neq in S3. apply N.eqb_neq in S4. rewrite S2, S3, S4. reflexivity.
+  Qed.
+
+  Lemma prel_wsc : forall p p', prel p p' -> wsc (fst p') = wsc (fst p).
+  Proof.
+    intros p p' [H|(K & u & H1 & H2)]; subst; [reflexivity|]. cbn [fst].
+    rewrite (up_not_wsc (fst p) u H1). apply (up_not_wsc (asc u) u). cbn [asc cp]. exact (up_idem _ _ H1).
+  Qed.
+
+  Lemma prel_rest_ws : forall t t', Forall2 prel t t' -> rest_ws t' = rest_ws t.
+  Proof.
+    unfold Lint.rest_ws. intros t t' H. induction H as [|p p' t t' Hp _ IH]; [reflexivity|]. cbn [forallb].
+    rewrite (prel_wsc p p' Hp), IH. reflexivity.
+  Qed.
+
+  Lemma prel_item : forall p p' t t', prel p p' -> Forall2 prel t t' -> item p' t' = item p t.
+  Proof.
+    intros p p' t t' Hp Ht. destruct Hp as [Hp|(K & u & H1 & H2)]; subst.
+    - unfold Lint.item. rewrite (prel_rest_ws t t' Ht). reflexivity.
+    - unfold Lint.item. cbn [snd fst]. rewrite K. cbn [N.eqb]. unfold Lint.vt.
+      rewrite (up_not_wsc (fst p) u H1).
+      assert (Ea : upper_ascii (cp (asc u)) = Some u) by (cbn [asc cp]; exact (up_idem _ _ H1)).
+      rewrite (up_not_wsc (asc u) u Ea). unfold Lint.fold. rewrite Ea, H1. reflexivity.
+  Qed.
+
+  Lemma prel_RD : forall cl out Z, Forall2 prel cl out -> RD out Z = RD cl Z.
+  Proof.
+    intros cl out Z H. induction H as [|p p' t t' Hp Ht IH]; [reflexivity|]. cbn [Lint.RD].
+    rewrite (prel_item p p' t t' Hp Ht), IH. reflexivity.
+  Qed.
+
+  Theorem l007_keeps_reading : forall t,
+    reading is_space upper_ascii (l007_fix is_letter is_digit upper_ascii keywords t) = reading is_space upper_ascii t.
+  Proof.
+    intro t. unfold reading, l007_fix. rewrite (relex line7 t l007_lock). f_equal.
+    apply RDL_map; [apply clines_cons_ok|]. intros cl Z _. apply prel_RD. apply line7_prel.
+  Qed.
+End L007.
 
 (* ------------------------------------------------------------------------------------------------ *)
 (* L003 *)
 
 Section L003.
   Variable is_space : N -> bool.
-  Notation blank := (blank_line is_space).
+  Notation blank := (cblank is_space).
 
   (* no run of blank lines exceeds mx, the first run being counted from cnt *)
-  Fixpoint bounded (mx cnt : nat) (ls : list (list ch)) : bool :=
+  Fixpoint bounded (mx cnt : nat) (ls : list (bool * list cc)) : bool :=
     match ls with
     | [] => true
     | l :: r => if blank l then (S cnt <=? mx)%nat && bounded mx (S cnt) r else bounded mx 0 r
@@ -481,10 +1242,10 @@ Section L003.
     specialize (IH (S cnt) Hr H2). cbn [length]. lia.
   Qed.
 
-  Lemma bounded_app : forall mx pre suf cnt, bounded mx cnt (pre ++ suf) = true ->
-    exists c, (c <= mx \/ (pre = [] /\ c = cnt))%nat /\ bounded mx c suf = true.
+  Lemma bounded_app : forall mx pr suf cnt, bounded mx cnt (pr ++ suf) = true ->
+    exists c, (c <= mx \/ (pr = [] /\ c = cnt))%nat /\ bounded mx c suf = true.
   Proof.
-    intros mx. induction pre as [|l r IH]; intros suf cnt H.
+    intros mx. induction pr as [|l r IH]; intros suf cnt H.
     - exists cnt. split; [right; split; reflexivity|exact H].
     - cbn [app bounded] in H. destruct (blank l).
       + apply andb_prop in H. destruct H as [H1 H2]. apply Nat.leb_le in H1.
@@ -517,16 +1278,6 @@ Section L003.
     symmetry. apply Nat.ltb_ge. exact Ht.
   Qed.
 
-  (* the lines that the fixer keeps *)
-  Definition l003_lines (mx : nat) (ls : list (list ch)) : list (list ch) :=
-    let res := l003_pass is_space mx 0 ls in l003_trim_end is_space (length res) mx res.
-
-  Lemma l003_lines_eq : forall mx ls, l003_lines mx ls = l003_pass is_space mx 0 ls.
-  Proof.
-    intros mx ls. unfold l003_lines. apply trim_end_fixed.
-    exact (pass_bounded mx ls 0%nat).
-  Qed.
-
   Lemma pass_incl : forall mx ls cnt x, In x (l003_pass is_space mx cnt ls) -> In x ls.
   Proof.
     intros mx. induction ls as [|l r IH]; intros cnt x H; [exact H|]. cbn [l003_pass] in H.
@@ -541,26 +1292,6 @@ Section L003.
     replace (1 <=? mx)%nat with true by (symmetry; apply Nat.leb_le; exact Hm). discriminate.
   Qed.
 
-  Lemma l003_split_fix : forall mx t, (1 <= mx)%nat ->
-    split_nl (l003_fix_mx is_space mx t) = l003_pass is_space mx 0 (split_nl t).
-  Proof.
-    intros mx t Hm. unfold l003_fix_mx. fold (l003_lines mx (split_nl t)). rewrite l003_lines_eq.
-    apply split_join.
-    - apply pass_nonempty; [exact Hm|apply split_nonempty].
-    - apply Forall_forall. intros x Hx. apply pass_incl in Hx.
-      pose proof (split_no_nl t) as Hall. rewrite Forall_forall in Hall. apply Hall. exact Hx.
-  Qed.
-
-  Lemma l003_fix_idempotent_mx : forall mx t, (1 <= mx)%nat ->
-    l003_fix_mx is_space mx (l003_fix_mx is_space mx t) = l003_fix_mx is_space mx t.
-  Proof.
-    intros mx t Hm. unfold l003_fix_mx at 1. fold (l003_lines mx (split_nl (l003_fix_mx is_space mx t))).
-    rewrite l003_lines_eq. rewrite (l003_split_fix mx t Hm).
-    rewrite pass_fixed by exact (pass_bounded mx (split_nl t) 0%nat).
-    unfold l003_fix_mx. fold (l003_lines mx (split_nl t)). rewrite l003_lines_eq. reflexivity.
-  Qed.
-
-  (* re-lint after fix *)
   Lemma check_bounded : forall mx ls cnt start n, (cnt <= mx)%nat -> bounded mx cnt ls = true ->
     l003_check_lines is_space mx cnt start n ls = [].
   Proof.
@@ -572,1116 +1303,299 @@ Section L003.
         apply IH; [lia|exact H].
   Qed.
 
-  Lemma l003_fix_clears_mx : forall mx t, (1 <= mx)%nat -> l003_check_mx is_space mx (l003_fix_mx is_space mx t) = [].
+  Lemma l003_lines_eq : forall mx ls, l003_lines is_space mx ls = l003_pass is_space mx 0 ls.
   Proof.
-    intros mx t Hm. unfold l003_check_mx. rewrite (l003_split_fix mx t Hm).
-    apply check_bounded; [lia|]. exact (pass_bounded mx (split_nl t) 0%nat).
+    intros mx ls. unfold l003_lines. apply trim_end_fixed. exact (pass_bounded mx ls 0%nat).
   Qed.
 End L003.
 
-(* ------------------------------------------------------------------------------------------------ *)
-(* well-formed characters: what [decode] produces.  An ASCII byte occurs in the source bytes of a
-   character only as that whole character (UTF-8 is self-synchronising). *)
-
-
-Lemma wfc_asc : forall b, wfc (asc b).
-Proof.
-  intro b. unfold wfc, asc. cbn [raw cp valid]. split; [discriminate|]. split; [|split].
-  - intros x [Hx|[]] _. subst. split; reflexivity.
-  - intros _. reflexivity.
-  - intros _. reflexivity.
-Qed.
-
-Lemma wfc_high : forall p r v, r <> [] -> (forall b, In b r -> 128 <= b) -> 128 <= p -> wfc (mkch p r v).
-Proof.
-  intros p r v Hr Hb Hp. unfold wfc. cbn [raw cp valid]. split; [exact Hr|]. split; [|split].
-  - intros b Hin Hlt. specialize (Hb b Hin). lia.
-  - intro Hlt. lia.
-  - intro Hlt. lia.
-Qed.
-
-Lemma between_spec : forall lo x hi, between lo x hi = true -> lo <= x /\ x <= hi.
-Proof. intros lo x hi H. unfold between in H. apply andb_prop in H. destruct H as [H1 H2]. apply N.leb_le in H1. apply N.leb_le in H2. split; assumption. Qed.
-Lemma cont_spec : forall b, cont b = true -> 128 <= b /\ b <= 191.
-Proof. intros b H. unfold cont in H. apply andb_prop in H. destruct H as [H1 H2]. apply N.leb_le in H1. apply N.leb_le in H2. split; assumption. Qed.
-
-Lemma dec1_wf : forall b0 t, wfc (dec1 (b0 :: t)).
-Proof.
-  intros b0 t. cbn [dec1].
-  destruct (b0 <? 128) eqn:E0; [apply wfc_asc|]. apply N.ltb_ge in E0.
-  assert (Hbad : wfc (badc b0)).
-  { apply wfc_high; [discriminate| |lia]. intros b [Hb|[]]. subst. exact E0. }
-  destruct (between 194 b0 223) eqn:E1.
-  { apply between_spec in E1. destruct t as [|b1 t]; [exact Hbad|]. destruct (cont b1) eqn:C1; [|exact Hbad].
-    apply cont_spec in C1. apply wfc_high; [discriminate| |lia].
-    intros b [Hb|[Hb|[]]]; subst; lia. }
-  destruct (between 224 b0 239) eqn:E2.
-  { apply between_spec in E2. destruct t as [|b1 [|b2 t]]; try exact Hbad.
-    destruct (between (if b0 =? 224 then 160 else 128) b1 (if b0 =? 237 then 159 else 191) && cont b2) eqn:C; [|exact Hbad].
-    apply andb_prop in C. destruct C as [C1 C2]. apply between_spec in C1. apply cont_spec in C2.
-    apply wfc_high; [discriminate| |].
-    - intros b [Hb|[Hb|[Hb|[]]]]; subst; try lia. destruct (b0 =? 224); lia.
-    - destruct (b0 =? 224) eqn:Eb; [apply N.eqb_eq in Eb; subst; lia|apply N.eqb_neq in Eb; lia]. }
-  destruct (between 240 b0 244) eqn:E3.
-  { apply between_spec in E3. destruct t as [|b1 [|b2 [|b3 t]]]; try exact Hbad.
-    destruct (between (if b0 =? 240 then 144 else 128) b1 (if b0 =? 244 then 143 else 191) && cont b2 && cont b3) eqn:C; [|exact Hbad].
-    apply andb_prop in C. destruct C as [C C3]. apply andb_prop in C. destruct C as [C1 C2].
-    apply between_spec in C1. apply cont_spec in C2. apply cont_spec in C3.
-    apply wfc_high; [discriminate| |].
-    - intros b [Hb|[Hb|[Hb|[Hb|[]]]]]; subst; try lia. destruct (b0 =? 240); lia.
-    - destruct (b0 =? 240) eqn:Eb; [apply N.eqb_eq in Eb; subst; lia|apply N.eqb_neq in Eb; lia]. }
-  exact Hbad.
-Qed.
-
-Lemma decode_go_wf : forall s skip, wft (decode_go skip s).
-Proof.
-  induction s as [|b t IH]; intros skip c Hc; [destruct Hc|].
-  cbn [decode_go] in Hc. destruct skip as [|k].
-  - destruct Hc as [Hc|Hc]; [subst; apply dec1_wf|eapply IH; exact Hc].
-  - eapply IH; exact Hc.
-Qed.
-
-Theorem decode_wf : forall s, wft (decode s).
-Proof. intro s. apply decode_go_wf. Qed.
-
-(* ------------------------------------------------------------------------------------------------ *)
-(* lines of a text *)
-
-Lemma split_incl : forall t l c, In l (split_nl t) -> In c l -> In c t.
-Proof.
-  induction t as [|d t IH]; intros l c Hl Hc.
-  - cbn in Hl. destruct Hl as [Hl|[]]. subst. destruct Hc.
-  - destruct (is_nl d) eqn:E.
-    + cbn [split_nl] in Hl. rewrite E in Hl. destruct Hl as [Hl|Hl]; [subst; destruct Hc|right; eapply IH; eassumption].
-    + destruct (split_cons_other d t E) as (h & r & E1 & E2). rewrite E2 in Hl. destruct Hl as [Hl|Hl].
-      * subst. destruct Hc as [Hc|Hc]; [left; exact Hc|right]. eapply IH; [rewrite E1; left; reflexivity|exact Hc].
-      * right. eapply IH; [rewrite E1; right; exact Hl|exact Hc].
-Qed.
-
-Lemma on_lines_in : forall f ls k v, In v (on_lines f k ls) <->
-  exists i l, nth_error ls i = Some l /\ In v (f (k + i)%nat l).
-Proof.
-  intros f. induction ls as [|l r IH]; intros k v.
-  - cbn. split; [intros []|]. intros (i & l & H & _). destruct i; discriminate.
-  - cbn [on_lines]. rewrite in_app_iff. rewrite IH. split.
-    + intros [H|(i & l' & H1 & H2)].
-      * exists 0%nat, l. split; [reflexivity|]. rewrite Nat.add_0_r. exact H.
-      * exists (S i), l'. split; [exact H1|]. replace (k + S i)%nat with (S k + i)%nat by lia. exact H2.
-    + intros (i & l' & H1 & H2). destruct i as [|i].
-      * cbn in H1. inversion H1; subst. left. rewrite Nat.add_0_r in H2. exact H2.
-      * right. exists i, l'. split; [exact H1|]. replace (S k + i)%nat with (k + S i)%nat by lia. exact H2.
-Qed.
-
-Lemma on_lines_nil : forall f ls k, (forall n l, In l ls -> f n l = []) -> on_lines f k ls = [].
-Proof.
-  intros f. induction ls as [|l r IH]; intros k H; [reflexivity|]. cbn [on_lines].
-  rewrite H by (left; reflexivity). cbn [app]. apply IH. intros n l' Hl. apply H. right. exact Hl.
-Qed.
-
-(* last character / last byte *)
-
-Lemma lastc_cons : forall {A} (c : A) t, t <> [] -> lastc (c :: t) = lastc t.
-Proof. intros A c [|d t] H; [contradiction|reflexivity]. Qed.
-
-Lemma last_byte_is_lastc : forall l, last_byte l = lastc l.
-Proof. induction l as [|b [|c t] IH]; [reflexivity|reflexivity|]. change (last_byte (c :: t) = lastc (c :: t)). exact IH. Qed.
-
-Lemma lastc_app : forall {A} (a b : list A), b <> [] -> lastc (a ++ b) = lastc b.
-Proof.
-  intros A. induction a as [|c a IH]; intros b H; [reflexivity|].
-  change ((c :: a) ++ b) with (c :: (a ++ b)). rewrite lastc_cons; [apply IH; exact H|].
-  destruct a; [exact H|discriminate].
-Qed.
-
-Lemma lastc_trim_r : forall {A} (p : A -> bool) l c, lastc (trim_r p l) = Some c -> p c = false.
-Proof.
-  intros A p. induction l as [|d t IH]; intros c H; [discriminate|].
-  cbn [trim_r] in H. destruct (trim_r p t) as [|e t'] eqn:E.
-  - destruct (p d) eqn:Ed; [discriminate|]. inversion H; subst. exact Ed.
-  - rewrite lastc_cons in H by discriminate. apply IH. exact H.
-Qed.
-
-Lemma lastc_in : forall {A} (l : list A) c, lastc l = Some c -> In c l.
-Proof.
-  intros A. induction l as [|d [|e t] IH]; intros c H; [discriminate|inversion H; left; reflexivity|].
-  right. apply IH. exact H.
-Qed.
-
-Lemma lastc_encode : forall l c, wft l -> lastc l = Some c -> lastc (encode l) = lastc (raw c).
-Proof.
-  induction l as [|d t IH]; intros c Hw H; [discriminate|].
-  assert (Hd : wfc d) by (apply Hw; left; reflexivity).
-  assert (Ht : wft t) by (intros x Hx; apply Hw; right; exact Hx).
-  destruct t as [|e t].
-  - inversion H; subst. unfold encode. cbn. rewrite app_nil_r. reflexivity.
-  - rewrite lastc_cons in H by discriminate. unfold encode. cbn [flat_map].
-    rewrite lastc_app.
-    + apply (IH c Ht H).
-    + assert (He : wfc e) by (apply Ht; left; reflexivity). destruct He as (He & _).
-      cbn [flat_map]. destruct (raw e); [contradiction|discriminate].
-Qed.
-
-Lemma wfc_last_blank : forall c, wfc c -> is_blank c = true <-> exists b, lastc (raw c) = Some b /\ (b = 32 \/ b = 9).
-Proof.
-  intros c (Hne & Hb & Hc & _). unfold is_blank, is_sp, is_tab. split.
-  - intro H. apply orb_prop in H.
-    assert (Hlt : cp c < 128) by (destruct H as [H|H]; apply N.eqb_eq in H; lia).
-    rewrite (Hc Hlt). cbn. exists (cp c). split; [reflexivity|]. destruct H as [H|H]; apply N.eqb_eq in H; auto.
-  - intros (b & Hl & Hv). apply lastc_in in Hl.
-    assert (Hlt : b < 128) by (destruct Hv; lia). destruct (Hb b Hl Hlt) as (_ & E). rewrite E.
-    destruct Hv; subst; reflexivity.
-Qed.
-
-(* ------------------------------------------------------------------------------------------------ *)
-(* L001: exact flagging, re-lint *)
-
-
-Lemma l001_flag_spec : forall l, wft l -> l001_flag l = true <-> ends_blank l.
-Proof.
-  intros l Hw. unfold l001_flag, ends_blank. rewrite last_byte_is_lastc. split.
-  - intro H. destruct (lastc (encode l)) as [b|] eqn:E; [|discriminate].
-    destruct (lastc l) as [c|] eqn:Ec.
-    + exists c. split; [reflexivity|]. rewrite (lastc_encode l c Hw Ec) in E.
-      apply wfc_last_blank; [apply Hw; apply lastc_in; exact Ec|]. exists b. split; [exact E|].
-      apply orb_prop in H. destruct H as [H|H]; apply N.eqb_eq in H; auto.
-    + destruct l as [|d t]; [discriminate|]. exfalso. clear -Ec. revert d Ec. induction t as [|e t IH]; intros d Ec; [discriminate|].
-      rewrite lastc_cons in Ec by discriminate. eapply IH. exact Ec.
-  - intros (c & Ec & Hb). rewrite (lastc_encode l c Hw Ec).
-    apply wfc_last_blank in Hb; [|apply Hw; apply lastc_in; exact Ec]. destruct Hb as (b & Hl & Hv). rewrite Hl.
-    destruct Hv; subst; reflexivity.
-Qed.
-
-Lemma wft_line : forall t l, wft t -> In l (split_nl t) -> wft l.
-Proof. intros t l Hw Hl c Hc. apply Hw. eapply split_incl; eassumption. Qed.
-
-Lemma wft_trim_r : forall p l, wft l -> wft (trim_r p l).
-Proof. intros p l Hw c Hc. apply Hw. eapply trim_r_incl. exact Hc. Qed.
-
-Lemma l001_fix_clears : forall t, wft t -> l001_check (l001_fix t) = [].
-Proof.
-  intros t Hw. unfold l001_check. rewrite l001_fix_per_line. rewrite split_per_line by exact l001_line_keeps.
-  apply on_lines_nil. intros n l Hl. apply in_map_iff in Hl. destruct Hl as (l0 & E & Hl0). subst.
-  unfold l001_check_line. destruct (l001_flag (l001_fix_line l0)) eqn:F; [|reflexivity]. exfalso.
-  apply l001_flag_spec in F; [|apply wft_trim_r; eapply wft_line; eassumption].
-  destruct F as (c & Ec & Hb). unfold l001_fix_line in Ec. apply lastc_trim_r in Ec. congruence.
-Qed.
-
-(* a line is flagged exactly when it ends in a space or a tab; the column is the first trailing blank *)
-Lemma l001_check_exact : forall t n col, wft t ->
-  In (n, col) (l001_check t) <->
-  exists l, nth_error (split_nl t) (n - 1) = Some l /\ (1 <= n)%nat /\ ends_blank l /\ col = S (blen (trim_r is_blank l)).
-Proof.
-  intros t n col Hw. unfold l001_check. rewrite on_lines_in. split.
-  - intros (i & l & Hn & Hin). unfold l001_check_line in Hin. destruct (l001_flag l) eqn:F; [|destruct Hin].
-    destruct Hin as [Hin|[]]. inversion Hin; subst. exists l. replace (S i - 1)%nat with i by lia.
-    split; [exact Hn|]. split; [lia|]. split; [|reflexivity].
-    apply l001_flag_spec; [|exact F]. eapply wft_line; [exact Hw|]. eapply nth_error_In. exact Hn.
-  - intros (l & Hn & H1 & He & Hc). exists (n - 1)%nat, l. split; [exact Hn|].
-    unfold l001_check_line. assert (F : l001_flag l = true).
-    { apply l001_flag_spec; [|exact He]. eapply wft_line; [exact Hw|]. eapply nth_error_In. exact Hn. }
-    rewrite F. left. subst col. replace (1 + (n - 1))%nat with n by lia. reflexivity.
-Qed.
-
-Lemma blen_cons : forall c t, blen (c :: t) = (width c + blen t)%nat.
-Proof. reflexivity. Qed.
-
-Lemma blen_trim_r_le : forall p l, (blen (trim_r p l) <= blen l)%nat.
-Proof.
-  intros p. induction l as [|c t IH]; [cbn; lia|]. cbn [trim_r]. destruct (trim_r p t) as [|a r] eqn:E.
-  - destruct (p c); rewrite ?blen_cons; cbn [blen fold_right]; lia.
-  - rewrite (blen_cons c (a :: r)), (blen_cons c t). lia.
-Qed.
-
-Lemma trim_r_cons : forall {A} (p : A -> bool) c t,
-  trim_r p (c :: t) = match trim_r p t with [] => if p c then [] else [c] | t' => c :: t' end.
-Proof. reflexivity. Qed.
-
-Lemma blen_trim_r_lt : forall l, wft l -> ends_blank l -> (blen (trim_r is_blank l) < blen l)%nat.
-Proof.
-  induction l as [|c t IH]; intros Hw (d & Hd & Hb); [discriminate|].
-  assert (Hc : wfc c) by (apply Hw; left; reflexivity).
-  assert (Ht : wft t) by (intros x Hx; apply Hw; right; exact Hx).
-  destruct t as [|e t].
-  - inversion Hd; subst. cbn [trim_r]. rewrite Hb. destruct Hc as (Hne & _). rewrite blen_cons. unfold width.
-    destruct (raw d); [contradiction|cbn [length blen fold_right]; lia].
-  - rewrite lastc_cons in Hd by discriminate.
-    assert (IH' := IH Ht (ex_intro _ d (conj Hd Hb))).
-    rewrite (trim_r_cons is_blank c (e :: t)). destruct (trim_r is_blank (e :: t)) as [|a r] eqn:E.
-    + rewrite (blen_cons c (e :: t)). destruct (is_blank c); [|rewrite blen_cons]; cbn [blen fold_right] in *; lia.
-    + rewrite (blen_cons c (a :: r)), (blen_cons c (e :: t)). lia.
-Qed.
-
-(* the reported column exists in the flagged line *)
-Lemma l001_location : forall t n col, wft t -> In (n, col) (l001_check t) ->
-  exists l, nth_error (split_nl t) (n - 1) = Some l /\ (1 <= n <= length (split_nl t))%nat /\ (1 <= col <= blen l)%nat.
-Proof.
-  intros t n col Hw H. apply l001_check_exact in H; [|exact Hw]. destruct H as (l & Hn & H1 & He & Hc).
-  exists l. split; [exact Hn|]. split.
-  - split; [exact H1|]. assert (n - 1 < length (split_nl t))%nat by (apply nth_error_Some; congruence). lia.
-  - subst. assert (Hl : wft l) by (eapply wft_line; [exact Hw|eapply nth_error_In; exact Hn]).
-    pose proof (blen_trim_r_lt l Hl He). lia.
-Qed.
-
-(* ------------------------------------------------------------------------------------------------ *)
-(* L007 *)
-
-Section L007.
-  Variables is_letter is_digit : N -> bool.
+Section L003Text.
+  Variable is_space : N -> bool.
   Variable upper_ascii : N -> option N.
-  Variable keywords : list (list N).
+  (* white space characters are not delimiters of the scanner *)
+  Hypothesis sp_nodelim : sp_ok is_space.
+  Notation cblank := (cblank is_space).
+  Notation pass := (l003_pass is_space).
 
-  (* facts about the tables, decided on the regenerated tables in Inst_C17: the upper-case image of a rune
-     is a letter, is not a quote character, and is its own upper-case image *)
-  Hypothesis up_letter : forall x u, upper_ascii x = Some u -> is_letter u = true.
-  Hypothesis up_noquote : forall x u, upper_ascii x = Some u -> u <> 39 /\ u <> 34 /\ u <> 10.
-  Hypothesis up_idem : forall x u, upper_ascii x = Some u -> upper_ascii u = Some u.
-  (* the minus sign is neither a letter nor a digit (a comment start never lies inside a word) *)
-  Hypothesis nl45 : is_letter 45 = false.
-  Hypothesis nd45 : is_digit 45 = false.
-  Hypothesis up_nobt : forall x u, upper_ascii x = Some u -> u <> 96.
-
-  Notation word_start := (word_start is_letter).
-  Notation word_char := (word_char is_letter is_digit).
-  Notation kw_of := (kw_of upper_ascii keywords).
-  Notation conv_word := (conv_word upper_ascii keywords).
-  Notation scan := (l007_scan is_letter is_digit upper_ascii keywords).
-  Notation sN := (scan None None).
-  Notation sQ k := (scan (Some k) None).
-
-  Definition wc (c : ch) : bool := negb (is_quote c) && word_char c.
-
-  Lemma ws_not45 : forall c t, word_start c = true -> cstart c t = false.
+  Lemma spacec_plain : forall c, spacec is_space c = true -> is_nl c = false -> plainc c = true.
   Proof.
-    intros c t H. apply cstart_ne. destruct (cp c =? 45) eqn:E; [|reflexivity]. apply N.eqb_eq in E.
-    unfold Lint.word_start in H. rewrite E in H. rewrite nl45 in H. discriminate.
-  Qed.
-  Lemma wch_not45 : forall c t, word_char c = true -> cstart c t = false.
-  Proof.
-    intros c t H. apply cstart_ne. destruct (cp c =? 45) eqn:E; [|reflexivity]. apply N.eqb_eq in E.
-    unfold Lint.word_char, Lint.word_start in H. rewrite E in H. rewrite nl45, nd45 in H. discriminate.
+    intros c H Hn. destruct sp_nodelim as (A & B & C & D & E & F & Q1 & Q2 & Q3 & Q4 & Q5 & Q6). unfold spacec in H.
+    unfold plainc, is_quote, lan. rewrite Hn.
+    assert (G : forall n, is_space n = false -> (cp c =? n) = false).
+    { intros n Hs. destruct (cp c =? n) eqn:En; [|reflexivity]. apply N.eqb_eq in En. rewrite En in H. rewrite Hs in H. discriminate H. }
+    rewrite (nq_other (cp c) (G 8216 Q1) (G 8217 Q2) (G 171 Q3) (G 187 Q4) (G 8220 Q5) (G 8221 Q6)).
+    rewrite (G 39 A), (G 34 B), (G 96 C), (G 45 D), (G 42 E), (G 47 F). reflexivity.
   Qed.
 
-  Lemma word_start_wr : forall c, word_start (wr c) = word_start c.
-  Proof. intro c. unfold Lint.word_start. rewrite cp_wr. reflexivity. Qed.
-  Lemma word_char_wr : forall c, word_char (wr c) = word_char c.
-  Proof. intro c. unfold Lint.word_char. rewrite word_start_wr, cp_wr. reflexivity. Qed.
-  Lemma wc_wr : forall c, wc (wr c) = wc c.
-  Proof. intro c. unfold wc. rewrite is_quote_wr, word_char_wr. reflexivity. Qed.
-
-  Lemma sN_nil : sN [] = []. Proof. reflexivity. Qed.
-  Lemma sQ_nil : forall k, sQ k [] = []. Proof. reflexivity. Qed.
-  Lemma sN_comment : forall c t, cstart c t = true -> sN (c :: t) = c :: t.
-  Proof. intros c t H. cbn [l007_scan]. rewrite H. reflexivity. Qed.
-  Lemma sN_quote : forall c t, is_quote c = true -> sN (c :: t) = wr c :: sQ (cp c) t.
-  Proof. intros c t H. cbn [l007_scan]. rewrite (cstart_quote c t H). rewrite H. reflexivity. Qed.
-  Lemma sN_other : forall c t, cstart c t = false -> is_quote c = false -> word_start c = false -> sN (c :: t) = wr c :: sN t.
-  Proof. intros c t H0 H1 H2. cbn [l007_scan]. rewrite H0, H1, H2. reflexivity. Qed.
-  Lemma sQ_cons : forall k c t, sQ k (c :: t) = wr c :: (if cp c =? k then sN t else sQ k t).
-  Proof. intros k c t. cbn [l007_scan]. destruct (cp c =? k); reflexivity. Qed.
-
-  Lemma absorb : forall t w, scan None (Some w) t = scan None (Some (rev (map wr (take_l wc t)) ++ w)) (trim_l wc t).
+  Lemma blank_line_all : forall l, blank_line is_space l = true -> forallb (spacec is_space) l = true.
   Proof.
-    induction t as [|c t IH]; intro w; [reflexivity|].
-    cbn [take_l trim_l]. destruct (wc c) eqn:E; [|reflexivity].
-    unfold wc in E. apply andb_prop in E. destruct E as [E1 E2]. apply negb_true_iff in E1.
-    cbn [l007_scan]. rewrite (wch_not45 c t E2). rewrite E1.
-    assert (C : word_start c || true && is_digit (cp c) = true) by exact E2. rewrite C.
-    rewrite IH. cbn [map rev]. rewrite <- app_assoc. reflexivity.
+    intros l H. unfold blank_line, trim_space in H. destruct (trim_r (spacec is_space) (trim_l (spacec is_space) l)) eqn:E; [|discriminate].
+    apply trim_r_nil_iff in E. rewrite <- (take_trim_l (spacec is_space) l). rewrite forallb_app. rewrite take_l_all, E. reflexivity.
+  Qed.
+  Lemma all_blank_line : forall l, forallb (spacec is_space) l = true -> blank_line is_space l = true.
+  Proof.
+    intros l H. unfold blank_line, trim_space. apply trim_l_nil_iff in H. rewrite H. reflexivity.
   Qed.
 
-  Definition stops (r : list ch) : Prop := r = [] \/ exists d r', r = d :: r' /\ wc d = false.
-
-  Lemma boundary : forall w r, stops r -> scan None (Some w) r = conv_word (rev w) ++ sN r.
+  Lemma lex_plain_code : forall l, forallb plainc l = true -> lex SCode l = map (fun _ => 0) l /\ lex_end SCode l = SCode.
   Proof.
-    intros w r [H|(d & r' & H & Hd)]; subst.
-    - cbn [l007_scan]. rewrite app_nil_r. reflexivity.
-    - cbn [l007_scan]. destruct (cstart d r'); [reflexivity|]. destruct (is_quote d) eqn:Eq; [reflexivity|].
-      unfold wc in Hd. rewrite Eq in Hd. cbn [negb andb] in Hd.
-      unfold Lint.word_char in Hd. apply orb_false_elim in Hd. destruct Hd as [H1 H2].
-      rewrite H1, H2. cbn [orb andb]. reflexivity.
+    induction l as [|c t IH]; intro H; [split; reflexivity|]. cbn in H. apply andb_prop in H. destruct H as [H1 H2].
+    cbn [lex lex_end map]. rewrite (lstep_plain_code c t H1). cbn [fst snd]. destruct (IH H2) as [I1 I2]. rewrite I1, I2. split; reflexivity.
   Qed.
 
-  Lemma trim_l_stops : forall t, stops (trim_l wc t).
+  Lemma ws_line_plain : forall l, no_nl l -> forallb (spacec is_space) l = true -> forallb plainc l = true.
   Proof.
-    intro t. destruct (trim_l wc t) as [|d r] eqn:E; [left; reflexivity|right].
-    exists d, r. split; [reflexivity|]. eapply trim_l_head. exact E.
+    intros l Hn H. apply forallb_forall. intros c Hc. rewrite forallb_forall in H. apply spacec_plain; [apply H; exact Hc|apply Hn; exact Hc].
   Qed.
 
-  Lemma sN_word : forall c t, is_quote c = false -> word_start c = true ->
-    sN (c :: t) = conv_word (map wr (c :: take_l wc t)) ++ sN (trim_l wc t).
+  (* a blank line of code: scanned in code, it leaves the scanner in code *)
+  Lemma thread_blank : forall l r, no_nl l -> blank_line is_space l = true ->
+    thread SCode true (l :: r) = (true, combine l (map (fun _ => 0) l)) :: thread SCode true r.
   Proof.
-    intros c t H1 H2. cbn [l007_scan]. rewrite (ws_not45 c t H2). rewrite H1, H2. cbn [orb].
-    rewrite absorb. rewrite boundary by apply trim_l_stops.
-    rewrite rev_app_distr. rewrite rev_involutive. reflexivity.
-  Qed.
-
-  (* a complete word followed by a stop *)
-  Lemma sN_word_app : forall c v x, is_quote c = false -> word_start c = true -> forallb wc v = true -> stops x ->
-    sN (c :: v ++ x) = conv_word (map wr (c :: v)) ++ sN x.
-  Proof.
-    intros c v x H1 H2 Hv Hx. rewrite sN_word by assumption.
-    assert (E1 : take_l wc (v ++ x) = v).
-    { rewrite take_l_app_all by exact Hv. destruct Hx as [Hx|(d & r & Hx & Hd)]; subst; [rewrite app_nil_r; reflexivity|].
-      rewrite take_l_stop by exact Hd. rewrite app_nil_r. reflexivity. }
-    assert (E2 : trim_l wc (v ++ x) = x).
-    { rewrite trim_l_app_all by exact Hv. destruct Hx as [Hx|(d & r & Hx & Hd)]; subst; [reflexivity|].
-      apply trim_l_stop. exact Hd. }
+    intros l r Hn Hb. cbn [thread]. destruct (lex_plain_code l (ws_line_plain l Hn (blank_line_all l Hb))) as [E1 E2].
     rewrite E1, E2. reflexivity.
   Qed.
 
-  (* the converted word *)
-  Lemma all_some_length : forall l u, all_some l = Some u -> length u = length l.
+  Definition tinv (st : lst) (flag : bool) : Prop := flag = true -> st = SCode.
+
+  Lemma tinv_next : forall st l, tinv (snd (nl_step (lex_end st l))) (fst (nl_step (lex_end st l)) =? 0).
+  Proof. intros st l H. apply nl_step_code. exact H. Qed.
+
+  Lemma chars_snd_thread : forall st flag l, cblank (flag, combine l (lex st l)) = (flag && blank_line is_space l).
+  Proof. intros st flag l. unfold Lint.cblank. cbn [fst snd]. rewrite chars_combine by apply lex_length. reflexivity. Qed.
+
+  Lemma thread_pass : forall mx ls st flag cnt, tinv st flag -> Forall no_nl ls ->
+    thread st flag (map (fun fl => chars (snd fl)) (pass mx cnt (thread st flag ls))) = pass mx cnt (thread st flag ls).
   Proof.
-    induction l as [|[x|] l IH]; intros u H; cbn in H; [inversion H; reflexivity| |discriminate].
-    destruct (all_some l) as [r|]; [|discriminate]. inversion H; subst. cbn. f_equal. apply IH. reflexivity.
+    intros mx. induction ls as [|l r IH]; intros st flag cnt Hi Hall; [reflexivity|]. inversion Hall as [|? ? Hl Hr]; subst.
+    cbn [thread l003_pass]. rewrite chars_snd_thread. destruct (flag && blank_line is_space l) eqn:Eb.
+    - apply andb_prop in Eb. destruct Eb as [Ef Eb]. subst flag. rewrite (Hi eq_refl) in *.
+      destruct (lex_plain_code l (ws_line_plain l Hl (blank_line_all l Eb))) as [E1 E2]. rewrite E2. cbn [nl_step lstep fst snd N.eqb].
+      change (snd (nl_step SCode)) with SCode. change (fst (nl_step SCode) =? 0) with true.
+      destruct (S cnt <=? mx)%nat.
+      + cbn [map thread snd]. rewrite chars_combine by apply lex_length. rewrite E2.
+        change (snd (nl_step SCode)) with SCode. change (fst (nl_step SCode) =? 0) with true. f_equal. apply IH; [intros _; reflexivity|exact Hr].
+      + apply IH; [intros _; reflexivity|exact Hr].
+    - cbn [map thread snd]. rewrite chars_combine by apply lex_length. f_equal. apply IH; [apply tinv_next|exact Hr].
   Qed.
 
-  Lemma all_some_in : forall l u y, all_some l = Some u -> In y u -> In (Some y) l.
+  Lemma thread_chars_nonl : forall ls st flag, Forall no_nl ls -> forall fl, In fl (thread st flag ls) -> no_nl (chars (snd fl)).
   Proof.
-    induction l as [|[x|] l IH]; intros u y H Hy; cbn in H; [inversion H; subst; destruct Hy| |discriminate].
-    destruct (all_some l) as [r|] eqn:E; [|discriminate]. inversion H; subst.
-    destruct Hy as [Hy|Hy]; [left; subst; reflexivity|right; eapply IH; [reflexivity|exact Hy]].
+    induction ls as [|l r IH]; intros st flag Hall fl H; [destruct H|]. inversion Hall as [|? ? Hl Hr]; subst. cbn [thread] in H.
+    destruct H as [H|H]; [subst; cbn [snd]; rewrite chars_combine by apply lex_length; exact Hl|eapply IH; eassumption].
   Qed.
 
-  Lemma all_some_map_idem : forall (w : list ch) u, all_some (map (fun c => upper_ascii (cp c)) w) = Some u ->
-    all_some (map (fun c => upper_ascii (cp c)) (map asc u)) = Some u.
+  Lemma l003_relex : forall mx t, (1 <= mx)%nat -> clines (l003_fix_mx is_space mx t) = pass mx 0 (clines t).
   Proof.
-    induction w as [|c w IH]; intros u H; cbn in H; [inversion H; reflexivity|].
-    destruct (upper_ascii (cp c)) as [x|] eqn:Ex; [|discriminate].
-    destruct (all_some (map (fun c0 => upper_ascii (cp c0)) w)) as [r|] eqn:Er; [|discriminate].
-    inversion H; subst. cbn. rewrite (up_idem _ _ Ex). rewrite (IH r eq_refl). reflexivity.
+    intros mx t Hm. unfold l003_fix_mx. rewrite l003_lines_eq. rewrite (clines_thread t). rewrite clines_join.
+    - apply thread_pass; [intros _; reflexivity|apply split_no_nl].
+    - apply map_ne. apply pass_nonempty; [exact Hm|]. apply thread_ne. apply split_nonempty.
+    - apply Forall_forall. intros x Hx. apply in_map_iff in Hx. destruct Hx as (fl & E & Hfl). subst. apply pass_incl in Hfl.
+      eapply thread_chars_nonl; [apply split_no_nl|exact Hfl].
   Qed.
 
-  Lemma kw_of_wr : forall w, kw_of (map wr w) = kw_of w.
+  Theorem l003_fix_idempotent_mx : forall mx t, (1 <= mx)%nat ->
+    l003_fix_mx is_space mx (l003_fix_mx is_space mx t) = l003_fix_mx is_space mx t.
   Proof.
-    intro w. unfold Lint.kw_of. rewrite map_map.
-    replace (map (fun x => upper_ascii (cp (wr x))) w) with (map (fun c => upper_ascii (cp c)) w); [reflexivity|].
-    apply map_ext. intro c. rewrite cp_wr. reflexivity.
+    intros mx t Hm. unfold l003_fix_mx at 1. rewrite l003_lines_eq. rewrite (l003_relex mx t Hm).
+    rewrite pass_fixed by exact (pass_bounded is_space mx (clines t) 0%nat).
+    unfold l003_fix_mx. rewrite l003_lines_eq. reflexivity.
   Qed.
 
-  Lemma kw_of_conv : forall w u, kw_of w = Some u -> kw_of (map asc u) = Some u.
+  Theorem l003_fix_clears_mx : forall mx t, (1 <= mx)%nat -> l003_check_mx is_space mx (l003_fix_mx is_space mx t) = [].
   Proof.
-    intros w u H. unfold Lint.kw_of in *.
-    destruct (all_some (map (fun c => upper_ascii (cp c)) w)) as [x|] eqn:E; [|discriminate].
-    destruct (existsb (list_eqb x) keywords) eqn:Ek; [|discriminate]. inversion H; subst.
-    rewrite (all_some_map_idem w u E). rewrite Ek. reflexivity.
+    intros mx t Hm. unfold l003_check_mx. rewrite (l003_relex mx t Hm).
+    apply check_bounded; [lia|]. exact (pass_bounded is_space mx (clines t) 0%nat).
   Qed.
 
-  Lemma map_wr_asc : forall u, map wr (map asc u) = map asc u.
-  Proof. intro u. rewrite map_map. apply map_ext. intro b. reflexivity. Qed.
+  (* ---- reading ---- *)
+  Notation RD := (RD is_space upper_ascii).
+  Notation RDL := (RDL is_space upper_ascii).
+  Definition sep (fl : bool * list cc) : vtok := if fst fl then VW else VL nlc.
+  (* the reading of lines, preceded by the separator in front of the first one *)
+  Definition T (ls : list (bool * list cc)) : list vtok := match ls with [] => [] | fl :: _ => scons (sep fl) (RDL ls) end.
+  Definition hflag (ls : list (bool * list cc)) : Prop := match ls with [] => True | fl :: _ => fst fl = true end.
 
-  Lemma map_wr_wr : forall w, map wr (map wr w) = map wr w.
-  Proof. intro w. rewrite map_map. apply map_ext. intro c. apply wr_wr. Qed.
+  Lemma RDL_T : forall fl r, RDL (fl :: r) = RD (snd fl) (T r).
+  Proof. intros fl [|fl2 r]; reflexivity. Qed.
 
-  Lemma conv_idem : forall w, conv_word (map wr (conv_word (map wr w))) = conv_word (map wr w).
+  Lemma T_absorbs : forall r, hflag r -> absorbs (T r).
+  Proof. intros [|fl r] H; [reflexivity|]. unfold T, sep. cbn in H. rewrite H. apply absorbs_scons. Qed.
+
+  Lemma T_blank : forall x r, fst x = true -> forallb (wsp is_space) (snd x) = true -> hflag r -> T (x :: r) = T r.
   Proof.
-    intro w. unfold Lint.conv_word at 2 3. rewrite kw_of_wr. destruct (kw_of w) as [u|] eqn:E.
-    - rewrite map_wr_asc. unfold Lint.conv_word. rewrite (kw_of_conv w u E). reflexivity.
-    - rewrite map_wr_wr. unfold Lint.conv_word. rewrite kw_of_wr, E. reflexivity.
+    intros x r Hf Hw Hr. unfold T at 1. unfold sep. rewrite Hf. rewrite RDL_T. rewrite (sW_RD_wsp is_space upper_ascii _ _ Hw).
+    apply T_absorbs. exact Hr.
   Qed.
 
-  Lemma kw_letters : forall w u y, kw_of w = Some u -> In y u -> exists x, upper_ascii x = Some y.
-  Proof.
-    intros w u y H Hy. unfold Lint.kw_of in H.
-    destruct (all_some (map (fun c => upper_ascii (cp c)) w)) as [x|] eqn:E; [|discriminate].
-    destruct (existsb (list_eqb x) keywords); [|discriminate]. inversion H; subst.
-    apply (all_some_in _ _ _ E) in Hy. apply in_map_iff in Hy. destruct Hy as (c & Hc & _). exists (cp c). exact Hc.
-  Qed.
-
-  Lemma asc_up_classes : forall x y, upper_ascii x = Some y ->
-    is_quote (asc y) = false /\ word_start (asc y) = true /\ wc (asc y) = true.
-  Proof.
-    intros x y H. destruct (up_noquote _ _ H) as (N1 & N2 & _). pose proof (up_letter _ _ H) as L.
-    pose proof (up_nobt _ _ H) as N3.
-    assert (Q : is_quote (asc y) = false).
-    { unfold is_quote, asc. cbn [cp]. apply N.eqb_neq in N1. apply N.eqb_neq in N2. apply N.eqb_neq in N3. rewrite N1, N2, N3. reflexivity. }
-    assert (W : word_start (asc y) = true).
-    { unfold Lint.word_start, asc. cbn [cp]. rewrite L. reflexivity. }
-    split; [exact Q|]. split; [exact W|]. unfold wc. rewrite Q. unfold Lint.word_char. rewrite W. reflexivity.
-  Qed.
-
-  (* the converted word is again a word: first character starts a word, the others continue it *)
-  Lemma conv_shape : forall c v, is_quote c = false -> word_start c = true -> forallb wc v = true ->
-    exists c' v', conv_word (map wr (c :: v)) = c' :: v' /\ is_quote c' = false /\ word_start c' = true /\ forallb wc v' = true.
-  Proof.
-    intros c v H1 H2 Hv. unfold Lint.conv_word. rewrite kw_of_wr. destruct (kw_of (c :: v)) as [u|] eqn:E.
-    - assert (Hl : length u = length (c :: v)).
-      { unfold Lint.kw_of in E. destruct (all_some (map (fun c0 => upper_ascii (cp c0)) (c :: v))) as [x|] eqn:Ex; [|discriminate].
-        destruct (existsb (list_eqb x) keywords); [|discriminate]. inversion E; subst.
-        rewrite (all_some_length _ _ Ex). apply map_length. }
-      destruct u as [|y u]; [discriminate|]. exists (asc y), (map asc u). split; [reflexivity|].
-      destruct (kw_letters _ _ y E (or_introl eq_refl)) as (x & Hx).
-      destruct (asc_up_classes x y Hx) as (A1 & A2 & _). split; [exact A1|]. split; [exact A2|].
-      apply forallb_forall. intros z Hz. apply in_map_iff in Hz. destruct Hz as (b & Eb & Hb). subst.
-      destruct (kw_letters _ _ b E (or_intror Hb)) as (x' & Hx'). apply (asc_up_classes x' b Hx').
-    - exists (wr c), (map wr v). split; [reflexivity|]. rewrite is_quote_wr, word_start_wr. split; [exact H1|]. split; [exact H2|].
-      apply forallb_forall. intros z Hz. apply in_map_iff in Hz. destruct Hz as (b & Eb & Hb). subst. rewrite wc_wr.
-      rewrite forallb_forall in Hv. apply Hv. exact Hb.
-  Qed.
-
-  Lemma sN_stops : forall r, stops r -> stops (sN r).
-  Proof.
-    intros r [H|(d & r' & H & Hd)]; subst; [left; reflexivity|right].
-    destruct (cstart d r') eqn:Ec; [rewrite sN_comment by exact Ec; eexists _, _; split; [reflexivity|exact Hd]|].
-    destruct (is_quote d) eqn:Eq.
-    - rewrite sN_quote by exact Eq. eexists _, _. split; [reflexivity|]. rewrite wc_wr. exact Hd.
-    - assert (Hs : word_start d = false).
-      { unfold wc in Hd. rewrite Eq in Hd. cbn in Hd. unfold Lint.word_char in Hd. apply orb_false_elim in Hd. tauto. }
-      rewrite sN_other by assumption. eexists _, _. split; [reflexivity|]. rewrite wc_wr. exact Hd.
-  Qed.
-
-  (* the first character of the rewritten line is a minus sign exactly when the first character of the line is *)
-  Lemma next_is_sN : forall t, next_is 45 (sN t) = next_is 45 t.
-  Proof.
-    intros [|d t]; [reflexivity|]. destruct (cstart d t) eqn:Ec; [rewrite sN_comment by exact Ec; reflexivity|].
-    destruct (is_quote d) eqn:Eq; [rewrite sN_quote by exact Eq; cbn [next_is]; rewrite cp_wr; reflexivity|].
-    destruct (word_start d) eqn:Ew; [|rewrite sN_other by assumption; cbn [next_is]; rewrite cp_wr; reflexivity].
-    rewrite sN_word by assumption.
-    destruct (conv_shape d (take_l wc t) Eq Ew (take_l_all wc t)) as (c' & v' & Ec' & _ & W' & _). rewrite Ec'.
-    cbn [app next_is].
-    assert (A : (cp c' =? 45) = false) by (pose proof (ws_not45 c' [c'] W') as Z; unfold cstart in Z; cbn [next_is] in Z; destruct (cp c' =? 45); [cbn in Z; discriminate|reflexivity]).
-    assert (B : (cp d =? 45) = false) by (pose proof (ws_not45 d [d] Ew) as Z; unfold cstart in Z; cbn [next_is] in Z; destruct (cp d =? 45); [cbn in Z; discriminate|reflexivity]).
-    rewrite A, B. reflexivity.
-  Qed.
-
-  Lemma l007_scan_idem_n : forall n l, (length l <= n)%nat ->
-    sN (sN l) = sN l /\ forall k, sQ k (sQ k l) = sQ k l.
-  Proof.
-    induction n as [|n IH]; intros l Hl.
-    - destruct l; [split; reflexivity|cbn in Hl; lia].
-    - destruct l as [|c t]; [split; reflexivity|]. cbn [length] in Hl.
-      assert (Ht : (length t <= n)%nat) by lia. destruct (IH t Ht) as [IHn IHq]. split.
-      + destruct (cstart c t) eqn:Ecs; [rewrite sN_comment by exact Ecs; apply sN_comment; exact Ecs|].
-        destruct (is_quote c) eqn:Eq.
-        * rewrite sN_quote by exact Eq. rewrite sN_quote by (rewrite is_quote_wr; exact Eq).
-          rewrite wr_wr, cp_wr, IHq. reflexivity.
-        * destruct (word_start c) eqn:Ew.
-          -- rewrite sN_word by assumption.
-             pose proof (take_l_all wc t) as Hv.
-             destruct (conv_shape c (take_l wc t) Eq Ew Hv) as (c' & v' & Ec & Q' & W' & V').
-             rewrite Ec. change ((c' :: v') ++ sN (trim_l wc t)) with (c' :: v' ++ sN (trim_l wc t)).
-             rewrite sN_word_app; [|exact Q'|exact W'|exact V'|apply sN_stops; apply trim_l_stops].
-             rewrite <- Ec. rewrite conv_idem.
-             assert (Hr : (length (trim_l wc t) <= n)%nat).
-             { pose proof (take_trim_l wc t) as E. apply (f_equal (@length ch)) in E. rewrite app_length in E. lia. }
-             destruct (IH _ Hr) as [IHr _]. rewrite IHr. rewrite Ec. reflexivity.
-          -- rewrite sN_other by assumption.
-             assert (Ecw : cstart (wr c) (sN t) = false) by (rewrite cstart_wr; rewrite (cstart_next c (sN t) t (next_is_sN t)); exact Ecs).
-             rewrite sN_other by (rewrite ?is_quote_wr, ?word_start_wr; assumption).
-             rewrite wr_wr, IHn. reflexivity.
-      + intro k. rewrite sQ_cons. rewrite sQ_cons. rewrite wr_wr, cp_wr. destruct (cp c =? k); [rewrite IHn|rewrite IHq]; reflexivity.
-  Qed.
-
-  Lemma l007_line_idem : forall l, l007_fix_line is_letter is_digit upper_ascii keywords
-                                     (l007_fix_line is_letter is_digit upper_ascii keywords l)
-                                   = l007_fix_line is_letter is_digit upper_ascii keywords l.
-  Proof. intro l. unfold l007_fix_line. apply (l007_scan_idem_n (length l) l (le_n _)). Qed.
-
-  (* every output character is a rewritten input character or an upper-case image from the table *)
-  Definition up_img (x : ch) : Prop := exists b y, x = asc b /\ upper_ascii y = Some b.
-
-  Lemma conv_in : forall w x, In x (conv_word w) -> In x w \/ up_img x.
-  Proof.
-    intros w x H. unfold Lint.conv_word in H. destruct (kw_of w) as [u|] eqn:E; [|left; exact H].
-    right. apply in_map_iff in H. destruct H as (b & Eb & Hb).
-    destruct (kw_letters _ _ b E Hb) as (y & Hy). exists b, y. split; [symmetry; exact Eb|exact Hy].
-  Qed.
-
-  Lemma l007_scan_in : forall l q cur x, In x (scan q cur l) ->
-    (exists c, In c l /\ (x = wr c \/ x = c)) \/ up_img x \/ (exists w, cur = Some w /\ In x w).
-  Proof.
-    induction l as [|c t IH]; intros q cur x H.
-    - cbn [l007_scan] in H. destruct cur as [w|]; [|destruct H]. apply conv_in in H. destruct H as [H|H].
-      + right. right. exists w. split; [reflexivity|]. apply in_rev. exact H.
-      + right. left. exact H.
-    - assert (Gflush : In x (match cur with Some w => conv_word (rev w) | None => [] end) ->
-                       up_img x \/ (exists w, cur = Some w /\ In x w)).
-      { intro Hf. destruct cur as [w|]; [|destruct Hf]. apply conv_in in Hf. destruct Hf as [Hf|Hf]; [right|left; exact Hf].
-        exists w. split; [reflexivity|]. apply in_rev. exact Hf. }
-      assert (Gtail : forall q', In x (scan q' None t) -> (exists c0, In c0 (c :: t) /\ (x = wr c0 \/ x = c0)) \/ up_img x \/ (exists w, cur = Some w /\ In x w)).
-      { intros q' Hq. destruct (IH _ _ _ Hq) as [(d & Hd & E)|[Hb|(w & Hw & _)]]; [left; exists d; split; [right; exact Hd|exact E]|right; left; exact Hb|discriminate]. }
-      assert (Ghere : wr c = x -> (exists c0, In c0 (c :: t) /\ (x = wr c0 \/ x = c0)) \/ up_img x \/ (exists w, cur = Some w /\ In x w)).
-      { intro E. left. exists c. split; [left; reflexivity|left; symmetry; exact E]. }
-      cbn [l007_scan] in H. destruct q as [k|].
-      + destruct H as [H|H]; [apply Ghere; exact H|].
-        destruct (IH _ _ _ H) as [(d & Hd & E)|[Hb|Hw]]; [left; exists d; split; [right; exact Hd|exact E]|right; left; exact Hb|right; right; exact Hw].
-      + destruct (cstart c t).
-        { apply in_app_or in H. destruct H as [H|H]; [right; apply Gflush; exact H|left; exists x; split; [exact H|right; reflexivity]]. }
-        destruct (is_quote c).
-        * apply in_app_or in H. destruct H as [H|[H|H]]; [right; apply Gflush; exact H|apply Ghere; exact H|apply (Gtail _ H)].
-        * destruct (word_start c || match cur with Some _ => true | None => false end && is_digit (cp c)).
-          -- destruct (IH _ _ _ H) as [(d & Hd & E)|[Hb|(w & Hw & Hx)]]; [left; exists d; split; [right; exact Hd|exact E]|right; left; exact Hb|].
-             inversion Hw; subst. destruct Hx as [Hx|Hx]; [apply Ghere; exact Hx|].
-             destruct cur as [w0|]; [right; right; exists w0; split; [reflexivity|exact Hx]|destruct Hx].
-          -- apply in_app_or in H. destruct H as [H|[H|H]]; [right; apply Gflush; exact H|apply Ghere; exact H|apply (Gtail _ H)].
-  Qed.
-
-  Lemma l007_line_keeps : forall l, no_nl l -> no_nl (l007_fix_line is_letter is_digit upper_ascii keywords l).
-  Proof.
-    intros l H x Hx. unfold l007_fix_line in Hx. apply l007_scan_in in Hx.
-    destruct Hx as [(c & Hc & [E|E])|[(b & y & E & Hy)|(w & Hw & _)]]; [subst; apply is_nl_wr; apply H; exact Hc|subst; apply H; exact Hc| |discriminate].
-    subst. unfold is_nl, asc. cbn [cp raw valid].
-    destruct (up_noquote _ _ Hy) as (_ & _ & N3). apply N.eqb_neq in N3. rewrite N3. reflexivity.
-  Qed.
-
-  Lemma l007_fix_idempotent_gen : forall t,
-    l007_fix is_letter is_digit upper_ascii keywords (l007_fix is_letter is_digit upper_ascii keywords t)
-    = l007_fix is_letter is_digit upper_ascii keywords t.
-  Proof.
-    intro t. unfold l007_fix. apply (per_line_idem (l007_fix_line is_letter is_digit upper_ascii keywords)).
-    - exact l007_line_keeps.
-    - intros l _. apply l007_line_idem.
-  Qed.
-End L007.
-
-(* ------------------------------------------------------------------------------------------------ *)
-(* L002: re-lint after fix *)
-
-Lemma l002_fixed_leading : forall l, existsb is_tab (leading_ws (l002_fix_line l)) = false.
-Proof.
-  intro l. rewrite l002_line_shape. unfold leading_ws.
-  set (X := flat_map tab4 (take_l is_blank l)).
-  assert (HX : forallb is_blank X = true).
-  { apply forallb_flat_map. intros x Hx. apply tab4_blank.
-    pose proof (take_l_all is_blank l) as H. rewrite forallb_forall in H. apply H. exact Hx. }
-  rewrite take_l_app_all by exact HX. rewrite take_l_of_trim_l. rewrite app_nil_r.
-  assert (HT : forallb (fun d => negb (is_tab d)) X = true) by (apply forallb_flat_map; intros x _; apply tab4_notab).
-  clear -HT. induction X as [|c X IH]; [reflexivity|]. cbn in *. apply andb_prop in HT. destruct HT as [H1 H2].
-  apply negb_true_iff in H1. rewrite H1. apply IH. exact H2.
-Qed.
-
-Lemma l002_check_notab : forall ls first n, (first = 0 \/ first = 2) ->
-  (forall l, In l ls -> existsb is_tab (leading_ws l) = false) -> l002_check_lines first n ls = [].
-Proof.
-  induction ls as [|l r IH]; intros first n Hf H; [reflexivity|].
-  cbn [l002_check_lines].
-  assert (Hr : forall l0, In l0 r -> existsb is_tab (leading_ws l0) = false) by (intros l0 Hl0; apply H; right; exact Hl0).
-  destruct (leading_ws l) as [|c lw] eqn:E; [apply IH; assumption|].
-  rewrite <- E. rewrite (H l (or_introl eq_refl)). cbn [andb].
-  destruct Hf as [Hf|Hf]; subst; cbn [N.eqb]; apply IH; auto.
-Qed.
-
-Lemma l002_fix_clears : forall t, l002_check (l002_fix t) = [].
-Proof.
-  intro t. unfold l002_check. change (l002_fix t) with (per_line l002_fix_line t).
-  rewrite split_per_line by exact l002_line_keeps.
-  apply l002_check_notab; [left; reflexivity|].
-  intros l Hl. apply in_map_iff in Hl. destruct Hl as (l0 & E & _). subst. apply l002_fixed_leading.
-Qed.
-
-(* ------------------------------------------------------------------------------------------------ *)
-(* L005: exact flagging and location *)
-
-Lemma l005_check_exact : forall is_space mx t n col,
-  In (n, col) (l005_check is_space mx t) <->
-  exists l, nth_error (split_nl t) (n - 1) = Some l /\ (1 <= n)%nat /\ l <> [] /\
-            (starts2 45 45 (trim_space is_space l) || starts2 47 42 (trim_space is_space l)) = false /\
-            (mx < blen l)%nat /\ col = S mx.
-Proof.
-  intros is_space mx t n col. unfold l005_check. rewrite on_lines_in. split.
-  - intros (i & l & Hn & Hin). unfold l005_check_line in Hin. destruct l as [|c l]; [destruct Hin|].
-    destruct (starts2 45 45 (trim_space is_space (c :: l)) || starts2 47 42 (trim_space is_space (c :: l))) eqn:Ec; [destruct Hin|].
-    destruct (mx <? blen (c :: l))%nat eqn:El; [|destruct Hin]. destruct Hin as [Hin|[]]. inversion Hin; subst.
-    exists (c :: l). replace (S i - 1)%nat with i by lia. split; [exact Hn|]. split; [lia|]. split; [discriminate|].
-    split; [exact Ec|]. split; [apply Nat.ltb_lt; exact El|reflexivity].
-  - intros (l & Hn & H1 & Hne & Hc & Hl & E). exists (n - 1)%nat, l. split; [exact Hn|].
-    unfold l005_check_line. destruct l as [|c l]; [contradiction|]. rewrite Hc.
-    replace (mx <? blen (c :: l))%nat with true by (symmetry; apply Nat.ltb_lt; exact Hl).
-    left. subst col. replace (1 + (n - 1))%nat with n by lia. reflexivity.
-Qed.
-
-(* ------------------------------------------------------------------------------------------------ *)
-(* conservation: the whitespace rules change only whitespace *)
-
-Section Conservation.
-  Variable is_space : N -> bool.
-
-  Notation wsc := (wsc is_space).
-  Notation ink := (ink is_space).
-
-  Lemma ink_app : forall a b, ink (a ++ b) = ink a ++ ink b.
-  Proof. intros a b. unfold Lint.ink. rewrite filter_app, map_app. reflexivity. Qed.
-
-  Lemma ink_ws : forall a, forallb wsc a = true -> ink a = [].
-  Proof.
-    induction a as [|c a IH]; intro H; [reflexivity|]. cbn in H. apply andb_prop in H. destruct H as [H1 H2].
-    unfold Lint.ink. cbn [filter]. rewrite H1. cbn [negb]. apply IH. exact H2.
-  Qed.
-
-  Lemma wsc_nlc : wsc nlc = true.
-  Proof. unfold Lint.wsc. rewrite is_nl_nlc. rewrite orb_true_r. reflexivity. Qed.
-
-  Lemma ink_join : forall ls, ink (join_nl ls) = flat_map ink ls.
-  Proof.
-    induction ls as [|x r IH]; [reflexivity|]. destruct r as [|y r].
-    - cbn. rewrite app_nil_r. reflexivity.
-    - rewrite join_cons2. rewrite ink_app. cbn [flat_map]. f_equal.
-      change (nlc :: join_nl (y :: r)) with ([nlc] ++ join_nl (y :: r)). rewrite ink_app.
-      rewrite (ink_ws [nlc]) by (cbn; rewrite wsc_nlc; reflexivity). exact IH.
-  Qed.
-
-  Lemma ink_per_line : forall f t, (forall l, ink (f l) = ink l) -> ink (per_line f t) = ink t.
-  Proof.
-    intros f t H. unfold per_line. rewrite ink_join. rewrite <- (join_split t) at 2. rewrite ink_join.
-    induction (split_nl t) as [|l r IH]; [reflexivity|]. cbn [map flat_map]. rewrite H, IH. reflexivity.
-  Qed.
-
-  Lemma blank_wsc : forall c, is_blank c = true -> wsc c = true.
-  Proof. intros c H. unfold Lint.wsc. rewrite H. rewrite orb_true_r. reflexivity. Qed.
-
-  Lemma ink_trim_r_blank : forall l, ink (trim_r is_blank l) = ink l.
-  Proof.
-    induction l as [|c t IH]; [reflexivity|]. rewrite trim_r_cons. destruct (trim_r is_blank t) as [|a r] eqn:E.
-    - change (c :: t) with ([c] ++ t). rewrite ink_app. rewrite <- IH. cbn [ink filter map app]. rewrite app_nil_r.
-      destruct (is_blank c) eqn:Eb; [|reflexivity]. unfold Lint.ink. cbn [filter]. rewrite (blank_wsc c Eb). reflexivity.
-    - change (c :: a :: r) with ([c] ++ a :: r). change (c :: t) with ([c] ++ t). rewrite !ink_app. rewrite IH. reflexivity.
-  Qed.
-
-  Theorem l001_ws_only : forall t, ink (l001_fix t) = ink t.
-  Proof. intro t. rewrite l001_fix_per_line. apply ink_per_line. exact ink_trim_r_blank. Qed.
-
-  Lemma ink_blanks : forall a, forallb is_blank a = true -> ink a = [].
-  Proof.
-    intros a H. apply ink_ws. apply forallb_forall. intros x Hx. apply blank_wsc. rewrite forallb_forall in H. apply H. exact Hx.
-  Qed.
-
-  Theorem l002_ws_only : forall t, ink (l002_fix t) = ink t.
-  Proof.
-    intro t. change (l002_fix t) with (per_line l002_fix_line t). apply ink_per_line. intro l.
-    rewrite l002_line_shape. rewrite <- (take_trim_l is_blank l) at 3. rewrite !ink_app. f_equal.
-    rewrite (ink_blanks (take_l is_blank l)) by apply take_l_all. apply ink_blanks.
-    apply forallb_flat_map. intros x Hx. apply tab4_blank.
-    pose proof (take_l_all is_blank l) as H. rewrite forallb_forall in H. apply H. exact Hx.
-  Qed.
-
-  (* L010: only spaces are dropped; an undecodable byte is rewritten as U+FFFD (same code point) *)
-  Lemma wsc_wr : forall c, is_nl c = false -> wsc (wr c) = wsc c.
-  Proof.
-    intros c H. unfold Lint.wsc, spacec. rewrite cp_wr, is_blank_wr. rewrite H, (is_nl_wr c H). reflexivity.
-  Qed.
-
-  Lemma ink_wr : forall c, is_nl c = false -> ink [wr c] = ink [c].
-  Proof. intros c H. unfold Lint.ink. cbn [filter]. rewrite (wsc_wr c H). destruct (wsc c); cbn; [reflexivity|rewrite cp_wr; reflexivity]. Qed.
-
-  Lemma ink_cons : forall c t, ink (c :: t) = ink [c] ++ ink t.
-  Proof. intros c t. change (c :: t) with ([c] ++ t). apply ink_app. Qed.
-
-  Lemma ink_l010_scan : forall l q ps, no_nl l -> ink (l010_scan q ps l) = ink l.
-  Proof.
-    induction l as [|c t IH]; intros q ps H; [reflexivity|].
-    assert (Hc : is_nl c = false) by (apply H; left; reflexivity).
-    assert (Ht : no_nl t) by (intros x Hx; apply H; right; exact Hx).
-    rewrite (ink_cons c t). cbn [l010_scan]. destruct q as [k|].
-    - rewrite ink_cons, ink_wr, IH by assumption. reflexivity.
-    - destruct (cstart c t); [apply ink_cons|].
-      destruct (is_quote c); [rewrite ink_cons, ink_wr, IH by assumption; reflexivity|].
-      destruct (is_sp c) eqn:Es.
-      + assert (Hw : ink [c] = []) by (apply ink_ws; cbn; unfold Lint.wsc, is_blank; rewrite Es; rewrite orb_true_r; reflexivity).
-        rewrite Hw. destruct ps; cbn [app]; [apply IH; exact Ht|].
-        rewrite ink_cons, ink_wr, Hw, IH by assumption. reflexivity.
-      + rewrite ink_cons, ink_wr, IH by assumption. reflexivity.
-  Qed.
-
-  Theorem l010_ws_only : forall t, ink (l010_fix t) = ink t.
-  Proof.
-    intro t. change (l010_fix t) with (per_line l010_fix_line t).
-    unfold per_line. rewrite ink_join. rewrite <- (join_split t) at 2. rewrite ink_join.
-    pose proof (split_no_nl t) as Hall. induction Hall as [|l r Hl Hr IH]; [reflexivity|].
-    cbn [map flat_map]. rewrite IH. f_equal. unfold l010_fix_line.
-    destruct (trim_l is_blank l) as [|c rest] eqn:E.
-    - apply ink_l010_scan. exact Hl.
-    - rewrite ink_app. rewrite ink_l010_scan.
-      + rewrite <- E. rewrite <- ink_app. rewrite take_trim_l. reflexivity.
-      + intros x Hx. apply Hl. eapply trim_l_incl. rewrite E. exact Hx.
-  Qed.
-
-  (* L003: only blank lines are dropped *)
-  Lemma trim_space_nil_ws : forall l, trim_space is_space l = [] -> forallb wsc l = true.
-  Proof.
-    intros l H. unfold trim_space in H. apply trim_r_nil_iff in H.
-    rewrite <- (take_trim_l (spacec is_space) l). rewrite forallb_app. apply andb_true_intro. split.
-    - apply forallb_forall. intros x Hx. pose proof (take_l_all (spacec is_space) l) as Ht. rewrite forallb_forall in Ht.
-      unfold Lint.wsc. rewrite (Ht x Hx). reflexivity.
-    - apply forallb_forall. intros x Hx. rewrite forallb_forall in H. unfold Lint.wsc. rewrite (H x Hx). reflexivity.
-  Qed.
-
-  Lemma ink_blank_line : forall l, blank_line is_space l = true -> ink l = [].
-  Proof.
-    intros l H. apply ink_ws. apply trim_space_nil_ws. unfold blank_line in H.
-    destruct (trim_space is_space l); [reflexivity|discriminate].
-  Qed.
-
-  Lemma ink_pass : forall mx ls cnt, flat_map ink (l003_pass is_space mx cnt ls) = flat_map ink ls.
-  Proof.
-    intros mx. induction ls as [|l r IH]; intro cnt; [reflexivity|]. cbn [l003_pass].
-    destruct (blank_line is_space l) eqn:Eb.
-    - destruct (S cnt <=? mx)%nat; cbn [flat_map]; rewrite IH; [reflexivity|].
-      rewrite (ink_blank_line l Eb). reflexivity.
-    - cbn [flat_map]. rewrite IH. reflexivity.
-  Qed.
-
-  Theorem l003_ws_only : forall mx t, ink (l003_fix_mx is_space mx t) = ink t.
-  Proof.
-    intros mx t. unfold l003_fix_mx. fold (l003_lines is_space mx (split_nl t)). rewrite l003_lines_eq.
-    rewrite ink_join. rewrite ink_pass. rewrite <- ink_join. rewrite join_split. reflexivity.
-  Qed.
-End Conservation.
-
-(* ------------------------------------------------------------------------------------------------ *)
-(* conservation: the keyword rule changes only letter case *)
-
-Section CaseOnly.
-  Variables is_letter is_digit : N -> bool.
-  Variable upper_ascii : N -> option N.
-  Variable keywords : list (list N).
-  Hypothesis up_idem : forall x u, upper_ascii x = Some u -> upper_ascii u = Some u.
-
-  Notation fold := (fold upper_ascii).
-
-  Lemma fold_wr : forall c, fold (wr c) = fold c.
-  Proof. intro c. unfold Lint.fold. rewrite cp_wr. reflexivity. Qed.
-
-  Lemma fold_conv : forall w, map fold (conv_word upper_ascii keywords w) = map fold w.
-  Proof.
-    intro w. unfold conv_word, kw_of.
-    destruct (all_some (map (fun c => upper_ascii (cp c)) w)) as [u|] eqn:E; [|reflexivity].
-    destruct (existsb (list_eqb u) keywords); [|reflexivity].
-    revert u E. induction w as [|c w IH]; intros u E; cbn in E; [inversion E; reflexivity|].
-    destruct (upper_ascii (cp c)) as [x|] eqn:Ex; [|discriminate].
-    destruct (all_some (map (fun c0 => upper_ascii (cp c0)) w)) as [r|] eqn:Er; [|discriminate].
-    inversion E; subst. cbn [map]. f_equal; [|apply IH; reflexivity].
-    unfold Lint.fold, asc. cbn [cp]. rewrite (up_idem _ _ Ex), Ex. reflexivity.
-  Qed.
-
-  Lemma fold_scan : forall l,
-    (forall k, map fold (l007_scan is_letter is_digit upper_ascii keywords (Some k) None l) = map fold l) /\
-    (forall cur, map fold (l007_scan is_letter is_digit upper_ascii keywords None cur l)
-                 = map fold (match cur with Some w => rev w | None => [] end ++ l)).
-  Proof.
-    induction l as [|c t [IHq IHn]]; split.
-    - reflexivity.
-    - intro cur. cbn [l007_scan]. destruct cur as [w|]; [rewrite fold_conv, app_nil_r; reflexivity|reflexivity].
-    - intro k. cbn [l007_scan map]. rewrite fold_wr. f_equal. destruct (cp c =? k); [rewrite IHn; reflexivity|apply IHq].
-    - intro cur. cbn [l007_scan].
-      assert (Fl : map fold (match cur with Some w => conv_word upper_ascii keywords (rev w) | None => [] end)
-                   = map fold (match cur with Some w => rev w | None => [] end)).
-      { destruct cur; [apply fold_conv|reflexivity]. }
-      destruct (cstart c t); [rewrite !map_app; rewrite Fl; reflexivity|].
-      destruct (is_quote c).
-      + rewrite !map_app. rewrite Fl. cbn [map]. rewrite fold_wr, IHq. reflexivity.
-      + destruct (word_start is_letter c || match cur with Some _ => true | None => false end && is_digit (cp c)).
-        * rewrite IHn. cbn [rev]. destruct cur as [w|]; cbn [rev app]; rewrite ?map_app; cbn [map]; rewrite ?fold_wr; rewrite <- ?app_assoc; reflexivity.
-        * rewrite !map_app. rewrite Fl. cbn [map]. rewrite fold_wr, IHn. reflexivity.
-  Qed.
-
-  Lemma map_join_congr : forall (g : ch -> N) f ls, (forall l, map g (f l) = map g l) ->
-    map g (join_nl (map f ls)) = map g (join_nl ls).
-  Proof.
-    intros g f ls H. induction ls as [|x r IH]; [reflexivity|]. destruct r as [|y r].
-    - cbn. apply H.
-    - cbn [map]. rewrite !join_cons2. rewrite !map_app. cbn [map]. rewrite H. f_equal. f_equal. exact IH.
-  Qed.
-
-  Theorem l007_case_only : forall t,
-    map fold (l007_fix is_letter is_digit upper_ascii keywords t) = map fold t.
-  Proof.
-    intro t. unfold l007_fix. rewrite map_join_congr.
-    - rewrite join_split. reflexivity.
-    - intro l. unfold l007_fix_line. destruct (fold_scan l) as [_ H]. rewrite (H None). reflexivity.
-  Qed.
-End CaseOnly.
-
-(* ------------------------------------------------------------------------------------------------ *)
-(* table lookups *)
-
-Lemma assoc_in : forall m x v, assoc m x = Some v -> In (x, v) m.
-Proof.
-  induction m as [|[k w] m IH]; intros x v H; [discriminate|]. cbn [assoc] in H.
-  destruct (k =? x) eqn:E; [apply N.eqb_eq in E; inversion H; subst; left; reflexivity|right; apply IH; exact H].
-Qed.
-
-(* ------------------------------------------------------------------------------------------------ *)
-(* the reading of a text as code is kept by every rewriter *)
-
-Section View.
-  Variable is_space : N -> bool.
-  Variable upper_ascii : N -> option N.
-  Notation wsc := (wsc is_space).
-  Notation fold := (fold upper_ascii).
-  Notation vt := (vt is_space upper_ascii).
-  Notation R := (R is_space upper_ascii).
-  Notation cview := (cview is_space upper_ascii).
-
-  Lemma R_app : forall a b Z, R (a ++ b) Z = R a (R b Z).
-  Proof. intros. unfold Lint.R. apply fold_right_app. Qed.
-  Lemma R_cons : forall c t Z, R (c :: t) Z = scons (vt c) (R t Z).
-  Proof. reflexivity. Qed.
-
-  Lemma scons_W_idem : forall Z, scons VW (scons VW Z) = scons VW Z.
-  Proof. intros [|[|n|c] Z]; reflexivity. Qed.
-
-  (* Z "absorbs" a separator: it is empty or starts with one *)
-  Definition absorbs (Z : list vtok) : Prop := scons VW Z = Z.
-  Lemma absorbs_scons : forall Z, absorbs (scons VW Z).
-  Proof. intro Z. apply scons_W_idem. Qed.
-  Lemma absorbs_nil : absorbs []. Proof. reflexivity. Qed.
-
-  Lemma R_ws : forall a Z, forallb wsc a = true -> a <> [] -> R a Z = scons VW Z.
-  Proof.
-    induction a as [|c a IH]; intros Z H Hne; [contradiction|]. cbn in H. apply andb_prop in H. destruct H as [H1 H2].
-    rewrite R_cons. unfold Lint.vt. rewrite H1. destruct a as [|d a]; [reflexivity|].
-    rewrite IH by (assumption || discriminate). apply scons_W_idem.
-  Qed.
-
-  Lemma R_ws_abs : forall a Z, forallb wsc a = true -> absorbs Z -> R a Z = Z.
-  Proof.
-    intros a Z H HZ. destruct a as [|c a]; [reflexivity|]. rewrite R_ws by (assumption || discriminate). exact HZ.
-  Qed.
-
-  Lemma vt_nlc : vt nlc = VW.
-  Proof. unfold Lint.vt. rewrite wsc_nlc. reflexivity. Qed.
-
-  (* reading of the lines of a text *)
-  Fixpoint RL (ls : list (list ch)) (Z : list vtok) : list vtok :=
+  (* blank lines of the scanner's output are code white space and are followed by a line that begins in code *)
+  Fixpoint bl_ok (ls : list (bool * list cc)) : Prop :=
     match ls with
-    | [] => Z
-    | [x] => R x Z
-    | x :: r => R x (scons VW (RL r Z))
+    | [] => True
+    | fl :: r => (cblank fl = true -> forallb (wsp is_space) (snd fl) = true /\ hflag r) /\ bl_ok r
     end.
 
-  Lemma RL_cons2 : forall x y r Z, RL (x :: y :: r) Z = R x (scons VW (RL (y :: r) Z)).
-  Proof. reflexivity. Qed.
-
-  Lemma R_join : forall ls Z, R (join_nl ls) Z = RL ls Z.
+  Lemma thread_bl_ok : forall ls st flag, tinv st flag -> Forall no_nl ls -> bl_ok (thread st flag ls).
   Proof.
-    induction ls as [|x r IH]; intro Z; [reflexivity|]. destruct r as [|y r]; [reflexivity|].
-    rewrite join_cons2, RL_cons2. rewrite R_app, R_cons, vt_nlc, IH. reflexivity.
+    induction ls as [|l r IH]; intros st flag Hi Hall; [exact I|]. inversion Hall as [|? ? Hl Hr]; subst.
+    cbn [thread bl_ok]. split; [|apply IH; [apply tinv_next|exact Hr]].
+    rewrite chars_snd_thread. intro Eb. apply andb_prop in Eb. destruct Eb as [Ef Eb]. subst flag. rewrite (Hi eq_refl) in *.
+    pose proof (blank_line_all l Eb) as Hs.
+    destruct (lex_plain_code l (ws_line_plain l Hl Hs)) as [E1 E2]. rewrite E1, E2. cbn [snd]. split.
+    - clear -Hs. induction l as [|c l IH]; [reflexivity|]. cbn in *. apply andb_prop in Hs. destruct Hs as [H1 H2].
+      unfold wsp at 1. cbn [fst snd]. unfold Lint.wsc. rewrite H1. cbn. apply IH. exact H2.
+    - destruct r; [exact I|reflexivity].
   Qed.
 
-  (* a rule that rewrites lines one by one keeps the reading when it keeps the reading of each line in
-     front of an absorbing continuation *)
-  Definition line_ok (f : list ch -> list ch) : Prop := forall l Z, absorbs Z -> R (f l) Z = R l Z.
-
-  Lemma RL_map : forall f ls Z, line_ok f -> absorbs Z -> RL (map f ls) Z = RL ls Z.
+  Lemma pass_hflag : forall mx r c, bl_ok r -> hflag r -> hflag (pass mx c r).
   Proof.
-    intros f ls Z Hf HZ. induction ls as [|x r IH]; [reflexivity|]. destruct r as [|y r].
-    - cbn. apply Hf. exact HZ.
-    - cbn [map]. rewrite !RL_cons2. cbn [map] in IH. rewrite IH. apply Hf. apply absorbs_scons.
+    intros mx. induction r as [|y r IH]; intros c Hb Hh; [exact I|]. destruct Hb as [Hy Hr]. cbn [l003_pass].
+    destruct (cblank y) eqn:E.
+    - destruct (S c <=? mx)%nat; [exact Hh|]. apply IH; [exact Hr|apply (Hy eq_refl)].
+    - exact Hh.
   Qed.
 
-  Lemma cview_per_line : forall f t, line_ok f -> cview (per_line f t) = cview t.
+  Lemma T_pass : forall mx ls c, bl_ok ls -> T (pass mx c ls) = T ls.
   Proof.
-    intros f t Hf. unfold Lint.cview, per_line. rewrite R_join. rewrite (RL_map f _ [] Hf absorbs_nil).
-    rewrite <- R_join. rewrite join_split. reflexivity.
+    intros mx. induction ls as [|x r IH]; intros c Hb; [reflexivity|]. destruct Hb as [Hx Hr]. cbn [l003_pass].
+    destruct (cblank x) eqn:E.
+    - destruct (Hx eq_refl) as [Hw Hh].
+      assert (Hf : fst x = true) by (unfold Lint.cblank in E; apply andb_prop in E; tauto).
+      rewrite (T_blank x r Hf Hw Hh). destruct (S c <=? mx)%nat.
+      + rewrite (T_blank x _ Hf Hw (pass_hflag mx r (S c) Hr Hh)). apply IH. exact Hr.
+      + apply IH. exact Hr.
+    - unfold T. rewrite !RDL_T. rewrite (IH 0%nat Hr). reflexivity.
   Qed.
 
-  (* ---------------- L001 ---------------- *)
-  Lemma blanks_wsc : forall a, forallb is_blank a = true -> forallb wsc a = true.
-  Proof. intros a H. apply forallb_forall. intros x Hx. apply blank_wsc. rewrite forallb_forall in H. apply H. exact Hx. Qed.
+  Lemma clines_hflag : forall t, hflag (clines t).
+  Proof. intro t. rewrite clines_thread. destruct (split_nl t) eqn:E; [exact I|reflexivity]. Qed.
 
-  Lemma trim_r_split : forall {A} (p : A -> bool) l, exists b, l = trim_r p l ++ b /\ forallb p b = true.
+  Lemma strip_T : forall ls, hflag ls -> strip_lead (T ls) = strip_lead (RDL ls).
+  Proof. intros [|fl r] H; [reflexivity|]. unfold T, sep. cbn in H. rewrite H. apply strip_lead_scons. Qed.
+
+  Theorem l003_keeps_reading : forall mx t, (1 <= mx)%nat ->
+    reading is_space upper_ascii (l003_fix_mx is_space mx t) = reading is_space upper_ascii t.
   Proof.
-    intros A p. induction l as [|c t (b & E & Hb)].
-    - exists []. split; reflexivity.
-    - rewrite trim_r_cons. destruct (trim_r p t) as [|a r] eqn:Et.
-      + destruct (p c) eqn:Ec.
-        * exists (c :: t). split; [reflexivity|]. cbn. rewrite Ec. cbn in E. subst. exact Hb.
-        * exists b. split; [cbn in *; rewrite <- E; reflexivity|exact Hb].
-      + exists b. split; [rewrite E at 1; reflexivity|exact Hb].
+    intros mx t Hm. unfold reading. rewrite (l003_relex mx t Hm).
+    assert (Hb : bl_ok (clines t)) by (rewrite clines_thread; apply thread_bl_ok; [intros _; reflexivity|apply split_no_nl]).
+    rewrite <- (strip_T (pass mx 0 (clines t))) by (apply pass_hflag; [exact Hb|apply clines_hflag]).
+    rewrite <- (strip_T (clines t)) by apply clines_hflag. rewrite (T_pass mx _ 0%nat Hb). reflexivity.
+  Qed.
+End L003Text.
+
+Section CliReading.
+  Variables is_letter is_digit is_space : N -> bool.
+  Variable upper_ascii : N -> option N.
+  Variable keywords : list (list N).
+  Hypothesis up_plain : forall x u, upper_ascii x = Some u -> plainN x /\ plainN u.
+  Hypothesis up_idem : forall x u, upper_ascii x = Some u -> upper_ascii u = Some u.
+  Hypothesis up_nows : forall x u, upper_ascii x = Some u -> is_space x = false /\ x <> 32 /\ x <> 9 /\ x <> 10.
+  Hypothesis sp_nodelim : sp_ok is_space.
+
+  Theorem cli_keeps_reading : forall t,
+    reading is_space upper_ascii (cli_fix is_letter is_digit is_space upper_ascii keywords t) = reading is_space upper_ascii t.
+  Proof.
+    intro t. unfold cli_fix.
+    rewrite (l007_keeps_reading is_letter is_digit is_space upper_ascii keywords up_plain up_idem up_nows).
+    rewrite l010_keeps_reading. unfold l003_fix. rewrite (l003_keeps_reading is_space upper_ascii sp_nodelim 1) by lia.
+    rewrite l002_keeps_reading. apply l001_keeps_reading.
+  Qed.
+End CliReading.
+
+(* ------------------------------------------------------------------------------------------------ *)
+(* formatSQL *)
+
+Section Format.
+  Variable is_space : N -> bool.
+  Variable upper_ascii : N -> option N.
+  Hypothesis sp_nodelim : sp_ok is_space.
+  Hypothesis sp32 : is_space 32 = true.
+  Hypothesis sp9 : is_space 9 = true.
+
+  Notation spacec := (spacec is_space).
+  Notation tspace := (tspace is_space).
+  Notation trim_code := (trim_code is_space).
+  Notation spf := (fun p : cc => spacec (fst p)).
+
+  Definition cpairs (l : list ch) : list cc := map (fun c => (c, 0)) l.
+
+  (* the classified lines formatSQL emits *)
+  Fixpoint flines (indent cur : list ch) (ls : list (bool * list cc)) : list (bool * list cc) :=
+    match ls with
+    | [] => []
+    | (flag, l) :: r =>
+        if flag then
+          match trim_code l with
+          | [] => flines indent cur r
+          | tr => let cur' := fmt_next_indent upper_ascii indent cur (chars tr) in (true, cpairs cur' ++ tr) :: flines indent cur' r
+          end
+        else (false, l) :: flines indent cur r
+    end.
+
+  Lemma chars_cpairs : forall l, chars (cpairs l) = l.
+  Proof. unfold chars, cpairs. intro l. rewrite map_map. cbn. apply map_id. Qed.
+
+  Lemma chars_cpairs_app : forall x tr, chars (cpairs x ++ tr) = x ++ chars tr.
+  Proof. intros x tr. unfold chars. rewrite map_app. fold (chars (cpairs x)). rewrite chars_cpairs. reflexivity. Qed.
+
+  Lemma fmt_lines_flines : forall indent ls cur,
+    fmt_lines is_space upper_ascii indent cur ls = map (fun fl => chars (snd fl)) (flines indent cur ls).
+  Proof.
+    intros indent. induction ls as [|[flag l] r IH]; intro cur; [reflexivity|]. cbn [fmt_lines flines]. destruct flag.
+    - destruct (trim_code l) as [|p tr] eqn:E; [apply IH|]. cbn [map snd]. rewrite chars_cpairs_app. f_equal. apply IH.
+    - cbn [map snd]. f_equal. apply IH.
   Qed.
 
-  Lemma l001_line_ok : line_ok l001_fix_line.
+  Lemma tspace_spec : forall p, tspace p = true -> spacec (fst p) = true /\ (snd p = 0 \/ snd p = 3).
   Proof.
-    intros l Z HZ. unfold l001_fix_line. destruct (trim_r_split is_blank l) as (b & E & Hb).
-    rewrite E at 2. rewrite R_app. rewrite (R_ws_abs b Z (blanks_wsc b Hb) HZ). reflexivity.
+    intros p H. unfold Lint.tspace in H. apply andb_prop in H. destruct H as [H1 H2]. split; [exact H1|].
+    apply orb_prop in H2. destruct H2 as [H2|H2]; apply N.eqb_eq in H2; auto.
   Qed.
 
-  Theorem l001_cview : forall t, cview (l001_fix t) = cview t.
-  Proof. intro t. rewrite l001_fix_per_line. apply cview_per_line. exact l001_line_ok. Qed.
-
-  (* ---------------- L002 ---------------- *)
-  Lemma l002_line_ok : line_ok l002_fix_line.
+  Lemma edit_trim_r_tspace : forall cl b, cno_nl cl -> edit b cl (trim_r tspace cl).
   Proof.
-    intros l Z HZ. rewrite l002_line_shape. rewrite <- (take_trim_l is_blank l) at 3. rewrite !R_app.
-    set (Y := R (trim_l is_blank l) Z).
-    destruct (take_l is_blank l) as [|c lw] eqn:E; [reflexivity|].
-    rewrite (R_ws (c :: lw) Y); [|rewrite <- E; apply blanks_wsc; apply take_l_all|discriminate].
-    apply R_ws.
-    - apply blanks_wsc. apply forallb_flat_map. intros x Hx. apply tab4_blank.
-      pose proof (take_l_all is_blank l) as H. rewrite E in H. rewrite forallb_forall in H. apply H. exact Hx.
-    - cbn [flat_map]. unfold tab4 at 1. destruct (is_tab c); discriminate.
+    induction cl as [|p t IH]; intros b Hn; [constructor|].
+    assert (Hp : is_nl (fst p) = false) by (apply Hn; left; reflexivity).
+    assert (Ht : cno_nl t) by (intros q Hq; apply Hn; right; exact Hq).
+    rewrite trim_r_cons. destruct (trim_r tspace t) as [|a r] eqn:E.
+    - destruct (tspace p) eqn:Ep.
+      + destruct (tspace_spec p Ep) as [B K]. apply e_del; [apply (spacec_plain is_space sp_nodelim); assumption|exact K|]. apply IH. exact Ht.
+      + apply e_keep; [apply IH; exact Ht|]. apply trim_r_nil_iff in E.
+        destruct t as [|q t]; [apply la_eq_refl|]. cbn in E. apply andb_prop in E. destruct E as [E _].
+        cbn [chars map]. apply la_neutral. apply plain_lan. apply (spacec_plain is_space sp_nodelim); [apply (tspace_spec q E)|apply Ht; left; reflexivity].
+    - apply e_keep; [apply IH; exact Ht|]. destruct (trim_r_split tspace t) as (bb & Et & _). rewrite E in Et. rewrite Et.
+      cbn [app chars map]. apply la_same_head.
   Qed.
 
-  Theorem l002_cview : forall t, cview (l002_fix t) = cview t.
-  Proof. intro t. change (l002_fix t) with (per_line l002_fix_line t). apply cview_per_line. exact l002_line_ok. Qed.
-
-  Lemma strip_lead_scons : forall X, strip_lead (scons VW X) = strip_lead X.
-  Proof. intros [|[|n|c] X]; reflexivity. Qed.
-
-  Lemma RL_cons_abs : forall x r Z, absorbs Z -> RL (x :: r) Z = R x (scons VW (RL r Z)).
-  Proof. intros x [|y r] Z HZ; [cbn [RL]; unfold absorbs in HZ; rewrite HZ; reflexivity|reflexivity]. Qed.
-
-  Lemma sW_R_ws : forall a X, forallb wsc a = true -> scons VW (R a X) = scons VW X.
+  Lemma edit_trim_l_sp : forall cl out, cno_nl cl -> edit true (trim_l spf cl) out -> edit true cl out.
   Proof.
-    intros a X H. destruct a as [|c a]; [reflexivity|]. rewrite R_ws by (assumption || discriminate). apply scons_W_idem.
+    induction cl as [|p t IH]; intros out Hn H; [exact H|]. cbn [trim_l] in H. destruct (spacec (fst p)) eqn:E; [|exact H].
+    apply e_delc; [apply (spacec_plain is_space sp_nodelim); [exact E|apply Hn; left; reflexivity]|].
+    apply IH; [intros q Hq; apply Hn; right; exact Hq|exact H].
   Qed.
 
-  (* ---------------- L003 ---------------- *)
-  Lemma blank_line_wsc : forall l, blank_line is_space l = true -> forallb wsc l = true.
+  Lemma edit_indent : forall ind cl out, forallb is_blank ind = true -> edit true cl out -> edit true cl (cpairs ind ++ out).
   Proof.
-    intros l H. apply trim_space_nil_ws. unfold blank_line in H. destruct (trim_space is_space l); [reflexivity|discriminate].
+    induction ind as [|c ind IH]; intros cl out Hi H; [exact H|]. cbn in Hi. apply andb_prop in Hi. destruct Hi as [H1 H2].
+    cbn [cpairs map app]. apply e_ins; [apply blank_plain; exact H1|]. apply IH; assumption.
   Qed.
 
-  Lemma RL_pass : forall mx ls cnt Z, absorbs Z ->
-    scons VW (RL (l003_pass is_space mx cnt ls) Z) = scons VW (RL ls Z).
+  Lemma trim_l_cno : forall (q : cc -> bool) cl, cno_nl cl -> cno_nl (trim_l q cl).
+  Proof. intros q cl H p Hp. apply H. eapply trim_l_incl. exact Hp. Qed.
+
+  Lemma edit_fmt_line : forall ind cl, forallb is_blank ind = true -> cno_nl cl -> edit true cl (cpairs ind ++ trim_code cl).
   Proof.
-    intros mx. induction ls as [|x r IH]; intros cnt Z HZ; [reflexivity|].
-    cbn [l003_pass]. rewrite (RL_cons_abs x r Z HZ). destruct (blank_line is_space x) eqn:Eb.
-    - rewrite (sW_R_ws x _ (blank_line_wsc x Eb)). rewrite scons_W_idem.
-      destruct (S cnt <=? mx)%nat.
-      + rewrite (RL_cons_abs x _ Z HZ). rewrite (sW_R_ws x _ (blank_line_wsc x Eb)). rewrite scons_W_idem. apply IH. exact HZ.
-      + apply IH. exact HZ.
-    - rewrite (RL_cons_abs x _ Z HZ). rewrite (IH 0%nat Z HZ). reflexivity.
+    intros ind cl Hi Hn. apply edit_indent; [exact Hi|]. apply edit_trim_l_sp; [exact Hn|]. unfold Lint.trim_code.
+    apply edit_trim_r_tspace. apply trim_l_cno. exact Hn.
   Qed.
 
-  Theorem l003_cview : forall mx t, cview (l003_fix_mx is_space mx t) = cview t.
+  (* a line that formatSQL drops holds white space only *)
+  Lemma trim_code_nil_ws : forall cl, trim_code cl = [] -> forallb spacec (chars cl) = true.
   Proof.
-    intros mx t. unfold Lint.cview, l003_fix_mx. fold (l003_lines is_space mx (split_nl t)). rewrite l003_lines_eq.
-    rewrite R_join. rewrite <- strip_lead_scons. rewrite (RL_pass mx _ 0%nat [] absorbs_nil).
-    rewrite strip_lead_scons. rewrite <- R_join. rewrite join_split. reflexivity.
-  Qed.
-
-  (* ---------------- rules that need newline-free lines ---------------- *)
-  Lemma RL_map_nonl : forall f ls Z, (forall l Y, no_nl l -> absorbs Y -> R (f l) Y = R l Y) -> Forall no_nl ls -> absorbs Z ->
-    RL (map f ls) Z = RL ls Z.
-  Proof.
-    intros f ls Z Hf Hall HZ. induction Hall as [|x r Hx Hr IH]; [reflexivity|].
-    cbn [map]. rewrite (RL_cons_abs _ _ Z HZ), (RL_cons_abs x r Z HZ). rewrite IH. apply Hf; [exact Hx|apply absorbs_scons].
-  Qed.
-
-  Lemma cview_per_line_nonl : forall f t, (forall l Y, no_nl l -> absorbs Y -> R (f l) Y = R l Y) -> cview (per_line f t) = cview t.
-  Proof.
-    intros f t Hf. unfold Lint.cview, per_line. rewrite R_join. rewrite (RL_map_nonl f _ [] Hf (split_no_nl t) absorbs_nil).
-    rewrite <- R_join. rewrite join_split. reflexivity.
-  Qed.
-
-  Lemma vt_wr : forall c, is_nl c = false -> vt (wr c) = vt c.
-  Proof. intros c H. unfold Lint.vt. rewrite (wsc_wr is_space c H). rewrite fold_wr. reflexivity. Qed.
-
-  (* ---------------- L010 ---------------- *)
-  Definition sif (b : bool) (X : list vtok) : list vtok := if b then scons VW X else X.
-
-  Lemma sp_vt : forall c, is_sp c = true -> vt c = VW.
-  Proof. intros c H. unfold Lint.vt, Lint.wsc, is_blank. rewrite H. rewrite orb_true_r. reflexivity. Qed.
-
-  Lemma R_l010_scan : forall l Z, no_nl l ->
-    (forall k, R (l010_scan (Some k) false l) Z = R l Z) /\
-    (forall ps, sif ps (R (l010_scan None ps l) Z) = sif ps (R l Z)).
-  Proof.
-    induction l as [|c t IH]; intros Z H; [split; reflexivity|].
-    assert (Hc : is_nl c = false) by (apply H; left; reflexivity).
-    assert (Ht : no_nl t) by (intros x Hx; apply H; right; exact Hx).
-    destruct (IH Z Ht) as [IHq IHn]. split.
-    - intro k. cbn [l010_scan]. rewrite !R_cons. rewrite (vt_wr c Hc). f_equal.
-      destruct (cp c =? k); [exact (IHn false)|apply IHq].
-    - intro ps. cbn [l010_scan]. destruct (cstart c t); [reflexivity|]. destruct (is_quote c).
-      + rewrite !R_cons. rewrite (vt_wr c Hc). rewrite IHq. reflexivity.
-      + destruct (is_sp c) eqn:Es.
-        * rewrite (R_cons c t). rewrite (sp_vt c Es). destruct ps; cbn [app sif].
-          -- rewrite scons_W_idem. exact (IHn true).
-          -- rewrite R_cons. rewrite (vt_wr c Hc), (sp_vt c Es). exact (IHn true).
-        * rewrite !R_cons. rewrite (vt_wr c Hc). rewrite (IHn false : R _ _ = R _ _). reflexivity.
-  Qed.
-
-  Lemma l010_line_R : forall l Y, no_nl l -> absorbs Y -> R (l010_fix_line l) Y = R l Y.
-  Proof.
-    intros l Y H _. unfold l010_fix_line. destruct (trim_l is_blank l) as [|c rest] eqn:E.
-    - destruct (R_l010_scan l Y H) as [_ Hn]. exact (Hn false).
-    - rewrite R_app. assert (Hr : no_nl (c :: rest)) by (intros x Hx; apply H; eapply trim_l_incl; rewrite E; exact Hx).
-      destruct (R_l010_scan (c :: rest) Y Hr) as [_ Hn]. rewrite (Hn false : R _ _ = R _ _).
-      rewrite <- E. rewrite <- R_app. rewrite take_trim_l. reflexivity.
-  Qed.
-
-  Theorem l010_cview : forall t, cview (l010_fix t) = cview t.
-  Proof. intro t. change (l010_fix t) with (per_line l010_fix_line t). apply cview_per_line_nonl. exact l010_line_R. Qed.
-
-  (* ---------------- L007 ---------------- *)
-  Section L007v.
-    Variables is_letter is_digit : N -> bool.
-    Variable keywords : list (list N).
-    Hypothesis up_idem : forall x u, upper_ascii x = Some u -> upper_ascii u = Some u.
-    (* a rune with an ASCII upper-case image is not white space *)
-    Hypothesis up_nows : forall x u, upper_ascii x = Some u -> is_space x = false /\ x <> 32 /\ x <> 9 /\ x <> 10.
-
-    Lemma up_not_wsc : forall c u, upper_ascii (cp c) = Some u -> wsc c = false.
-    Proof.
-      intros c u H. destruct (up_nows _ _ H) as (S1 & S2 & S3 & S4). unfold Lint.wsc, spacec, is_blank, is_sp, is_tab, is_nl.
-      rewrite S1. apply N.eqb_neq in S2. apply N.eqb_neq in S3. apply N.eqb_neq in S4. rewrite S2, S3, S4. reflexivity.
-    Qed.
-
-    Lemma vt_conv : forall w, map vt (conv_word upper_ascii keywords w) = map vt w.
-    Proof.
-      intro w. unfold conv_word, kw_of.
-      destruct (all_some (map (fun c => upper_ascii (cp c)) w)) as [u|] eqn:E; [|reflexivity].
-      destruct (existsb (list_eqb u) keywords); [|reflexivity].
-      revert u E. induction w as [|c w IH]; intros u E; cbn in E; [inversion E; reflexivity|].
-      destruct (upper_ascii (cp c)) as [x|] eqn:Ex; [|discriminate].
-      destruct (all_some (map (fun c0 => upper_ascii (cp c0)) w)) as [r|] eqn:Er; [|discriminate].
-      inversion E; subst. cbn [map]. f_equal; [|apply IH; reflexivity].
-      unfold Lint.vt. rewrite (up_not_wsc c x Ex).
-      assert (Ea : upper_ascii (cp (asc x)) = Some x) by (cbn [asc cp]; exact (up_idem _ _ Ex)).
-      rewrite (up_not_wsc (asc x) x Ea). unfold Lint.fold. rewrite Ea, Ex. reflexivity.
-    Qed.
-
-    Lemma vt_scan : forall l, no_nl l ->
-      (forall k, map vt (l007_scan is_letter is_digit upper_ascii keywords (Some k) None l) = map vt l) /\
-      (forall cur, map vt (l007_scan is_letter is_digit upper_ascii keywords None cur l)
-                   = map vt (match cur with Some w => rev w | None => [] end ++ l)).
-    Proof.
-      induction l as [|c t IH]; intro H.
-      - split; [reflexivity|]. intro cur. cbn [l007_scan]. destruct cur as [w|]; [rewrite vt_conv, app_nil_r; reflexivity|reflexivity].
-      - assert (Hc : is_nl c = false) by (apply H; left; reflexivity).
-        assert (Ht : no_nl t) by (intros x Hx; apply H; right; exact Hx).
-        destruct (IH Ht) as [IHq IHn]. split.
-        + intro k. cbn [l007_scan map]. rewrite (vt_wr c Hc). f_equal. destruct (cp c =? k); [rewrite IHn; reflexivity|apply IHq].
-        + intro cur. cbn [l007_scan].
-          assert (Fl : map vt (match cur with Some w => conv_word upper_ascii keywords (rev w) | None => [] end)
-                       = map vt (match cur with Some w => rev w | None => [] end)).
-          { destruct cur; [apply vt_conv|reflexivity]. }
-          destruct (cstart c t); [rewrite !map_app; rewrite Fl; reflexivity|].
-          destruct (is_quote c).
-          * rewrite !map_app. rewrite Fl. cbn [map]. rewrite (vt_wr c Hc), IHq. reflexivity.
-          * destruct (word_start is_letter c || match cur with Some _ => true | None => false end && is_digit (cp c)).
-            -- rewrite IHn. cbn [rev]. destruct cur as [w|]; cbn [rev app]; rewrite ?map_app; cbn [map]; rewrite ?(vt_wr c Hc); rewrite <- ?app_assoc; reflexivity.
-            -- rewrite !map_app. rewrite Fl. cbn [map]. rewrite (vt_wr c Hc), IHn. reflexivity.
-    Qed.
-
-    Lemma R_map_vt : forall a b Z, map vt a = map vt b -> R a Z = R b Z.
-    Proof.
-      induction a as [|c a IH]; intros b Z H; destruct b as [|d b]; try discriminate; [reflexivity|].
-      cbn [map] in H. inversion H. rewrite !R_cons. rewrite H1. f_equal. apply IH. assumption.
-    Qed.
-
-    Theorem l007_cview : forall t, cview (l007_fix is_letter is_digit upper_ascii keywords t) = cview t.
-    Proof.
-      intro t. unfold l007_fix. apply (cview_per_line_nonl (l007_fix_line is_letter is_digit upper_ascii keywords)).
-      intros l Y Hl _. apply R_map_vt. unfold l007_fix_line. destruct (vt_scan l Hl) as [_ Hn]. rewrite (Hn None). reflexivity.
-    Qed.
-  End L007v.
-
-  (* ---------------- formatSQL ---------------- *)
-  Lemma spacec_wsc : forall a, forallb (spacec is_space) a = true -> forallb wsc a = true.
-  Proof.
-    intros a H. apply forallb_forall. intros x Hx. rewrite forallb_forall in H. unfold Lint.wsc. rewrite (H x Hx). reflexivity.
-  Qed.
-
-  Lemma trim_space_split : forall l, exists a b, l = a ++ trim_space is_space l ++ b /\ forallb wsc a = true /\ forallb wsc b = true.
-  Proof.
-    intro l. unfold trim_space. destruct (trim_r_split (spacec is_space) (trim_l (spacec is_space) l)) as (b & E & Hb).
-    exists (take_l (spacec is_space) l), b. split; [|split].
-    - rewrite <- E. symmetry. apply take_trim_l.
-    - apply spacec_wsc. apply take_l_all.
-    - apply spacec_wsc. exact Hb.
+    intros cl H. unfold Lint.trim_code in H. apply trim_r_nil_iff in H.
+    rewrite <- (take_trim_l spf cl). unfold chars. rewrite map_app, forallb_app. apply andb_true_intro. split.
+    - pose proof (take_l_all spf cl) as Ht. rewrite forallb_forall in *. intros c Hc. apply in_map_iff in Hc. destruct Hc as (p & Ep & Hp). subst. apply (Ht p Hp).
+    - rewrite forallb_forall in *. intros c Hc. apply in_map_iff in Hc. destruct Hc as (p & Ep & Hp). subst. apply (tspace_spec p (H p Hp)).
   Qed.
 
   Lemma fmt_next_blank : forall ind cur tr, forallb is_blank ind = true -> forallb is_blank cur = true ->
@@ -1692,883 +1606,705 @@ Section View.
     destruct (existsb _ fmt_reset2); [reflexivity|exact Hc].
   Qed.
 
-  Lemma RL_fmt : forall ind ls cur Z, forallb is_blank ind = true -> forallb is_blank cur = true -> absorbs Z ->
-    scons VW (RL (fmt_lines is_space upper_ascii ind cur ls) Z) = scons VW (RL ls Z).
+  Notation tinv := tinv.
+
+  (* would a line appended after the lines ls begin in code? *)
+  Fixpoint eflag (st : lst) (flag : bool) (ls : list (list ch)) : bool :=
+    match ls with
+    | [] => flag
+    | l :: r => eflag (snd (nl_step (lex_end st l))) (fst (nl_step (lex_end st l)) =? 0) r
+    end.
+
+  Lemma thread_snoc_empty : forall ls st flag, thread st flag (ls ++ [[]]) = thread st flag ls ++ [(eflag st flag ls, [])].
+  Proof. induction ls as [|l r IH]; intros st flag; [reflexivity|]. cbn [app thread eflag]. rewrite IH. reflexivity. Qed.
+
+  (* re-scanning the formatted lines gives the classified lines formatSQL carried along *)
+  Lemma thread_flines : forall ind ls st flag cur, forallb is_blank ind = true -> forallb is_blank cur = true ->
+    tinv st flag -> Forall no_nl ls ->
+    thread st flag (map (fun fl => chars (snd fl)) (flines ind cur (thread st flag ls))) = flines ind cur (thread st flag ls) /\
+    Forall no_nl (map (fun fl => chars (snd fl)) (flines ind cur (thread st flag ls))) /\
+    eflag st flag (map (fun fl => chars (snd fl)) (flines ind cur (thread st flag ls))) = eflag st flag ls.
   Proof.
-    intros ind. induction ls as [|x r IH]; intros cur Z Hi Hc HZ; [reflexivity|].
-    cbn [fmt_lines]. rewrite (RL_cons_abs x r Z HZ).
-    destruct (trim_space_split x) as (a & b & E & Ha & Hb).
-    destruct (trim_space is_space x) as [|c tr] eqn:Et.
-    - rewrite E. cbn [app]. rewrite R_app. rewrite (R_ws_abs b _ Hb (absorbs_scons _)).
-      rewrite (sW_R_ws a _ Ha). rewrite scons_W_idem. apply IH; assumption.
-    - set (cur' := fmt_next_indent upper_ascii ind cur (c :: tr)).
-      assert (Hc' : forallb is_blank cur' = true) by (apply fmt_next_blank; assumption).
-      rewrite (RL_cons_abs _ _ Z HZ). rewrite R_app. rewrite (sW_R_ws cur' _ (blanks_wsc cur' Hc')).
-      rewrite (IH cur' Z Hi Hc' HZ).
-      rewrite E. rewrite !R_app. rewrite (R_ws_abs b _ Hb (absorbs_scons _)). rewrite (sW_R_ws a _ Ha). reflexivity.
+    intros ind. induction ls as [|l r IH]; intros st flag cur Hi Hc Ht Hall; [repeat split; constructor|].
+    inversion Hall as [|? ? Hl Hr]; subst. cbn [thread flines]. destruct flag.
+    - rewrite (Ht eq_refl) in *. set (cl := combine l (lex SCode l)).
+      assert (Hcn : cno_nl cl) by (apply combine_cno; exact Hl).
+      destruct (trim_code cl) as [|p tr] eqn:E.
+      + (* blank line of code: dropped, the scanner stays in code *)
+        assert (Hs : forallb spacec l = true) by (pose proof (trim_code_nil_ws cl E) as Z; unfold cl in Z; rewrite chars_combine in Z by apply lex_length; exact Z).
+        destruct (lex_plain_code l (ws_line_plain is_space sp_nodelim l Hl Hs)) as [_ E2]. cbn [eflag]. rewrite E2.
+        change (snd (nl_step SCode)) with SCode. change (fst (nl_step SCode) =? 0) with true.
+        apply IH; [exact Hi|exact Hc|intros _; reflexivity|exact Hr].
+      + set (cur' := fmt_next_indent upper_ascii ind cur (chars (p :: tr))).
+        assert (Hc' : forallb is_blank cur' = true) by (apply fmt_next_blank; assumption).
+        pose proof (edit_fmt_line cur' cl Hc' Hcn) as He. rewrite E in He.
+        destruct (edit_lock true cl _ He SCode l Hl eq_refl (fun _ => eq_refl)) as (L1 & L2 & L3).
+        cbn [map thread snd eflag]. rewrite L1, L2. unfold chars at 1. rewrite combine_fst_snd.
+        destruct (IH (snd (nl_step (lex_end SCode l))) (fst (nl_step (lex_end SCode l)) =? 0) cur' Hi Hc' (tinv_next SCode l) Hr) as (I1 & I2 & I3).
+        split; [f_equal; exact I1|]. split; [constructor; [exact L3|exact I2]|exact I3].
+    - cbn [map thread snd eflag]. rewrite chars_combine by apply lex_length.
+      destruct (IH (snd (nl_step (lex_end st l))) (fst (nl_step (lex_end st l)) =? 0) cur Hi Hc (tinv_next st l) Hr) as (I1 & I2 & I3).
+      split; [f_equal; exact I1|]. split; [constructor; [exact Hl|exact I2]|exact I3].
   Qed.
 
-  Theorem format_cview : forall tab spaces final t, cview (format_sql is_space upper_ascii tab spaces final t) = cview t.
+  (* ---- reading ---- *)
+  Notation RD := (RD is_space upper_ascii).
+  Notation RDL := (RDL is_space upper_ascii).
+  Notation T := (T is_space upper_ascii).
+  Notation wsp := (wsp is_space).
+
+  (* what the scanner guarantees about the lines formatSQL looks at *)
+  Fixpoint fok (ls : list (bool * list cc)) : Prop :=
+    match ls with
+    | [] => True
+    | fl :: r =>
+        (fst fl = true -> forallb code0 (take_l spf (snd fl)) = true) /\
+        (fst fl = true -> trim_code (snd fl) = [] -> forallb wsp (snd fl) = true /\ hflag r) /\
+        (ends03 (snd fl) = true -> hflag r) /\
+        fok r
+    end.
+
+  Lemma lead_code : forall l, no_nl l -> forallb code0 (take_l spf (combine l (lex SCode l))) = true.
+  Proof.
+    induction l as [|c t IH]; intro Hn; [reflexivity|]. cbn [lex combine take_l fst]. destruct (spacec c) eqn:E; [|reflexivity].
+    assert (Hp : plainc c = true) by (apply (spacec_plain is_space sp_nodelim); [exact E|apply Hn; left; reflexivity]).
+    rewrite (lstep_plain_code c t Hp). cbn [fst snd forallb code0 N.eqb andb]. apply IH. intros d Hd. apply Hn. right. exact Hd.
+  Qed.
+
+  Lemma thread_fok : forall ls st flag, tinv st flag -> Forall no_nl ls -> fok (thread st flag ls).
+  Proof.
+    induction ls as [|l r IH]; intros st flag Hi Hall; [exact I|]. inversion Hall as [|? ? Hl Hr]; subst.
+    cbn [thread fok fst snd]. split; [|split; [|split]].
+    - intro Hf. rewrite (Hi Hf). apply lead_code. exact Hl.
+    - intros Hf E. rewrite (Hi Hf) in *.
+      assert (Hs : forallb spacec l = true) by (pose proof (trim_code_nil_ws _ E) as Z; rewrite chars_combine in Z by apply lex_length; exact Z).
+      destruct (lex_plain_code l (ws_line_plain is_space sp_nodelim l Hl Hs)) as [E1 E2]. rewrite E1, E2. split.
+      + clear -Hs. induction l as [|c l IH]; [reflexivity|]. cbn in *. apply andb_prop in Hs. destruct Hs as [H1 H2].
+        unfold LintP.wsp at 1. cbn [fst snd]. unfold Lint.wsc. rewrite H1. cbn. apply IH. exact H2.
+      + destruct r; [exact I|reflexivity].
+    - intro He. destruct r as [|y r]; [exact I|]. cbn [thread hflag fst].
+      pose proof (thread_cons_ok (l :: y :: r) st flag Hall) as Hc. cbn [thread cons_ok] in Hc. destruct Hc as [Hc _]. apply Hc. exact He.
+    - apply IH; [apply tinv_next|exact Hr].
+  Qed.
+
+  Lemma flines_hflag : forall ind ls cur, fok ls -> hflag ls -> hflag (flines ind cur ls).
+  Proof.
+    intros ind. induction ls as [|[flag l] r IH]; intros cur Hf Hh; [exact I|]. destruct Hf as (_ & H2 & _ & Hr). cbn [flines].
+    cbn [hflag fst] in Hh. subst flag. destruct (trim_code l) eqn:E; [|reflexivity].
+    apply IH; [exact Hr|]. apply (H2 eq_refl E).
+  Qed.
+
+  Lemma blank_spacec : forall l, forallb is_blank l = true -> forallb wsp (cpairs l) = true /\ forallb code0 (cpairs l) = true.
+  Proof.
+    induction l as [|c l IH]; intro H; [split; reflexivity|]. cbn in H. apply andb_prop in H. destruct H as [H1 H2].
+    destruct (IH H2) as [I1 I2]. cbn [cpairs map forallb]. fold (cpairs l). rewrite I1, I2. unfold LintP.wsp, code0. cbn [fst snd N.eqb].
+    unfold Lint.wsc. rewrite H1. rewrite orb_true_r. split; reflexivity.
+  Qed.
+
+  Lemma spf_wsp_code : forall a, forallb spf a = true -> forallb code0 a = true -> forallb wsp a = true.
+  Proof.
+    intros a H1 H2. apply forallb_forall. intros p Hp. rewrite forallb_forall in H1, H2. unfold LintP.wsp, Lint.wsc.
+    rewrite (H1 p Hp). specialize (H2 p Hp). unfold code0 in H2. rewrite H2. reflexivity.
+  Qed.
+
+  Lemma tspace_wsp : forall b, forallb tspace b = true -> forallb wsp b = true.
+  Proof.
+    intros b H. apply forallb_forall. intros p Hp. rewrite forallb_forall in H. specialize (H p Hp).
+    unfold Lint.tspace in H. apply andb_prop in H. destruct H as [H1 H2]. unfold LintP.wsp, Lint.wsc. rewrite H1, H2. reflexivity.
+  Qed.
+
+  (* the reading of a line that begins in code, in front of Y, is the reading of its trimmed text *)
+  Lemma RD_trimmed : forall cl Y, forallb code0 (take_l spf cl) = true -> (ends03 cl = true -> absorbs Y) ->
+    scons VW (RD cl Y) = scons VW (RD (trim_code cl) Y).
+  Proof.
+    intros cl Y Hc HY. rewrite <- (take_trim_l spf cl) at 1. rewrite RD_app_code by exact Hc.
+    rewrite (sW_RD_wsp is_space upper_ascii _ _ (spf_wsp_code _ (take_l_all spf cl) Hc)).
+    unfold Lint.trim_code. destruct (trim_r_split tspace (trim_l spf cl)) as (b & E & Hb).
+    rewrite E at 1. rewrite RD_app_ws by (apply wsp_rest_ws; apply tspace_wsp; exact Hb).
+    destruct b as [|q b]; [reflexivity|]. rewrite (RD_wsp_abs is_space upper_ascii (q :: b) Y (tspace_wsp _ Hb)); [reflexivity|].
+    apply HY. unfold ends03. destruct (lastc_some_in (q :: b)) as (x & Hx); [discriminate|].
+    assert (Hl : lastc cl = Some x).
+    { rewrite <- (take_trim_l spf cl). rewrite E. rewrite app_assoc. apply lastc_app_last. exact Hx. }
+    rewrite Hl. apply lastc_in in Hx. rewrite forallb_forall in Hb. destruct (tspace_spec x (Hb x Hx)) as [_ [K|K]]; rewrite K; reflexivity.
+  Qed.
+
+  Lemma T_cons : forall x r, T (x :: r) = scons (sep x) (RD (snd x) (T r)).
+  Proof. intros x r. unfold LintP.T at 1. rewrite RDL_T. reflexivity. Qed.
+
+  Lemma T_flines : forall ind ls cur, forallb is_blank ind = true -> forallb is_blank cur = true -> fok ls ->
+    T (flines ind cur ls) = T ls.
+  Proof.
+    intros ind. induction ls as [|[flag l] r IH]; intros cur Hi Hc Hf; [reflexivity|]. destruct Hf as (H1 & H2 & H3 & Hr).
+    cbn [fst snd] in *. cbn [flines]. destruct flag.
+    - destruct (trim_code l) as [|p tr] eqn:E.
+      + destruct (H2 eq_refl eq_refl) as [Hw Hh]. rewrite (T_blank is_space upper_ascii (true, l) r eq_refl Hw Hh). apply IH; assumption.
+      + set (cur' := fmt_next_indent upper_ascii ind cur (chars (p :: tr))).
+        assert (Hc' : forallb is_blank cur' = true) by (apply fmt_next_blank; assumption).
+        rewrite !T_cons. unfold sep. cbn [fst snd]. rewrite (IH cur' Hi Hc' Hr).
+        destruct (blank_spacec cur' Hc') as [W C]. rewrite RD_app_code by exact C. rewrite (sW_RD_wsp is_space upper_ascii _ _ W).
+        rewrite (RD_trimmed l (T r) (H1 eq_refl)); [rewrite E; reflexivity|]. intro He. apply T_absorbs. apply H3. exact He.
+    - rewrite !T_cons. rewrite (IH cur Hi Hc Hr). reflexivity.
+  Qed.
+
+  Lemma nl_class_end : forall s, (fst (nl_step s) =? 0) = end_code s.
+  Proof. intros [| q | | | |]; reflexivity. Qed.
+
+  Lemma eflag_end : forall ls st flag, ls <> [] -> eflag st flag ls = end_code (lex_end st (join_nl ls)).
+  Proof.
+    induction ls as [|l r IH]; intros st flag Hne; [contradiction|]. destruct r as [|y r].
+    - cbn [eflag join_nl]. apply nl_class_end.
+    - rewrite join_cons2. destruct (lex_app_nl l st (join_nl (y :: r))) as [_ E]. rewrite E.
+      change (eflag st flag (l :: y :: r)) with (eflag (snd (nl_step (lex_end st l))) (fst (nl_step (lex_end st l)) =? 0) (y :: r)).
+      apply IH. discriminate.
+  Qed.
+
+  Lemma join_snoc_empty : forall ls, ls <> [] -> join_nl (ls ++ [[]]) = join_nl ls ++ [nlc].
+  Proof.
+    induction ls as [|l r IH]; intro H; [contradiction|]. destruct r as [|y r]; [cbn; reflexivity|].
+    change ((l :: y :: r) ++ [[]]) with (l :: (y :: r) ++ [[]]). rewrite join_cons_ne by (destruct r; discriminate).
+    rewrite IH by discriminate. rewrite join_cons2. rewrite <- app_assoc. reflexivity.
+  Qed.
+
+  Lemma RDL_snoc_empty : forall L, L <> [] -> RDL (L ++ [(true, [])]) = RDL L.
+  Proof.
+    induction L as [|fl r IH]; intro H; [contradiction|]. destruct r as [|fl2 r]; [reflexivity|].
+    change ((fl :: fl2 :: r) ++ [(true, [])]) with (fl :: (fl2 :: r) ++ [(true, [])]).
+    rewrite RDL_T. rewrite (RDL_T _ _ fl (fl2 :: r)). f_equal. unfold LintP.T. cbn [app].
+    change (fl2 :: r ++ [(true, [])]) with ((fl2 :: r) ++ [(true, [])]). rewrite IH by discriminate. reflexivity.
+  Qed.
+
+  Lemma Forall_app_nonl : forall a, Forall no_nl a -> Forall no_nl (a ++ [[]]).
+  Proof. intros a H. apply Forall_app. split; [exact H|]. constructor; [intros c []|constructor]. Qed.
+
+  Theorem format_keeps_reading : forall tab spaces final t,
+    reading is_space upper_ascii (format_sql is_space upper_ascii tab spaces final t) = reading is_space upper_ascii t.
   Proof.
     intros tab spaces final t. unfold format_sql.
     set (ind := if spaces then repeat spc tab else [asc 9]).
     assert (Hi : forallb is_blank ind = true).
     { unfold ind. destruct spaces; [|reflexivity]. induction tab as [|n IH]; [reflexivity|cbn; exact IH]. }
-    set (f := join_nl (fmt_lines is_space upper_ascii ind [] (split_nl t))).
-    assert (Ef : cview f = cview t).
-    { unfold Lint.cview, f. rewrite R_join. rewrite <- strip_lead_scons. rewrite (RL_fmt ind _ [] [] Hi eq_refl absorbs_nil).
-      rewrite strip_lead_scons. rewrite <- R_join. rewrite join_split. reflexivity. }
-    destruct (final && negb (ends_nl f)); [|exact Ef].
-    unfold Lint.cview. rewrite R_app. cbn [Lint.R fold_right]. rewrite vt_nlc. cbn [scons]. exact Ef.
+    rewrite fmt_lines_flines. rewrite (clines_thread t).
+    destruct (thread_flines ind (split_nl t) SCode true [] Hi eq_refl (fun _ => eq_refl) (split_no_nl t)) as (R1 & R2 & R3).
+    assert (Hok : fok (thread SCode true (split_nl t))) by (apply thread_fok; [intros _; reflexivity|apply split_no_nl]).
+    assert (Hh : hflag (thread SCode true (split_nl t))) by (rewrite <- clines_thread; apply clines_hflag).
+    set (L := flines ind [] (thread SCode true (split_nl t))) in *.
+    set (lines := map (fun fl => chars (snd fl)) L) in *.
+    assert (HT : T L = T (thread SCode true (split_nl t))) by (apply T_flines; [exact Hi|reflexivity|exact Hok]).
+    assert (HL : hflag L) by (apply flines_hflag; assumption).
+    assert (Rt : reading is_space upper_ascii t = strip_lead (T L)).
+    { unfold reading. rewrite clines_thread. rewrite <- (strip_T is_space upper_ascii _ Hh). rewrite HT. reflexivity. }
+    rewrite Rt. destruct L as [|fl0 L0] eqn:EL.
+    - (* nothing is left: the formatted text is empty or a single line break *)
+      unfold lines. cbn [map join_nl app]. destruct (final && negb (ends_nl []) && end_code (lex_end SCode t)); reflexivity.
+    - assert (Hne : lines <> []) by (unfold lines; discriminate).
+      assert (Cf : clines (join_nl lines) = fl0 :: L0) by (rewrite clines_join by assumption; exact R1).
+      assert (Rf : reading is_space upper_ascii (join_nl lines) = strip_lead (T (fl0 :: L0))).
+      { unfold reading. rewrite Cf. symmetry. apply strip_T. exact HL. }
+      destruct (final && negb (ends_nl (join_nl lines)) && end_code (lex_end SCode t)) eqn:Ec; [|exact Rf].
+      apply andb_prop in Ec. destruct Ec as [_ Ee].
+      rewrite <- (join_snoc_empty lines Hne). unfold reading.
+      rewrite clines_join by (try apply Forall_app_nonl; try assumption; destruct lines; discriminate).
+      rewrite thread_snoc_empty. rewrite R1. rewrite R3.
+      rewrite (eflag_end (split_nl t) SCode true (split_nonempty t)). rewrite join_split. rewrite Ee.
+      rewrite RDL_snoc_empty by discriminate. symmetry. apply strip_T. exact HL.
   Qed.
-End View.
-
-Section CliView.
-  Variables is_letter is_digit is_space : N -> bool.
-  Variable upper_ascii : N -> option N.
-  Variable keywords : list (list N).
-  Hypothesis up_idem : forall x u, upper_ascii x = Some u -> upper_ascii u = Some u.
-  Hypothesis up_nows : forall x u, upper_ascii x = Some u -> is_space x = false /\ x <> 32 /\ x <> 9 /\ x <> 10.
-
-  Theorem cli_cview : forall t,
-    cview is_space upper_ascii (cli_fix is_letter is_digit is_space upper_ascii keywords t) = cview is_space upper_ascii t.
+  (* ---- convergence of the format action ---- *)
+  Lemma blank_spf : forall l, forallb is_blank l = true -> forallb spf (cpairs l) = true.
   Proof.
-    intro t. unfold cli_fix.
-    rewrite (l007_cview is_space upper_ascii is_letter is_digit keywords up_idem up_nows).
-    rewrite l010_cview. unfold l003_fix. rewrite l003_cview. rewrite l002_cview. apply l001_cview.
-  Qed.
-
-  (* the ink is determined by the reading when case is folded; for the CLI loop both conservation laws combine *)
-End CliView.
-
-(* ------------------------------------------------------------------------------------------------ *)
-(* the lexical reading of a text without literals and comments is its reading as code *)
-
-Section Plain.
-  Variable is_space : N -> bool.
-  Variable upper_ascii : N -> option N.
-
-  Lemma R2_plain : forall l cls Z, length cls = length l -> forallb (fun k => k =? 0) cls = true ->
-    R2 is_space upper_ascii cls l Z = R is_space upper_ascii l Z.
-  Proof.
-    induction l as [|c t IH]; intros cls Z Hl H; destruct cls as [|k ks]; try discriminate; [reflexivity|].
-    cbn in H. apply andb_prop in H. destruct H as [H1 H2]. cbn [R2]. rewrite H1.
-    rewrite IH; [reflexivity|cbn in Hl; lia|exact H2].
+    induction l as [|c l IH]; intro H; [reflexivity|]. cbn in H. apply andb_prop in H. destruct H as [H1 H2].
+    cbn [cpairs map forallb fst]. fold (cpairs l). rewrite (IH H2). rewrite andb_true_r.
+    unfold Lint.spacec. unfold is_blank, is_sp, is_tab in H1. apply orb_prop in H1.
+    destruct H1 as [H1|H1]; apply N.eqb_eq in H1; rewrite H1; assumption.
   Qed.
 
-  Lemma lex_length : forall l st, length (lex st l) = length l.
+  Lemma trim_r_head : forall {A} (q : A -> bool) c t x r, trim_r q (c :: t) = x :: r -> x = c.
   Proof.
-    induction l as [|c t IH]; intro st; [reflexivity|]. cbn [lex].
-    destruct st; repeat match goal with |- context [if ?b then _ else _] => destruct b end; cbn [length]; rewrite IH; reflexivity.
+    intros A q c t x r H. rewrite trim_r_cons in H. destruct (trim_r q t); [destruct (q c); [discriminate H|]|]; inversion H; reflexivity.
   Qed.
 
-  Lemma reading_plain : forall t, plain t = true -> reading is_space upper_ascii t = cview is_space upper_ascii t.
+  Lemma trim_code_head : forall l p tr, trim_code l = p :: tr -> spacec (fst p) = false.
   Proof.
-    intros t H. unfold reading, cview. rewrite R2_plain; [reflexivity|apply lex_length|exact H].
+    intros l p tr H. unfold Lint.trim_code in H. change (trim_l (fun p : ch * N => spacec (fst p)) l) with (trim_l spf l) in H. destruct (trim_l spf l) as [|c t] eqn:E; [cbn in H; discriminate H|].
+    pose proof (trim_l_head _ _ _ _ E) as Hc. apply trim_r_head in H. subst. exact Hc.
   Qed.
 
-  (* the partial form of the preservation statement: for texts that contain no literal, quoted identifier or
-     comment, before and after the rewrite *)
-  Lemma preserved_partial : forall (F : list ch -> list ch),
-    (forall t, cview is_space upper_ascii (F t) = cview is_space upper_ascii t) ->
-    forall t, plain t = true -> plain (F t) = true -> reading is_space upper_ascii (F t) = reading is_space upper_ascii t.
+  Lemma trim_code_indent : forall ind l p tr, forallb is_blank ind = true -> trim_code l = p :: tr ->
+    trim_code (cpairs ind ++ p :: tr) = p :: tr.
   Proof.
-    intros F HF t H1 H2. rewrite (reading_plain t H1), (reading_plain (F t) H2). apply HF.
-  Qed.
-End Plain.
-
-(* ------------------------------------------------------------------------------------------------ *)
-(* formatSQL converges: formatting the formatted text changes nothing *)
-
-Section FormatIdem.
-  Variable is_space : N -> bool.
-  Variable upper_ascii : N -> option N.
-  (* facts about the table: space, tab and newline are spaces *)
-  Hypothesis sp32 : is_space 32 = true.
-  Hypothesis sp9 : is_space 9 = true.
-  Hypothesis sp10 : is_space 10 = true.
-
-  Notation sp := (spacec is_space).
-  Notation tsp := (trim_space is_space).
-
-  Lemma blank_sp : forall c, is_blank c = true -> sp c = true.
-  Proof.
-    intros c H. unfold spacec. unfold is_blank, is_sp, is_tab in H. apply orb_prop in H.
-    destruct H as [H|H]; apply N.eqb_eq in H; rewrite H; assumption.
-  Qed.
-  Lemma nl_sp : forall c, is_nl c = true -> sp c = true.
-  Proof. intros c H. apply is_nl_eq in H. subst. exact sp10. Qed.
-
-  Lemma trim_r_prefix_head : forall {A} (p : A -> bool) l c t, trim_r p l = c :: t -> exists t', l = c :: t'.
-  Proof.
-    intros A p l c t H. destruct (trim_r_split p l) as (b & E & _). rewrite H in E. exists (t ++ b). exact E.
+    intros ind l p tr Hi H. unfold Lint.trim_code. rewrite trim_l_app_all by (apply blank_spf; exact Hi).
+    rewrite trim_l_stop by (eapply trim_code_head; exact H).
+    assert (X : trim_r tspace (p :: tr) = p :: tr) by (rewrite <- H; unfold Lint.trim_code; apply trim_r_idem). exact X.
   Qed.
 
-  Lemma tsp_idem : forall l, tsp (tsp l) = tsp l.
+  Lemma flines_idem : forall ind ls cur, forallb is_blank ind = true -> forallb is_blank cur = true ->
+    flines ind cur (flines ind cur ls) = flines ind cur ls.
   Proof.
-    intro l. unfold trim_space. set (X := trim_l sp l). destruct (trim_r sp X) as [|c t] eqn:E; [reflexivity|].
-    destruct (trim_r_prefix_head sp X c t E) as (t' & EX).
-    assert (Hc : sp c = false) by (eapply trim_l_head; unfold X in EX; exact EX).
-    rewrite trim_l_stop by exact Hc. rewrite <- E. apply trim_r_idem.
+    intros ind. induction ls as [|[flag l] r IH]; intros cur Hi Hc; [reflexivity|]. cbn [flines]. destruct flag.
+    - destruct (trim_code l) as [|p tr] eqn:E; [apply IH; assumption|].
+      set (cur' := fmt_next_indent upper_ascii ind cur (chars (p :: tr))).
+      assert (Hc' : forallb is_blank cur' = true) by (apply fmt_next_blank; assumption).
+      cbn [flines]. rewrite (trim_code_indent cur' l p tr Hc' E). fold cur'. f_equal. apply IH; assumption.
+    - cbn [flines]. f_equal. apply IH; assumption.
   Qed.
 
-  Lemma tsp_app_lead : forall a l, forallb sp a = true -> tsp (a ++ tsp l) = tsp l.
+  Lemma flines_snoc_empty : forall ind ls cur, flines ind cur (ls ++ [(true, [])]) = flines ind cur ls.
   Proof.
-    intros a l H. unfold trim_space at 1. rewrite trim_l_app_all by exact H. fold (tsp (tsp l)). apply tsp_idem.
+    intros ind. induction ls as [|[flag l] r IH]; intro cur; [reflexivity|]. cbn [app flines]. destruct flag.
+    - destruct (trim_code l); [apply IH|]. f_equal. apply IH.
+    - f_equal. apply IH.
   Qed.
 
-  Lemma ends_nl_lastc : forall l, ends_nl l = match lastc l with Some c => is_nl c | None => false end.
+  Lemma lex_end_snoc_nl : forall l st, end_code (lex_end st l) = true -> end_code (lex_end st (l ++ [nlc])) = true.
   Proof.
-    intro l. unfold ends_nl. induction l as [|c t IH]; [reflexivity|]. destruct t as [|d t]; [reflexivity|].
-    rewrite lastc_cons by discriminate. rewrite <- IH. cbn [rev]. destruct (rev t ++ [d]) as [|e r] eqn:E.
-    - destruct (rev t); discriminate.
-    - reflexivity.
-  Qed.
-
-  Lemma lastc_none : forall {A} (l : list A), lastc l = None -> l = [].
-  Proof.
-    intros A. induction l as [|c t IH]; intro H; [reflexivity|]. destruct t as [|d t]; [discriminate|].
-    rewrite lastc_cons in H by discriminate. apply IH in H. discriminate.
-  Qed.
-
-  Lemma lastc_tsp_not_sp : forall l c, lastc (tsp l) = Some c -> sp c = false.
-  Proof. intros l c H. unfold trim_space in H. eapply lastc_trim_r. exact H. Qed.
-
-  (* the lines formatSQL emits *)
-  Definition fl := fmt_lines is_space upper_ascii.
-
-  Lemma fmt_fixed : forall ind ls cur, forallb is_blank ind = true -> forallb is_blank cur = true ->
-    fl ind cur (fl ind cur ls) = fl ind cur ls.
-  Proof.
-    intros ind. induction ls as [|x r IH]; intros cur Hi Hc; [reflexivity|].
-    unfold fl in *. cbn [fmt_lines]. destruct (trim_space is_space x) as [|c tr] eqn:E; [apply IH; assumption|].
-    set (cur' := fmt_next_indent upper_ascii ind cur (c :: tr)).
-    assert (Hc' : forallb is_blank cur' = true) by (apply fmt_next_blank; assumption).
-    cbn [fmt_lines]. rewrite <- E. rewrite tsp_app_lead.
-    - rewrite E. fold cur'. f_equal. apply IH; assumption.
-    - apply forallb_forall. intros y Hy. apply blank_sp. rewrite forallb_forall in Hc'. apply Hc'. exact Hy.
-  Qed.
-
-  Lemma fmt_app : forall ind a b cur, exists cur2, fl ind cur (a ++ b) = fl ind cur a ++ fl ind cur2 b.
-  Proof.
-    intros ind. induction a as [|x a IH]; intros b cur; [exists cur; reflexivity|].
-    unfold fl in *. cbn [app fmt_lines]. destruct (trim_space is_space x) as [|c tr]; [apply IH|].
-    destruct (IH b (fmt_next_indent upper_ascii ind cur (c :: tr))) as (c2 & E). exists c2. rewrite E. reflexivity.
-  Qed.
-
-  Lemma fmt_no_nl : forall ind ls cur, forallb is_blank ind = true -> forallb is_blank cur = true -> Forall no_nl ls ->
-    Forall no_nl (fl ind cur ls).
-  Proof.
-    intros ind. induction ls as [|x r IH]; intros cur Hi Hc Hall; [constructor|].
-    inversion Hall as [|? ? Hx Hr]; subst. unfold fl in *. cbn [fmt_lines].
-    destruct (trim_space is_space x) as [|c tr] eqn:E; [apply IH; assumption|].
-    set (cur' := fmt_next_indent upper_ascii ind cur (c :: tr)).
-    assert (Hc' : forallb is_blank cur' = true) by (apply fmt_next_blank; assumption).
-    constructor; [|apply IH; assumption].
-    intros y Hy. apply in_app_or in Hy. destruct Hy as [Hy|Hy].
-    - rewrite forallb_forall in Hc'. specialize (Hc' y Hy). destruct (is_nl y) eqn:En; [|reflexivity].
-      apply is_nl_eq in En. subst. vm_compute in Hc'. discriminate Hc'.
-    - apply Hx. rewrite <- E in Hy. unfold trim_space in Hy. apply trim_r_incl in Hy. apply trim_l_incl in Hy. exact Hy.
-  Qed.
-
-  (* every emitted line ends in a character that is not a space *)
-  Lemma fmt_last : forall ind ls cur l, In l (fl ind cur ls) -> exists c, lastc l = Some c /\ sp c = false.
-  Proof.
-    intros ind. induction ls as [|x r IH]; intros cur l H; [destruct H|].
-    unfold fl in *. cbn [fmt_lines] in H. destruct (trim_space is_space x) as [|c tr] eqn:E; [eapply IH; exact H|].
-    destruct H as [H|H]; [|eapply IH; exact H]. subst.
-    rewrite lastc_app by discriminate. destruct (lastc (c :: tr)) as [d|] eqn:Ed.
-    - exists d. split; [reflexivity|]. rewrite <- E in Ed. eapply lastc_tsp_not_sp. exact Ed.
-    - apply lastc_none in Ed. discriminate.
-  Qed.
-
-  Lemma lastc_join : forall ls l, lastc ls = Some l -> l <> [] -> lastc (join_nl ls) = lastc l.
-  Proof.
-    induction ls as [|x r IH]; intros l H Hne; [discriminate|]. destruct r as [|y r].
-    - inversion H; subst. reflexivity.
-    - rewrite lastc_cons in H by discriminate. rewrite join_cons2.
-      change (x ++ nlc :: join_nl (y :: r)) with (x ++ [nlc] ++ join_nl (y :: r)). rewrite app_assoc.
-      rewrite lastc_app; [apply IH; assumption|].
-      intro E. assert (Hl : lastc (join_nl (y :: r)) = lastc l) by (apply IH; assumption). rewrite E in Hl.
-      symmetry in Hl. apply lastc_none in Hl. contradiction.
-  Qed.
-
-  Lemma lastc_some_in : forall {A} (l : list A), l <> [] -> exists x, lastc l = Some x.
-  Proof.
-    intros A. induction l as [|c t IH]; intro H; [contradiction|]. destruct t as [|d t]; [exists c; reflexivity|].
-    rewrite lastc_cons by discriminate. apply IH. discriminate.
-  Qed.
-
-  Lemma split_join_nl : forall ls, ls <> [] -> Forall no_nl ls -> split_nl (join_nl ls ++ [nlc]) = ls ++ [[]].
-  Proof.
-    induction ls as [|x r IH]; intros Hne Hall; [contradiction|]. inversion Hall as [|? ? Hx Hr]; subst.
-    destruct r as [|y r].
-    - cbn [join_nl app]. rewrite split_app_line by exact Hx. reflexivity.
-    - rewrite join_cons2. rewrite <- app_assoc. cbn [app]. rewrite split_app_line by exact Hx.
-      cbn [app]. f_equal. apply IH; [discriminate|exact Hr].
+    intros l st H. destruct (lex_app l st [nlc] lan_nlc) as [_ E]. rewrite E. cbn [lex_end]. rewrite lstep_nlc.
+    destruct (lex_end st l); try discriminate; reflexivity.
   Qed.
 
   Theorem format_idempotent : forall tab spaces final t,
     format_sql is_space upper_ascii tab spaces final (format_sql is_space upper_ascii tab spaces final t)
     = format_sql is_space upper_ascii tab spaces final t.
   Proof.
-    intros tab spaces final t. unfold format_sql.
+    intros tab spaces final t. unfold format_sql at 2 3.
     set (ind := if spaces then repeat spc tab else [asc 9]).
     assert (Hi : forallb is_blank ind = true).
     { unfold ind. destruct spaces; [|reflexivity]. induction tab as [|n IH]; [reflexivity|cbn; exact IH]. }
-    fold (fl ind [] (split_nl t)). set (L := fl ind [] (split_nl t)).
-    assert (HL : Forall no_nl L) by (apply fmt_no_nl; [exact Hi|reflexivity|apply split_no_nl]).
-    assert (HLL : fl ind [] L = L) by (apply fmt_fixed; [exact Hi|reflexivity]).
-    destruct L as [|l0 L0] eqn:EL.
-    - (* no line at all *)
-      cbn [join_nl ends_nl rev negb]. rewrite andb_true_r. destruct final; cbn [app].
-      + cbn. reflexivity.
-      + cbn. reflexivity.
-    - assert (Hne : l0 :: L0 <> []) by discriminate.
-      assert (He : ends_nl (join_nl (l0 :: L0)) = false).
-      { rewrite ends_nl_lastc. destruct (lastc_some_in (l0 :: L0) Hne) as (l & Hl).
-        destruct (fmt_last ind (split_nl t) [] l) as (c & Hc & Hs); [fold L; rewrite EL; apply lastc_in; exact Hl|].
-        rewrite (lastc_join _ l Hl) by (intro E; subst; discriminate). rewrite Hc.
-        destruct (is_nl c) eqn:En; [|reflexivity]. apply nl_sp in En. congruence. }
-      rewrite He. rewrite andb_true_r. destruct final.
-      + rewrite split_join_nl by assumption. destruct (fmt_app ind (l0 :: L0) [[]] []) as (c2 & E).
-        fold (fl ind [] ((l0 :: L0) ++ [[]])). rewrite E. rewrite HLL. unfold fl at 2. cbn [fmt_lines trim_space trim_l trim_r].
-        rewrite !app_nil_r. rewrite He. reflexivity.
-      + rewrite split_join by assumption. fold (fl ind [] (l0 :: L0)). rewrite HLL. rewrite He. reflexivity.
+    rewrite fmt_lines_flines. rewrite (clines_thread t).
+    destruct (thread_flines ind (split_nl t) SCode true [] Hi eq_refl (fun _ => eq_refl) (split_no_nl t)) as (R1 & R2 & R3).
+    set (L := flines ind [] (thread SCode true (split_nl t))) in *.
+    set (lines := map (fun fl => chars (snd fl)) L) in *.
+    assert (Ht : eflag SCode true (split_nl t) = end_code (lex_end SCode t)).
+    { rewrite (eflag_end (split_nl t) SCode true (split_nonempty t)). rewrite join_split. reflexivity. }
+    assert (Lidem : flines ind [] L = L) by (apply flines_idem; [exact Hi|reflexivity]).
+    destruct L as [|fl0 L0] eqn:EL.
+    - (* nothing is left *)
+      unfold lines in *. cbn [map] in *. cbn [eflag] in R3. rewrite Ht in R3. rewrite <- R3.
+      cbn [join_nl ends_nl rev negb andb app]. rewrite andb_true_r.
+      destruct final; unfold format_sql; reflexivity.
+    - assert (Hne : lines <> []) by (unfold lines; discriminate).
+      assert (Cf : clines (join_nl lines) = fl0 :: L0) by (rewrite clines_join by assumption; exact R1).
+      assert (Ef : end_code (lex_end SCode (join_nl lines)) = end_code (lex_end SCode t)).
+      { rewrite <- (eflag_end lines SCode true Hne). rewrite R3. exact Ht. }
+      destruct (final && negb (ends_nl (join_nl lines)) && end_code (lex_end SCode t)) eqn:Ec.
+      + apply andb_prop in Ec. destruct Ec as [Ec Ee]. apply andb_prop in Ec. destruct Ec as [E1 E2].
+        assert (Cn : clines (join_nl lines ++ [nlc]) = (fl0 :: L0) ++ [(true, [])]).
+        { rewrite <- (join_snoc_empty lines Hne).
+          rewrite clines_join by (try apply Forall_app_nonl; try assumption; destruct lines; discriminate).
+          rewrite thread_snoc_empty. rewrite R1. rewrite R3. rewrite Ht. rewrite Ee. reflexivity. }
+        unfold format_sql. fold ind. rewrite Cn. rewrite fmt_lines_flines. rewrite flines_snoc_empty. rewrite Lidem.
+        fold lines. rewrite E1, E2. rewrite lex_end_snoc_nl by (rewrite Ef; exact Ee). reflexivity.
+      + unfold format_sql. fold ind. rewrite Cf. rewrite fmt_lines_flines. rewrite Lidem. fold lines. rewrite Ef. rewrite Ec. reflexivity.
   Qed.
-End FormatIdem.
+End Format.
 
 (* ------------------------------------------------------------------------------------------------ *)
-(* the CLI loop converges: its output is a fixed point of every one of the five fixers *)
+(* L007: the fixer converges; re-lint *)
 
-Section Pipeline.
-  Variables is_letter is_digit is_space : N -> bool.
-  Variable upper_ascii : N -> option N.
-  Variable keywords : list (list N).
-  Hypothesis up_letter : forall x u, upper_ascii x = Some u -> is_letter u = true.
-  Hypothesis up_noquote : forall x u, upper_ascii x = Some u -> u <> 39 /\ u <> 34 /\ u <> 10.
-  Hypothesis up_idem : forall x u, upper_ascii x = Some u -> upper_ascii u = Some u.
-  Hypothesis up_nows : forall x u, upper_ascii x = Some u -> is_space x = false /\ x <> 32 /\ x <> 9 /\ x <> 10.
-  Hypothesis up_keynoquote : forall x u, upper_ascii x = Some u -> x <> 39 /\ x <> 34.
-  Hypothesis nl45 : is_letter 45 = false.
-  Hypothesis nd45 : is_digit 45 = false.
-  Hypothesis up_key45 : forall x u, upper_ascii x = Some u -> x <> 45.
-  Hypothesis sp32 : is_space 32 = true.
-  Hypothesis sp9 : is_space 9 = true.
-  Hypothesis sp10 : is_space 10 = true.
-  Hypothesis up_nobt : forall x u, upper_ascii x = Some u -> u <> 96.
-  Hypothesis up_keynobt : forall x u, upper_ascii x = Some u -> x <> 96.
-
-  Notation f1 := l001_fix_line.
-  Notation f2 := l002_fix_line.
-  Notation f10 := l010_fix_line.
-  Notation f7 := (l007_fix_line is_letter is_digit upper_ascii keywords).
-  Notation wsc := (wsc is_space).
-  Notation blank := (blank_line is_space).
-
-  (* ---------- stability of a line under the line rewriters ---------- *)
-  Definition S1 (l : list ch) : Prop := match lastc l with Some c => is_blank c = false | None => True end.
-  Definition S2 (l : list ch) : Prop := existsb is_tab (take_l is_blank l) = false.
-
-  Lemma S1_fixed : forall l, S1 l -> f1 l = l.
-  Proof.
-    unfold l001_fix_line. induction l as [|c t IH]; intro H; [reflexivity|]. rewrite trim_r_cons.
-    destruct t as [|d t].
-    - cbn [trim_r]. unfold S1 in H. cbn in H. rewrite H. reflexivity.
-    - assert (Ht : S1 (d :: t)) by (unfold S1 in *; rewrite lastc_cons in H by discriminate; exact H).
-      rewrite (IH Ht). reflexivity.
-  Qed.
-
-  Lemma f1_S1 : forall l, S1 (f1 l).
-  Proof.
-    intro l. unfold S1, l001_fix_line. destruct (lastc (trim_r is_blank l)) as [c|] eqn:E; [|exact I].
-    eapply lastc_trim_r. exact E.
-  Qed.
-
-  Lemma S2_fixed : forall l, S2 l -> f2 l = l.
-  Proof.
-    intros l H. rewrite l002_line_shape. rewrite <- (take_trim_l is_blank l) at 3. f_equal.
-    apply flat_map_tab4_notab. unfold S2 in H. clear -H. induction (take_l is_blank l) as [|c t IH]; [reflexivity|].
-    cbn in *. apply orb_false_elim in H. destruct H as [H1 H2]. rewrite H1. cbn. apply IH. exact H2.
-  Qed.
-
-  Lemma f2_S2 : forall l, S2 (f2 l).
-  Proof. intro l. apply l002_fixed_leading. Qed.
-
-  Lemma lastc_app_ne : forall {A} (a b : list A), b <> [] -> lastc (a ++ b) = lastc b.
-  Proof. intros. apply lastc_app. assumption. Qed.
-
-  Lemma all_blank_S1_nil : forall l, forallb is_blank l = true -> S1 l -> l = [].
-  Proof.
-    intros l Hb H. destruct (lastc l) as [c|] eqn:E.
-    - unfold S1 in H. rewrite E in H. apply lastc_in in E. rewrite forallb_forall in Hb. rewrite (Hb c E) in H. discriminate.
-    - apply lastc_none. exact E.
-  Qed.
-
-  (* (a) the indentation rule keeps "no trailing blank" *)
-  Lemma f2_keeps_S1 : forall l, S1 l -> S1 (f2 l).
-  Proof.
-    intros l H. rewrite l002_line_shape. destruct (trim_l is_blank l) as [|c r] eqn:E.
-    - apply trim_l_nil_iff in E. rewrite (all_blank_S1_nil l E H). exact I.
-    - unfold S1. rewrite lastc_app_ne by discriminate. rewrite <- E.
-      unfold S1 in H. rewrite <- (take_trim_l is_blank l) in H. rewrite lastc_app_ne in H by (rewrite E; discriminate). exact H.
-  Qed.
-
-  (* ---------- L010 ---------- *)
-  Lemma scan10_last : forall l q ps c, lastc l = Some c -> is_sp c = false ->
-    exists c', lastc (l010_scan q ps l) = Some c' /\ (c' = wr c \/ c' = c).
-  Proof.
-    induction l as [|d t IH]; intros q ps c H Hs; [discriminate|]. destruct t as [|e t0] eqn:Et.
-    - inversion H; subst. exists (wr c). split; [|left; reflexivity]. cbn [l010_scan]. destruct q; [reflexivity|].
-      unfold cstart. cbn [next_is]. rewrite andb_false_r. destruct (is_quote c); [reflexivity|]. rewrite Hs. reflexivity.
-    - rewrite lastc_cons in H by discriminate. rewrite <- Et in *. clear Et.
-      assert (G : forall q' ps' x, exists c', lastc (x ++ l010_scan q' ps' t) = Some c' /\ (c' = wr c \/ c' = c)).
-      { intros q' ps' x. destruct (IH q' ps' c H Hs) as (c' & E & D). exists c'. split; [|exact D].
-        rewrite lastc_app_ne; [exact E|]. intro En. rewrite En in E. discriminate. }
-      cbn [l010_scan]. destruct q as [k|]; [apply (G _ _ [wr d])|].
-      destruct (cstart d t).
-      { exists c. split; [|right; reflexivity]. rewrite lastc_cons; [exact H|]. intro En. subst. discriminate. }
-      destruct (is_quote d); [apply (G _ _ [wr d])|]. destruct (is_sp d).
-      + destruct ps; [apply (G _ _ [])|apply (G _ _ [wr d])].
-      + apply (G _ _ [wr d]).
-  Qed.
-
-  Lemma not_blank_not_sp : forall c, is_blank c = false -> is_sp c = false.
-  Proof. intros c H. unfold is_blank in H. apply orb_false_elim in H. tauto. Qed.
-
-  Lemma f10_keeps_S1 : forall l, S1 l -> S1 (f10 l).
-  Proof.
-    intros l H. unfold l010_fix_line. destruct (trim_l is_blank l) as [|c r] eqn:E.
-    - apply trim_l_nil_iff in E. rewrite (all_blank_S1_nil l E H). exact I.
-    - unfold S1 in *. rewrite <- (take_trim_l is_blank l) in H. rewrite E in H. rewrite lastc_app_ne in H by discriminate.
-      destruct (lastc (c :: r)) as [d|] eqn:Ed; [|apply lastc_none in Ed; discriminate].
-      destruct (scan10_last (c :: r) None false d Ed (not_blank_not_sp d H)) as (c' & Hl & D).
-      rewrite lastc_app_ne; [rewrite Hl; destruct D as [D|D]; subst c'; [rewrite is_blank_wr|]; exact H|]. intro En. rewrite En in Hl. discriminate.
-  Qed.
-
-  Lemma f10_keeps_S2 : forall l, S2 l -> S2 (f10 l).
-  Proof.
-    intros l H. unfold S2, l010_fix_line in *. destruct (trim_l is_blank l) as [|c r] eqn:E.
-    - apply trim_l_nil_iff in E. pose proof (l010_scan_blank l None false E) as Hb.
-      assert (Hl : take_l is_blank l = l).
-      { rewrite <- (take_trim_l is_blank l) at 2. apply trim_l_nil_iff in E. rewrite E. rewrite app_nil_r. reflexivity. }
-      rewrite Hl in H.
-      destruct (existsb is_tab (take_l is_blank (l010_scan None false l))) eqn:Et; [|reflexivity]. exfalso.
-      apply existsb_exists in Et. destruct Et as (x & Hx & Tx). apply take_l_incl in Hx. apply l010_scan_in in Hx.
-      destruct Hx as (d & Hd & [Ex|Ex]); subst; [rewrite is_tab_wr in Tx|];
-        (assert (existsb is_tab l = true) by (apply existsb_exists; exists d; split; assumption); congruence).
-    - pose proof (trim_l_head _ _ _ _ E) as Hc. destruct (l010_scan_head c r Hc) as (c' & s & Hs & Hc'). rewrite Hs.
-      rewrite take_l_app_all by apply take_l_all. rewrite take_l_stop by exact Hc'.
-      rewrite app_nil_r. exact H.
-  Qed.
-
-  (* blank lines: with space, tab and newline being spaces, "all whitespace" is "all spaces" *)
-  Lemma wsc_sp : forall c, wsc c = spacec is_space c.
-  Proof.
-    intro c. unfold Lint.wsc. destruct (spacec is_space c) eqn:E; [reflexivity|]. cbn [orb].
-    destruct (is_blank c) eqn:Eb; [rewrite (blank_sp is_space sp32 sp9 c Eb) in E; discriminate|].
-    destruct (is_nl c) eqn:En; [rewrite (nl_sp is_space sp10 c En) in E; discriminate|reflexivity].
-  Qed.
-
-  Lemma blank_iff_all : forall l, blank l = forallb wsc l.
-  Proof.
-    intro l. unfold blank_line. destruct (trim_space is_space l) as [|c r] eqn:E.
-    - symmetry. apply trim_space_nil_ws. exact E.
-    - symmetry. apply not_true_is_false. intro H.
-      assert (Hs : forallb (spacec is_space) l = true).
-      { apply forallb_forall. intros x Hx. rewrite <- wsc_sp. rewrite forallb_forall in H. apply H. exact Hx. }
-      unfold trim_space in E. apply trim_l_nil_iff in Hs. rewrite Hs in E. discriminate.
-  Qed.
-
-  Lemma all_ws_ink : forall l, forallb wsc l = true <-> ink is_space l = [].
-  Proof.
-    induction l as [|c t IH]; [split; reflexivity|]. unfold Lint.ink in *. cbn [forallb filter]. destruct (wsc c); cbn [negb andb map].
-    - exact IH.
-    - split; discriminate.
-  Qed.
-
-  Lemma ink_f10 : forall l, no_nl l -> ink is_space (f10 l) = ink is_space l.
-  Proof.
-    intros l Hl. unfold l010_fix_line. destruct (trim_l is_blank l) as [|c rest] eqn:E.
-    - apply ink_l010_scan. exact Hl.
-    - rewrite ink_app. rewrite ink_l010_scan.
-      + rewrite <- E. rewrite <- ink_app. rewrite take_trim_l. reflexivity.
-      + intros x Hx. apply Hl. eapply trim_l_incl. rewrite E. exact Hx.
-  Qed.
-
-  Lemma f10_blank : forall l, no_nl l -> blank (f10 l) = blank l.
-  Proof.
-    intros l Hl. rewrite !blank_iff_all. pose proof (ink_f10 l Hl) as E.
-    destruct (forallb wsc l) eqn:A.
-    - apply all_ws_ink in A. rewrite A in E. apply all_ws_ink. exact E.
-    - apply not_true_is_false. intro B. apply all_ws_ink in B. rewrite B in E. symmetry in E. apply all_ws_ink in E. congruence.
-  Qed.
-
-  (* ---------- L007: the fixed line is related to the line character by character ---------- *)
-  Definition rel (c c' : ch) : Prop := c' = wr c \/ c' = c \/ exists u, upper_ascii (cp c) = Some u /\ c' = asc u.
-
-  Lemma conv_rel : forall w, (forall c, In c w -> wr c = c) -> Forall2 rel w (conv_word upper_ascii keywords w).
-  Proof.
-    intros w Hw. unfold conv_word, kw_of.
-    assert (Hid : Forall2 rel w w).
-    { clear -Hw. induction w as [|c w IH]; constructor; [left; symmetry; apply Hw; left; reflexivity|apply IH; intros x Hx; apply Hw; right; exact Hx]. }
-    destruct (all_some (map (fun c => upper_ascii (cp c)) w)) as [u|] eqn:E; [|exact Hid].
-    destruct (existsb (list_eqb u) keywords); [|exact Hid]. clear Hid Hw.
-    revert u E. induction w as [|c w IH]; intros u E; cbn in E; [inversion E; constructor|].
-    destruct (upper_ascii (cp c)) as [x|] eqn:Ex; [|discriminate].
-    destruct (all_some (map (fun c0 => upper_ascii (cp c0)) w)) as [r|] eqn:Er; [|discriminate].
-    inversion E; subst. cbn [map]. constructor; [right; right; exists x; split; [exact Ex|reflexivity]|apply IH; reflexivity].
-  Qed.
-
-  Notation scan7 := (l007_scan is_letter is_digit upper_ascii keywords).
-
-  Definition curfixed (cur : option (list ch)) : Prop := match cur with Some w => forall c, In c w -> wr c = c | None => True end.
-  Definition pre (cur : option (list ch)) : list ch := match cur with Some w => rev w | None => [] end.
-
-  Lemma Forall2_app_inv : forall {A B} (Rr : A -> B -> Prop) a1 a2 b1 b2, Forall2 Rr a1 b1 -> Forall2 Rr a2 b2 -> Forall2 Rr (a1 ++ a2) (b1 ++ b2).
-  Proof. intros. apply Forall2_app; assumption. Qed.
-
-  Lemma flush_rel : forall cur, curfixed cur ->
-    Forall2 rel (pre cur) (match cur with Some w => conv_word upper_ascii keywords (rev w) | None => [] end).
-  Proof.
-    intros [w|] H; [|constructor]. apply conv_rel. intros c Hc. apply H. apply in_rev. exact Hc.
-  Qed.
-
-  Lemma rel_mid : forall P c t out, Forall2 rel (P ++ wr c :: t) out -> Forall2 rel (P ++ c :: t) out.
-  Proof.
-    induction P as [|p P IHP]; intros c t out H; cbn [app] in *.
-    - inversion H as [|? ? ? ? Hh Ht]; subst. constructor; [|exact Ht].
-      destruct Hh as [Hh|[Hh|(u & H1 & H2)]]; [left; rewrite wr_wr in Hh; exact Hh|left; exact Hh|right; right; exists u; rewrite cp_wr in H1; split; assumption].
-    - inversion H as [|? ? ? ? Hh Ht]; subst. constructor; [exact Hh|apply IHP; exact Ht].
-  Qed.
-
-  Lemma scan7_rel : forall l,
-    (forall k, Forall2 rel l (scan7 (Some k) None l)) /\
-    (forall cur, curfixed cur -> Forall2 rel (pre cur ++ l) (scan7 None cur l)).
-  Proof.
-    induction l as [|c t [IHq IHn]]; split.
-    - intro k. constructor.
-    - intros cur H. cbn [l007_scan]. rewrite app_nil_r. apply flush_rel. exact H.
-    - intro k. cbn [l007_scan]. constructor; [left; reflexivity|]. destruct (cp c =? k); [apply (IHn None I)|apply IHq].
-    - intros cur H. cbn [l007_scan]. destruct (cstart c t).
-      { apply Forall2_app; [apply flush_rel; exact H|]. clear. induction (c :: t) as [|x r IHr]; constructor; [right; left; reflexivity|exact IHr]. }
-      destruct (is_quote c).
-      + apply Forall2_app; [apply flush_rel; exact H|]. constructor; [left; reflexivity|apply IHq].
-      + destruct (word_start is_letter c || match cur with Some _ => true | None => false end && is_digit (cp c)).
-        * set (cur' := Some (wr c :: match cur with Some w => w | None => [] end)).
-          assert (Hc' : curfixed cur').
-          { unfold cur', curfixed. intros x [Hx|Hx]; [subst; apply wr_wr|]. destruct cur as [w|]; [apply H; exact Hx|destruct Hx]. }
-          specialize (IHn cur' Hc'). unfold cur', pre in IHn. cbn [rev] in IHn. rewrite <- app_assoc in IHn. cbn [app] in IHn.
-          apply rel_mid. destruct cur as [w|]; exact IHn.
-        * apply Forall2_app; [apply flush_rel; exact H|]. constructor; [left; reflexivity|apply (IHn None I)].
-  Qed.
-
-  Lemma f7_rel : forall l, Forall2 rel l (f7 l).
-  Proof. intro l. unfold l007_fix_line. destruct (scan7_rel l) as [_ H]. exact (H None I). Qed.
-
-  (* what the relation preserves *)
-  Lemma rel_cp_cases : forall c c', rel c c' -> cp c' = cp c \/ exists u, upper_ascii (cp c) = Some u /\ cp c' = u.
-  Proof. intros c c' [H|[H|(u & H1 & H2)]]; subst; [left; apply cp_wr|left; reflexivity|right; exists u; split; [exact H1|reflexivity]]. Qed.
-
-  Lemma rel_blank : forall c c', rel c c' -> is_blank c' = is_blank c.
-  Proof.
-    intros c c' [H|[H|(u & H1 & H2)]]; subst; [apply is_blank_wr|reflexivity|].
-    destruct (up_nows _ _ H1) as (_ & A & B & _). destruct (up_nows _ _ (up_idem _ _ H1)) as (_ & A' & B' & _).
-    unfold is_blank, is_sp, is_tab, asc. cbn [cp].
-    apply N.eqb_neq in A. apply N.eqb_neq in B. apply N.eqb_neq in A'. apply N.eqb_neq in B'. rewrite A, B, A', B'. reflexivity.
-  Qed.
-  Lemma rel_tab : forall c c', rel c c' -> is_tab c' = is_tab c.
-  Proof.
-    intros c c' [H|[H|(u & H1 & H2)]]; subst; [apply is_tab_wr|reflexivity|].
-    destruct (up_nows _ _ H1) as (_ & _ & B & _). destruct (up_nows _ _ (up_idem _ _ H1)) as (_ & _ & B' & _).
-    unfold is_tab, asc. cbn [cp]. apply N.eqb_neq in B. apply N.eqb_neq in B'. rewrite B, B'. reflexivity.
-  Qed.
-  Lemma rel_sp : forall c c', rel c c' -> is_sp c' = is_sp c.
-  Proof.
-    intros c c' [H|[H|(u & H1 & H2)]]; subst; [apply is_sp_wr|reflexivity|].
-    destruct (up_nows _ _ H1) as (_ & A & _). destruct (up_nows _ _ (up_idem _ _ H1)) as (_ & A' & _).
-    unfold is_sp, asc. cbn [cp]. apply N.eqb_neq in A. apply N.eqb_neq in A'. rewrite A, A'. reflexivity.
-  Qed.
-  Lemma rel_quote : forall c c', rel c c' -> is_quote c' = is_quote c /\ (is_quote c = true -> cp c' = cp c).
-  Proof.
-    intros c c' [H|[H|(u & H1 & H2)]]; subst; [split; [apply is_quote_wr|intros _; apply cp_wr]|split; [reflexivity|intros _; reflexivity]|].
-    destruct (up_keynoquote _ _ H1) as (A & B). destruct (up_noquote _ _ H1) as (A' & B' & _).
-    pose proof (up_keynobt _ _ H1) as C. pose proof (up_nobt _ _ H1) as C'.
-    apply N.eqb_neq in C. apply N.eqb_neq in C'.
-    assert (Q : is_quote c = false) by (unfold is_quote; apply N.eqb_neq in A; apply N.eqb_neq in B; rewrite A, B, C; reflexivity).
-    assert (Q' : is_quote (asc u) = false) by (unfold is_quote, asc; cbn [cp]; apply N.eqb_neq in A'; apply N.eqb_neq in B'; rewrite A', B', C'; reflexivity).
-    split; [rewrite Q, Q'; reflexivity|rewrite Q; discriminate].
-  Qed.
-  Lemma rel_eqk : forall c c' k, rel c c' -> (k = 39 \/ k = 34 \/ k = 96) -> (cp c' =? k) = (cp c =? k).
-  Proof.
-    intros c c' k [H|[H|(u & H1 & H2)]] Hk; subst c'; [rewrite cp_wr; reflexivity|reflexivity|].
-    destruct (up_keynoquote _ _ H1) as (A & B). destruct (up_noquote _ _ H1) as (A' & B' & _). cbn [asc cp].
-    pose proof (up_keynobt _ _ H1) as C. pose proof (up_nobt _ _ H1) as C'.
-    destruct Hk as [Hk|[Hk|Hk]]; subst k; [apply N.eqb_neq in A; apply N.eqb_neq in A'|apply N.eqb_neq in B; apply N.eqb_neq in B'|apply N.eqb_neq in C; apply N.eqb_neq in C']; congruence.
-  Qed.
-  Lemma rel_wsc : forall c c', is_nl c = false -> rel c c' -> wsc c' = wsc c.
-  Proof.
-    intros c c' Hn [H|[H|(u & H1 & H2)]]; subst; [apply wsc_wr; exact Hn|reflexivity|].
-    rewrite (up_not_wsc is_space upper_ascii up_nows c u H1).
-    apply (up_not_wsc is_space upper_ascii up_nows (asc u) u). cbn [asc cp]. exact (up_idem _ _ H1).
-  Qed.
-  Lemma rel_wrfix : forall c c', rel c c' -> wr c = c -> wr c' = c'.
-  Proof. intros c c' [H|[H|(u & H1 & H2)]] Hw; subst; [apply wr_wr|exact Hw|reflexivity]. Qed.
-
-  (* a minus sign stays a minus sign, and nothing else becomes one: comment starts are aligned *)
-  Lemma rel_45 : forall c c', rel c c' -> (cp c' =? 45) = (cp c =? 45).
-  Proof.
-    intros c c' [H|[H|(u & H1 & H2)]]; subst; [rewrite cp_wr; reflexivity|reflexivity|].
-    cbn [asc cp]. pose proof (up_key45 _ _ H1) as A. pose proof (up_letter _ _ H1) as L.
-    assert (B : u <> 45) by (intro E; subst; rewrite nl45 in L; discriminate).
-    apply N.eqb_neq in A. apply N.eqb_neq in B. rewrite A, B. reflexivity.
-  Qed.
-  Lemma rel_cstart : forall c c' t t', rel c c' -> Forall2 rel t t' -> cstart c' t' = cstart c t.
-  Proof.
-    intros c c' t t' H Ht. unfold cstart. rewrite (rel_45 c c' H). f_equal.
-    destruct Ht as [|d d' t t' Hd _]; [reflexivity|]. cbn [next_is]. apply rel_45. exact Hd.
-  Qed.
-
-  Lemma Forall2_lastc : forall {A B} (Rr : A -> B -> Prop) a b, Forall2 Rr a b ->
-    match lastc a, lastc b with Some x, Some y => Rr x y | None, None => True | _, _ => False end.
-  Proof.
-    intros A B Rr a b H. induction H as [|x y a b Hxy Hab IH]; [exact I|]. inversion Hab; subst; [exact Hxy|].
-    rewrite !lastc_cons by discriminate. exact IH.
-  Qed.
-
-  (* (c1) *)
-  Lemma f7_keeps_S1 : forall l, S1 l -> S1 (f7 l).
-  Proof.
-    intros l H. unfold S1 in *. pose proof (Forall2_lastc rel l (f7 l) (f7_rel l)) as R.
-    destruct (lastc l) as [c|], (lastc (f7 l)) as [c'|]; try exact I; try contradiction.
-    rewrite (rel_blank c c' R). exact H.
-  Qed.
-
-  Lemma rel_take_trim : forall a b, Forall2 rel a b ->
-    Forall2 rel (take_l is_blank a) (take_l is_blank b) /\ Forall2 rel (trim_l is_blank a) (trim_l is_blank b).
-  Proof.
-    intros a b H. induction H as [|x y a b Hxy Hab [IH1 IH2]]; [split; constructor|].
-    cbn [take_l trim_l]. rewrite (rel_blank x y Hxy). destruct (is_blank x).
-    - split; [constructor; assumption|exact IH2].
-    - split; [constructor|constructor; assumption].
-  Qed.
-
-  (* (c2) *)
-  Lemma f7_keeps_S2 : forall l, S2 l -> S2 (f7 l).
-  Proof.
-    intros l H. unfold S2 in *. destruct (rel_take_trim l (f7 l) (f7_rel l)) as [R _].
-    revert H. induction R as [|x y a b Hxy Hab IH]; intro H; [reflexivity|]. cbn [existsb] in *.
-    rewrite (rel_tab x y Hxy). apply orb_false_elim in H. destruct H as [H1 H2]. rewrite H1. cbn [orb]. apply IH. exact H2.
-  Qed.
-
-  (* (c3) *)
-  Lemma f7_blank : forall l, no_nl l -> blank (f7 l) = blank l.
-  Proof.
-    intros l Hl. rewrite !blank_iff_all. pose proof (f7_rel l) as R. revert Hl. induction R as [|x y a b Hxy Hab IH]; intro Hl; [reflexivity|].
-    cbn [forallb]. rewrite (rel_wsc x y (Hl x (or_introl eq_refl)) Hxy). f_equal. apply IH. intros z Hz. apply Hl. right. exact Hz.
-  Qed.
-
-  (* (c4) stability under the L010 line rewriter is kept *)
-  Lemma scan10_len : forall l q ps, (length (l010_scan q ps l) <= length l)%nat.
-  Proof.
-    induction l as [|c t IH]; intros q ps; [cbn; lia|]. cbn [l010_scan]. destruct q as [k|]; [cbn [length]; specialize (IH (if cp c =? k then None else Some k) ps); lia|].
-    destruct (cstart c t); [cbn [length]; lia|].
-    destruct (is_quote c); [cbn [length]; specialize (IH (Some (cp c)) false); lia|]. destruct (is_sp c).
-    - destruct ps; cbn [app length]; [specialize (IH None true); lia|specialize (IH None true); lia].
-    - cbn [length]. specialize (IH None false). lia.
-  Qed.
-
-  Definition qok (q : option N) : Prop := match q with Some k => k = 39 \/ k = 34 \/ k = 96 | None => True end.
-
-  Lemma is_quote_k : forall c, is_quote c = true -> cp c = 39 \/ cp c = 34 \/ cp c = 96.
-  Proof. intros c H. unfold is_quote in H. apply orb_prop in H. destruct H as [H|H]; [apply orb_prop in H; destruct H as [H|H]|]; apply N.eqb_eq in H; auto. Qed.
-
-  Lemma scan10_rel : forall l l', Forall2 rel l l' -> forall q ps, qok q -> l010_scan q ps l = l -> l010_scan q ps l' = l'.
-  Proof.
-    intros l l' H. induction H as [|c c' t t' Hc Ht IH]; intros q ps Hq E; [reflexivity|].
-    cbn [l010_scan] in *. destruct q as [k|].
-    - injection E as E1 E2. rewrite (rel_eqk c c' k Hc Hq). rewrite (rel_wrfix c c' Hc E1). f_equal.
-      apply IH; [destruct (cp c =? k); [exact I|exact Hq]|exact E2].
-    - rewrite (rel_cstart c c' t t' Hc Ht). destruct (cstart c t); [reflexivity|].
-      destruct (rel_quote c c' Hc) as (Q1 & Q2). rewrite Q1. destruct (is_quote c) eqn:Eq.
-      + injection E as E1 E2. rewrite (rel_wrfix c c' Hc E1). f_equal. rewrite (Q2 eq_refl).
-        apply IH; [apply is_quote_k; exact Eq|exact E2].
-      + rewrite (rel_sp c c' Hc). destruct (is_sp c).
-        * destruct ps; cbn [app] in *.
-          -- exfalso. pose proof (scan10_len t None true) as L. rewrite E in L. cbn [length] in L. lia.
-          -- injection E as E1 E2. rewrite (rel_wrfix c c' Hc E1). f_equal. apply IH; [exact I|exact E2].
-        * injection E as E1 E2. rewrite (rel_wrfix c c' Hc E1). f_equal. apply IH; [exact I|exact E2].
-  Qed.
-
-  Lemma Forall2_nil_iff : forall {A B} (Rr : A -> B -> Prop) a b, Forall2 Rr a b -> (a = [] <-> b = []).
-  Proof. intros A B Rr a b H. inversion H; subst; split; intro; (reflexivity || discriminate). Qed.
-
-  Lemma f7_keeps_S10 : forall l, f10 l = l -> f10 (f7 l) = f7 l.
-  Proof.
-    intros l H. pose proof (f7_rel l) as R. destruct (rel_take_trim l (f7 l) R) as [R1 R2].
-    unfold l010_fix_line in *. destruct (trim_l is_blank l) as [|c r] eqn:E; destruct (trim_l is_blank (f7 l)) as [|c' r'] eqn:E';
-      try (exfalso; inversion R2; fail).
-    - apply (scan10_rel l (f7 l) R None false I H).
-    - rewrite <- (take_trim_l is_blank l) in H at 2. rewrite E in H. apply app_inv_head in H.
-      rewrite (scan10_rel (c :: r) (c' :: r') R2 None false I H). rewrite <- E'. apply take_trim_l.
-  Qed.
-
-  (* ---------- texts ---------- *)
-  Lemma per_line_fixed : forall f t, Forall (fun l => f l = l) (split_nl t) -> per_line f t = t.
-  Proof.
-    intros f t H. unfold per_line. rewrite <- (join_split t) at 2. f_equal.
-    induction H as [|l r Hl Hr IH]; [reflexivity|]. cbn [map]. rewrite Hl, IH. reflexivity.
-  Qed.
-
-  Lemma bounded_ext : forall mx a b cnt, map blank a = map blank b -> bounded is_space mx cnt a = bounded is_space mx cnt b.
-  Proof.
-    intros mx. induction a as [|x a IH]; intros b cnt H; destruct b as [|y b]; try discriminate; [reflexivity|].
-    cbn [map] in H. inversion H as [[H1 H2]]. cbn [bounded]. rewrite H1. destruct (blank y); [f_equal|]; apply IH; exact H2.
-  Qed.
-
-  Notation F1 := l001_fix.
-  Notation F2 := l002_fix.
-  Notation F3 := (l003_fix is_space).
-  Notation F10 := l010_fix.
-  Notation F7 := (l007_fix is_letter is_digit upper_ascii keywords).
-
-  Lemma F3_fixed : forall t, bounded is_space 1 0 (split_nl t) = true -> F3 t = t.
-  Proof.
-    intros t H. unfold l003_fix, l003_fix_mx. fold (l003_lines is_space 1 (split_nl t)). rewrite l003_lines_eq.
-    rewrite pass_fixed by exact H. apply join_split.
-  Qed.
-
-  Theorem cli_fix_idempotent : forall t,
-    cli_fix is_letter is_digit is_space upper_ascii keywords (cli_fix is_letter is_digit is_space upper_ascii keywords t)
-    = cli_fix is_letter is_digit is_space upper_ascii keywords t.
-  Proof.
-    intro t. unfold cli_fix.
-    set (t1 := F1 t). set (t2 := F2 t1). set (t3 := F3 t2). set (t4 := F10 t3). set (u := F7 t4).
-    (* the lines of each stage *)
-    assert (K7 : forall l, no_nl l -> no_nl (f7 l)) by (apply l007_line_keeps; assumption).
-    assert (L1 : split_nl t1 = map f1 (split_nl t)) by (apply (split_per_line f1 t l001_line_keeps)).
-    assert (L2 : split_nl t2 = map f2 (split_nl t1)) by (apply (split_per_line f2 t1 l002_line_keeps)).
-    assert (L3 : split_nl t3 = l003_pass is_space 1 0 (split_nl t2)) by (apply l003_split_fix; lia).
-    assert (L4 : split_nl t4 = map f10 (split_nl t3)) by (apply (split_per_line f10 t3 l010_line_keeps)).
-    assert (L5 : split_nl u = map f7 (split_nl t4)) by (apply (split_per_line f7 t4 K7)).
-    (* stage 1, 2 *)
-    assert (A1 : Forall S1 (split_nl t2)).
-    { rewrite L2, L1. apply Forall_forall. intros l Hl. apply in_map_iff in Hl. destruct Hl as (l1 & E1 & Hl1). subst.
-      apply in_map_iff in Hl1. destruct Hl1 as (l0 & E0 & _). subst. apply f2_keeps_S1. apply f1_S1. }
-    assert (A2 : Forall S2 (split_nl t2)).
-    { rewrite L2. apply Forall_forall. intros l Hl. apply in_map_iff in Hl. destruct Hl as (l1 & E1 & _). subst. apply f2_S2. }
-    (* stage 3 *)
-    assert (B1 : Forall S1 (split_nl t3)) by (rewrite L3; apply Forall_forall; intros l Hl; apply pass_incl in Hl; rewrite Forall_forall in A1; apply A1; exact Hl).
-    assert (B2 : Forall S2 (split_nl t3)) by (rewrite L3; apply Forall_forall; intros l Hl; apply pass_incl in Hl; rewrite Forall_forall in A2; apply A2; exact Hl).
-    assert (B3 : bounded is_space 1 0 (split_nl t3) = true) by (rewrite L3; exact (pass_bounded is_space 1 (split_nl t2) 0%nat)).
-    (* stage 4 *)
-    pose proof (split_no_nl t3) as N3. pose proof (split_no_nl t4) as N4.
-    assert (C1 : Forall S1 (split_nl t4)).
-    { rewrite L4. apply Forall_forall. intros l Hl. apply in_map_iff in Hl. destruct Hl as (l1 & E1 & Hl1). subst.
-      apply f10_keeps_S1. rewrite Forall_forall in B1. apply B1. exact Hl1. }
-    assert (C2 : Forall S2 (split_nl t4)).
-    { rewrite L4. apply Forall_forall. intros l Hl. apply in_map_iff in Hl. destruct Hl as (l1 & E1 & Hl1). subst.
-      apply f10_keeps_S2. rewrite Forall_forall in B2. apply B2. exact Hl1. }
-    assert (C3 : bounded is_space 1 0 (split_nl t4) = true).
-    { rewrite <- B3. apply bounded_ext. rewrite L4. rewrite map_map. apply map_ext_in. intros l Hl. apply f10_blank.
-      rewrite Forall_forall in N3. apply N3. exact Hl. }
-    assert (C10 : Forall (fun l => f10 l = l) (split_nl t4)).
-    { rewrite L4. apply Forall_forall. intros l Hl. apply in_map_iff in Hl. destruct Hl as (l1 & E1 & _). subst. apply l010_line_idem. }
-    (* stage 5 *)
-    assert (D1 : Forall (fun l => f1 l = l) (split_nl u)).
-    { rewrite L5. apply Forall_forall. intros l Hl. apply in_map_iff in Hl. destruct Hl as (l1 & E1 & Hl1). subst.
-      apply S1_fixed. apply f7_keeps_S1. rewrite Forall_forall in C1. apply C1. exact Hl1. }
-    assert (D2 : Forall (fun l => f2 l = l) (split_nl u)).
-    { rewrite L5. apply Forall_forall. intros l Hl. apply in_map_iff in Hl. destruct Hl as (l1 & E1 & Hl1). subst.
-      apply S2_fixed. apply f7_keeps_S2. rewrite Forall_forall in C2. apply C2. exact Hl1. }
-    assert (D3 : bounded is_space 1 0 (split_nl u) = true).
-    { rewrite <- C3. apply bounded_ext. rewrite L5. rewrite map_map. apply map_ext_in. intros l Hl. apply f7_blank.
-      rewrite Forall_forall in N4. apply N4. exact Hl. }
-    assert (D10 : Forall (fun l => f10 l = l) (split_nl u)).
-    { rewrite L5. apply Forall_forall. intros l Hl. apply in_map_iff in Hl. destruct Hl as (l1 & E1 & Hl1). subst.
-      apply f7_keeps_S10. rewrite Forall_forall in C10. apply C10. exact Hl1. }
-    assert (D7 : Forall (fun l => f7 l = l) (split_nl u)).
-    { rewrite L5. apply Forall_forall. intros l Hl. apply in_map_iff in Hl. destruct Hl as (l1 & E1 & _). subst.
-      apply (l007_line_idem is_letter is_digit upper_ascii keywords up_letter up_noquote up_idem nl45 nd45 up_nobt). }
-    (* the output is a fixed point of every stage *)
-    assert (E1 : F1 u = u) by (apply (per_line_fixed f1 u D1)).
-    rewrite E1.
-    assert (E2 : F2 u = u) by (apply (per_line_fixed f2 u D2)).
-    rewrite E2. rewrite (F3_fixed u D3).
-    assert (E10 : F10 u = u) by (apply (per_line_fixed f10 u D10)).
-    rewrite E10. apply (per_line_fixed f7 u D7).
-  Qed.
-End Pipeline.
-
-(* ------------------------------------------------------------------------------------------------ *)
-(* L007: re-lint after fix *)
-
-Section L007Clears.
+Section L007b.
   Variables is_letter is_digit : N -> bool.
   Variable upper_ascii : N -> option N.
   Variable keywords : list (list N).
   Hypothesis up_letter : forall x u, upper_ascii x = Some u -> is_letter u = true.
-  Hypothesis up_noquote : forall x u, upper_ascii x = Some u -> u <> 39 /\ u <> 34 /\ u <> 10.
   Hypothesis up_idem : forall x u, upper_ascii x = Some u -> upper_ascii u = Some u.
-  Hypothesis nl45 : is_letter 45 = false.
-  Hypothesis nd45 : is_digit 45 = false.
-  Hypothesis up_nobt : forall x u, upper_ascii x = Some u -> u <> 96.
 
-  Notation word_start := (word_start is_letter).
-  Notation word_char := (word_char is_letter is_digit).
   Notation kw_of := (kw_of upper_ascii keywords).
   Notation conv_word := (conv_word upper_ascii keywords).
-  Notation word_viol := (word_viol upper_ascii keywords).
   Notation scan := (l007_scan is_letter is_digit upper_ascii keywords).
-  Notation sN := (scan None None).
-  Notation sQ k := (scan (Some k) None).
-  Notation words := (l007_words is_letter is_digit).
-  Notation wc := (wc is_letter is_digit).
-  Notation stops := (stops is_letter is_digit).
+  Notation sN := (scan None).
+  Notation wordc := (wordc is_letter is_digit).
+  Notation wcp := (wordc true).
 
-  (* every word found satisfies P *)
-  Definition allw (P : list ch -> Prop) (ws : list (nat * list ch)) : Prop := forall p, In p ws -> P (snd p).
-
-  Lemma wN_quote : forall i c t, is_quote c = true -> words None i None (c :: t) = words (Some (cp c)) (i + width c) None t.
-  Proof. intros i c t H. cbn [l007_words]. rewrite (cstart_quote c t H). rewrite H. reflexivity. Qed.
-  Lemma wN_other : forall i c t, cstart c t = false -> is_quote c = false -> word_start c = false -> words None i None (c :: t) = words None (i + width c) None t.
-  Proof. intros i c t H0 H1 H2. cbn [l007_words]. rewrite H0, H1, H2. reflexivity. Qed.
-  Lemma wN_comment : forall i c t, cstart c t = true -> words None i None (c :: t) = [].
-  Proof. intros i c t H. cbn [l007_words]. rewrite H. reflexivity. Qed.
-  Lemma wQ_cons : forall k i c t, words (Some k) i None (c :: t) = words (if cp c =? k then None else Some k) (i + width c) None t.
-  Proof. reflexivity. Qed.
-
-  Lemma absorbW : forall t i s w, exists i',
-    words None i (Some (s, w)) t = words None i' (Some (s, rev (map wr (take_l wc t)) ++ w)) (trim_l wc t).
+  Lemma wordc_start_cont : forall p, wordc false p = true -> wcp p = true.
   Proof.
-    induction t as [|c t IH]; intros i s w; [exists i; reflexivity|].
-    cbn [take_l trim_l]. destruct (wc c) eqn:E; [|exists i; reflexivity].
-    unfold wc in E. apply andb_prop in E. destruct E as [E1 E2]. apply negb_true_iff in E1.
-    cbn [l007_words]. rewrite (wch_not45 is_letter is_digit nl45 nd45 c t E2). rewrite E1.
-    assert (C : word_start c || true && is_digit (cp c) = true) by exact E2. rewrite C.
-    destruct (IH (i + width c)%nat s (wr c :: w)) as (i' & E). exists i'. rewrite E. cbn [map rev]. rewrite <- app_assoc. reflexivity.
+    intros p H. unfold Lint.wordc in *. apply andb_prop in H. destruct H as [H1 H2]. rewrite H1.
+    cbn [andb orb] in H2. rewrite orb_false_r in H2. rewrite H2. reflexivity.
+  Qed.
+  Lemma wordc_cont_not : forall p, wcp p = false -> wordc false p = false.
+  Proof. intros p H. destruct (wordc false p) eqn:E; [rewrite (wordc_start_cont p E) in H; discriminate|reflexivity]. Qed.
+
+  Lemma sN_other : forall p t, wordc false p = false -> sN (p :: t) = p :: sN t.
+  Proof. intros p t H. cbn [l007_scan]. rewrite H. reflexivity. Qed.
+
+  Lemma absorb : forall t w, scan (Some w) t = scan (Some (rev (take_l wcp t) ++ w)) (trim_l wcp t).
+  Proof.
+    induction t as [|p t IH]; intro w; [reflexivity|]. cbn [take_l trim_l]. destruct (wcp p) eqn:E; [|reflexivity].
+    cbn [l007_scan]. rewrite E. rewrite IH. cbn [rev]. rewrite <- app_assoc. reflexivity.
   Qed.
 
-  Lemma boundaryW : forall i s w r, stops r -> words None i (Some (s, w)) r = (S s, rev w) :: words None i None r.
+  Definition stops (r : list cc) : Prop := r = [] \/ exists d r', r = d :: r' /\ wcp d = false.
+
+  Lemma boundary : forall w r, stops r -> scan (Some w) r = conv_word (rev w) ++ sN r.
   Proof.
-    intros i s w r [H|(d & r' & H & Hd)]; subst; [reflexivity|].
-    cbn [l007_words]. destruct (cstart d r'); [reflexivity|]. destruct (is_quote d) eqn:Eq; [reflexivity|].
-    unfold wc in Hd. rewrite Eq in Hd. cbn [negb andb] in Hd.
-    unfold Lint.word_char in Hd. apply orb_false_elim in Hd. destruct Hd as [H1 H2].
-    rewrite H1, H2. cbn [orb andb]. reflexivity.
+    intros w r [H|(d & r' & H & Hd)]; subst.
+    - cbn [l007_scan]. rewrite app_nil_r. reflexivity.
+    - cbn [l007_scan]. rewrite Hd. rewrite (wordc_cont_not d Hd). reflexivity.
   Qed.
 
-  Lemma wN_word : forall i c t, is_quote c = false -> word_start c = true -> exists i',
-    words None i None (c :: t) = (S i, map wr (c :: take_l wc t)) :: words None i' None (trim_l wc t).
+  Lemma trim_l_stops : forall t, stops (trim_l wcp t).
   Proof.
-    intros i c t H1 H2. cbn [l007_words]. rewrite (ws_not45 is_letter nl45 c t H2). rewrite H1, H2. cbn [orb].
-    destruct (absorbW t (i + width c)%nat i [wr c]) as (i' & E). exists i'. rewrite E.
-    rewrite boundaryW by apply trim_l_stops. rewrite rev_app_distr. rewrite rev_involutive. reflexivity.
+    intro t. destruct (trim_l wcp t) as [|d r] eqn:E; [left; reflexivity|right].
+    exists d, r. split; [reflexivity|]. eapply trim_l_head. exact E.
   Qed.
 
-  Lemma wN_word_app : forall i c v x, is_quote c = false -> word_start c = true -> forallb wc v = true -> stops x -> exists i',
-    words None i None (c :: v ++ x) = (S i, map wr (c :: v)) :: words None i' None x.
+  Lemma sN_word : forall p t, wordc false p = true -> sN (p :: t) = conv_word (p :: take_l wcp t) ++ sN (trim_l wcp t).
   Proof.
-    intros i c v x H1 H2 Hv Hx. destruct (wN_word i c (v ++ x) H1 H2) as (i' & E). exists i'. rewrite E.
-    assert (E1 : take_l wc (v ++ x) = v).
+    intros p t H. cbn [l007_scan]. rewrite H. rewrite absorb. rewrite boundary by apply trim_l_stops.
+    rewrite rev_app_distr. rewrite rev_involutive. reflexivity.
+  Qed.
+
+  Lemma sN_word_app : forall p v x, wordc false p = true -> forallb wcp v = true -> stops x ->
+    sN (p :: v ++ x) = conv_word (p :: v) ++ sN x.
+  Proof.
+    intros p v x H Hv Hx. rewrite sN_word by exact H.
+    assert (E1 : take_l wcp (v ++ x) = v).
     { rewrite take_l_app_all by exact Hv. destruct Hx as [Hx|(d & r & Hx & Hd)]; subst; [rewrite app_nil_r; reflexivity|].
       rewrite take_l_stop by exact Hd. rewrite app_nil_r. reflexivity. }
-    assert (E2 : trim_l wc (v ++ x) = x).
-    { rewrite trim_l_app_all by exact Hv. destruct Hx as [Hx|(d & r & Hx & Hd)]; subst; [reflexivity|].
-      apply trim_l_stop. exact Hd. }
+    assert (E2 : trim_l wcp (v ++ x) = x).
+    { rewrite trim_l_app_all by exact Hv. destruct Hx as [Hx|(d & r & Hx & Hd)]; subst; [reflexivity|]. apply trim_l_stop. exact Hd. }
     rewrite E1, E2. reflexivity.
+  Qed.
+
+  Lemma sN_stops : forall r, stops r -> stops (sN r).
+  Proof.
+    intros r [H|(d & r' & H & Hd)]; subst; [left; reflexivity|right].
+    rewrite sN_other by (apply wordc_cont_not; exact Hd). eexists _, _. split; [reflexivity|exact Hd].
+  Qed.
+
+  Lemma all_some_length : forall l u, all_some l = Some u -> length u = length l.
+  Proof.
+    induction l as [|[x|] l IH]; intros u H; cbn in H; [inversion H; reflexivity| |discriminate].
+    destruct (all_some l) as [r|]; [|discriminate]. inversion H; subst. cbn. f_equal. apply IH. reflexivity.
+  Qed.
+  Lemma all_some_in : forall l u y, all_some l = Some u -> In y u -> In (Some y) l.
+  Proof.
+    induction l as [|[x|] l IH]; intros u y H Hy; cbn in H; [inversion H; subst; destruct Hy| |discriminate].
+    destruct (all_some l) as [r|] eqn:E; [|discriminate]. inversion H; subst.
+    destruct Hy as [Hy|Hy]; [left; subst; reflexivity|right; eapply IH; [reflexivity|exact Hy]].
+  Qed.
+  Lemma all_some_idem : forall (w : list ch) u, all_some (map (fun c => upper_ascii (cp c)) w) = Some u ->
+    all_some (map (fun c => upper_ascii (cp c)) (map asc u)) = Some u.
+  Proof.
+    induction w as [|c w IH]; intros u H; cbn in H; [inversion H; reflexivity|].
+    destruct (upper_ascii (cp c)) as [x|] eqn:Ex; [|discriminate].
+    destruct (all_some (map (fun c0 => upper_ascii (cp c0)) w)) as [r|] eqn:Er; [|discriminate].
+    inversion H; subst. cbn. rewrite (up_idem _ _ Ex). rewrite (IH r eq_refl). reflexivity.
+  Qed.
+
+  Definition upairs (u : list N) : list cc := map (fun b => (asc b, 0)) u.
+  Lemma chars_upairs : forall u, chars (upairs u) = map asc u.
+  Proof. intro u. unfold chars, upairs. rewrite map_map. reflexivity. Qed.
+
+  Lemma kw_of_conv : forall w u, kw_of w = Some u -> kw_of (map asc u) = Some u.
+  Proof.
+    intros w u H. unfold Lint.kw_of in *.
+    destruct (all_some (map (fun c => upper_ascii (cp c)) w)) as [x|] eqn:E; [|discriminate].
+    destruct (existsb (list_eqb x) keywords) eqn:Ek; [|discriminate]. inversion H; subst.
+    rewrite (all_some_idem w u E). rewrite Ek. reflexivity.
+  Qed.
+
+  Lemma conv_idem : forall w, conv_word (conv_word w) = conv_word w.
+  Proof.
+    intro w. assert (E0 : conv_word w = match kw_of (chars w) with Some u => upairs u | None => w end) by reflexivity.
+    destruct (kw_of (chars w)) as [u|] eqn:E; rewrite E0.
+    - unfold Lint.conv_word. rewrite chars_upairs. rewrite (kw_of_conv _ u E). reflexivity.
+    - unfold Lint.conv_word. rewrite E. reflexivity.
+  Qed.
+
+  Lemma kw_letters : forall w u y, kw_of w = Some u -> In y u -> exists x, upper_ascii x = Some y.
+  Proof.
+    intros w u y H Hy. unfold Lint.kw_of in H.
+    destruct (all_some (map (fun c => upper_ascii (cp c)) w)) as [x|] eqn:E; [|discriminate].
+    destruct (existsb (list_eqb x) keywords); [|discriminate]. inversion H; subst.
+    apply (all_some_in _ _ _ E) in Hy. apply in_map_iff in Hy. destruct Hy as (c & Hc & _). exists (cp c). exact Hc.
+  Qed.
+
+  Lemma upair_word : forall x y, upper_ascii x = Some y -> wordc false (asc y, 0) = true.
+  Proof. intros x y H. unfold Lint.wordc, code0, Lint.word_start. cbn [fst snd asc cp N.eqb andb]. rewrite (up_letter _ _ H). reflexivity. Qed.
+
+  (* the converted word is again a word *)
+  Lemma conv_shape : forall p v, wordc false p = true -> forallb wcp v = true ->
+    exists p' v', conv_word (p :: v) = p' :: v' /\ wordc false p' = true /\ forallb wcp v' = true.
+  Proof.
+    intros p v H Hv. unfold Lint.conv_word. destruct (kw_of (chars (p :: v))) as [u|] eqn:E.
+    - assert (Hl : length u = length (p :: v)).
+      { unfold Lint.kw_of in E. destruct (all_some (map (fun c0 => upper_ascii (cp c0)) (chars (p :: v)))) as [x|] eqn:Ex; [|discriminate].
+        destruct (existsb (list_eqb x) keywords); [|discriminate]. inversion E; subst.
+        rewrite (all_some_length _ _ Ex). unfold chars. rewrite !map_length. reflexivity. }
+      destruct u as [|y u]; [discriminate|]. exists (asc y, 0), (upairs u). split; [reflexivity|].
+      destruct (kw_letters _ _ y E (or_introl eq_refl)) as (x & Hx). split; [apply (upair_word x y Hx)|].
+      apply forallb_forall. intros z Hz. apply in_map_iff in Hz. destruct Hz as (b & Eb & Hb). subst.
+      destruct (kw_letters _ _ b E (or_intror Hb)) as (x' & Hx'). apply wordc_start_cont. apply (upair_word x' b Hx').
+    - exists p, v. repeat split; assumption.
+  Qed.
+
+  Lemma l007_scan_idem_n : forall n l, (length l <= n)%nat -> sN (sN l) = sN l.
+  Proof.
+    induction n as [|n IH]; intros l Hl.
+    - destruct l; [reflexivity|cbn in Hl; lia].
+    - destruct l as [|p t]; [reflexivity|]. cbn [length] in Hl.
+      destruct (wordc false p) eqn:Ew.
+      + rewrite sN_word by exact Ew. pose proof (take_l_all wcp t) as Hv.
+        destruct (conv_shape p (take_l wcp t) Ew Hv) as (p' & v' & Ec & W' & V').
+        rewrite Ec. change ((p' :: v') ++ sN (trim_l wcp t)) with (p' :: v' ++ sN (trim_l wcp t)).
+        rewrite sN_word_app; [|exact W'|exact V'|apply sN_stops; apply trim_l_stops].
+        rewrite <- Ec. rewrite conv_idem.
+        assert (Hr : (length (trim_l wcp t) <= n)%nat).
+        { pose proof (take_trim_l wcp t) as E. apply (f_equal (@length cc)) in E. rewrite app_length in E. lia. }
+        rewrite (IH _ Hr). rewrite Ec. reflexivity.
+      + rewrite sN_other by exact Ew. rewrite sN_other by exact Ew. rewrite IH by lia. reflexivity.
+  Qed.
+
+  Lemma l007_line_idem : forall l, l007_line is_letter is_digit upper_ascii keywords (l007_line is_letter is_digit upper_ascii keywords l)
+                                  = l007_line is_letter is_digit upper_ascii keywords l.
+  Proof. intro l. unfold l007_line. apply (l007_scan_idem_n (length l) l (le_n _)). Qed.
+  (* ---- re-lint: the words of a fixed line are not violations ---- *)
+  Notation words := (l007_words is_letter is_digit).
+  Notation word_viol := (word_viol upper_ascii keywords).
+
+  Lemma W_other : forall i p t, wordc false p = false -> words i None (p :: t) = words (i + width (fst p)) None t.
+  Proof. intros i p t H. cbn [l007_words]. rewrite H. reflexivity. Qed.
+
+  Lemma W_absorb : forall t i s w, exists i',
+    words i (Some (s, w)) t = words i' (Some (s, rev (chars (take_l wcp t)) ++ w)) (trim_l wcp t).
+  Proof.
+    induction t as [|p t IH]; intros i s w; [exists i; reflexivity|]. cbn [take_l trim_l]. destruct (wcp p) eqn:E.
+    - cbn [l007_words]. rewrite E. destruct (IH (i + width (fst p))%nat s (fst p :: w)) as (i' & Ei). exists i'. rewrite Ei.
+      cbn [chars map rev]. rewrite <- app_assoc. reflexivity.
+    - exists i. reflexivity.
+  Qed.
+
+  Lemma W_boundary : forall i s w r, stops r -> words i (Some (s, w)) r = (S s, rev w) :: words i None r.
+  Proof.
+    intros i s w r [H|(d & r' & H & Hd)]; subst; [reflexivity|].
+    cbn [l007_words]. rewrite Hd. rewrite (wordc_cont_not d Hd). reflexivity.
+  Qed.
+
+  Lemma W_word_app : forall i p v x, wordc false p = true -> forallb wcp v = true -> stops x ->
+    exists i', words i None (p :: v ++ x) = (S i, chars (p :: v)) :: words i' None x.
+  Proof.
+    intros i p v x H Hv Hx. cbn [l007_words]. rewrite H.
+    destruct (W_absorb (v ++ x) (i + width (fst p))%nat i [fst p]) as (i' & Ei). rewrite Ei.
+    assert (E1 : take_l wcp (v ++ x) = v).
+    { rewrite take_l_app_all by exact Hv. destruct Hx as [Hx|(d & r & Hx & Hd)]; subst; [rewrite app_nil_r; reflexivity|].
+      rewrite take_l_stop by exact Hd. rewrite app_nil_r. reflexivity. }
+    assert (E2 : trim_l wcp (v ++ x) = x).
+    { rewrite trim_l_app_all by exact Hv. destruct Hx as [Hx|(d & r & Hx & Hd)]; subst; [reflexivity|]. apply trim_l_stop. exact Hd. }
+    rewrite E1, E2. exists i'. rewrite W_boundary by exact Hx. rewrite rev_app_distr. rewrite rev_involutive. reflexivity.
   Qed.
 
   Lemma list_eqb_refl : forall u, list_eqb u u = true.
   Proof.
-    intro u. unfold list_eqb. rewrite Nat.eqb_refl. cbn [andb]. induction u as [|a u IH]; [reflexivity|].
-    cbn. rewrite N.eqb_refl. exact IH.
+    intro u. unfold list_eqb. rewrite Nat.eqb_refl. cbn [andb]. induction u as [|b u IH]; [reflexivity|].
+    cbn [combine forallb fst snd]. rewrite N.eqb_refl. exact IH.
   Qed.
 
   Lemma encode_asc : forall u, encode (map asc u) = u.
-  Proof. induction u as [|a u IH]; [reflexivity|]. unfold encode in *. cbn. f_equal. exact IH. Qed.
+  Proof. induction u as [|b u IH]; [reflexivity|]. cbn. f_equal. exact IH. Qed.
 
-  (* a converted word is not a violation *)
-  Lemma conv_no_viol : forall w, word_viol (map wr (conv_word (map wr w))) = false.
+  Lemma conv_noviol : forall w, word_viol (chars (conv_word w)) = false.
   Proof.
-    intro w. unfold Lint.conv_word. rewrite (kw_of_wr upper_ascii keywords). destruct (kw_of w) as [u|] eqn:E.
-    - rewrite map_wr_asc. unfold Lint.word_viol. rewrite (kw_of_conv upper_ascii keywords up_idem w u E).
-      rewrite encode_asc. rewrite list_eqb_refl. reflexivity.
-    - rewrite map_wr_wr. unfold Lint.word_viol. rewrite (kw_of_wr upper_ascii keywords), E. reflexivity.
+    intro w. assert (E0 : conv_word w = match kw_of (chars w) with Some u => upairs u | None => w end) by reflexivity.
+    rewrite E0. destruct (kw_of (chars w)) as [u|] eqn:E.
+    - rewrite chars_upairs. unfold Lint.word_viol. rewrite (kw_of_conv _ u E). rewrite encode_asc. rewrite list_eqb_refl. reflexivity.
+    - unfold Lint.word_viol. rewrite E. reflexivity.
   Qed.
 
-  Definition clean (ws : list (nat * list ch)) : Prop := allw (fun w => word_viol w = false) ws.
-
-  Lemma clean_nil : clean []. Proof. intros p []. Qed.
-  Lemma clean_cons : forall s w ws, word_viol w = false -> clean ws -> clean ((s, w) :: ws).
-  Proof. intros s w ws H Hc p [Hp|Hp]; [subst; exact H|apply Hc; exact Hp]. Qed.
-
-  Lemma words_clean_n : forall n l, (length l <= n)%nat ->
-    (forall i, clean (words None i None (sN l))) /\ (forall k i, clean (words (Some k) i None (sQ k l))).
+  Lemma l007_words_fixed_n : forall n l i, (length l <= n)%nat ->
+    Forall (fun cw : nat * list ch => word_viol (snd cw) = false) (words i None (sN l)).
   Proof.
-    induction n as [|n IH]; intros l Hl.
-    - destruct l; [split; intros; apply clean_nil|cbn in Hl; lia].
-    - destruct l as [|c t]; [split; intros; apply clean_nil|]. cbn [length] in Hl.
-      assert (Ht : (length t <= n)%nat) by lia. destruct (IH t Ht) as [IHn IHq]. split.
-      + intro i. destruct (cstart c t) eqn:Ecs.
-        { rewrite (sN_comment is_letter is_digit upper_ascii keywords) by exact Ecs. rewrite wN_comment by exact Ecs. apply clean_nil. }
-        destruct (is_quote c) eqn:Eq.
-        * rewrite (sN_quote is_letter is_digit upper_ascii keywords) by exact Eq. rewrite wN_quote by (rewrite is_quote_wr; exact Eq).
-          rewrite cp_wr. apply IHq.
-        * destruct (word_start c) eqn:Ew.
-          -- rewrite (sN_word is_letter is_digit upper_ascii keywords nl45 nd45) by assumption.
-             pose proof (take_l_all wc t) as Hv.
-             destruct (conv_shape is_letter is_digit upper_ascii keywords up_letter up_noquote up_nobt c (take_l wc t) Eq Ew Hv) as (c' & v' & Ec & Q' & W' & V').
-             rewrite Ec. change ((c' :: v') ++ sN (trim_l wc t)) with (c' :: v' ++ sN (trim_l wc t)).
-             destruct (wN_word_app i c' v' (sN (trim_l wc t)) Q' W' V') as (i' & E);
-               [apply (sN_stops is_letter is_digit upper_ascii keywords); apply trim_l_stops|].
-             rewrite E. apply clean_cons.
-             ++ rewrite <- Ec. apply conv_no_viol.
-             ++ assert (Hr : (length (trim_l wc t) <= n)%nat).
-                { pose proof (take_trim_l wc t) as E0. apply (f_equal (@length ch)) in E0. rewrite app_length in E0. lia. }
-                destruct (IH _ Hr) as [IHr _]. apply IHr.
-          -- rewrite (sN_other is_letter is_digit upper_ascii keywords) by assumption.
-             assert (Ecw : cstart (wr c) (sN t) = false).
-             { rewrite cstart_wr. rewrite (cstart_next c (sN t) t (next_is_sN is_letter is_digit upper_ascii keywords up_letter up_noquote nl45 nd45 up_nobt t)). exact Ecs. }
-             rewrite wN_other by (rewrite ?is_quote_wr, ?(word_start_wr is_letter); assumption). apply IHn.
-      + intros k i. rewrite (sQ_cons is_letter is_digit upper_ascii keywords). rewrite wQ_cons. rewrite cp_wr.
-        destruct (cp c =? k); [apply IHn|apply IHq].
+    induction n as [|n IH]; intros l i Hl.
+    - destruct l; [constructor|cbn in Hl; lia].
+    - destruct l as [|p t]; [constructor|]. cbn [length] in Hl.
+      destruct (wordc false p) eqn:Ew.
+      + rewrite sN_word by exact Ew. pose proof (take_l_all wcp t) as Hv.
+        destruct (conv_shape p (take_l wcp t) Ew Hv) as (p' & v' & Ec & W' & V').
+        pose proof (conv_noviol (p :: take_l wcp t)) as Nv.
+        rewrite Ec in *. change ((p' :: v') ++ sN (trim_l wcp t)) with (p' :: v' ++ sN (trim_l wcp t)).
+        destruct (W_word_app i p' v' (sN (trim_l wcp t)) W' V' (sN_stops _ (trim_l_stops t))) as (i' & Ei). rewrite Ei.
+        constructor; [exact Nv|]. apply IH.
+        pose proof (take_trim_l wcp t) as E. apply (f_equal (@length cc)) in E. rewrite app_length in E. lia.
+      + rewrite sN_other by exact Ew. rewrite W_other by exact Ew. apply IH. lia.
   Qed.
 
-  Lemma l007_line_clears : forall n l,
-    l007_check_line is_letter is_digit upper_ascii keywords n (l007_fix_line is_letter is_digit upper_ascii keywords l) = [].
+  Lemma l007_line_clears : forall n fl,
+    l007_check_line is_letter is_digit upper_ascii keywords n (on_snd (l007_line is_letter is_digit upper_ascii keywords) fl) = [].
   Proof.
-    intros n l. unfold l007_check_line, l007_fix_line.
-    destruct (words_clean_n (length l) l (le_n _)) as [H _]. specialize (H 0%nat).
-    induction (words None 0%nat None (sN l)) as [|p ws IHw]; [reflexivity|].
-    cbn [flat_map]. rewrite (H p (or_introl eq_refl)). cbn [app]. apply IHw. intros q Hq. apply H. right. exact Hq.
+    intros n [flag l]. unfold l007_check_line, on_snd, l007_line. cbn [snd].
+    pose proof (l007_words_fixed_n (length l) l 0%nat (le_n _)) as H. induction H as [|cw r Hc Hr IH]; [reflexivity|].
+    cbn [flat_map]. rewrite Hc. exact IH.
+  Qed.
+  (* ---- exact flagging: the words the checker examines are the code words of the line, at their byte columns ---- *)
+  Notation inw_after := (inword_after is_letter is_digit).
+  Notation code_word := (code_word is_letter is_digit).
+
+  Lemma W_absorb_x : forall t i s w,
+    words i (Some (s, w)) t = words (i + blen (chars (take_l wcp t))) (Some (s, rev (chars (take_l wcp t)) ++ w)) (trim_l wcp t).
+  Proof.
+    induction t as [|p t IH]; intros i s w; [cbn [take_l trim_l chars map blen fold_right rev app]; rewrite Nat.add_0_r; reflexivity|]. cbn [take_l trim_l]. destruct (wcp p) eqn:E.
+    - cbn [l007_words]. rewrite E. rewrite IH. cbn [chars map rev]. rewrite blen_cons. rewrite <- app_assoc. cbn [app].
+      rewrite Nat.add_assoc. reflexivity.
+    - cbn [chars map blen fold_right rev app]. rewrite Nat.add_0_r. reflexivity.
   Qed.
 
+  Lemma W_word_x : forall i p t, wordc false p = true ->
+    words i None (p :: t) = (S i, chars (p :: take_l wcp t)) :: words (i + blen (chars (p :: take_l wcp t))) None (trim_l wcp t).
+  Proof.
+    intros i p t H. cbn [l007_words]. rewrite H. rewrite W_absorb_x. rewrite W_boundary by apply trim_l_stops.
+    rewrite rev_app_distr. rewrite rev_involutive. cbn [rev app chars map]. rewrite blen_cons. rewrite Nat.add_assoc. reflexivity.
+  Qed.
+
+  Lemma inw_all : forall a, forallb wcp a = true -> inw_after true a = true.
+  Proof. induction a as [|p a IH]; intro H; [reflexivity|]. cbn in H. apply andb_prop in H. destruct H as [H1 H2]. cbn [inword_after]. rewrite H1. apply IH. exact H2. Qed.
+
+  Lemma inw_app : forall a b s, inw_after s (a ++ b) = inw_after (inw_after s a) b.
+  Proof. induction a as [|p a IH]; intros b s; [reflexivity|]. cbn [app inword_after]. apply IH. Qed.
+
+  Lemma inw_stop : forall d b s, wcp d = false -> inw_after s (d :: b) = inw_after false b.
+  Proof.
+    intros d b s H. cbn [inword_after]. destruct s; [rewrite H; reflexivity|rewrite (wordc_cont_not d H); reflexivity].
+  Qed.
+
+  (* the first character that does not continue a word *)
+  Lemma first_stop : forall a, forallb wcp a = false -> exists x d y, a = x ++ d :: y /\ forallb wcp x = true /\ wcp d = false.
+  Proof.
+    induction a as [|p a IH]; intro H; [discriminate|]. cbn in H. destruct (wcp p) eqn:E.
+    - cbn in H. destruct (IH H) as (x & d & y & E1 & E2 & E3). exists (p :: x), d, y. subst. cbn. rewrite E, E2. repeat split; assumption.
+    - exists [], p, a. repeat split. exact E.
+  Qed.
+
+  Lemma words_exact_n : forall n l i col w, (length l <= n)%nat ->
+    (In (col, w) (words i None l) <->
+     exists pre wd post, code_word l pre wd post /\ col = S (i + blen (chars pre)) /\ w = chars wd).
+  Proof.
+    induction n as [|n IH]; intros l i col w Hl.
+    - destruct l; [|cbn in Hl; lia]. cbn. split; [intros []|]. intros (pre & wd & post & (E & _ & Hw & _) & _).
+      destruct pre; [|discriminate]. destruct wd; [destruct Hw|discriminate].
+    - destruct l as [|p t].
+      { cbn. split; [intros []|]. intros (pre & wd & post & (E & _ & Hw & _) & _).
+        destruct pre; [|discriminate]. destruct wd; [destruct Hw|discriminate]. }
+      cbn [length] in Hl.
+      assert (Hlen : (length (trim_l wcp t) <= n)%nat).
+      { pose proof (take_trim_l wcp t) as E. apply (f_equal (@length cc)) in E. rewrite app_length in E. lia. }
+      destruct (wordc false p) eqn:Ew.
+      + rewrite W_word_x by exact Ew. cbn [In]. rewrite (IH _ _ col w Hlen). split.
+        * intros [H|(pre & wd & post & (E & Ho & Hw & Hp) & Ec & Ewd)].
+          -- injection H as H1 H2. exists [], (p :: take_l wcp t), (trim_l wcp t). split; [|split].
+             ++ split; [cbn [app]; rewrite take_trim_l; reflexivity|]. split; [reflexivity|]. split; [split; [exact Ew|apply take_l_all]|].
+                destruct (trim_l wcp t) as [|d r] eqn:Et; [exact I|]. eapply trim_l_head. exact Et.
+             ++ cbn [chars map blen fold_right]. lia.
+             ++ symmetry. exact H2.
+          -- exists ((p :: take_l wcp t) ++ pre), wd, post. split; [|split].
+             ++ split; [rewrite <- app_assoc; rewrite <- E; cbn [app]; rewrite take_trim_l; reflexivity|]. split; [|split; assumption].
+                rewrite inw_app. cbn [inword_after]. rewrite Ew. rewrite (inw_all _ (take_l_all wcp t)).
+                (* pre begins with a character that stops the word *)
+                destruct pre as [|d b].
+                ** exfalso. cbn [app] in E. destruct wd as [|q v]; [destruct Hw|]. destruct Hw as [Hq _].
+                   destruct (trim_l wcp t) as [|d r] eqn:Et; [discriminate|]. injection E as E1 E2. subst d.
+                   pose proof (trim_l_head _ _ _ _ Et) as Hd. rewrite (wordc_start_cont q Hq) in Hd. discriminate.
+                ** destruct (trim_l wcp t) as [|d' r] eqn:Et; [discriminate|]. cbn [app] in E. injection E as E1 E2. subst d'.
+                   pose proof (trim_l_head _ _ _ _ Et) as Hd. rewrite (inw_stop d b true Hd). rewrite (inw_stop d b false Hd) in Ho. exact Ho.
+             ++ rewrite Ec. unfold chars. rewrite map_app, blen_app. rewrite Nat.add_assoc. reflexivity.
+             ++ exact Ewd.
+        * intros (pre & wd & post & (E & Ho & Hw & Hp) & Ec & Ewd). destruct pre as [|q pre'].
+          -- left. cbn [app] in E. destruct wd as [|q v]; [destruct Hw|]. destruct Hw as [Hq Hv]. injection E as E1 E2. subst q.
+             assert (Et : take_l wcp t = v).
+             { rewrite E2. rewrite take_l_app_all by exact Hv. destruct post as [|d r]; [rewrite app_nil_r; reflexivity|].
+               rewrite take_l_stop by exact Hp. apply app_nil_r. }
+             rewrite Et. subst. cbn [chars map blen fold_right]. f_equal. lia.
+          -- right. cbn [app] in E. injection E as E1 E2. subst q.
+             cbn [inword_after] in Ho. rewrite Ew in Ho.
+             assert (Hna : forallb wcp pre' = false).
+             { destruct (forallb wcp pre') eqn:X; [rewrite (inw_all pre' X) in Ho; discriminate|reflexivity]. }
+             destruct (first_stop pre' Hna) as (x & d & y & Ex & Hx & Hd). subst pre'.
+             assert (Etk : take_l wcp t = x) by (rewrite E2; rewrite <- app_assoc; rewrite take_l_app_all by exact Hx; cbn [app]; rewrite take_l_stop by exact Hd; apply app_nil_r).
+             assert (Etr : trim_l wcp t = d :: y ++ wd ++ post).
+             { rewrite E2. rewrite <- app_assoc. rewrite trim_l_app_all by exact Hx. cbn [app]. apply trim_l_stop. exact Hd. }
+             exists (d :: y), wd, post. split; [|split].
+             ++ split; [rewrite Etr; reflexivity|]. split; [|split; assumption].
+                rewrite inw_app in Ho. rewrite (inw_all x Hx) in Ho. rewrite (inw_stop d y true Hd) in Ho. rewrite (inw_stop d y false Hd). exact Ho.
+             ++ rewrite Etk. rewrite Ec. change (p :: x ++ d :: y) with ((p :: x) ++ d :: y). unfold chars. rewrite map_app, blen_app, Nat.add_assoc. reflexivity.
+             ++ exact Ewd.
+      + rewrite W_other by exact Ew. rewrite (IH t _ col w) by lia. split.
+        * intros (pre & wd & post & (E & Ho & Hw & Hp) & Ec & Ewd). exists (p :: pre), wd, post. split; [|split].
+          -- split; [cbn [app]; rewrite E; reflexivity|]. split; [cbn [inword_after]; rewrite Ew; exact Ho|split; assumption].
+          -- cbn [chars map]. rewrite blen_cons. fold (chars pre). lia.
+          -- exact Ewd.
+        * intros (pre & wd & post & (E & Ho & Hw & Hp) & Ec & Ewd). destruct pre as [|q pre'].
+          -- exfalso. cbn [app] in E. destruct wd as [|q v]; [destruct Hw|]. destruct Hw as [Hq _]. injection E as E1 E2. subst q. congruence.
+          -- cbn [app] in E. injection E as E1 E2. subst q. cbn [inword_after] in Ho. rewrite Ew in Ho.
+             exists pre', wd, post. split; [|split].
+             ++ split; [exact E2|]. split; [exact Ho|split; assumption].
+             ++ rewrite Ec. cbn [chars map]. rewrite blen_cons. fold (chars pre'). lia.
+             ++ exact Ewd.
+  Qed.
+
+  Lemma l007_line_exact : forall n fl v,
+    In v (l007_check_line is_letter is_digit upper_ascii keywords n fl) <->
+    exists pre wd post, code_word (snd fl) pre wd post /\ word_viol (chars wd) = true /\ v = (n, S (blen (chars pre))).
+  Proof.
+    intros n fl v. unfold l007_check_line. rewrite in_flat_map. split.
+    - intros ((col & w) & Hin & Hv). cbn [fst snd] in Hv. destruct (word_viol w) eqn:E; [|destruct Hv]. destruct Hv as [Hv|[]].
+      apply (words_exact_n (length (snd fl)) (snd fl) 0%nat col w (le_n _)) in Hin.
+      destruct Hin as (pre & wd & post & Hc & Ec & Ew). exists pre, wd, post. subst. split; [exact Hc|]. split; [exact E|reflexivity].
+    - intros (pre & wd & post & Hc & Hv & Ev). exists (S (blen (chars pre)), chars wd). split.
+      + apply (words_exact_n (length (snd fl)) (snd fl) 0%nat _ _ (le_n _)). exists pre, wd, post. repeat split; try assumption; apply Hc.
+      + cbn [fst snd]. rewrite Hv. left. symmetry. exact Ev.
+  Qed.
+End L007b.
+
+Section L007Text.
+  Variables is_letter is_digit : N -> bool.
+  Variable upper_ascii : N -> option N.
+  Variable keywords : list (list N).
+  Hypothesis up_plain : forall x u, upper_ascii x = Some u -> plainN x /\ plainN u.
+  Hypothesis up_letter : forall x u, upper_ascii x = Some u -> is_letter u = true.
+  Hypothesis up_idem : forall x u, upper_ascii x = Some u -> upper_ascii u = Some u.
+
+  Theorem l007_fix_idempotent : forall t,
+    l007_fix is_letter is_digit upper_ascii keywords (l007_fix is_letter is_digit upper_ascii keywords t)
+    = l007_fix is_letter is_digit upper_ascii keywords t.
+  Proof.
+    intro t. apply (per_cline_idem (l007_line is_letter is_digit upper_ascii keywords)).
+    - apply (l007_lock is_letter is_digit upper_ascii keywords up_plain).
+    - apply (l007_line_idem is_letter is_digit upper_ascii keywords up_letter up_idem).
+  Qed.
   Theorem l007_fix_clears : forall t,
     l007_check is_letter is_digit upper_ascii keywords (l007_fix is_letter is_digit upper_ascii keywords t) = [].
   Proof.
-    intro t. unfold l007_check, l007_fix.
-    change (join_nl (map (l007_fix_line is_letter is_digit upper_ascii keywords) (split_nl t)))
-      with (per_line (l007_fix_line is_letter is_digit upper_ascii keywords) t).
-    rewrite split_per_line by (apply (l007_line_keeps is_letter is_digit upper_ascii keywords up_noquote)).
-    apply on_lines_nil. intros n l Hl. apply in_map_iff in Hl. destruct Hl as (l0 & E & _). subst. apply l007_line_clears.
+    intro t. unfold l007_check, l007_fix. rewrite (relex _ t (l007_lock is_letter is_digit upper_ascii keywords up_plain)).
+    apply on_clines_nil. intros n fl Hfl. apply in_map_iff in Hfl. destruct Hfl as (fl0 & E & _). subst.
+    apply (l007_line_clears is_letter is_digit upper_ascii keywords up_letter up_idem).
   Qed.
-End L007Clears.
+End L007Text.
 
 (* ------------------------------------------------------------------------------------------------ *)
-(* L002, L003: exact flagging; locations *)
+(* exact flagging and locations *)
 
-Lemma ikind_cases : forall l, ikind l = 0 \/ ikind l = 1 \/ ikind l = 2 \/ ikind l = 3.
+Lemma on_clines_in : forall f ls k v, In v (on_clines f k ls) <->
+  exists i l, nth_error ls i = Some l /\ In v (f (k + i)%nat l).
 Proof.
-  intro l. unfold ikind. destruct (leading_ws l); [auto|].
-  destruct (existsb is_tab (c :: l0) && existsb is_sp (c :: l0)); [auto|]. destruct (existsb is_tab (c :: l0)); auto.
+  intros f. induction ls as [|l r IH]; intros k v.
+  - cbn. split; [intros []|]. intros (i & l & H & _). destruct i; discriminate.
+  - cbn [on_clines]. rewrite in_app_iff. rewrite IH. split.
+    + intros [H|(i & l' & H1 & H2)].
+      * exists 0%nat, l. split; [reflexivity|]. rewrite Nat.add_0_r. exact H.
+      * exists (S i), l'. split; [exact H1|]. replace (k + S i)%nat with (S k + i)%nat by lia. exact H2.
+    + intros (i & l' & H1 & H2). destruct i as [|i].
+      * cbn in H1. inversion H1; subst. left. rewrite Nat.add_0_r in H2. exact H2.
+      * right. exists i, l'. split; [exact H1|]. replace (S k + i)%nat with (k + S i)%nat by lia. exact H2.
 Qed.
 
-Lemma eff_cons_skip : forall first l pre, (ikind l = 0 \/ ikind l = 3) -> eff first (l :: pre) = eff first pre.
+(* L002 *)
+Lemma ikind_cases : forall l, ikind l = 0 \/ ikind l = 1 \/ ikind l = 2 \/ ikind l = 3.
+Proof.
+  intro l. unfold ikind. destruct (take_l lblank l); [auto|].
+  destruct (existsb (fun p : ch * N => is_tab (fst p)) (c :: l0) && existsb (fun p : ch * N => is_sp (fst p)) (c :: l0)); [auto|]. destruct (existsb (fun p : ch * N => is_tab (fst p)) (c :: l0)); auto.
+Qed.
+
+Lemma eff_cons_skip : forall first l pre, (ikind (snd l) = 0 \/ ikind (snd l) = 3) -> eff first (l :: pre) = eff first pre.
 Proof. intros first l pre H. unfold eff. cbn [map first_pure]. destruct H as [H|H]; rewrite H; reflexivity. Qed.
 
-Lemma eff_cons_pure : forall first l pre, (ikind l = 1 \/ ikind l = 2) ->
-  eff first (l :: pre) = if first =? 0 then ikind l else first.
+Lemma eff_cons_pure : forall first l pre, (ikind (snd l) = 1 \/ ikind (snd l) = 2) ->
+  eff first (l :: pre) = if first =? 0 then ikind (snd l) else first.
 Proof. intros first l pre H. unfold eff. cbn [map first_pure]. destruct H as [H|H]; rewrite H; reflexivity. Qed.
 
 Lemma eff_nz : forall first pre, first <> 0 -> eff first pre = first.
@@ -2576,17 +2312,17 @@ Proof. intros first pre H. unfold eff. apply N.eqb_neq in H. rewrite H. reflexiv
 
 Lemma l002_step : forall first l, exists first' (fl : bool),
   (forall k r, l002_check_lines first k (l :: r) = (if fl then [(k, 1%nat)] else []) ++ l002_check_lines first' (S k) r) /\
-  (fl = true <-> l002_defect first [] l) /\
+  (fl = true <-> l002_defect first [] (snd l)) /\
   (forall pre, eff first' pre = eff first (l :: pre)).
 Proof.
-  intros first l. unfold l002_defect. pose proof (ikind_cases l) as K. unfold ikind in *.
-  destruct (leading_ws l) as [|c lw] eqn:El.
-  - exists first, false. split; [intros k r; cbn [l002_check_lines]; rewrite El; reflexivity|]. split.
+  intros first l. unfold l002_defect. pose proof (ikind_cases (snd l)) as K. unfold ikind in *.
+  destruct (take_l lblank (snd l)) as [|c lw] eqn:El.
+  - exists first, false. split; [intros k r; cbn [l002_check_lines]; unfold leading_ws; rewrite El; reflexivity|]. split.
     + split; [discriminate|]. intros [H|([H|H] & _)]; discriminate.
     + intro pre. symmetry. apply eff_cons_skip. left. unfold ikind. rewrite El. reflexivity.
-  - set (ht := existsb is_tab (c :: lw)) in *. set (hs := existsb is_sp (c :: lw)) in *.
+  - set (ht := existsb (fun p : ch * N => is_tab (fst p)) (c :: lw)) in *. set (hs := existsb (fun p : ch * N => is_sp (fst p)) (c :: lw)) in *.
     destruct (ht && hs) eqn:Em.
-    + exists first, true. split; [intros k r; cbn [l002_check_lines]; rewrite El; fold ht hs; rewrite Em; reflexivity|]. split.
+    + exists first, true. split; [intros k r; cbn [l002_check_lines]; unfold leading_ws; rewrite El; fold ht hs; rewrite Em; reflexivity|]. split.
       * split; [intros _; left; reflexivity|reflexivity].
       * intro pre. symmetry. apply eff_cons_skip. right. unfold ikind. rewrite El. fold ht hs. rewrite Em. reflexivity.
     + set (cur := if ht then 1 else 2).
@@ -2597,17 +2333,17 @@ Proof.
       assert (Cnz : cur <> 0) by (unfold cur; destruct ht; discriminate).
       assert (Cpure : cur = 1 \/ cur = 2) by (unfold cur; destruct ht; auto).
       destruct (first =? 0) eqn:E0.
-      * exists cur, false. split; [intros k r; cbn [l002_check_lines]; rewrite El; fold ht hs; rewrite Em; fold cur; rewrite E0; reflexivity|]. split.
+      * exists cur, false. split; [intros k r; cbn [l002_check_lines]; unfold leading_ws; rewrite El; fold ht hs; rewrite Em; fold cur; rewrite E0; reflexivity|]. split.
         -- split; [discriminate|]. intros [H|(_ & H & _)]; [try rewrite Kc in H; destruct Cpure as [C|C]; rewrite C in H; discriminate|].
            exfalso. apply H. unfold eff. rewrite E0. reflexivity.
         -- intro pre. rewrite Ec. apply eff_nz. exact Cnz.
       * apply N.eqb_neq in E0. destruct (first =? cur) eqn:E1.
-        -- exists first, false. split; [intros k r; cbn [l002_check_lines]; rewrite El; fold ht hs; rewrite Em; fold cur;
+        -- exists first, false. split; [intros k r; cbn [l002_check_lines]; unfold leading_ws; rewrite El; fold ht hs; rewrite Em; fold cur;
              replace (first =? 0) with false by (symmetry; apply N.eqb_neq; exact E0); rewrite E1; reflexivity|]. split.
            ++ split; [discriminate|]. intros [H|(_ & _ & H)]; [try rewrite Kc in H; destruct Cpure as [C|C]; rewrite C in H; discriminate|].
               exfalso. apply H. rewrite eff_nz by exact E0. try rewrite Kc. apply N.eqb_eq. exact E1.
            ++ intro pre. rewrite Ec. rewrite !eff_nz by exact E0. replace (first =? 0) with false by (symmetry; apply N.eqb_neq; exact E0). reflexivity.
-        -- exists first, true. split; [intros k r; cbn [l002_check_lines]; rewrite El; fold ht hs; rewrite Em; fold cur;
+        -- exists first, true. split; [intros k r; cbn [l002_check_lines]; unfold leading_ws; rewrite El; fold ht hs; rewrite Em; fold cur;
              replace (first =? 0) with false by (symmetry; apply N.eqb_neq; exact E0); rewrite E1; reflexivity|]. split.
            ++ split; [intros _|reflexivity]. right. try rewrite Kc. split; [exact Cpure|]. rewrite eff_nz by exact E0. split; [exact E0|].
               apply N.eqb_neq. exact E1.
@@ -2620,7 +2356,7 @@ Proof. intros first first' l0 pre l H. unfold l002_defect. rewrite H. tauto. Qed
 
 Lemma l002_lines_exact : forall ls first k n col,
   In (n, col) (l002_check_lines first k ls) <->
-  col = 1%nat /\ exists i l, nth_error ls i = Some l /\ n = (k + i)%nat /\ l002_defect first (firstn i ls) l.
+  col = 1%nat /\ exists i l, nth_error ls i = Some l /\ n = (k + i)%nat /\ l002_defect first (firstn i ls) (snd l).
 Proof.
   induction ls as [|l0 r IH]; intros first k n col.
   - cbn. split; [intros []|]. intros (_ & i & l & H & _). destruct i; discriminate.
@@ -2629,16 +2365,16 @@ Proof.
       * destruct fl; [|destruct H]. destruct H as [H|[]]. inversion H; subst. split; [reflexivity|].
         exists 0%nat, l0. split; [reflexivity|]. split; [lia|]. cbn [firstn]. apply Hf. reflexivity.
       * split; [exact Hc|]. exists (S i), l. split; [exact Hn|]. split; [lia|]. cbn [firstn].
-        apply (l002_defect_shift first first' l0 _ l He). exact Hd.
+        apply (l002_defect_shift first first' l0 _ (snd l) He). exact Hd.
     + intros (Hc & i & l & Hn & En & Hd). destruct i as [|i].
       * cbn in Hn. inversion Hn; subst. cbn [firstn] in Hd. apply Hf in Hd. subst fl. left. left. f_equal. lia.
       * right. split; [exact Hc|]. exists i, l. split; [exact Hn|]. split; [lia|]. cbn [firstn] in Hd.
-        apply (l002_defect_shift first first' l0 _ l He). exact Hd.
+        apply (l002_defect_shift first first' l0 _ (snd l) He). exact Hd.
 Qed.
 
 Theorem l002_check_exact : forall t n col,
   In (n, col) (l002_check t) <->
-  col = 1%nat /\ (1 <= n)%nat /\ exists l, nth_error (split_nl t) (n - 1) = Some l /\ l002_defect 0 (firstn (n - 1) (split_nl t)) l.
+  col = 1%nat /\ (1 <= n)%nat /\ exists fl, nth_error (clines t) (n - 1) = Some fl /\ l002_defect 0 (firstn (n - 1) (clines t)) (snd fl).
 Proof.
   intros t n col. unfold l002_check. rewrite l002_lines_exact. split.
   - intros (Hc & i & l & Hn & En & Hd). subst n. replace (1 + i - 1)%nat with i by lia. split; [exact Hc|]. split; [lia|]. exists l. split; assumption.
@@ -2647,7 +2383,7 @@ Qed.
 
 Section L003Exact.
   Variable is_space : N -> bool.
-  Notation blank := (blank_line is_space).
+  Notation blank := (cblank is_space).
 
   Notation run_from := (run_from is_space).
   Notation startsG := (startsG is_space).
@@ -2717,7 +2453,7 @@ Section L003Exact.
   (* the defect L003 names: line n starts a run of more than mx consecutive blank lines *)
   Theorem l003_check_exact : forall mx t n col,
     In (n, col) (l003_check_mx is_space mx t) <->
-    col = 1%nat /\ (1 <= n)%nat /\ startsG 0 (split_nl t) (n - 1) /\ (mx < run_from (split_nl t) (n - 1))%nat.
+    col = 1%nat /\ (1 <= n)%nat /\ startsG 0 (clines t) (n - 1) /\ (mx < run_from (clines t) (n - 1))%nat.
   Proof.
     intros mx t n col. unfold l003_check_mx. rewrite l003_lines_exact. split.
     - intros (Hc & [(H1 & _)|(i & H1 & H2 & H3)]); [lia|]. subst n. replace (1 + i - 1)%nat with i by lia. repeat split; try assumption; try lia; apply H2.
@@ -2725,76 +2461,656 @@ Section L003Exact.
   Qed.
 End L003Exact.
 
-(* ---------------- locations: every reported line exists ---------------- *)
-
-Lemma on_lines_line : forall f ls k n col, In (n, col) (on_lines f k ls) -> (forall m l v, In v (f m l) -> fst v = m) ->
-  (k <= n < k + length ls)%nat.
+(* ---------------- L001: exact flagging, location ---------------- *)
+Lemma trim_r_len_lt : forall {A} (p : A -> bool) l,
+  (length (trim_r p l) < length l)%nat <-> exists c, lastc l = Some c /\ p c = true.
 Proof.
-  intros f ls k n col H Hf. apply on_lines_in in H. destruct H as (i & l & Hn & Hin).
-  apply Hf in Hin. cbn [fst] in Hin. subst. assert (i < length ls)%nat by (apply nth_error_Some; congruence). lia.
+  intros A p. induction l as [|c t IH].
+  - cbn. split; [lia|]. intros (c & H & _). discriminate.
+  - rewrite trim_r_cons. destruct t as [|d t].
+    + cbn [trim_r lastc]. destruct (p c) eqn:E; cbn [length]; split; try lia.
+      * intros _. exists c. split; [reflexivity|exact E].
+      * intros (x & Hx & Hp). injection Hx as Hx. subst. congruence.
+    + rewrite lastc_cons by discriminate. rewrite <- IH.
+      destruct (trim_r p (d :: t)) as [|a r] eqn:Et.
+      * destruct (p c); cbn [length]; split; lia.
+      * cbn [length]. split; lia.
 Qed.
 
-Lemma l002_lines_loc : forall ls first k n col, In (n, col) (l002_check_lines first k ls) ->
-  (k <= n < k + length ls)%nat /\ col = 1%nat /\ exists l, nth_error ls (n - k) = Some l /\ leading_ws l <> [].
+Lemma trim_r_len_le : forall {A} (p : A -> bool) l, (length (trim_r p l) <= length l)%nat.
 Proof.
-  induction ls as [|l r IH]; intros first k n col H; [destruct H|]. cbn [l002_check_lines] in H.
-  assert (G : forall f', In (n, col) (l002_check_lines f' (S k) r) ->
-              (k <= n < k + length (l :: r))%nat /\ col = 1%nat /\ exists l0, nth_error (l :: r) (n - k) = Some l0 /\ leading_ws l0 <> []).
-  { intros f' Hr. destruct (IH _ _ _ _ Hr) as (A & B & l0 & C & D). cbn [length]. split; [lia|]. split; [exact B|].
-    exists l0. split; [|exact D]. replace (n - k)%nat with (S (n - S k)) by lia. exact C. }
-  assert (Here : (n, col) = (k, 1%nat) -> leading_ws l <> [] ->
-              (k <= n < k + length (l :: r))%nat /\ col = 1%nat /\ exists l0, nth_error (l :: r) (n - k) = Some l0 /\ leading_ws l0 <> []).
-  { intros E Hne. inversion E; subst. cbn [length]. split; [lia|]. split; [reflexivity|]. exists l. rewrite Nat.sub_diag. split; [reflexivity|exact Hne]. }
-  destruct (leading_ws l) as [|c lw] eqn:El; [apply (G _ H)|].
-  destruct (existsb is_tab (c :: lw) && existsb is_sp (c :: lw)).
-  - destruct H as [H|H]; [apply Here; [symmetry; exact H|discriminate]|apply (G _ H)].
-  - destruct (first =? 0); [apply (G _ H)|]. destruct (first =? (if existsb is_tab (c :: lw) then 1 else 2)); [apply (G _ H)|].
-    destruct H as [H|H]; [apply Here; [symmetry; exact H|discriminate]|apply (G _ H)].
+  intros A p. induction l as [|c t IH]; [cbn; lia|]. rewrite trim_r_cons. destruct (trim_r p t); [destruct (p c)|]; cbn [length] in *; lia.
 Qed.
 
-Lemma l003_lines_loc : forall is_space mx ls cnt start k n col,
-  In (n, col) (l003_check_lines is_space mx cnt start k ls) -> (cnt = 0%nat \/ (start + cnt = k)%nat) ->
-  col = 1%nat /\ ((cnt <> 0%nat /\ n = start) \/ (k <= n < k + length ls)%nat).
+Theorem l001_check_exact : forall t n col,
+  In (n, col) (l001_check t) <->
+  exists fl, nth_error (clines t) (n - 1) = Some fl /\ (1 <= n)%nat /\ ends_tblank (snd fl) /\
+             col = S (blen (chars (trim_r tblank (snd fl)))).
 Proof.
-  intros is_space mx. induction ls as [|l r IH]; intros cnt start k n col H Hinv.
-  - cbn [l003_check_lines] in H. destruct (mx <? cnt)%nat eqn:E; [|destruct H]. destruct H as [H|[]]. inversion H; subst.
-    split; [reflexivity|]. left. split; [|reflexivity]. apply Nat.ltb_lt in E. lia.
-  - cbn [l003_check_lines] in H. destruct (blank_line is_space l).
-    + destruct (cnt =? 0)%nat eqn:Ec.
-      * apply Nat.eqb_eq in Ec. subst cnt. destruct (IH _ _ _ _ _ H) as (A & B); [right; lia|]. split; [exact A|].
-        right. cbn [length]. destruct B as [(B1 & B2)|B]; lia.
-      * apply Nat.eqb_neq in Ec. destruct (IH _ _ _ _ _ H) as (A & B); [right; lia|]. split; [exact A|].
-        destruct B as [(B1 & B2)|B]; [left; split; [exact Ec|exact B2]|right; cbn [length]; lia].
-    + apply in_app_or in H. destruct H as [H|H].
-      * destruct (mx <? cnt)%nat eqn:E; [|destruct H]. destruct H as [H|[]]. inversion H; subst.
-        split; [reflexivity|]. left. split; [|reflexivity]. apply Nat.ltb_lt in E. lia.
-      * destruct (IH _ _ _ _ _ H) as (A & B); [left; reflexivity|]. split; [exact A|]. right. cbn [length].
-        destruct B as [(B1 & B2)|B]; [contradiction|lia].
+  intros t n col. unfold l001_check. rewrite on_clines_in. split.
+  - intros (i & fl & Hn & Hin). unfold l001_check_line, l001_line in Hin.
+    destruct (length (trim_r tblank (snd fl)) <? length (snd fl))%nat eqn:F; [|destruct Hin].
+    destruct Hin as [Hin|[]]. injection Hin as E1 E2; subst n col. exists fl. replace (S i - 1)%nat with i by lia.
+    split; [exact Hn|]. split; [lia|]. split; [|reflexivity]. apply Nat.ltb_lt in F. apply trim_r_len_lt in F. exact F.
+  - intros (fl & Hn & H1 & He & Hc). exists (n - 1)%nat, fl. split; [exact Hn|].
+    unfold l001_check_line, l001_line. apply trim_r_len_lt in He. apply Nat.ltb_lt in He. rewrite He.
+    left. subst col. replace (1 + (n - 1))%nat with n by lia. reflexivity.
 Qed.
 
-Section Loc.
+
+Lemma blen_chars_trim_r_le : forall (p : cc -> bool) l, (blen (chars (trim_r p l)) <= blen (chars l))%nat.
+Proof.
+  intros p. induction l as [|c t IH]; [cbn; lia|]. rewrite trim_r_cons. destruct (trim_r p t) as [|a r] eqn:E.
+  - destruct (p c); unfold blen, chars; cbn [map fold_right]; lia.
+  - unfold blen, chars in *; cbn [map fold_right] in *. lia.
+Qed.
+
+(* the reported column is a byte offset inside the flagged line when the text is well formed (no empty character) *)
+Theorem l001_location : forall t n col, In (n, col) (l001_check t) ->
+  exists fl, nth_error (clines t) (n - 1) = Some fl /\ (1 <= n <= length (clines t))%nat /\
+             (1 <= col <= S (blen (chars (snd fl))))%nat.
+Proof.
+  intros t n col H. apply l001_check_exact in H. destruct H as (fl & Hn & H1 & He & Hc).
+  exists fl. split; [exact Hn|]. split.
+  - split; [exact H1|]. assert (n - 1 < length (clines t))%nat by (apply nth_error_Some; congruence). lia.
+  - subst. pose proof (blen_chars_trim_r_le tblank (snd fl)). lia.
+Qed.
+
+(* ---------------- L002, L003: locations ---------------- *)
+Theorem l002_location : forall t n col, In (n, col) (l002_check t) ->
+  (1 <= n <= length (clines t))%nat /\ col = 1%nat /\
+  exists fl, nth_error (clines t) (n - 1) = Some fl /\ take_l lblank (snd fl) <> [].
+Proof.
+  intros t n col H. apply l002_check_exact in H. destruct H as (Hc & H1 & fl & Hn & Hd).
+  split; [|split; [exact Hc|]].
+  - split; [exact H1|]. assert (n - 1 < length (clines t))%nat by (apply nth_error_Some; congruence). lia.
+  - exists fl. split; [exact Hn|]. intro E. unfold l002_defect, ikind in Hd. rewrite E in Hd.
+    destruct Hd as [Hd|[[Hd|Hd] _]]; discriminate.
+Qed.
+
+Section L003Loc.
+  Variable is_space : N -> bool.
+  Theorem l003_location : forall mx t n col, In (n, col) (l003_check_mx is_space mx t) ->
+    (1 <= n <= length (clines t))%nat /\ col = 1%nat.
+  Proof.
+    intros mx t n col H. apply l003_check_exact in H. destruct H as (Hc & H1 & ((l & Hn & _) & _) & _).
+    split; [|exact Hc]. split; [exact H1|]. assert (n - 1 < length (clines t))%nat by (apply nth_error_Some; congruence). lia.
+  Qed.
+End L003Loc.
+
+(* ---------------- L005: exact flagging ---------------- *)
+Theorem l005_check_exact : forall is_space mx t n col,
+  In (n, col) (l005_check is_space mx t) <->
+  exists fl, nth_error (clines t) (n - 1) = Some fl /\ (1 <= n)%nat /\ chars (snd fl) <> [] /\
+            (starts2 45 45 (trim_space is_space (chars (snd fl))) || starts2 47 42 (trim_space is_space (chars (snd fl)))) = false /\
+            (mx < blen (chars (snd fl)))%nat /\ col = S mx.
+Proof.
+  intros is_space mx t n col. unfold l005_check. rewrite on_clines_in. split.
+  - intros (i & fl & Hn & Hin). unfold l005_check_line in Hin. cbv zeta in Hin. destruct (chars (snd fl)) as [|c l] eqn:El; [destruct Hin|].
+    destruct (starts2 45 45 (trim_space is_space (c :: l)) || starts2 47 42 (trim_space is_space (c :: l))) eqn:Ec; [destruct Hin|].
+    destruct (mx <? blen (c :: l))%nat eqn:Eb; [|destruct Hin]. destruct Hin as [Hin|[]]. assert (E1 : (n - 1 = i)%nat /\ (1 <= n)%nat /\ col = S mx) by (inversion Hin; subst; repeat split; lia).
+    destruct E1 as (E1 & E2 & E3). exists fl. rewrite E1, El. split; [exact Hn|]. split; [exact E2|]. split; [discriminate|].
+    split; [exact Ec|]. split; [apply Nat.ltb_lt; exact Eb|exact E3].
+  - intros (fl & Hn & H1 & Hne & Hc & Hl & E). exists (n - 1)%nat, fl. split; [exact Hn|].
+    unfold l005_check_line. cbv zeta. destruct (chars (snd fl)) as [|c l] eqn:El; [contradiction|]. rewrite Hc.
+    replace (mx <? blen (c :: l))%nat with true by (symmetry; apply Nat.ltb_lt; exact Hl).
+    left. subst col. replace (1 + (n - 1))%nat with n by lia. reflexivity.
+Qed.
+
+(* ------------------------------------------------------------------------------------------------ *)
+(* convergence of the CLI loop: the output of  L001; L002; L003; L010; L007  is a fixed point of each of the five *)
+
+Lemma thread_chars : forall ls st flag, map (fun fl : bool * list cc => chars (snd fl)) (thread st flag ls) = ls.
+Proof.
+  induction ls as [|l r IH]; intros st flag; [reflexivity|]. cbn [thread map snd]. rewrite chars_combine by apply lex_length.
+  f_equal. apply IH.
+Qed.
+
+Lemma clines_chars : forall t, join_nl (map (fun fl : bool * list cc => chars (snd fl)) (clines t)) = t.
+Proof. intro t. rewrite clines_thread. rewrite thread_chars. apply join_split. Qed.
+
+(* every classified line of t is a fixed point of the line rewriter f *)
+Definition Lfix (f : list cc -> list cc) (t : list ch) : Prop := Forall (fun fl : bool * list cc => f (snd fl) = snd fl) (clines t).
+
+Lemma Lfix_fixed : forall f t, Lfix f t -> per_cline f t = t.
+Proof.
+  intros f t H. unfold per_cline. rewrite <- (clines_chars t) at 2. f_equal. apply map_ext_in. intros fl Hfl.
+  unfold Lfix in H. rewrite Forall_forall in H. rewrite (H fl Hfl). reflexivity.
+Qed.
+
+Lemma Lfix_per : forall f g t, lock g -> (forall l, f l = l -> f (g l) = g l) -> Lfix f t -> Lfix f (per_cline g t).
+Proof.
+  intros f g t Hg Hs H. unfold Lfix in *. rewrite (relex g t Hg). rewrite Forall_forall in *. intros fl Hfl.
+  apply in_map_iff in Hfl. destruct Hfl as (fl0 & E & H0). subst fl. unfold on_snd. cbn [snd]. apply Hs. apply H. exact H0.
+Qed.
+
+Lemma Lfix_self : forall f t, lock f -> (forall l, f (f l) = f l) -> Lfix f (per_cline f t).
+Proof.
+  intros f t Hf Hi. unfold Lfix. rewrite (relex f t Hf). rewrite Forall_forall. intros fl Hfl.
+  apply in_map_iff in Hfl. destruct Hfl as (fl0 & E & H0). subst fl. unfold on_snd. cbn [snd]. apply Hi.
+Qed.
+
+Lemma trim_r_fix_iff : forall {A} (p : A -> bool) l, trim_r p l = l <-> (forall c, lastc l = Some c -> p c = false).
+Proof.
+  intros A p l. split.
+  - intros E c Hc. rewrite <- E in Hc. eapply lastc_trim_r. exact Hc.
+  - induction l as [|c t IH]; intro H; [reflexivity|]. rewrite trim_r_cons. destruct t as [|d t].
+    + cbn [trim_r]. rewrite (H c eq_refl). reflexivity.
+    + rewrite IH; [reflexivity|]. intros x Hx. apply H. rewrite lastc_cons by discriminate. exact Hx.
+Qed.
+
+Lemma lblank_tblank : forall p, lblank p = true -> tblank p = true.
+Proof.
+  intros p H. unfold lblank, tblank, code0 in *. apply andb_prop in H. destruct H as [H1 H2]. rewrite H1, H2. reflexivity.
+Qed.
+
+Lemma cspace_tblank : forall p, cspace p = true -> tblank p = true.
+Proof. intros p H. apply lblank_tblank. apply cspace_lblank. exact H. Qed.
+
+(* a line without a removable trailing blank that consists of indentation only is empty *)
+Lemma all_lblank_S1_nil : forall l, forallb lblank l = true -> trim_r tblank l = l -> l = [].
+Proof.
+  intros l Hb H. destruct (lastc l) as [c|] eqn:E; [|apply lastc_none; exact E].
+  pose proof (proj1 (trim_r_fix_iff tblank l) H c E) as Hc. apply lastc_in in E. rewrite forallb_forall in Hb.
+  rewrite (lblank_tblank c (Hb c E)) in Hc. discriminate.
+Qed.
+
+Lemma S1_tail : forall a b, b <> [] -> trim_r tblank (a ++ b) = a ++ b <-> trim_r tblank b = b.
+Proof.
+  intros a b Hb. rewrite !trim_r_fix_iff. rewrite lastc_app by exact Hb. reflexivity.
+Qed.
+
+Lemma f2_keeps_S1 : forall l, l001_line l = l -> l001_line (l002_line l) = l002_line l.
+Proof.
+  unfold l001_line. intros l H. unfold l002_line, leading_ws. destruct (trim_l lblank l) as [|c r] eqn:E.
+  - apply trim_l_nil_iff in E. rewrite (all_lblank_S1_nil l E H). reflexivity.
+  - apply S1_tail; [discriminate|]. rewrite <- (take_trim_l lblank l) in H. rewrite E in H. apply S1_tail in H; [exact H|discriminate].
+Qed.
+
+Lemma scan10_last : forall r ps c, lastc r = Some c -> cspace c = false -> lastc (l010_scan ps r) = Some c.
+Proof.
+  induction r as [|d t IH]; intros ps c H Hc; [discriminate|]. destruct t as [|e t].
+  - cbn in H. injection H as H. subst d. cbn [l010_scan]. rewrite Hc. reflexivity.
+  - rewrite lastc_cons in H by discriminate. remember (e :: t) as r eqn:Er. clear Er. cbn [l010_scan]. destruct (cspace d).
+    + rewrite lastc_app; [apply IH; assumption|]. intro En. pose proof (IH true c H Hc) as X. rewrite En in X. discriminate.
+    + rewrite lastc_cons; [apply IH; assumption|]. intro En. pose proof (IH false c H Hc) as X. rewrite En in X. discriminate.
+Qed.
+
+Lemma f10_keeps_S1 : forall l, l001_line l = l -> l001_line (l010_line l) = l010_line l.
+Proof.
+  unfold l001_line. intros l H. unfold l010_line. destruct (trim_l lblank l) as [|c r] eqn:E.
+  - apply trim_l_nil_iff in E. rewrite (all_lblank_S1_nil l E H). reflexivity.
+  - rewrite <- (take_trim_l lblank l) in H. rewrite E in H. apply S1_tail in H; [|discriminate].
+    destruct (lastc (c :: r)) as [d|] eqn:Ed; [|apply lastc_none in Ed; discriminate].
+    pose proof (proj1 (trim_r_fix_iff tblank _) H d Ed) as Hd.
+    assert (Hs : cspace d = false) by (destruct (cspace d) eqn:X; [rewrite (cspace_tblank d X) in Hd; discriminate|reflexivity]).
+    pose proof (scan10_last (c :: r) false d Ed Hs) as Hl.
+    apply S1_tail; [intro En; rewrite En in Hl; discriminate|]. apply trim_r_fix_iff. intros x Hx. rewrite Hl in Hx. injection Hx as Hx. subst. exact Hd.
+Qed.
+
+(* L002 on lines *)
+Definition S2 (l : list cc) : Prop := existsb (fun p : ch * N => is_tab (fst p)) (take_l lblank l) = false.
+
+Lemma S2_fixed : forall l, S2 l -> l002_line l = l.
+Proof.
+  intros l H. unfold l002_line, leading_ws. rewrite <- (take_trim_l lblank l) at 3. f_equal. apply flat_map_tab4_notab.
+  unfold S2 in H. induction (take_l lblank l) as [|c t IH]; [reflexivity|].
+  cbn in *. apply orb_false_elim in H. destruct H as [H1 H2]. rewrite H1. cbn. apply IH. exact H2.
+Qed.
+
+Lemma fixed_S2 : forall l, l002_line l = l -> S2 l.
+Proof. intros l H. unfold S2. rewrite <- H. apply l002_fixed_leading. Qed.
+
+Lemma take_l_app_stop : forall {A} (q : A -> bool) a p r, forallb q a = true -> q p = false -> take_l q (a ++ p :: r) = a.
+Proof. intros A q a p r Ha Hp. rewrite take_l_app_all by exact Ha. rewrite take_l_stop by exact Hp. apply app_nil_r. Qed.
+
+Lemma f10_lead : forall l, take_l lblank (l010_line l) = take_l lblank l.
+Proof.
+  intro l. unfold l010_line. destruct (trim_l lblank l) as [|p r] eqn:E.
+  - cbn [l010_scan]. rewrite app_nil_r. apply take_l_all_id. apply take_l_all.
+  - pose proof (trim_l_head _ _ _ _ E) as Hp. cbn [l010_scan].
+    assert (Hc : cspace p = false) by (destruct (cspace p) eqn:X; [rewrite (cspace_lblank p X) in Hp; discriminate|reflexivity]).
+    rewrite Hc. apply take_l_app_stop; [apply take_l_all|exact Hp].
+Qed.
+
+Lemma f10_keeps_S2 : forall l, l002_line l = l -> l002_line (l010_line l) = l010_line l.
+Proof. intros l H. apply S2_fixed. unfold S2. rewrite f10_lead. apply fixed_S2. exact H. Qed.
+
+(* L010 on lines: nothing to remove *)
+Fixpoint ok10 (ps : bool) (l : list cc) : bool :=
+  match l with
+  | [] => true
+  | p :: t => if cspace p then negb ps && ok10 true t else ok10 false t
+  end.
+
+Lemma scan10_len : forall l ps, (length (l010_scan ps l) <= length l)%nat.
+Proof.
+  induction l as [|p t IH]; intro ps; [cbn; lia|]. cbn [l010_scan]. destruct (cspace p).
+  - rewrite app_length. specialize (IH true). destruct ps; cbn [length]; lia.
+  - cbn [length]. specialize (IH false). lia.
+Qed.
+
+Lemma scan10_fix_iff : forall l ps, l010_scan ps l = l <-> ok10 ps l = true.
+Proof.
+  induction l as [|p t IH]; intro ps; [split; reflexivity|]. cbn [l010_scan ok10]. destruct (cspace p).
+  - destruct ps; cbn [negb andb app].
+    + split; [|discriminate]. intro E. pose proof (scan10_len t true) as L. rewrite E in L. cbn [length] in L. lia.
+    + rewrite <- IH. split; [intro E; injection E as E; exact E|intro E; rewrite E; reflexivity].
+  - rewrite <- IH. split; [intro E; injection E as E; exact E|intro E; rewrite E; reflexivity].
+Qed.
+
+Lemma line10_fix_iff : forall l, l010_line l = l <-> ok10 false (trim_l lblank l) = true.
+Proof.
+  intro l. unfold l010_line. rewrite <- scan10_fix_iff. split.
+  - intro E. rewrite <- (take_trim_l lblank l) in E at 3. apply app_inv_head in E. exact E.
+  - intro E. rewrite E. apply take_trim_l.
+Qed.
+
+Section CliIdem.
   Variables is_letter is_digit is_space : N -> bool.
   Variable upper_ascii : N -> option N.
   Variable keywords : list (list N).
+  Hypothesis up_plain : forall x u, upper_ascii x = Some u -> plainN x /\ plainN u.
+  Hypothesis up_letter : forall x u, upper_ascii x = Some u -> is_letter u = true.
+  Hypothesis up_idem : forall x u, upper_ascii x = Some u -> upper_ascii u = Some u.
+  Hypothesis up_nows : forall x u, upper_ascii x = Some u -> is_space x = false /\ x <> 32 /\ x <> 9 /\ x <> 10.
+  Hypothesis sp_nodelim : sp_ok is_space.
+  Hypothesis sp32 : is_space 32 = true.
 
-  Theorem l002_location : forall t n col, In (n, col) (l002_check t) ->
-    (1 <= n <= length (split_nl t))%nat /\ col = 1%nat /\ exists l, nth_error (split_nl t) (n - 1) = Some l /\ l <> [].
+  Notation prel := (prel upper_ascii).
+  Notation f7 := (l007_line is_letter is_digit upper_ascii keywords).
+  Notation cblank := (cblank is_space).
+  Notation pass := (l003_pass is_space).
+
+  Lemma f7_prel : forall l, Forall2 prel l (f7 l).
+  Proof. intro l. apply line7_prel. Qed.
+
+  (* a related character has the same layout role *)
+  Lemma prel_roles : forall p p', prel p p' ->
+    tblank p' = tblank p /\ lblank p' = lblank p /\ cspace p' = cspace p /\ spacec is_space (fst p') = spacec is_space (fst p) /\
+    (lblank p = true -> p' = p).
   Proof.
-    intros t n col H. unfold l002_check in H. destruct (l002_lines_loc _ _ _ _ _ H) as (A & B & l & C & D).
-    split; [lia|]. split; [exact B|]. exists l. split; [exact C|]. intro E. subst. apply D. reflexivity.
+    intros p p' [H|(K & u & H1 & H2)]; [subst; repeat split; reflexivity|]. subst p'.
+    destruct (up_nows _ _ H1) as (A & B & C & _). destruct (up_nows _ _ (up_idem _ _ H1)) as (A' & B' & C' & _).
+    assert (Eb : is_blank (fst p) = false).
+    { unfold is_blank, is_sp, is_tab. apply N.eqb_neq in B. apply N.eqb_neq in C. rewrite B, C. reflexivity. }
+    assert (Eb' : is_blank (asc u) = false).
+    { unfold is_blank, is_sp, is_tab. cbn [asc cp]. apply N.eqb_neq in B'. apply N.eqb_neq in C'. rewrite B', C'. reflexivity. }
+    assert (Es : is_sp (fst p) = false) by (unfold is_blank in Eb; apply orb_false_elim in Eb; tauto).
+    assert (Es' : is_sp (asc u) = false) by (unfold is_blank in Eb'; apply orb_false_elim in Eb'; tauto).
+    unfold tblank, lblank, cspace, spacec. cbn [fst snd]. rewrite Eb, Eb', Es, Es'. cbn [asc cp]. rewrite A, A'.
+    repeat split; try reflexivity. discriminate.
   Qed.
 
-  Theorem l003_location : forall mx t n col, In (n, col) (l003_check_mx is_space mx t) ->
-    (1 <= n <= length (split_nl t))%nat /\ col = 1%nat.
+  Lemma prel_lastc : forall l l', Forall2 prel l l' ->
+    match lastc l, lastc l' with Some p, Some p' => prel p p' | None, None => True | _, _ => False end.
   Proof.
-    intros mx t n col H. unfold l003_check_mx in H. destruct (l003_lines_loc _ _ _ _ _ _ _ _ H (or_introl eq_refl)) as (A & B).
-    split; [|exact A]. destruct B as [(B1 & _)|B]; [contradiction|lia].
+    intros l l' H. induction H as [|p p' t t' Hp Ht IH]; [exact I|]. destruct Ht as [|q q' t t' Hq Ht].
+    - cbn. exact Hp.
+    - rewrite (lastc_cons p (q :: t)) by discriminate. rewrite (lastc_cons p' (q' :: t')) by discriminate. exact IH.
   Qed.
 
-End Loc.
+  Lemma f7_keeps_S1 : forall l, l001_line l = l -> l001_line (f7 l) = f7 l.
+  Proof.
+    unfold l001_line. intros l H. apply trim_r_fix_iff. intros c' Hc'. pose proof (prel_lastc _ _ (f7_prel l)) as R.
+    rewrite Hc' in R. destruct (lastc l) as [c|] eqn:E; [|contradiction].
+    destruct (prel_roles _ _ R) as (T & _). rewrite T. apply (proj1 (trim_r_fix_iff tblank l) H). exact E.
+  Qed.
+
+  Lemma prel_take : forall l l', Forall2 prel l l' -> take_l lblank l' = take_l lblank l /\ Forall2 prel (trim_l lblank l) (trim_l lblank l').
+  Proof.
+    intros l l' H. induction H as [|p p' t t' Hp Ht IH]; [split; [reflexivity|constructor]|].
+    destruct (prel_roles _ _ Hp) as (_ & L & _ & _ & Same). cbn [take_l trim_l]. rewrite L. destruct (lblank p) eqn:E.
+    - rewrite (Same eq_refl). destruct IH as [IH1 IH2]. rewrite IH1. split; [reflexivity|exact IH2].
+    - split; [reflexivity|]. constructor; assumption.
+  Qed.
+
+  Lemma f7_keeps_S2 : forall l, l002_line l = l -> l002_line (f7 l) = f7 l.
+  Proof.
+    intros l H. apply S2_fixed. unfold S2. destruct (prel_take _ _ (f7_prel l)) as [E _]. rewrite E. apply fixed_S2. exact H.
+  Qed.
+
+  Lemma prel_ok10 : forall l l', Forall2 prel l l' -> forall ps, ok10 ps l' = ok10 ps l.
+  Proof.
+    intros l l' H. induction H as [|p p' t t' Hp Ht IH]; intro ps; [reflexivity|]. cbn [ok10].
+    destruct (prel_roles _ _ Hp) as (_ & _ & C & _). rewrite C. destruct (cspace p); rewrite IH; reflexivity.
+  Qed.
+
+  Lemma f7_keeps_S10 : forall l, l010_line l = l -> l010_line (f7 l) = f7 l.
+  Proof.
+    intros l H. apply line10_fix_iff. destruct (prel_take _ _ (f7_prel l)) as [_ R]. rewrite (prel_ok10 _ _ R).
+    apply line10_fix_iff. exact H.
+  Qed.
+
+  (* blank lines *)
+  Lemma blank_line_iff : forall l, blank_line is_space l = forallb (spacec is_space) l.
+  Proof.
+    intro l. destruct (blank_line is_space l) eqn:E; [symmetry; apply blank_line_all; exact E|].
+    symmetry. apply not_true_is_false. intro H. unfold blank_line, trim_space in E.
+    apply trim_l_nil_iff in H. rewrite H in E. discriminate.
+  Qed.
+
+  Lemma cspace_spacec : forall p, cspace p = true -> spacec is_space (fst p) = true.
+  Proof.
+    intros p H. unfold cspace in H. apply andb_prop in H. destruct H as [H _]. unfold is_sp in H. apply N.eqb_eq in H.
+    unfold spacec. rewrite H. exact sp32.
+  Qed.
+
+  Lemma scan10_blank : forall l ps, forallb (fun p : cc => spacec is_space (fst p)) (l010_scan ps l) = forallb (fun p : cc => spacec is_space (fst p)) l.
+  Proof.
+    induction l as [|p t IH]; intro ps; [reflexivity|]. cbn [l010_scan]. destruct (cspace p) eqn:E.
+    - rewrite forallb_app. rewrite IH. destruct ps; cbn [forallb]; rewrite ?(cspace_spacec p E); reflexivity.
+    - cbn [forallb]. rewrite IH. reflexivity.
+  Qed.
+
+  Lemma forallb_chars : forall (q : ch -> bool) l, forallb q (chars l) = forallb (fun p : cc => q (fst p)) l.
+  Proof. intros q l. unfold chars. induction l as [|p t IH]; [reflexivity|]. cbn. rewrite IH. reflexivity. Qed.
+
+  Lemma f10_cblank : forall fl, cblank (on_snd l010_line fl) = cblank fl.
+  Proof.
+    intros [flag l]. unfold Lint.cblank, on_snd. cbn [fst snd]. f_equal. rewrite !blank_line_iff. rewrite !forallb_chars.
+    unfold l010_line. rewrite forallb_app. rewrite scan10_blank. rewrite <- forallb_app. rewrite take_trim_l. reflexivity.
+  Qed.
+
+  Lemma prel_blank : forall l l', Forall2 prel l l' ->
+    forallb (fun p : cc => spacec is_space (fst p)) l' = forallb (fun p : cc => spacec is_space (fst p)) l.
+  Proof.
+    intros l l' H. induction H as [|p p' t t' Hp Ht IH]; [reflexivity|]. cbn [forallb].
+    destruct (prel_roles _ _ Hp) as (_ & _ & _ & S & _). rewrite S, IH. reflexivity.
+  Qed.
+
+  Lemma f7_cblank : forall fl, cblank (on_snd f7 fl) = cblank fl.
+  Proof.
+    intros [flag l]. unfold Lint.cblank, on_snd. cbn [fst snd]. f_equal. rewrite !blank_line_iff. rewrite !forallb_chars.
+    apply prel_blank. apply f7_prel.
+  Qed.
+
+  Lemma pass_map : forall g, (forall fl, cblank (on_snd g fl) = cblank fl) -> forall mx ls c,
+    pass mx c (map (on_snd g) ls) = map (on_snd g) (pass mx c ls).
+  Proof.
+    intros g Hg mx. induction ls as [|x r IH]; intro c; [reflexivity|]. cbn [map l003_pass]. rewrite Hg.
+    destruct (cblank x); [destruct (S c <=? mx)%nat|]; cbn [map]; rewrite IH; reflexivity.
+  Qed.
+
+  (* the text is a fixed point of L003 *)
+  Definition P3 (t : list ch) : Prop := pass 1 0 (clines t) = clines t.
+
+  Lemma P3_fixed : forall t, P3 t -> l003_fix is_space t = t.
+  Proof.
+    intros t H. unfold l003_fix, l003_fix_mx. rewrite l003_lines_eq. unfold P3 in H. rewrite H. apply clines_chars.
+  Qed.
+
+  Lemma P3_self : forall t, P3 (l003_fix is_space t).
+  Proof.
+    intro t. unfold P3, l003_fix. rewrite (l003_relex is_space sp_nodelim 1 t) by lia.
+    apply pass_fixed. exact (pass_bounded is_space 1 (clines t) 0%nat).
+  Qed.
+
+  Lemma P3_per : forall g t, lock g -> (forall fl, cblank (on_snd g fl) = cblank fl) -> P3 t -> P3 (per_cline g t).
+  Proof.
+    intros g t Hl Hg H. unfold P3 in *. rewrite (relex g t Hl). rewrite (pass_map g Hg). rewrite H. reflexivity.
+  Qed.
+
+  Lemma Lfix_l003 : forall f t, Lfix f t -> Lfix f (l003_fix is_space t).
+  Proof.
+    intros f t H. unfold Lfix, l003_fix in *. rewrite (l003_relex is_space sp_nodelim 1 t) by lia.
+    rewrite Forall_forall in *. intros fl Hfl. apply H. eapply pass_incl. exact Hfl.
+  Qed.
+
+  Notation cli := (cli_fix is_letter is_digit is_space upper_ascii keywords).
+  Notation fix7 := (l007_fix is_letter is_digit upper_ascii keywords).
+
+  Lemma l007_lock' : lock f7.
+  Proof. apply l007_lock. exact up_plain. Qed.
+
+  Theorem cli_fixed_points : forall t,
+    l001_fix (cli t) = cli t /\ l002_fix (cli t) = cli t /\ l003_fix is_space (cli t) = cli t /\
+    l010_fix (cli t) = cli t /\ fix7 (cli t) = cli t.
+  Proof.
+    intro t. unfold cli_fix. set (t1 := l001_fix t). set (t2 := l002_fix t1). set (t3 := l003_fix is_space t2).
+    set (t10 := l010_fix t3). set (t7 := fix7 t10).
+    assert (A1 : Lfix l001_line t7).
+    { apply Lfix_per; [exact l007_lock'|exact f7_keeps_S1|]. apply Lfix_per; [exact l010_lock|exact f10_keeps_S1|].
+      apply Lfix_l003. apply Lfix_per; [exact l002_lock|exact f2_keeps_S1|]. apply Lfix_self; [exact l001_lock|]. intro l. apply trim_r_idem. }
+    assert (A2 : Lfix l002_line t7).
+    { apply Lfix_per; [exact l007_lock'|exact f7_keeps_S2|]. apply Lfix_per; [exact l010_lock|exact f10_keeps_S2|].
+      apply Lfix_l003. apply Lfix_self; [exact l002_lock|exact l002_line_idem]. }
+    assert (A3 : P3 t7).
+    { apply P3_per; [exact l007_lock'|exact f7_cblank|]. apply P3_per; [exact l010_lock|exact f10_cblank|]. apply P3_self. }
+    assert (A10 : Lfix l010_line t7).
+    { apply Lfix_per; [exact l007_lock'|exact f7_keeps_S10|]. apply Lfix_self; [exact l010_lock|exact l010_line_idem]. }
+    assert (A7 : Lfix f7 t7).
+    { apply Lfix_self; [exact l007_lock'|]. apply (l007_line_idem is_letter is_digit upper_ascii keywords up_letter up_idem). }
+    split; [apply (Lfix_fixed l001_line); exact A1|]. split; [apply (Lfix_fixed l002_line); exact A2|].
+    split; [apply P3_fixed; exact A3|]. split; [apply (Lfix_fixed l010_line); exact A10|apply (Lfix_fixed f7); exact A7].
+  Qed.
+
+  Theorem cli_fix_idempotent : forall t, cli (cli t) = cli t.
+  Proof.
+    intro t. destruct (cli_fixed_points t) as (E1 & E2 & E3 & E10 & E7).
+    unfold cli_fix at 1. rewrite E1, E2, E3, E10, E7. reflexivity.
+  Qed.
+End CliIdem.
 
 (* ------------------------------------------------------------------------------------------------ *)
-(* ---------------- byte level, for texts made of ASCII bytes ---------------- *)
+(* well-formed characters: what [decode] produces *)
+Lemma wfc_asc : forall b, wfc (asc b).
+Proof.
+  intro b. unfold wfc, asc. cbn [raw cp valid]. split; [discriminate|]. split; [|split].
+  - intros x [Hx|[]] _. subst. split; reflexivity.
+  - intros _. reflexivity.
+  - intros _. reflexivity.
+Qed.
+
+Lemma wfc_high : forall p r v, r <> [] -> (forall b, In b r -> 128 <= b) -> 128 <= p -> wfc (mkch p r v).
+Proof.
+  intros p r v Hr Hb Hp. unfold wfc. cbn [raw cp valid]. split; [exact Hr|]. split; [|split].
+  - intros b Hin Hlt. specialize (Hb b Hin). lia.
+  - intro Hlt. lia.
+  - intro Hlt. lia.
+Qed.
+
+Lemma between_spec : forall lo x hi, between lo x hi = true -> lo <= x /\ x <= hi.
+Proof. intros lo x hi H. unfold between in H. apply andb_prop in H. destruct H as [H1 H2]. apply N.leb_le in H1. apply N.leb_le in H2. split; assumption. Qed.
+Lemma cont_spec : forall b, cont b = true -> 128 <= b /\ b <= 191.
+Proof. intros b H. unfold cont in H. apply andb_prop in H. destruct H as [H1 H2]. apply N.leb_le in H1. apply N.leb_le in H2. split; assumption. Qed.
+
+Lemma dec1_wf : forall b0 t, wfc (dec1 (b0 :: t)).
+Proof.
+  intros b0 t. cbn [dec1].
+  destruct (b0 <? 128) eqn:E0; [apply wfc_asc|]. apply N.ltb_ge in E0.
+  assert (Hbad : wfc (badc b0)).
+  { apply wfc_high; [discriminate| |lia]. intros b [Hb|[]]. subst. exact E0. }
+  destruct (between 194 b0 223) eqn:E1.
+  { apply between_spec in E1. destruct t as [|b1 t]; [exact Hbad|]. destruct (cont b1) eqn:C1; [|exact Hbad].
+    apply cont_spec in C1. apply wfc_high; [discriminate| |lia].
+    intros b [Hb|[Hb|[]]]; subst; lia. }
+  destruct (between 224 b0 239) eqn:E2.
+  { apply between_spec in E2. destruct t as [|b1 [|b2 t]]; try exact Hbad.
+    destruct (between (if b0 =? 224 then 160 else 128) b1 (if b0 =? 237 then 159 else 191) && cont b2) eqn:C; [|exact Hbad].
+    apply andb_prop in C. destruct C as [C1 C2]. apply between_spec in C1. apply cont_spec in C2.
+    apply wfc_high; [discriminate| |].
+    - intros b [Hb|[Hb|[Hb|[]]]]; subst; try lia. destruct (b0 =? 224); lia.
+    - destruct (b0 =? 224) eqn:Eb; [apply N.eqb_eq in Eb; subst; lia|apply N.eqb_neq in Eb; lia]. }
+  destruct (between 240 b0 244) eqn:E3.
+  { apply between_spec in E3. destruct t as [|b1 [|b2 [|b3 t]]]; try exact Hbad.
+    destruct (between (if b0 =? 240 then 144 else 128) b1 (if b0 =? 244 then 143 else 191) && cont b2 && cont b3) eqn:C; [|exact Hbad].
+    apply andb_prop in C. destruct C as [C C3]. apply andb_prop in C. destruct C as [C1 C2].
+    apply between_spec in C1. apply cont_spec in C2. apply cont_spec in C3.
+    apply wfc_high; [discriminate| |].
+    - intros b [Hb|[Hb|[Hb|[Hb|[]]]]]; subst; try lia. destruct (b0 =? 240); lia.
+    - destruct (b0 =? 240) eqn:Eb; [apply N.eqb_eq in Eb; subst; lia|apply N.eqb_neq in Eb; lia]. }
+  exact Hbad.
+Qed.
+
+Lemma decode_go_wf : forall s skip, wft (decode_go skip s).
+Proof.
+  induction s as [|b t IH]; intros skip c Hc; [destruct Hc|].
+  cbn [decode_go] in Hc. destruct skip as [|k].
+  - destruct Hc as [Hc|Hc]; [subst; apply dec1_wf|eapply IH; exact Hc].
+  - eapply IH; exact Hc.
+Qed.
+
+Theorem decode_wf : forall s, wft (decode s).
+Proof. intro s. apply decode_go_wf. Qed.
+
+(* ------------------------------------------------------------------------------------------------ *)
+(* L010: re-lint after fix *)
+
+Fixpoint run_after (run : nat) (l : list ch) : nat :=
+  match l with [] => run | c :: t => if is_sp c then run_after (S run) t else run_after 0 t end.
+
+Lemma sp_runs_snoc : forall a c off run rs,
+  (is_sp c = true -> run_after run a = 0%nat) -> sp_runs off run rs (a ++ [c]) = sp_runs off run rs a.
+Proof.
+  induction a as [|d a IH]; intros c off run rs H.
+  - cbn [app sp_runs run_after] in *. destruct (is_sp c) eqn:E.
+    + rewrite (H eq_refl). cbn [Nat.leb Nat.eqb sp_runs]. reflexivity.
+    + cbn [sp_runs Nat.leb]. rewrite app_nil_r. reflexivity.
+  - cbn [app sp_runs run_after] in *. destruct (is_sp d).
+    + apply IH. exact H.
+    + f_equal. apply IH. exact H.
+Qed.
+
+Definition tailsp (cur : list ch) : bool := match cur with c :: _ => is_sp c | [] => false end.
+
+Lemma run_after_snoc : forall a c run, run_after run (a ++ [c]) = if is_sp c then S (run_after run a) else 0%nat.
+Proof. induction a as [|d a IH]; intros c run; cbn [app run_after]; [reflexivity|]. destruct (is_sp d); apply IH. Qed.
+
+Lemma run_after_rev : forall cur, tailsp cur = false -> run_after 0 (rev cur) = 0%nat.
+Proof.
+  intros [|c cur] H; [reflexivity|]. cbn [rev]. rewrite run_after_snoc. cbn [tailsp] in H. rewrite H. reflexivity.
+Qed.
+
+(* a run of two or more spaces lies inside the text *)
+Lemma sp_runs_bound : forall a off run rs m, (forall c, In c a -> (1 <= width c)%nat) -> (rs + run <= off)%nat ->
+  In m (sp_runs off run rs a) -> (m + 2 <= off + blen a)%nat.
+Proof.
+  induction a as [|c t IH]; intros off run rs m Hw Hinv H.
+  - cbn [sp_runs] in H. destruct (2 <=? run)%nat eqn:E; [|destruct H]. destruct H as [H|[]]. subst. apply Nat.leb_le in E. cbn [blen fold_right]. lia.
+  - rewrite blen_cons. assert (W : (1 <= width c)%nat) by (apply Hw; left; reflexivity).
+    assert (Ht : forall d, In d t -> (1 <= width d)%nat) by (intros d Hd; apply Hw; right; exact Hd).
+    cbn [sp_runs] in H. destruct (is_sp c).
+    + assert (G := IH (off + width c)%nat (S run) (if (run =? 0)%nat then off else rs) m Ht).
+      assert (G' : (m + 2 <= off + width c + blen t)%nat) by (apply G; [destruct (run =? 0)%nat eqn:E; [apply Nat.eqb_eq in E; lia|apply Nat.eqb_neq in E; lia]|exact H]). lia.
+    + apply in_app_or in H. destruct H as [H|H].
+      * destruct (2 <=? run)%nat eqn:E; [|destruct H]. destruct H as [H|[]]. subst. apply Nat.leb_le in E. lia.
+      * assert (G := IH (off + width c)%nat 0%nat rs m Ht). assert (G' : (m + 2 <= off + width c + blen t)%nat) by (apply G; [lia|exact H]). lia.
+Qed.
+
+Definition bb (b : N) : bool := (b =? 32) || (b =? 9).
+Definition okpart (L : list ch) (p : nat * list ch) : Prop :=
+  forall m, In m (sp_runs 0 0 0 (snd p)) -> forallb bb (firstn (S (fst p + m)) (encode L)) = true.
+
+Lemma check_line_nil : forall n fl, (forall p, In p (l010_parts 0 0 [] (snd fl)) -> okpart (chars (snd fl)) p) -> l010_check_line n fl = [].
+Proof.
+  intros n fl H. unfold l010_check_line. cbv zeta. induction (l010_parts 0 0 [] (snd fl)) as [|p ps IH]; [reflexivity|].
+  cbn [flat_map]. rewrite IH by (intros q Hq; apply H; right; exact Hq). rewrite app_nil_r.
+  assert (Hp := H p (or_introl eq_refl)). unfold okpart in Hp.
+  induction (sp_runs 0 0 0 (snd p)) as [|m ms IHm]; [reflexivity|]. cbn [flat_map].
+  assert (E := Hp m (or_introl eq_refl)). unfold bb in E. rewrite E. cbn [app]. apply IHm. intros m' Hm'. apply Hp. right. exact Hm'.
+Qed.
+
+Lemma parts_ok : forall L x i start cur,
+  ok10 (tailsp cur) x = true -> (cur <> [] -> okpart L (start, rev cur)) ->
+  forall p, In p (l010_parts i start cur x) -> okpart L p.
+Proof.
+  intros L. induction x as [|c t IH]; intros i start cur Hd Hc p Hp.
+  - cbn [l010_parts] in Hp. destruct cur as [|d cur]; [destruct Hp|]. destruct Hp as [Hp|[]]. subst. apply Hc. discriminate.
+  - cbn [l010_parts ok10] in *. cbv zeta in Hp. destruct (code0 c) eqn:Ec.
+    + assert (Ecs : cspace c = is_sp (fst c)) by (unfold cspace; rewrite Ec; apply andb_true_r).
+      rewrite Ecs in Hd.
+      assert (Hd' : ok10 (is_sp (fst c)) t = true /\ (is_sp (fst c) = true -> tailsp cur = false)).
+      { destruct (is_sp (fst c)); [apply andb_prop in Hd; destruct Hd as [H1 H2]; split; [exact H2|intros _; destruct (tailsp cur); [discriminate|reflexivity]]|split; [exact Hd|discriminate]]. }
+      destruct Hd' as [Hd1 Hd2].
+      refine (IH _ _ (fst c :: cur) _ _ p Hp); [cbn [tailsp]; exact Hd1|].
+      intros _. cbn [rev]. destruct cur as [|d cur].
+      * cbn [rev app]. intros m Hm. cbn [snd sp_runs] in Hm. destruct (is_sp (fst c)); cbn in Hm; destruct Hm.
+      * intros m Hm. cbn [snd fst] in *. rewrite sp_runs_snoc in Hm.
+        -- apply (Hc ltac:(discriminate) m). exact Hm.
+        -- intro Hs. apply run_after_rev. apply Hd2. exact Hs.
+    + apply in_app_or in Hp. destruct Hp as [Hp|Hp].
+      * destruct cur as [|d cur]; [destruct Hp|]. destruct Hp as [Hp|[]]. subst. apply Hc. discriminate.
+      * assert (Hn : cspace c = false) by (unfold cspace; rewrite Ec; apply andb_false_r). rewrite Hn in Hd.
+        apply (IH _ _ [] Hd (fun Hx => False_ind _ (Hx eq_refl)) p Hp).
+Qed.
+
+Lemma lblank_code0 : forall p, lblank p = true -> code0 p = true.
+Proof. intros p H. unfold lblank in H. apply andb_prop in H. tauto. Qed.
+
+Lemma parts_lead : forall a x i start cur, forallb lblank a = true ->
+  l010_parts i start cur (a ++ x) =
+  l010_parts (i + blen (chars a)) (match cur, a with [], _ :: _ => i | _, _ => start end) (rev (chars a) ++ cur) x.
+Proof.
+  induction a as [|c a IH]; intros x i start cur H.
+  - cbn [app chars map blen fold_right rev]. rewrite Nat.add_0_r. destruct cur; reflexivity.
+  - cbn in H. apply andb_prop in H. destruct H as [H1 H2]. cbn [app l010_parts]. cbv zeta. rewrite (lblank_code0 c H1).
+    rewrite IH by exact H2. unfold chars. cbn [map]. rewrite blen_cons. cbn [rev]. rewrite <- app_assoc. cbn [app].
+    rewrite Nat.add_assoc. destruct cur; destruct a; reflexivity.
+Qed.
+
+Lemma ok10_head : forall c t ps, cspace c = false -> ok10 ps (c :: t) = ok10 false (c :: t).
+Proof. intros c t ps H. cbn [ok10]. rewrite H. reflexivity. Qed.
+
+(* blank characters of a well-formed text are the single bytes 20 / 09 *)
+Lemma wf_blank : forall c, wfc c -> is_blank c = true -> width c = 1%nat /\ exists b, raw c = [b] /\ bb b = true.
+Proof.
+  intros c (Hne & Hb & Hc & Hv) H.
+  assert (Hlt : cp c < 128) by (unfold is_blank, is_sp, is_tab in H; apply orb_prop in H; destruct H as [H|H]; apply N.eqb_eq in H; lia).
+  unfold width. rewrite (Hc Hlt). split; [reflexivity|]. exists (cp c). split; [reflexivity|]. unfold bb. exact H.
+Qed.
+
+Lemma lead_facts : forall a : list cc, (forall p, In p a -> wfc (fst p)) -> forallb lblank a = true ->
+  blen (chars a) = length (encode (chars a)) /\ forallb bb (encode (chars a)) = true /\ (forall c, In c (chars a) -> (1 <= width c)%nat).
+Proof.
+  induction a as [|c a IH]; intros Hw Hb; [repeat split; intros c []|].
+  cbn in Hb. apply andb_prop in Hb. destruct Hb as [H1 H2].
+  assert (B1 : is_blank (fst c) = true) by (unfold lblank in H1; apply andb_prop in H1; tauto).
+  destruct (wf_blank (fst c) (Hw c (or_introl eq_refl)) B1) as (W2 & b & W3 & W4).
+  destruct (IH (fun d Hd => Hw d (or_intror Hd)) H2) as (I2 & I3 & I4). cbn [chars map]. fold (chars a).
+  split; [rewrite blen_cons; unfold width; unfold encode in *; cbn [flat_map]; rewrite app_length, W3; cbn [length]; rewrite <- I2; reflexivity|].
+  split; [unfold encode in *; cbn [flat_map]; rewrite W3; cbn [app forallb]; rewrite W4, I3; reflexivity|].
+  intros d [Hd|Hd]; [subst; unfold width; rewrite W3; cbn [length]; lia|apply I4; exact Hd].
+Qed.
+
+Lemma stable_line_clears : forall n fl, (forall p, In p (take_l lblank (snd fl)) -> wfc (fst p)) ->
+  l010_line (snd fl) = snd fl -> l010_check_line n fl = [].
+Proof.
+  intros n [flag L] Hw Hst. cbn [snd] in *. apply check_line_nil. cbn [snd]. apply line10_fix_iff in Hst.
+  set (lead := take_l lblank L) in *. set (rest := trim_l lblank L) in *.
+  assert (EL : L = lead ++ rest) by (symmetry; apply take_trim_l).
+  pose proof (take_l_all lblank L) as Hlb. fold lead in Hlb.
+  destruct (lead_facts lead Hw Hlb) as (F2 & F3 & F4).
+  intros p Hp. rewrite EL in Hp at 1. rewrite parts_lead in Hp by exact Hlb. rewrite app_nil_r in Hp.
+  refine (parts_ok (chars L) rest _ _ (rev (chars lead)) _ _ p Hp).
+  - destruct rest as [|c0 r0] eqn:E; [reflexivity|]. pose proof (trim_l_head _ _ _ _ E) as Hc0.
+    rewrite ok10_head; [exact Hst|]. destruct (cspace c0) eqn:X; [rewrite (cspace_lblank c0 X) in Hc0; discriminate|reflexivity].
+  - intros _. rewrite rev_involutive. intros m Hm. cbn [fst snd] in *.
+    assert (Bm : (m + 2 <= 0 + blen (chars lead))%nat) by (apply (sp_runs_bound (chars lead) 0%nat 0%nat 0%nat m F4 (le_n 0) Hm)).
+    replace (match lead with [] => 0%nat | _ :: _ => 0%nat end + m)%nat with m by (destruct lead; lia).
+    assert (Bl : (S m <= length (encode (chars lead)))%nat) by lia.
+    rewrite EL. unfold chars. rewrite map_app. unfold encode. rewrite flat_map_app.
+    rewrite firstn_app_le by exact Bl. apply forallb_firstn. exact F3.
+Qed.
+
+Lemma clines_in_text : forall t fl p, In fl (clines t) -> In p (snd fl) -> In (fst p) t.
+Proof.
+  intros t fl p Hfl Hp. rewrite clines_thread in Hfl.
+  assert (Hl : In (chars (snd fl)) (split_nl t)).
+  { rewrite <- (thread_chars (split_nl t) SCode true). apply in_map_iff. exists fl. split; [reflexivity|exact Hfl]. }
+  eapply split_incl; [exact Hl|]. unfold chars. apply in_map. exact Hp.
+Qed.
+
+Theorem l010_fix_clears : forall t, wft t -> l010_check (l010_fix t) = [].
+Proof.
+  intros t Hw. unfold l010_check, l010_fix. rewrite (relex l010_line t l010_lock). apply on_clines_nil.
+  intros n fl Hfl. apply in_map_iff in Hfl. destruct Hfl as (fl0 & E & H0). subst.
+  apply stable_line_clears; unfold on_snd; cbn [snd]; [|apply l010_line_idem].
+  intros p Hp. rewrite f10_lead in Hp. apply take_l_incl in Hp. apply Hw. eapply clines_in_text; eassumption.
+Qed.
+
+(* ------------------------------------------------------------------------------------------------ *)
+(* byte level, for texts made of ASCII bytes *)
 Definition ascc (c : ch) : Prop := exists b, b < 128 /\ c = asc b.
 Definition ascl (l : list ch) : Prop := forall c, In c l -> ascc c.
 
@@ -2839,8 +3155,6 @@ Lemma ascl_nil : ascl [].
 Proof. intros c []. Qed.
 Lemma ascc_spc : ascc spc. Proof. exists 32. split; [reflexivity|reflexivity]. Qed.
 Lemma ascc_nlc : ascc nlc. Proof. exists 10. split; [reflexivity|reflexivity]. Qed.
-Lemma ascc_wr : forall c, ascc c -> wr c = c.
-Proof. intros c (b & _ & E). subst. reflexivity. Qed.
 
 Lemma ascl_split : forall t l, ascl t -> In l (split_nl t) -> ascl l.
 Proof. intros t l H Hl c Hc. apply H. eapply split_incl; eassumption. Qed.
@@ -2855,75 +3169,92 @@ Proof.
     + apply IH; [intros l Hl; apply H; right; exact Hl|exact Hc].
 Qed.
 
-Lemma ascl_per_line : forall f t, (forall l, ascl l -> ascl (f l)) -> ascl t -> ascl (per_line f t).
+
+
+Lemma ascl_per_cline : forall f t, (forall l, ascl (chars l) -> ascl (chars (f l))) -> ascl t -> ascl (per_cline f t).
 Proof.
-  intros f t Hf Ht. unfold per_line. apply ascl_join. intros l Hl. apply in_map_iff in Hl. destruct Hl as (l0 & E & Hl0). subst.
-  apply Hf. eapply ascl_split; eassumption.
+  intros f t Hf Ht. unfold per_cline. apply ascl_join. intros l Hl. apply in_map_iff in Hl. destruct Hl as (fl & E & Hfl). subst.
+  apply Hf. intros c Hc. apply in_map_iff in Hc. destruct Hc as (p & Ep & Hp). subst. apply Ht. eapply clines_in_text; eassumption.
+Qed.
+
+Lemma ascl_chars_incl : forall (a b : list cc), (forall p, In p a -> In p b) -> ascl (chars b) -> ascl (chars a).
+Proof.
+  intros a b H Hb c Hc. apply in_map_iff in Hc. destruct Hc as (p & Ep & Hp). subst. apply Hb. unfold chars. apply in_map. apply H. exact Hp.
 Qed.
 
 Lemma ascl_l001 : forall t, ascl t -> ascl (l001_fix t).
 Proof.
-  intros t H. rewrite l001_fix_per_line. apply ascl_per_line; [|exact H]. intros l Hl c Hc. apply Hl. eapply trim_r_incl. exact Hc.
+  intros t H. apply ascl_per_cline; [|exact H]. intros l Hl. eapply ascl_chars_incl; [|exact Hl]. intros p Hp. eapply trim_r_incl. exact Hp.
 Qed.
 
 Lemma ascl_l002 : forall t, ascl t -> ascl (l002_fix t).
 Proof.
-  intros t H. change (l002_fix t) with (per_line l002_fix_line t). apply ascl_per_line; [|exact H]. intros l Hl c Hc.
-  rewrite l002_line_shape in Hc. apply in_app_or in Hc. destruct Hc as [Hc|Hc].
-  - apply in_flat_map in Hc. destruct Hc as (d & Hd & Hc). apply in_tab4 in Hc. destruct Hc as [Hc|Hc]; subst; [apply ascc_spc|].
-    apply Hl. eapply take_l_incl. exact Hd.
-  - apply Hl. eapply trim_l_incl. exact Hc.
+  intros t H. apply ascl_per_cline; [|exact H]. intros l Hl c Hc. apply in_map_iff in Hc. destruct Hc as (p & Ep & Hp). subst.
+  unfold l002_line, leading_ws in Hp. apply in_app_or in Hp. destruct Hp as [Hp|Hp].
+  - apply in_flat_map in Hp. destruct Hp as (d & Hd & Hp). unfold tab4 in Hp. destruct (is_tab (fst d)).
+    + assert (E : p = (spc, 0)) by (cbn in Hp; intuition). subst. apply ascc_spc.
+    + destruct Hp as [Hp|[]]. subst. apply Hl. unfold chars. apply in_map. eapply take_l_incl. exact Hd.
+  - apply Hl. unfold chars. apply in_map. eapply trim_l_incl. exact Hp.
 Qed.
 
 Lemma ascl_l003 : forall is_space t, ascl t -> ascl (l003_fix is_space t).
 Proof.
-  intros is_space t H. unfold l003_fix, l003_fix_mx. fold (l003_lines is_space 1 (split_nl t)). rewrite l003_lines_eq.
-  apply ascl_join. intros l Hl. apply pass_incl in Hl. eapply ascl_split; eassumption.
+  intros is_space t H. unfold l003_fix, l003_fix_mx. rewrite l003_lines_eq.
+  apply ascl_join. intros l Hl. apply in_map_iff in Hl. destruct Hl as (fl & E & Hfl). subst. apply pass_incl in Hfl.
+  intros c Hc. apply in_map_iff in Hc. destruct Hc as (p & Ep & Hp). subst. apply H. eapply clines_in_text; eassumption.
+Qed.
+
+Lemma l010_scan_in : forall l ps p, In p (l010_scan ps l) -> In p l.
+Proof.
+  induction l as [|d t IH]; intros ps p H; [destruct H|]. cbn [l010_scan] in H. destruct (cspace d).
+  - apply in_app_or in H. destruct H as [H|H]; [destruct ps; [destruct H|destruct H as [H|[]]; left; exact H]|right; eapply IH; exact H].
+  - destruct H as [H|H]; [left; exact H|right; eapply IH; exact H].
 Qed.
 
 Lemma ascl_l010 : forall t, ascl t -> ascl (l010_fix t).
 Proof.
-  intros t H. change (l010_fix t) with (per_line l010_fix_line t). apply ascl_per_line; [|exact H]. intros l Hl c Hc.
-  unfold l010_fix_line in Hc.
-  assert (G : forall m, (forall y, In y m -> In y l) -> In c (l010_scan None false m) -> ascc c).
-  { intros m Hm Hin. apply l010_scan_in in Hin. destruct Hin as (d & Hd & [E|E]); subst; [rewrite ascc_wr|]; apply Hl; apply Hm; exact Hd. }
-  destruct (trim_l is_blank l) as [|d r] eqn:E.
-  - eapply G; [|exact Hc]. auto.
-  - apply in_app_or in Hc. destruct Hc as [Hc|Hc]; [apply Hl; eapply take_l_incl; exact Hc|].
-    eapply G; [|exact Hc]. intros y Hy. eapply trim_l_incl. rewrite E. exact Hy.
+  intros t H. apply ascl_per_cline; [|exact H]. intros l Hl. eapply ascl_chars_incl; [|exact Hl]. intros p Hp.
+  unfold l010_line in Hp. apply in_app_or in Hp. destruct Hp as [Hp|Hp]; [eapply take_l_incl; exact Hp|].
+  apply l010_scan_in in Hp. eapply trim_l_incl. exact Hp.
 Qed.
 
 Section A7.
   Variables is_letter is_digit is_space : N -> bool.
   Variable upper_ascii : N -> option N.
   Variable keywords : list (list N).
-  Hypothesis up_noquote : forall x u, upper_ascii x = Some u -> u <> 39 /\ u <> 34 /\ u <> 10.
   Hypothesis up_ascii : forall x u, upper_ascii x = Some u -> u < 128.
 
   Lemma ascl_l007 : forall t, ascl t -> ascl (l007_fix is_letter is_digit upper_ascii keywords t).
   Proof.
-    intros t H. unfold l007_fix. apply (ascl_per_line (l007_fix_line is_letter is_digit upper_ascii keywords)); [|exact H].
-    intros l Hl c Hc. unfold l007_fix_line in Hc. apply (l007_scan_in is_letter is_digit upper_ascii keywords) in Hc.
-    destruct Hc as [(d & Hd & [E|E])|[(b & y & E & Hy)|(w & Hw & _)]]; [| |subst; exists b; split; [eapply up_ascii; exact Hy|reflexivity]|discriminate].
-    - subst. rewrite ascc_wr; apply Hl; exact Hd.
-    - subst. apply Hl. exact Hd.
+    intros t H. apply ascl_per_cline; [|exact H]. intros l Hl.
+    pose proof (line7_prel is_letter is_digit upper_ascii keywords l) as R. revert Hl.
+    induction R as [|p p' a b Hp Hr IH]; intro Hl; [intros c []|].
+    intros c [Hc|Hc].
+    - subst c. destruct Hp as [Hp|(_ & u & Hu & Hp)]; subst p'.
+      + apply Hl. left. reflexivity.
+      + exists u. split; [eapply up_ascii; exact Hu|reflexivity].
+    - apply IH; [|exact Hc]. intros d Hd. apply Hl. right. exact Hd.
   Qed.
 
   Lemma ascl_cli : forall t, ascl t -> ascl (cli_fix is_letter is_digit is_space upper_ascii keywords t).
   Proof. intros t H. unfold cli_fix. apply ascl_l007. apply ascl_l010. apply ascl_l003. apply ascl_l002. apply ascl_l001. exact H. Qed.
 
-  Lemma ascl_fmt : forall ind ls cur, ascl ind -> ascl cur -> (forall l, In l ls -> ascl l) ->
+  Lemma ascl_fmt : forall ind ls cur, ascl ind -> ascl cur -> (forall fl, In fl ls -> ascl (chars (snd fl))) ->
     forall l, In l (fmt_lines is_space upper_ascii ind cur ls) -> ascl l.
   Proof.
-    intros ind. induction ls as [|x r IH]; intros cur Hi Hc Hls l Hl; [destruct Hl|]. cbn [fmt_lines] in Hl.
-    assert (Hr : forall l0, In l0 r -> ascl l0) by (intros l0 H0; apply Hls; right; exact H0).
-    destruct (trim_space is_space x) as [|c tr] eqn:E; [eapply IH; eassumption|].
-    assert (Hn : ascl (fmt_next_indent upper_ascii ind cur (c :: tr))).
-    { unfold fmt_next_indent. destruct (existsb _ fmt_reset); [intros z []|]. destruct (existsb _ fmt_indent); [exact Hi|].
-      destruct (existsb _ fmt_reset2); [intros z []|exact Hc]. }
-    destruct Hl as [Hl|Hl]; [|eapply IH; [exact Hi|exact Hn|exact Hr|exact Hl]]. subst. intros z Hz. apply in_app_or in Hz. destruct Hz as [Hz|Hz].
-    - apply Hn. exact Hz.
-    - apply (Hls x (or_introl eq_refl)). rewrite <- E in Hz. unfold trim_space in Hz. apply trim_r_incl in Hz. apply trim_l_incl in Hz. exact Hz.
+    intros ind. induction ls as [|[flag x] r IH]; intros cur Hi Hc Hls l Hl; [destruct Hl|]. cbn [fmt_lines] in Hl.
+    assert (Hr : forall fl, In fl r -> ascl (chars (snd fl))) by (intros l0 H0; apply Hls; right; exact H0).
+    assert (Hx : ascl (chars x)) by (apply (Hls (flag, x)); left; reflexivity).
+    destruct flag.
+    - destruct (trim_code is_space x) as [|c tr] eqn:E; [exact (IH cur Hi Hc Hr l Hl)|].
+      assert (Hn : ascl (fmt_next_indent upper_ascii ind cur (chars (c :: tr)))).
+      { unfold fmt_next_indent. destruct (existsb _ fmt_reset); [intros z []|]. destruct (existsb _ fmt_indent); [exact Hi|].
+        destruct (existsb _ fmt_reset2); [intros z []|exact Hc]. }
+      destruct Hl as [Hl|Hl]; [|eapply IH; [exact Hi|exact Hn|exact Hr|exact Hl]]. subst. intros z Hz. apply in_app_or in Hz. destruct Hz as [Hz|Hz].
+      + apply Hn. exact Hz.
+      + revert z Hz. eapply ascl_chars_incl; [|exact Hx]. intros p Hp. rewrite <- E in Hp. unfold trim_code in Hp.
+        apply trim_r_incl in Hp. apply trim_l_incl in Hp. exact Hp.
+    - destruct Hl as [Hl|Hl]; [subst; exact Hx|exact (IH cur Hi Hc Hr l Hl)].
   Qed.
 
   Lemma ascl_format : forall tab spaces final t, ascl t -> ascl (format_sql is_space upper_ascii tab spaces final t).
@@ -2934,232 +3265,249 @@ Section A7.
     { unfold ind. destruct spaces.
       - intros c Hc. apply repeat_spec in Hc. subst. apply ascc_spc.
       - intros c Hc. cbn in Hc. destruct Hc as [Hc|[]]. subst. exists 9. split; reflexivity. }
-    set (f := join_nl (fmt_lines is_space upper_ascii ind [] (split_nl t))).
+    set (f := join_nl (fmt_lines is_space upper_ascii ind [] (clines t))).
     assert (Hf : ascl f).
-    { unfold f. apply ascl_join. intros l Hl. eapply ascl_fmt; [exact Hi|exact ascl_nil| |exact Hl]. intros l0 H0. exact (ascl_split t l0 H H0). }
-    destruct (final && negb (ends_nl f)); [|exact Hf]. unfold ascl. intros c Hc. apply in_app_or in Hc. destruct Hc as [Hc|Hc]; [apply Hf; exact Hc|]. cbn in Hc. destruct Hc as [Hc|[]]. subst. apply ascc_nlc.
+    { unfold f. apply ascl_join. intros l Hl. eapply ascl_fmt; [exact Hi|exact ascl_nil| |exact Hl]. intros fl Hfl c Hc.
+      apply in_map_iff in Hc. destruct Hc as (p & Ep & Hp). subst. apply H. eapply clines_in_text; eassumption. }
+    destruct (final && negb (ends_nl f) && end_code (lex_end SCode t)); [|exact Hf]. unfold ascl. intros c Hc. apply in_app_or in Hc. destruct Hc as [Hc|Hc]; [apply Hf; exact Hc|]. cbn in Hc. destruct Hc as [Hc|[]]. subst. apply ascc_nlc.
   Qed.
 End A7.
 
-(* ------------------------------------------------------------------------------------------------ *)
-(* ---------------- L010: re-lint after fix ---------------- *)
+(* ---------------- L007: exact flagging, location ---------------- *)
+Section L007Exact.
+  Variables is_letter is_digit : N -> bool.
+  Variable upper_ascii : N -> option N.
+  Variable keywords : list (list N).
 
-(* does the fixer's scan drop a character of l ?  (a space that follows a space outside quotes) *)
-Fixpoint dbl (q : option N) (ps : bool) (l : list ch) : bool :=
+  Theorem l007_check_exact : forall t n col,
+    In (n, col) (l007_check is_letter is_digit upper_ascii keywords t) <->
+    exists fl pre wd post, nth_error (clines t) (n - 1) = Some fl /\ (1 <= n)%nat /\
+      code_word is_letter is_digit (snd fl) pre wd post /\
+      word_viol upper_ascii keywords (chars wd) = true /\ col = S (blen (chars pre)).
+  Proof.
+    intros t n col. unfold l007_check. rewrite on_clines_in. split.
+    - intros (i & fl & Hn & Hin). apply l007_line_exact in Hin. destruct Hin as (pre & wd & post & Hc & Hv & Ev).
+      assert (E : (n - 1 = i)%nat /\ (1 <= n)%nat /\ col = S (blen (chars pre))) by (inversion Ev; subst; repeat split; lia).
+      destruct E as (E1 & E2 & E3). exists fl, pre, wd, post. rewrite E1. split; [exact Hn|]. split; [exact E2|]. split; [exact Hc|]. split; [exact Hv|exact E3].
+    - intros (fl & pre & wd & post & Hn & H1 & Hc & Hv & Ec). exists (n - 1)%nat, fl. split; [exact Hn|].
+      apply l007_line_exact. exists pre, wd, post. split; [exact Hc|]. split; [exact Hv|]. subst col. f_equal. lia.
+  Qed.
+
+  (* the reported column is the byte column of a character of an existing line *)
+  Theorem l007_location : forall t n col, In (n, col) (l007_check is_letter is_digit upper_ascii keywords t) ->
+    exists fl, nth_error (clines t) (n - 1) = Some fl /\ (1 <= n <= length (clines t))%nat /\ (1 <= col <= S (blen (chars (snd fl))))%nat.
+  Proof.
+    intros t n col H. apply l007_check_exact in H. destruct H as (fl & pre & wd & post & Hn & H1 & (E & _) & _ & Ec).
+    exists fl. split; [exact Hn|]. split.
+    - split; [exact H1|]. assert (n - 1 < length (clines t))%nat by (apply nth_error_Some; congruence). lia.
+    - subst col. rewrite E. unfold chars. rewrite map_app, blen_app. split; [apply le_n_S; apply Nat.le_0_l|]. apply le_n_S. apply Nat.le_add_r.
+  Qed.
+End L007Exact.
+
+(* ------------------------------------------------------------------------------------------------ *)
+(* L010: exact flagging *)
+
+(* byte offsets of the maximal runs of two or more code spaces of a classified line: one scan *)
+Fixpoint runs (i run rs : nat) (l : list cc) : list nat :=
   match l with
-  | [] => false
-  | c :: t =>
-      match q with
-      | None => if cstart c t then false
-                else if is_quote c then dbl (Some (cp c)) false t
-                else if is_sp c then ps || dbl None true t else dbl None false t
-      | Some k => dbl (if cp c =? k then None else Some k) ps t
-      end
+  | [] => if (2 <=? run)%nat then [rs] else []
+  | p :: t => if cspace p then runs (i + width (fst p)) (S run) (if (run =? 0)%nat then i else rs) t
+              else (if (2 <=? run)%nat then [rs] else []) ++ runs (i + width (fst p)) 0 rs t
   end.
 
-Lemma scan10_len10 : forall l q ps, (length (l010_scan q ps l) <= length l)%nat.
+Lemma runs_rs0 : forall l i rs rs', runs i 0 rs l = runs i 0 rs' l.
 Proof.
-  induction l as [|c t IH]; intros q ps; [cbn; lia|]. cbn [l010_scan]. destruct q as [k|]; [cbn [length]; specialize (IH (if cp c =? k then None else Some k) ps); lia|].
-  destruct (cstart c t); [cbn [length]; lia|].
-  destruct (is_quote c); [cbn [length]; specialize (IH (Some (cp c)) false); lia|]. destruct (is_sp c).
-  - destruct ps; cbn [app length]; [specialize (IH None true); lia|specialize (IH None true); lia].
-  - cbn [length]. specialize (IH None false). lia.
+  induction l as [|p t IH]; intros i rs rs'; [reflexivity|]. cbn [runs Nat.eqb Nat.leb app]. destruct (cspace p); [reflexivity|apply IH].
 Qed.
 
-Lemma stable_nodbl : forall l q ps, l010_scan q ps l = l -> dbl q ps l = false.
+Definition pcols (ps : list (nat * list ch)) : list nat :=
+  flat_map (fun p : nat * list ch => map (fun m => (fst p + m)%nat) (sp_runs 0 0 0 (snd p))) ps.
+
+Lemma parts_runs : forall l i start cur off run rs E,
+  (forall x, sp_runs 0 0 0 (rev cur ++ x) = E ++ sp_runs off run rs x) ->
+  (cur <> [] -> i = (start + off)%nat) ->
+  (cur = [] -> E = [] /\ off = 0%nat /\ run = 0%nat) ->
+  pcols (l010_parts i start cur l) = map (fun m => (start + m)%nat) E ++ runs i run (start + rs)%nat l.
 Proof.
-  induction l as [|c t IH]; intros q ps E; [reflexivity|]. cbn [l010_scan dbl] in *. destruct q as [k|].
-  - injection E as _ E2. apply IH. exact E2.
-  - destruct (cstart c t); [reflexivity|].
-    destruct (is_quote c); [injection E as _ E2; apply IH; exact E2|]. destruct (is_sp c).
-    + destruct ps; cbn [app] in E.
-      * exfalso. pose proof (scan10_len10 t None true) as L. rewrite E in L. cbn [length] in L. lia.
-      * injection E as _ E2. cbn [orb]. apply IH. exact E2.
-    + injection E as _ E2. apply IH. exact E2.
+  induction l as [|p t IH]; intros i start cur off run rs E Hs Hi H0.
+  - cbn [l010_parts runs]. destruct cur as [|c cur].
+    + destruct (H0 eq_refl) as (E1 & E2 & E3). subst. reflexivity.
+    + unfold pcols. cbn [flat_map fst snd]. rewrite app_nil_r. specialize (Hs []). rewrite app_nil_r in Hs. rewrite Hs.
+      cbn [sp_runs]. rewrite map_app. destruct (2 <=? run)%nat; reflexivity.
+  - cbn [l010_parts runs]. cbv zeta. destruct (code0 p) eqn:Ec.
+    + assert (Ecs : cspace p = is_sp (fst p)) by (unfold cspace; rewrite Ec; apply andb_true_r). rewrite Ecs.
+      set (start' := match cur with [] => i | _ :: _ => start end).
+      assert (Hst : cur <> [] -> start' = start) by (destruct cur; [intro X; contradiction|reflexivity]).
+      assert (Hs' : forall x, sp_runs 0 0 0 (rev (fst p :: cur) ++ x) = E ++ sp_runs off run rs (fst p :: x)).
+      { intro x. cbn [rev]. rewrite <- app_assoc. cbn [app]. apply Hs. }
+      destruct (is_sp (fst p)) eqn:Esp.
+      * rewrite (IH (i + width (fst p))%nat start' (fst p :: cur) (off + width (fst p))%nat (S run) (if (run =? 0)%nat then off else rs) E).
+        -- destruct cur as [|c cur].
+           ++ destruct (H0 eq_refl) as (E1 & E2 & E3). subst. cbn [map app Nat.eqb]. unfold start'. rewrite Nat.add_0_r. reflexivity.
+           ++ rewrite (Hst ltac:(discriminate)). f_equal. f_equal. destruct (run =? 0)%nat; [symmetry; apply Hi; discriminate|reflexivity].
+        -- intro x. rewrite Hs'. cbn [sp_runs]. rewrite Esp. reflexivity.
+        -- intros _. destruct cur as [|c cur]; [destruct (H0 eq_refl) as (_ & E2 & _); subst; unfold start'; lia|].
+           rewrite (Hst ltac:(discriminate)). rewrite (Hi ltac:(discriminate)). lia.
+        -- intro X. discriminate.
+      * rewrite (IH (i + width (fst p))%nat start' (fst p :: cur) (off + width (fst p))%nat 0%nat rs (E ++ if (2 <=? run)%nat then [rs] else [])).
+        -- destruct cur as [|c cur].
+           ++ destruct (H0 eq_refl) as (E1 & E2 & E3). subst. cbn [map app Nat.leb]. apply runs_rs0.
+           ++ rewrite (Hst ltac:(discriminate)). rewrite map_app. rewrite <- app_assoc. f_equal. destruct (2 <=? run)%nat; reflexivity.
+        -- intro x. rewrite Hs'. cbn [sp_runs]. rewrite Esp. rewrite app_assoc. reflexivity.
+        -- intros _. destruct cur as [|c cur]; [destruct (H0 eq_refl) as (_ & E2 & _); subst; unfold start'; lia|].
+           rewrite (Hst ltac:(discriminate)). rewrite (Hi ltac:(discriminate)). lia.
+        -- intro X. discriminate.
+    + assert (Ecs : cspace p = false) by (unfold cspace; rewrite Ec; apply andb_false_r). rewrite Ecs.
+      unfold pcols. rewrite flat_map_app. fold (pcols (l010_parts (i + width (fst p)) start [] t)).
+      rewrite (IH (i + width (fst p))%nat start [] 0%nat 0%nat 0%nat []); [|intro x; reflexivity|intro X; contradiction|intros _; repeat split].
+      cbn [map app]. rewrite (runs_rs0 t _ (start + 0)%nat (start + rs)%nat). rewrite app_assoc. f_equal.
+      destruct cur as [|c cur].
+      * destruct (H0 eq_refl) as (E1 & E2 & E3). subst. reflexivity.
+      * cbn [flat_map fst snd]. rewrite app_nil_r. specialize (Hs []). rewrite app_nil_r in Hs. rewrite Hs. cbn [sp_runs].
+        rewrite map_app. destruct (2 <=? run)%nat; reflexivity.
 Qed.
 
-(* ---- runs of spaces ---- *)
-(* run counter after a text: 0 unless the text ends in spaces *)
-Fixpoint run_after (run : nat) (l : list ch) : nat :=
-  match l with [] => run | c :: t => if is_sp c then run_after (S run) t else run_after 0 t end.
-
-Lemma sp_runs_snoc : forall a c off run rs,
-  (is_sp c = true -> run_after run a = 0%nat) -> sp_runs off run rs (a ++ [c]) = sp_runs off run rs a.
+Lemma pcols_runs : forall l, pcols (l010_parts 0 0 [] l) = runs 0 0 0 l.
 Proof.
-  induction a as [|d a IH]; intros c off run rs H.
-  - cbn [app sp_runs run_after] in *. destruct (is_sp c) eqn:E.
-    + rewrite (H eq_refl). cbn [Nat.leb Nat.eqb sp_runs]. reflexivity.
-    + cbn [sp_runs Nat.leb]. rewrite app_nil_r. reflexivity.
-  - cbn [app sp_runs run_after] in *. destruct (is_sp d).
-    + apply IH. exact H.
-    + f_equal. apply IH. exact H.
+  intro l. rewrite (parts_runs l 0%nat 0%nat [] 0%nat 0%nat 0%nat []); [reflexivity|intro x; reflexivity|intro X; contradiction|intros _; repeat split].
 Qed.
 
-Definition tailsp (cur : list ch) : bool := match cur with c :: _ => is_sp c | [] => false end.
+Lemma blen_chars_app : forall a b : list cc, blen (chars (a ++ b)) = (blen (chars a) + blen (chars b))%nat.
+Proof. intros a b. unfold chars. rewrite map_app. apply blen_app. Qed.
+Lemma blen_chars_cons : forall (p : cc) (a : list cc), blen (chars (p :: a)) = (width (fst p) + blen (chars a))%nat.
+Proof. reflexivity. Qed.
+Lemma blen_chars_nil : blen (chars []) = 0%nat.
+Proof. reflexivity. Qed.
 
-Lemma run_after_snoc : forall a c run, run_after run (a ++ [c]) = if is_sp c then S (run_after run a) else 0%nat.
-Proof. induction a as [|d a IH]; intros c run; cbn [app run_after]; [reflexivity|]. destruct (is_sp d); apply IH. Qed.
+Lemma app_eq2 : forall {A} (X X' Y Y' : list A), X = X' -> Y = Y' -> X ++ Y = X' ++ Y'.
+Proof. intros; subst; reflexivity. Qed.
 
-Lemma run_after_rev : forall cur, tailsp cur = false -> run_after 0 (rev cur) = 0%nat.
+(* one step of [runs] over a whole run of code spaces *)
+Lemma runs_step : forall l i run rs,
+  runs i run rs l =
+  (if (2 <=? run + length (take_l cspace l))%nat then [if (run =? 0)%nat then i else rs] else []) ++
+  match trim_l cspace l with
+  | [] => []
+  | p :: t => runs (i + blen (chars (take_l cspace l ++ [p]))) 0 0 t
+  end.
 Proof.
-  intros [|c cur] H; [reflexivity|]. cbn [rev]. rewrite run_after_snoc. cbn [tailsp] in H. rewrite H. reflexivity.
+  induction l as [|p t IH]; intros i run rs.
+  - cbn [runs take_l trim_l length]. rewrite Nat.add_0_r. destruct (2 <=? run)%nat eqn:E; [|reflexivity].
+    destruct run; [discriminate|reflexivity].
+  - cbn [runs take_l trim_l]. destruct (cspace p) eqn:Ec.
+    + rewrite IH. cbn [length]. replace (S run + length (take_l cspace t))%nat with (run + S (length (take_l cspace t)))%nat by lia.
+      cbn [Nat.eqb]. apply app_eq2.
+      * destruct (2 <=? run + S (length (take_l cspace t)))%nat; [|reflexivity]. destruct (run =? 0)%nat; reflexivity.
+      * destruct (trim_l cspace t) as [|q r]; [reflexivity|]. cbn [app chars map]. rewrite blen_cons. rewrite Nat.add_assoc. reflexivity.
+    + cbn [length app chars map]. rewrite Nat.add_0_r. apply app_eq2.
+      * destruct (2 <=? run)%nat eqn:E; [|reflexivity]. destruct run; [discriminate|reflexivity].
+      * rewrite blen_cons. cbn [blen fold_right]. rewrite Nat.add_0_r. apply runs_rs0.
 Qed.
 
-(* a run of two or more spaces lies inside the text *)
-Lemma sp_runs_bound : forall a off run rs m, (forall c, In c a -> (1 <= width c)%nat) -> (rs + run <= off)%nat ->
-  In m (sp_runs off run rs a) -> (m + 2 <= off + blen a)%nat.
+Lemma first_nonc : forall a, forallb cspace a = false -> exists x d y, a = x ++ d :: y /\ forallb cspace x = true /\ cspace d = false.
 Proof.
-  induction a as [|c t IH]; intros off run rs m Hw Hinv H.
-  - cbn [sp_runs] in H. destruct (2 <=? run)%nat eqn:E; [|destruct H]. destruct H as [H|[]]. subst. apply Nat.leb_le in E. cbn [blen fold_right]. lia.
-  - rewrite blen_cons. assert (W : (1 <= width c)%nat) by (apply Hw; left; reflexivity).
-    assert (Ht : forall d, In d t -> (1 <= width d)%nat) by (intros d Hd; apply Hw; right; exact Hd).
-    cbn [sp_runs] in H. destruct (is_sp c).
-    + assert (G := IH (off + width c)%nat (S run) (if (run =? 0)%nat then off else rs) m Ht).
-      assert (G' : (m + 2 <= off + width c + blen t)%nat) by (apply G; [destruct (run =? 0)%nat eqn:E; [apply Nat.eqb_eq in E; lia|apply Nat.eqb_neq in E; lia]|exact H]). lia.
-    + apply in_app_or in H. destruct H as [H|H].
-      * destruct (2 <=? run)%nat eqn:E; [|destruct H]. destruct H as [H|[]]. subst. apply Nat.leb_le in E. lia.
-      * assert (G := IH (off + width c)%nat 0%nat rs m Ht). assert (G' : (m + 2 <= off + width c + blen t)%nat) by (apply G; [lia|exact H]). lia.
+  induction a as [|p a IH]; intro H; [discriminate|]. cbn in H. destruct (cspace p) eqn:E.
+  - cbn in H. destruct (IH H) as (x & d & y & E1 & E2 & E3). exists (p :: x), d, y. subst. cbn. rewrite E, E2. repeat split; assumption.
+  - exists [], p, a. repeat split. exact E.
 Qed.
 
-(* ---- the parts of a line that the scan keeps entirely ---- *)
-Definition bb (b : N) : bool := (b =? 32) || (b =? 9).
-Definition skipb (l : list ch) (col : nat) : bool := (col <=? blen l)%nat && forallb bb (firstn col (encode l)).
-Definition okpart (L : list ch) (p : nat * list ch) : Prop := forall m, In m (sp_runs 0 0 0 (snd p)) -> skipb L (S (fst p + m)) = true.
+Lemma lastc_all : forall a q, forallb cspace a = true -> lastc a = Some q -> cspace q = true.
+Proof. intros a q H Hq. apply lastc_in in Hq. rewrite forallb_forall in H. apply H. exact Hq. Qed.
 
-Lemma check_line_nil : forall n L, (forall p, In p (l010_parts None 0 0 [] L) -> okpart L p) -> l010_check_line n L = [].
+Lemma runs_exact_n : forall n l i m, (length l <= n)%nat ->
+  (In m (runs i 0 0 l) <-> exists pre r post, cspace_run l pre r post /\ m = (i + blen (chars pre))%nat).
 Proof.
-  intros n L H. unfold l010_check_line. induction (l010_parts None 0 0 [] L) as [|p ps IH]; [reflexivity|].
-  cbn [flat_map]. rewrite IH by (intros q Hq; apply H; right; exact Hq). rewrite app_nil_r.
-  assert (Hp := H p (or_introl eq_refl)). unfold okpart in Hp.
-  induction (sp_runs 0 0 0 (snd p)) as [|m ms IHm]; [reflexivity|]. cbn [flat_map].
-  assert (E := Hp m (or_introl eq_refl)). unfold skipb, bb in E. cbv zeta. rewrite E. cbn [app]. apply IHm. intros m' Hm'. apply Hp. right. exact Hm'.
+  induction n as [|n IH]; intros l i m Hl.
+  - destruct l; [|cbn in Hl; lia]. cbn. split; [intros []|]. intros (pre & r & post & (E & _ & H2 & _) & _).
+    destruct pre; [|discriminate]. destruct r; [cbn in H2; lia|discriminate].
+  - rewrite runs_step. cbn [Nat.add Nat.eqb]. rewrite in_app_iff.
+    set (r0 := take_l cspace l). set (rest := trim_l cspace l).
+    assert (El : l = r0 ++ rest) by (symmetry; apply take_trim_l).
+    assert (H0 : forallb cspace r0 = true) by apply take_l_all.
+    assert (Hrest : match rest with d :: _ => cspace d = false | [] => True end).
+    { unfold rest. destruct (trim_l cspace l) as [|d y] eqn:Et; [exact I|]. eapply trim_l_head. exact Et. }
+    split.
+    + intros [H|H].
+      * destruct (2 <=? length r0)%nat eqn:E2; [|destruct H]. destruct H as [H|[]]. subst m.
+        exists [], r0, rest. split; [|cbn; lia]. split; [exact El|]. split; [exact H0|]. split; [apply Nat.leb_le; exact E2|].
+        split; [exact I|exact Hrest].
+      * destruct rest as [|p t] eqn:Er; [destruct H|].
+        assert (Hlen : (length t <= n)%nat).
+        { apply (f_equal (@length cc)) in El. rewrite app_length in El. cbn [length] in El. cbn [length] in Hl. lia. }
+        apply (IH t _ m Hlen) in H. destruct H as (pre & r & post & (E & Hr & H2 & Hp & Hq) & Em).
+        exists (r0 ++ p :: pre), r, post. split.
+        -- split; [rewrite El; rewrite <- app_assoc; cbn [app]; rewrite E; reflexivity|]. split; [exact Hr|]. split; [exact H2|].
+           split; [|exact Hq]. rewrite lastc_app by discriminate. destruct pre as [|q pre'].
+           ++ cbn. exact Hrest.
+           ++ rewrite lastc_cons by discriminate. exact Hp.
+        -- rewrite Em. rewrite !blen_chars_app, !blen_chars_cons, blen_chars_nil. lia.
+    + intros (pre & r & post & (E & Hr & H2 & Hp & Hq) & Em). destruct pre as [|q pre'].
+      * left. cbn [app] in E.
+        assert (Er0 : r0 = r).
+        { unfold r0. rewrite E. rewrite take_l_app_all by exact Hr. destruct post as [|d y]; [rewrite app_nil_r; reflexivity|].
+          rewrite take_l_stop by exact Hq. apply app_nil_r. }
+        rewrite Er0. replace (2 <=? length r)%nat with true by (symmetry; apply Nat.leb_le; exact H2). left. subst m. cbn. lia.
+      * right.
+        assert (Hna : forallb cspace (q :: pre') = false).
+        { destruct (forallb cspace (q :: pre')) eqn:X; [|reflexivity]. destruct (lastc (q :: pre')) as [z|] eqn:Ez.
+          - rewrite (lastc_all _ z X Ez) in Hp. discriminate.
+          - apply lastc_none in Ez. discriminate. }
+        destruct (first_nonc _ Hna) as (x & d & y & Ex & Hx & Hd).
+        assert (Er0 : r0 = x).
+        { unfold r0. rewrite E, Ex. rewrite <- app_assoc. rewrite take_l_app_all by exact Hx. cbn [app]. rewrite take_l_stop by exact Hd. apply app_nil_r. }
+        assert (Ert : rest = d :: y ++ r ++ post).
+        { unfold rest. rewrite E, Ex. rewrite <- app_assoc. rewrite trim_l_app_all by exact Hx. cbn [app]. apply trim_l_stop. exact Hd. }
+        rewrite Ert.
+        assert (Hlen : (length (y ++ r ++ post) <= n)%nat).
+        { apply (f_equal (@length cc)) in El. rewrite Ert in El. rewrite app_length in El. cbn [length] in El. cbn [length] in Hl. lia. }
+        apply (IH _ _ m Hlen). exists y, r, post. split.
+        -- split; [reflexivity|]. split; [exact Hr|]. split; [exact H2|]. split; [|exact Hq].
+           destruct y as [|z y']; [exact I|]. rewrite Ex in Hp. rewrite lastc_app in Hp by discriminate.
+           rewrite lastc_cons in Hp by discriminate. exact Hp.
+        -- rewrite Em, Er0, Ex. rewrite !blen_chars_app, !blen_chars_cons, blen_chars_nil. lia.
 Qed.
 
-Lemma parts_ok : forall L x q i start cur,
-  dbl q (tailsp cur) x = false -> (q <> None -> cur = []) -> (cur <> [] -> okpart L (start, rev cur)) ->
-  forall p, In p (l010_parts q i start cur x) -> okpart L p.
+Lemma flat_pcols : forall (F : nat -> list viol) ps,
+  flat_map (fun p : nat * list ch => flat_map (fun m => F (fst p + m)%nat) (sp_runs 0 0 0 (snd p))) ps = flat_map F (pcols ps).
 Proof.
-  intros L. induction x as [|c t IH]; intros q i start cur Hd Hq Hc p Hp.
-  - cbn [l010_parts] in Hp. destruct cur as [|d cur]; [destruct Hp|]. destruct Hp as [Hp|[]]. subst. apply Hc. discriminate.
-  - cbn [l010_parts dbl] in *. destruct q as [k|].
-    + assert (Ec : cur = []) by (apply Hq; discriminate). subst cur. cbn [tailsp] in Hd.
-      destruct (cp c =? k).
-      * apply (IH None _ _ [] Hd (fun _ => eq_refl) (fun Hx => False_ind _ (Hx eq_refl)) p Hp).
-      * apply (IH (Some k) _ _ [] Hd (fun _ => eq_refl) (fun Hx => False_ind _ (Hx eq_refl)) p Hp).
-    + destruct (cstart c t) eqn:Ecs.
-      { destruct cur as [|d cur]; [destruct Hp|]. destruct Hp as [Hp|[]]. subst. apply Hc. discriminate. }
-      destruct (is_quote c) eqn:Eq.
-      * apply in_app_or in Hp. destruct Hp as [Hp|Hp].
-        -- destruct cur as [|d cur]; [destruct Hp|]. destruct Hp as [Hp|[]]. subst. apply Hc. discriminate.
-        -- apply (IH (Some (cp c)) _ _ [] Hd (fun _ => eq_refl) (fun Hx => False_ind _ (Hx eq_refl)) p Hp).
-      * assert (Hd' : dbl None (is_sp c) t = false /\ (is_sp c = true -> tailsp cur = false)).
-        { destruct (is_sp c); [apply orb_false_elim in Hd; destruct Hd as [H1 H2]; split; [exact H2|intros _; exact H1]|split; [exact Hd|discriminate]]. }
-        destruct Hd' as [Hd1 Hd2].
-        refine (IH None _ _ (wr c :: cur) _ (fun Hx => False_ind _ (Hx eq_refl)) _ p Hp); [cbn [tailsp]; rewrite is_sp_wr; exact Hd1|].
-        intros _. cbn [rev]. destruct cur as [|d cur].
-        -- cbn [rev app]. intros m Hm. cbn [snd sp_runs] in Hm. destruct (is_sp (wr c)); cbn in Hm; destruct Hm.
-        -- intros m Hm. cbn [snd fst] in *. rewrite sp_runs_snoc in Hm.
-           ++ apply (Hc ltac:(discriminate) m). exact Hm.
-           ++ rewrite is_sp_wr. intro Hs. apply run_after_rev. apply Hd2. exact Hs.
+  intros F. induction ps as [|p ps IH]; [reflexivity|]. unfold pcols in *. cbn [flat_map]. rewrite flat_map_app. rewrite IH. f_equal.
+  induction (sp_runs 0 0 0 (snd p)) as [|m ms IHm]; [reflexivity|]. cbn [flat_map map]. rewrite IHm. reflexivity.
 Qed.
 
-Lemma blank_noquote : forall c, is_blank c = true -> is_quote c = false.
+Lemma l010_line_exact : forall n fl v,
+  In v (l010_check_line n fl) <->
+  exists pre r post, cspace_run (snd fl) pre r post /\ indent_bytes (snd fl) (S (blen (chars pre))) = false /\ v = (n, S (blen (chars pre))).
 Proof.
-  intros c H. unfold is_blank, is_sp, is_tab in H. unfold is_quote. apply orb_prop in H.
-  destruct H as [H|H]; apply N.eqb_eq in H; rewrite H; reflexivity.
+  intros n fl v. unfold l010_check_line. cbv zeta.
+  rewrite (flat_pcols (fun k => if forallb (fun b => (b =? 32) || (b =? 9)) (firstn (S k) (encode (chars (snd fl)))) then [] else [(n, S k)])).
+  rewrite pcols_runs. rewrite in_flat_map. split.
+  - intros (m & Hm & Hv). apply (runs_exact_n (length (snd fl)) (snd fl) 0%nat m (le_n _)) in Hm.
+    destruct Hm as (pre & r & post & Hc & Em). cbn [Nat.add] in Em. subst m. exists pre, r, post. split; [exact Hc|].
+    unfold indent_bytes. destruct (forallb _ (firstn (S (blen (chars pre))) (encode (chars (snd fl))))); [destruct Hv|].
+    destruct Hv as [Hv|[]]. split; [reflexivity|symmetry; exact Hv].
+  - intros (pre & r & post & Hc & Hi & Ev). exists (blen (chars pre)). split.
+    + apply (runs_exact_n (length (snd fl)) (snd fl) 0%nat _ (le_n _)). exists pre, r, post. split; [exact Hc|reflexivity].
+    + unfold indent_bytes in Hi. rewrite Hi. left. symmetry. exact Ev.
 Qed.
 
-Lemma parts_lead : forall a x i start cur, forallb is_blank a = true ->
-  l010_parts None i start cur (a ++ x) =
-  l010_parts None (i + blen a) (match cur, a with [], _ :: _ => i | _, _ => start end) (rev (map wr a) ++ cur) x.
+Theorem l010_check_exact : forall t n col,
+  In (n, col) (l010_check t) <->
+  exists fl pre r post, nth_error (clines t) (n - 1) = Some fl /\ (1 <= n)%nat /\ cspace_run (snd fl) pre r post /\
+    indent_bytes (snd fl) col = false /\ col = S (blen (chars pre)).
 Proof.
-  induction a as [|c a IH]; intros x i start cur H.
-  - cbn [app blen fold_right map rev]. rewrite Nat.add_0_r. destruct cur; reflexivity.
-  - cbn in H. apply andb_prop in H. destruct H as [H1 H2]. cbn [app l010_parts]. rewrite (cstart_blank c _ H1). rewrite (blank_noquote c H1).
-    rewrite IH by exact H2. rewrite blen_cons. cbn [map rev]. rewrite <- app_assoc. cbn [app].
-    replace (i + width c + blen a)%nat with (i + (width c + blen a))%nat by lia.
-    destruct cur; destruct a; reflexivity.
+  intros t n col. unfold l010_check. rewrite on_clines_in. split.
+  - intros (i & fl & Hn & Hin). apply l010_line_exact in Hin. destruct Hin as (pre & r & post & Hc & Hi & Ev).
+    assert (E : (n - 1 = i)%nat /\ (1 <= n)%nat /\ col = S (blen (chars pre))) by (inversion Ev; subst; repeat split; lia).
+    destruct E as (E1 & E2 & E3). exists fl, pre, r, post. rewrite E1, E3. split; [exact Hn|]. split; [exact E2|]. split; [exact Hc|]. split; [exact Hi|reflexivity].
+  - intros (fl & pre & r & post & Hn & H1 & Hc & Hi & Ec). exists (n - 1)%nat, fl. split; [exact Hn|].
+    apply l010_line_exact. exists pre, r, post. split; [exact Hc|]. subst col. split; [exact Hi|]. f_equal. lia.
 Qed.
 
-Lemma dbl_head : forall c t ps, is_sp c = false -> dbl None ps (c :: t) = dbl None false (c :: t).
-Proof. intros c t ps H. cbn [dbl]. rewrite H. reflexivity. Qed.
-
-(* blank characters of a well-formed text are the single bytes 20 / 09 *)
-Lemma wf_blank : forall c, wfc c -> is_blank c = true -> wr c = c /\ width c = 1%nat /\ exists b, raw c = [b] /\ bb b = true.
+Theorem l010_location : forall t n col, In (n, col) (l010_check t) ->
+  exists fl, nth_error (clines t) (n - 1) = Some fl /\ (1 <= n <= length (clines t))%nat /\ (1 <= col <= S (blen (chars (snd fl))))%nat.
 Proof.
-  intros c (Hne & Hb & Hc & Hv) H.
-  assert (Hlt : cp c < 128) by (unfold is_blank, is_sp, is_tab in H; apply orb_prop in H; destruct H as [H|H]; apply N.eqb_eq in H; lia).
-  split; [unfold wr; rewrite (Hv Hlt); reflexivity|]. unfold width. rewrite (Hc Hlt). split; [reflexivity|]. exists (cp c). split; [reflexivity|].
-  unfold bb. exact H.
-Qed.
-
-Lemma lead_facts : forall a, (forall c, In c a -> wfc c) -> forallb is_blank a = true ->
-  map wr a = a /\ blen a = length (encode a) /\ forallb bb (encode a) = true /\ (forall c, In c a -> (1 <= width c)%nat).
-Proof.
-  induction a as [|c a IH]; intros Hw Hb; [repeat split; intros c []|].
-  cbn in Hb. apply andb_prop in Hb. destruct Hb as [H1 H2].
-  destruct (wf_blank c (Hw c (or_introl eq_refl)) H1) as (W1 & W2 & b & W3 & W4).
-  destruct (IH (fun d Hd => Hw d (or_intror Hd)) H2) as (I1 & I2 & I3 & I4).
-  split; [cbn [map]; rewrite W1, I1; reflexivity|]. split; [rewrite blen_cons; unfold width; unfold encode in *; cbn [flat_map]; rewrite app_length, W3; cbn [length]; rewrite <- I2; reflexivity|].
-  split; [unfold encode in *; cbn [flat_map]; rewrite W3; cbn [app forallb]; rewrite W4, I3; reflexivity|].
-  intros d [Hd|Hd]; [subst; unfold width; rewrite W3; cbn [length]; lia|apply I4; exact Hd].
-Qed.
-
-Lemma firstn_app_le : forall {A} (a b : list A) n, (n <= length a)%nat -> firstn n (a ++ b) = firstn n a.
-Proof. intros A a b n H. rewrite firstn_app. replace (n - length a)%nat with 0%nat by lia. cbn [firstn]. apply app_nil_r. Qed.
-
-Lemma forallb_firstn : forall {A} (p : A -> bool) l n, forallb p l = true -> forallb p (firstn n l) = true.
-Proof.
-  intros A p. induction l as [|x l IH]; intros n H; [destruct n; reflexivity|]. destruct n as [|n]; [reflexivity|].
-  cbn in *. apply andb_prop in H. destruct H as [H1 H2]. rewrite H1. cbn. apply IH. exact H2.
-Qed.
-
-Lemma blen_app : forall a b, blen (a ++ b) = (blen a + blen b)%nat.
-Proof. induction a as [|c a IH]; intro b; [reflexivity|]. cbn [app]. rewrite !blen_cons, IH. lia. Qed.
-
-Lemma stable_line_clears : forall n L, (forall c, In c (take_l is_blank L) -> wfc c) -> l010_fix_line L = L -> l010_check_line n L = [].
-Proof.
-  intros n L Hw Hst. apply check_line_nil. unfold l010_fix_line in Hst.
-  destruct (trim_l is_blank L) as [|c0 r0] eqn:E.
-  - intros p Hp. apply (parts_ok L L None 0%nat 0%nat [] (stable_nodbl L None false Hst) (fun Hx => False_ind _ (Hx eq_refl)) (fun Hx => False_ind _ (Hx eq_refl)) p Hp).
-  - set (lead := take_l is_blank L) in *.
-    assert (EL : L = lead ++ c0 :: r0) by (rewrite <- E; symmetry; apply take_trim_l).
-    rewrite EL in Hst at 1. apply app_inv_head in Hst.
-    pose proof (take_l_all is_blank L) as Hlb. fold lead in Hlb.
-    destruct (lead_facts lead Hw Hlb) as (F1 & F2 & F3 & F4).
-    pose proof (trim_l_head _ _ _ _ E) as Hc0.
-    intros p Hp. rewrite EL in Hp at 1. rewrite parts_lead in Hp by exact Hlb. rewrite app_nil_r in Hp.
-    refine (parts_ok L (c0 :: r0) None _ _ (rev (map wr lead)) _ (fun Hx => False_ind _ (Hx eq_refl)) _ p Hp).
-    + rewrite dbl_head by (apply not_blank_not_sp; exact Hc0). apply stable_nodbl. exact Hst.
-    + intros _. rewrite rev_involutive. rewrite F1. intros m Hm. cbn [fst snd] in *.
-      assert (Bm : (m + 2 <= 0 + blen lead)%nat) by (apply (sp_runs_bound lead 0%nat 0%nat 0%nat m F4 (le_n 0) Hm)).
-      replace (match lead with [] => 0%nat | _ :: _ => 0%nat end + m)%nat with m by (destruct lead; lia).
-      unfold skipb. apply andb_true_intro. split.
-      * apply Nat.leb_le. rewrite EL. rewrite blen_app. lia.
-      * rewrite EL. unfold encode. rewrite flat_map_app. fold (encode lead). rewrite firstn_app_le by lia. apply forallb_firstn. exact F3.
-Qed.
-
-Theorem l010_fix_clears : forall t, wft t -> l010_check (l010_fix t) = [].
-Proof.
-  intros t Hw. unfold l010_check. change (l010_fix t) with (per_line l010_fix_line t).
-  rewrite split_per_line by exact l010_line_keeps.
-  apply on_lines_nil. intros n l Hl. apply in_map_iff in Hl. destruct Hl as (l0 & E & Hl0). subst.
-  apply stable_line_clears; [|apply l010_line_idem].
-  intros c Hc. apply take_l_incl in Hc.
-  assert (W0 : forall d, In d l0 -> wfc d) by (intros d Hd; apply Hw; eapply split_incl; eassumption).
-  unfold l010_fix_line in Hc. destruct (trim_l is_blank l0) as [|c0 r0] eqn:E0.
-  - apply l010_scan_in in Hc. destruct Hc as (d & Hd & [Ed|Ed]); subst; [|apply W0; exact Hd].
-    (* only blank characters matter: a well-formed blank is valid, so wr keeps it *)
-    specialize (W0 d Hd). apply trim_l_nil_iff in E0. rewrite forallb_forall in E0. specialize (E0 d Hd).
-    destruct (wf_blank d W0 E0) as (Wd & _). rewrite Wd. exact W0.
-  - apply in_app_or in Hc. destruct Hc as [Hc|Hc]; [apply W0; eapply take_l_incl; exact Hc|].
-    (* characters of the scanned rest that belong to the leading blank run: there are none beyond lead, but wfc is only
-       needed for members of take_l; members coming from the scan are rewritten input characters *)
-    apply l010_scan_in in Hc. destruct Hc as (d & Hd & Ed).
-    assert (Wd : wfc d) by (apply W0; eapply trim_l_incl; rewrite E0; exact Hd).
-    destruct Ed as [Ed|Ed]; subst; [|exact Wd].
-    destruct (valid d) eqn:V; [unfold wr; rewrite V; exact Wd|].
-    unfold wr. rewrite V. destruct Wd as (W1 & W2 & W3 & W4).
-    assert (Hge : 128 <= cp d) by (destruct (N.lt_ge_cases (cp d) 128) as [Hlt|Hge]; [rewrite (W4 Hlt) in V; discriminate|exact Hge]).
-    apply wfc_high; [discriminate| |exact Hge]. intros b [Hb|[Hb|[Hb|[]]]]; subst; lia.
+  intros t n col H. apply l010_check_exact in H. destruct H as (fl & pre & r & post & Hn & H1 & (E & _) & _ & Ec).
+  exists fl. split; [exact Hn|]. split.
+  - split; [exact H1|]. assert (n - 1 < length (clines t))%nat by (apply nth_error_Some; congruence). lia.
+  - subst col. rewrite E. unfold chars. rewrite map_app, blen_app. split; [apply le_n_S; apply Nat.le_0_l|]. apply le_n_S. apply Nat.le_add_r.
 Qed.
